@@ -13,7 +13,7 @@ theorem connect_inv (a : Acc) (c : Nat) (hi : Inv a.h) : Inv (connect a c).h := 
   by_cases hc : a.h.connOpen c = true
   · simp only [hc, if_true]; exact hi
   · simp only [hc]
-    obtain ⟨f1, f2, f3, f4, f5, f6, f7, f8, f9, f10, f11, f12, f13, f14, f15, f16, f17, f18, f19, f20, f21, f22, f23⟩ := hi
+    obtain ⟨f1, f2, f3, f4, f5, f6, f7, f8, f9, f10, f11, f12, f13, f14, f15, f16, f17, f18, f19, f20, f21, f22, f23, f24⟩ := hi
     constructor
     all_goals first | assumption | skip
     · intro c' s hs; have := f17 c' s hs; by_cases e : c' = c <;> simp [e, this]
@@ -46,117 +46,122 @@ theorem helloTables_inv {h : Hub} (hi : Inv h) (c b : Nat) (kind : Kind) (user :
     by_cases hu : user = "" <;> simp only [hu, ne_eq, not_true_eq_false, not_false_eq_true, if_true, if_false]
     all_goals first
       | (have f_fresh := hi.fresh; clear hi; (intros; (try simp only [hubf] at *); grind [mem_removeL, nodup_removeL, removeL_nil]))
-      | (have f_fresh := hi.fresh; have f_mem_room := hi.mem_room; have f_room_mem := hi.room_mem; have f_nonempty := hi.nonempty; have f_nodup := hi.nodup; have f_roomL_iff := hi.roomL_iff; have f_roomL_nodup := hi.roomL_nodup; have f_userL_iff := hi.userL_iff; have f_userL_nodup := hi.userL_nodup; have f_sessL_iff := hi.sessL_iff; have f_rs_fwd := hi.rs_fwd; have f_rs_room := hi.rs_room; have f_virt := hi.virt; have f_children := hi.children; have f_vtable := hi.vtable; have f_conn_iff := hi.conn_iff; have f_conn_open := hi.conn_open; have f_eh := hi.eh; have f_expired := hi.expired; have f_anon := hi.anon; have f_dialout := hi.dialout; have f_count := hi.count; have f_orph_virt := hi.orph_virt; clear hi; (intros; (try simp only [hubf] at *); grind [mem_removeL, nodup_removeL, removeL_nil]))
+      | (have f_fresh := hi.fresh; have f_mem_room := hi.mem_room; have f_room_mem := hi.room_mem; have f_nonempty := hi.nonempty; have f_nodup := hi.nodup; have f_roomL_iff := hi.roomL_iff; have f_roomL_nodup := hi.roomL_nodup; have f_userL_iff := hi.userL_iff; have f_userL_nodup := hi.userL_nodup; have f_sessL_iff := hi.sessL_iff; have f_rs_fwd := hi.rs_fwd; have f_rs_room := hi.rs_room; have f_virt := hi.virt; have f_children := hi.children; have f_vtable := hi.vtable; have f_conn_iff := hi.conn_iff; have f_conn_open := hi.conn_open; have f_eh := hi.eh; have f_expired := hi.expired; have f_anon := hi.anon; have f_dialout := hi.dialout; have f_count := hi.count; have f_orph_virt := hi.orph_virt; have f_incall := hi.incall; clear hi; (intros; (try simp only [hubf] at *); grind [mem_removeL, nodup_removeL, removeL_nil]))
   case mem_room =>
     by_cases hu : user = "" <;> simp only [hu, ne_eq, not_true_eq_false, not_false_eq_true, if_true, if_false]
     all_goals first
       | (have f_mem_room := hi.mem_room; have f_fresh := hi.fresh; clear hi; (intros; (try simp only [hubf] at *); grind [mem_removeL, nodup_removeL, removeL_nil]))
-      | (have f_fresh := hi.fresh; have f_mem_room := hi.mem_room; have f_room_mem := hi.room_mem; have f_nonempty := hi.nonempty; have f_nodup := hi.nodup; have f_roomL_iff := hi.roomL_iff; have f_roomL_nodup := hi.roomL_nodup; have f_userL_iff := hi.userL_iff; have f_userL_nodup := hi.userL_nodup; have f_sessL_iff := hi.sessL_iff; have f_rs_fwd := hi.rs_fwd; have f_rs_room := hi.rs_room; have f_virt := hi.virt; have f_children := hi.children; have f_vtable := hi.vtable; have f_conn_iff := hi.conn_iff; have f_conn_open := hi.conn_open; have f_eh := hi.eh; have f_expired := hi.expired; have f_anon := hi.anon; have f_dialout := hi.dialout; have f_count := hi.count; have f_orph_virt := hi.orph_virt; clear hi; (intros; (try simp only [hubf] at *); grind [mem_removeL, nodup_removeL, removeL_nil]))
+      | (have f_fresh := hi.fresh; have f_mem_room := hi.mem_room; have f_room_mem := hi.room_mem; have f_nonempty := hi.nonempty; have f_nodup := hi.nodup; have f_roomL_iff := hi.roomL_iff; have f_roomL_nodup := hi.roomL_nodup; have f_userL_iff := hi.userL_iff; have f_userL_nodup := hi.userL_nodup; have f_sessL_iff := hi.sessL_iff; have f_rs_fwd := hi.rs_fwd; have f_rs_room := hi.rs_room; have f_virt := hi.virt; have f_children := hi.children; have f_vtable := hi.vtable; have f_conn_iff := hi.conn_iff; have f_conn_open := hi.conn_open; have f_eh := hi.eh; have f_expired := hi.expired; have f_anon := hi.anon; have f_dialout := hi.dialout; have f_count := hi.count; have f_orph_virt := hi.orph_virt; have f_incall := hi.incall; clear hi; (intros; (try simp only [hubf] at *); grind [mem_removeL, nodup_removeL, removeL_nil]))
   case room_mem =>
     by_cases hu : user = "" <;> simp only [hu, ne_eq, not_true_eq_false, not_false_eq_true, if_true, if_false]
     all_goals first
       | (have f_room_mem := hi.room_mem; have f_mem_room := hi.mem_room; have f_fresh := hi.fresh; clear hi; (intros; (try simp only [hubf] at *); grind [mem_removeL, nodup_removeL, removeL_nil]))
-      | (have f_fresh := hi.fresh; have f_mem_room := hi.mem_room; have f_room_mem := hi.room_mem; have f_nonempty := hi.nonempty; have f_nodup := hi.nodup; have f_roomL_iff := hi.roomL_iff; have f_roomL_nodup := hi.roomL_nodup; have f_userL_iff := hi.userL_iff; have f_userL_nodup := hi.userL_nodup; have f_sessL_iff := hi.sessL_iff; have f_rs_fwd := hi.rs_fwd; have f_rs_room := hi.rs_room; have f_virt := hi.virt; have f_children := hi.children; have f_vtable := hi.vtable; have f_conn_iff := hi.conn_iff; have f_conn_open := hi.conn_open; have f_eh := hi.eh; have f_expired := hi.expired; have f_anon := hi.anon; have f_dialout := hi.dialout; have f_count := hi.count; have f_orph_virt := hi.orph_virt; clear hi; (intros; (try simp only [hubf] at *); grind [mem_removeL, nodup_removeL, removeL_nil]))
+      | (have f_fresh := hi.fresh; have f_mem_room := hi.mem_room; have f_room_mem := hi.room_mem; have f_nonempty := hi.nonempty; have f_nodup := hi.nodup; have f_roomL_iff := hi.roomL_iff; have f_roomL_nodup := hi.roomL_nodup; have f_userL_iff := hi.userL_iff; have f_userL_nodup := hi.userL_nodup; have f_sessL_iff := hi.sessL_iff; have f_rs_fwd := hi.rs_fwd; have f_rs_room := hi.rs_room; have f_virt := hi.virt; have f_children := hi.children; have f_vtable := hi.vtable; have f_conn_iff := hi.conn_iff; have f_conn_open := hi.conn_open; have f_eh := hi.eh; have f_expired := hi.expired; have f_anon := hi.anon; have f_dialout := hi.dialout; have f_count := hi.count; have f_orph_virt := hi.orph_virt; have f_incall := hi.incall; clear hi; (intros; (try simp only [hubf] at *); grind [mem_removeL, nodup_removeL, removeL_nil]))
   case nonempty =>
     by_cases hu : user = "" <;> simp only [hu, ne_eq, not_true_eq_false, not_false_eq_true, if_true, if_false]
     all_goals first
       | (have f_nonempty := hi.nonempty; have f_mem_room := hi.mem_room; clear hi; (intros; (try simp only [hubf] at *); grind [mem_removeL, nodup_removeL, removeL_nil]))
-      | (have f_fresh := hi.fresh; have f_mem_room := hi.mem_room; have f_room_mem := hi.room_mem; have f_nonempty := hi.nonempty; have f_nodup := hi.nodup; have f_roomL_iff := hi.roomL_iff; have f_roomL_nodup := hi.roomL_nodup; have f_userL_iff := hi.userL_iff; have f_userL_nodup := hi.userL_nodup; have f_sessL_iff := hi.sessL_iff; have f_rs_fwd := hi.rs_fwd; have f_rs_room := hi.rs_room; have f_virt := hi.virt; have f_children := hi.children; have f_vtable := hi.vtable; have f_conn_iff := hi.conn_iff; have f_conn_open := hi.conn_open; have f_eh := hi.eh; have f_expired := hi.expired; have f_anon := hi.anon; have f_dialout := hi.dialout; have f_count := hi.count; have f_orph_virt := hi.orph_virt; clear hi; (intros; (try simp only [hubf] at *); grind [mem_removeL, nodup_removeL, removeL_nil]))
+      | (have f_fresh := hi.fresh; have f_mem_room := hi.mem_room; have f_room_mem := hi.room_mem; have f_nonempty := hi.nonempty; have f_nodup := hi.nodup; have f_roomL_iff := hi.roomL_iff; have f_roomL_nodup := hi.roomL_nodup; have f_userL_iff := hi.userL_iff; have f_userL_nodup := hi.userL_nodup; have f_sessL_iff := hi.sessL_iff; have f_rs_fwd := hi.rs_fwd; have f_rs_room := hi.rs_room; have f_virt := hi.virt; have f_children := hi.children; have f_vtable := hi.vtable; have f_conn_iff := hi.conn_iff; have f_conn_open := hi.conn_open; have f_eh := hi.eh; have f_expired := hi.expired; have f_anon := hi.anon; have f_dialout := hi.dialout; have f_count := hi.count; have f_orph_virt := hi.orph_virt; have f_incall := hi.incall; clear hi; (intros; (try simp only [hubf] at *); grind [mem_removeL, nodup_removeL, removeL_nil]))
   case nodup =>
     by_cases hu : user = "" <;> simp only [hu, ne_eq, not_true_eq_false, not_false_eq_true, if_true, if_false]
     all_goals first
       | (have f_nodup := hi.nodup; clear hi; (intros; (try simp only [hubf] at *); grind [mem_removeL, nodup_removeL, removeL_nil]))
-      | (have f_fresh := hi.fresh; have f_mem_room := hi.mem_room; have f_room_mem := hi.room_mem; have f_nonempty := hi.nonempty; have f_nodup := hi.nodup; have f_roomL_iff := hi.roomL_iff; have f_roomL_nodup := hi.roomL_nodup; have f_userL_iff := hi.userL_iff; have f_userL_nodup := hi.userL_nodup; have f_sessL_iff := hi.sessL_iff; have f_rs_fwd := hi.rs_fwd; have f_rs_room := hi.rs_room; have f_virt := hi.virt; have f_children := hi.children; have f_vtable := hi.vtable; have f_conn_iff := hi.conn_iff; have f_conn_open := hi.conn_open; have f_eh := hi.eh; have f_expired := hi.expired; have f_anon := hi.anon; have f_dialout := hi.dialout; have f_count := hi.count; have f_orph_virt := hi.orph_virt; clear hi; (intros; (try simp only [hubf] at *); grind [mem_removeL, nodup_removeL, removeL_nil]))
+      | (have f_fresh := hi.fresh; have f_mem_room := hi.mem_room; have f_room_mem := hi.room_mem; have f_nonempty := hi.nonempty; have f_nodup := hi.nodup; have f_roomL_iff := hi.roomL_iff; have f_roomL_nodup := hi.roomL_nodup; have f_userL_iff := hi.userL_iff; have f_userL_nodup := hi.userL_nodup; have f_sessL_iff := hi.sessL_iff; have f_rs_fwd := hi.rs_fwd; have f_rs_room := hi.rs_room; have f_virt := hi.virt; have f_children := hi.children; have f_vtable := hi.vtable; have f_conn_iff := hi.conn_iff; have f_conn_open := hi.conn_open; have f_eh := hi.eh; have f_expired := hi.expired; have f_anon := hi.anon; have f_dialout := hi.dialout; have f_count := hi.count; have f_orph_virt := hi.orph_virt; have f_incall := hi.incall; clear hi; (intros; (try simp only [hubf] at *); grind [mem_removeL, nodup_removeL, removeL_nil]))
   case roomL_iff =>
     by_cases hu : user = "" <;> simp only [hu, ne_eq, not_true_eq_false, not_false_eq_true, if_true, if_false]
     all_goals first
       | (have f_roomL_iff := hi.roomL_iff; have f_fresh := hi.fresh; have f_room_mem := hi.room_mem; have f_mem_room := hi.mem_room; clear hi; (intros; (try simp only [hubf] at *); grind [mem_removeL, nodup_removeL, removeL_nil]))
-      | (have f_fresh := hi.fresh; have f_mem_room := hi.mem_room; have f_room_mem := hi.room_mem; have f_nonempty := hi.nonempty; have f_nodup := hi.nodup; have f_roomL_iff := hi.roomL_iff; have f_roomL_nodup := hi.roomL_nodup; have f_userL_iff := hi.userL_iff; have f_userL_nodup := hi.userL_nodup; have f_sessL_iff := hi.sessL_iff; have f_rs_fwd := hi.rs_fwd; have f_rs_room := hi.rs_room; have f_virt := hi.virt; have f_children := hi.children; have f_vtable := hi.vtable; have f_conn_iff := hi.conn_iff; have f_conn_open := hi.conn_open; have f_eh := hi.eh; have f_expired := hi.expired; have f_anon := hi.anon; have f_dialout := hi.dialout; have f_count := hi.count; have f_orph_virt := hi.orph_virt; clear hi; (intros; (try simp only [hubf] at *); grind [mem_removeL, nodup_removeL, removeL_nil]))
+      | (have f_fresh := hi.fresh; have f_mem_room := hi.mem_room; have f_room_mem := hi.room_mem; have f_nonempty := hi.nonempty; have f_nodup := hi.nodup; have f_roomL_iff := hi.roomL_iff; have f_roomL_nodup := hi.roomL_nodup; have f_userL_iff := hi.userL_iff; have f_userL_nodup := hi.userL_nodup; have f_sessL_iff := hi.sessL_iff; have f_rs_fwd := hi.rs_fwd; have f_rs_room := hi.rs_room; have f_virt := hi.virt; have f_children := hi.children; have f_vtable := hi.vtable; have f_conn_iff := hi.conn_iff; have f_conn_open := hi.conn_open; have f_eh := hi.eh; have f_expired := hi.expired; have f_anon := hi.anon; have f_dialout := hi.dialout; have f_count := hi.count; have f_orph_virt := hi.orph_virt; have f_incall := hi.incall; clear hi; (intros; (try simp only [hubf] at *); grind [mem_removeL, nodup_removeL, removeL_nil]))
   case roomL_nodup =>
     by_cases hu : user = "" <;> simp only [hu, ne_eq, not_true_eq_false, not_false_eq_true, if_true, if_false]
     all_goals first
       | (have f_roomL_nodup := hi.roomL_nodup; have f_roomL_iff := hi.roomL_iff; clear hi; (intros; (try simp only [hubf] at *); grind [mem_removeL, nodup_removeL, removeL_nil]))
-      | (have f_fresh := hi.fresh; have f_mem_room := hi.mem_room; have f_room_mem := hi.room_mem; have f_nonempty := hi.nonempty; have f_nodup := hi.nodup; have f_roomL_iff := hi.roomL_iff; have f_roomL_nodup := hi.roomL_nodup; have f_userL_iff := hi.userL_iff; have f_userL_nodup := hi.userL_nodup; have f_sessL_iff := hi.sessL_iff; have f_rs_fwd := hi.rs_fwd; have f_rs_room := hi.rs_room; have f_virt := hi.virt; have f_children := hi.children; have f_vtable := hi.vtable; have f_conn_iff := hi.conn_iff; have f_conn_open := hi.conn_open; have f_eh := hi.eh; have f_expired := hi.expired; have f_anon := hi.anon; have f_dialout := hi.dialout; have f_count := hi.count; have f_orph_virt := hi.orph_virt; clear hi; (intros; (try simp only [hubf] at *); grind [mem_removeL, nodup_removeL, removeL_nil]))
+      | (have f_fresh := hi.fresh; have f_mem_room := hi.mem_room; have f_room_mem := hi.room_mem; have f_nonempty := hi.nonempty; have f_nodup := hi.nodup; have f_roomL_iff := hi.roomL_iff; have f_roomL_nodup := hi.roomL_nodup; have f_userL_iff := hi.userL_iff; have f_userL_nodup := hi.userL_nodup; have f_sessL_iff := hi.sessL_iff; have f_rs_fwd := hi.rs_fwd; have f_rs_room := hi.rs_room; have f_virt := hi.virt; have f_children := hi.children; have f_vtable := hi.vtable; have f_conn_iff := hi.conn_iff; have f_conn_open := hi.conn_open; have f_eh := hi.eh; have f_expired := hi.expired; have f_anon := hi.anon; have f_dialout := hi.dialout; have f_count := hi.count; have f_orph_virt := hi.orph_virt; have f_incall := hi.incall; clear hi; (intros; (try simp only [hubf] at *); grind [mem_removeL, nodup_removeL, removeL_nil]))
   case userL_iff =>
     by_cases hu : user = "" <;> simp only [hu, ne_eq, not_true_eq_false, not_false_eq_true, if_true, if_false]
     all_goals first
       | (have f_userL_iff := hi.userL_iff; have f_fresh := hi.fresh; clear hi; (intros; (try simp only [hubf] at *); grind [mem_removeL, nodup_removeL, removeL_nil]))
-      | (have f_fresh := hi.fresh; have f_mem_room := hi.mem_room; have f_room_mem := hi.room_mem; have f_nonempty := hi.nonempty; have f_nodup := hi.nodup; have f_roomL_iff := hi.roomL_iff; have f_roomL_nodup := hi.roomL_nodup; have f_userL_iff := hi.userL_iff; have f_userL_nodup := hi.userL_nodup; have f_sessL_iff := hi.sessL_iff; have f_rs_fwd := hi.rs_fwd; have f_rs_room := hi.rs_room; have f_virt := hi.virt; have f_children := hi.children; have f_vtable := hi.vtable; have f_conn_iff := hi.conn_iff; have f_conn_open := hi.conn_open; have f_eh := hi.eh; have f_expired := hi.expired; have f_anon := hi.anon; have f_dialout := hi.dialout; have f_count := hi.count; have f_orph_virt := hi.orph_virt; clear hi; (intros; (try simp only [hubf] at *); grind [mem_removeL, nodup_removeL, removeL_nil]))
+      | (have f_fresh := hi.fresh; have f_mem_room := hi.mem_room; have f_room_mem := hi.room_mem; have f_nonempty := hi.nonempty; have f_nodup := hi.nodup; have f_roomL_iff := hi.roomL_iff; have f_roomL_nodup := hi.roomL_nodup; have f_userL_iff := hi.userL_iff; have f_userL_nodup := hi.userL_nodup; have f_sessL_iff := hi.sessL_iff; have f_rs_fwd := hi.rs_fwd; have f_rs_room := hi.rs_room; have f_virt := hi.virt; have f_children := hi.children; have f_vtable := hi.vtable; have f_conn_iff := hi.conn_iff; have f_conn_open := hi.conn_open; have f_eh := hi.eh; have f_expired := hi.expired; have f_anon := hi.anon; have f_dialout := hi.dialout; have f_count := hi.count; have f_orph_virt := hi.orph_virt; have f_incall := hi.incall; clear hi; (intros; (try simp only [hubf] at *); grind [mem_removeL, nodup_removeL, removeL_nil]))
   case userL_nodup =>
     by_cases hu : user = "" <;> simp only [hu, ne_eq, not_true_eq_false, not_false_eq_true, if_true, if_false]
     all_goals first
       | (have f_userL_nodup := hi.userL_nodup; have f_userL_iff := hi.userL_iff; clear hi; (intros; (try simp only [hubf] at *); grind [mem_removeL, nodup_removeL, removeL_nil]))
-      | (have f_fresh := hi.fresh; have f_mem_room := hi.mem_room; have f_room_mem := hi.room_mem; have f_nonempty := hi.nonempty; have f_nodup := hi.nodup; have f_roomL_iff := hi.roomL_iff; have f_roomL_nodup := hi.roomL_nodup; have f_userL_iff := hi.userL_iff; have f_userL_nodup := hi.userL_nodup; have f_sessL_iff := hi.sessL_iff; have f_rs_fwd := hi.rs_fwd; have f_rs_room := hi.rs_room; have f_virt := hi.virt; have f_children := hi.children; have f_vtable := hi.vtable; have f_conn_iff := hi.conn_iff; have f_conn_open := hi.conn_open; have f_eh := hi.eh; have f_expired := hi.expired; have f_anon := hi.anon; have f_dialout := hi.dialout; have f_count := hi.count; have f_orph_virt := hi.orph_virt; clear hi; (intros; (try simp only [hubf] at *); grind [mem_removeL, nodup_removeL, removeL_nil]))
+      | (have f_fresh := hi.fresh; have f_mem_room := hi.mem_room; have f_room_mem := hi.room_mem; have f_nonempty := hi.nonempty; have f_nodup := hi.nodup; have f_roomL_iff := hi.roomL_iff; have f_roomL_nodup := hi.roomL_nodup; have f_userL_iff := hi.userL_iff; have f_userL_nodup := hi.userL_nodup; have f_sessL_iff := hi.sessL_iff; have f_rs_fwd := hi.rs_fwd; have f_rs_room := hi.rs_room; have f_virt := hi.virt; have f_children := hi.children; have f_vtable := hi.vtable; have f_conn_iff := hi.conn_iff; have f_conn_open := hi.conn_open; have f_eh := hi.eh; have f_expired := hi.expired; have f_anon := hi.anon; have f_dialout := hi.dialout; have f_count := hi.count; have f_orph_virt := hi.orph_virt; have f_incall := hi.incall; clear hi; (intros; (try simp only [hubf] at *); grind [mem_removeL, nodup_removeL, removeL_nil]))
   case sessL_iff =>
     by_cases hu : user = "" <;> simp only [hu, ne_eq, not_true_eq_false, not_false_eq_true, if_true, if_false]
     all_goals first
       | (have f_sessL_iff := hi.sessL_iff; have f_fresh := hi.fresh; clear hi; (intros; (try simp only [hubf] at *); grind [mem_removeL, nodup_removeL, removeL_nil]))
-      | (have f_fresh := hi.fresh; have f_mem_room := hi.mem_room; have f_room_mem := hi.room_mem; have f_nonempty := hi.nonempty; have f_nodup := hi.nodup; have f_roomL_iff := hi.roomL_iff; have f_roomL_nodup := hi.roomL_nodup; have f_userL_iff := hi.userL_iff; have f_userL_nodup := hi.userL_nodup; have f_sessL_iff := hi.sessL_iff; have f_rs_fwd := hi.rs_fwd; have f_rs_room := hi.rs_room; have f_virt := hi.virt; have f_children := hi.children; have f_vtable := hi.vtable; have f_conn_iff := hi.conn_iff; have f_conn_open := hi.conn_open; have f_eh := hi.eh; have f_expired := hi.expired; have f_anon := hi.anon; have f_dialout := hi.dialout; have f_count := hi.count; have f_orph_virt := hi.orph_virt; clear hi; (intros; (try simp only [hubf] at *); grind [mem_removeL, nodup_removeL, removeL_nil]))
+      | (have f_fresh := hi.fresh; have f_mem_room := hi.mem_room; have f_room_mem := hi.room_mem; have f_nonempty := hi.nonempty; have f_nodup := hi.nodup; have f_roomL_iff := hi.roomL_iff; have f_roomL_nodup := hi.roomL_nodup; have f_userL_iff := hi.userL_iff; have f_userL_nodup := hi.userL_nodup; have f_sessL_iff := hi.sessL_iff; have f_rs_fwd := hi.rs_fwd; have f_rs_room := hi.rs_room; have f_virt := hi.virt; have f_children := hi.children; have f_vtable := hi.vtable; have f_conn_iff := hi.conn_iff; have f_conn_open := hi.conn_open; have f_eh := hi.eh; have f_expired := hi.expired; have f_anon := hi.anon; have f_dialout := hi.dialout; have f_count := hi.count; have f_orph_virt := hi.orph_virt; have f_incall := hi.incall; clear hi; (intros; (try simp only [hubf] at *); grind [mem_removeL, nodup_removeL, removeL_nil]))
   case rs_fwd =>
     by_cases hu : user = "" <;> simp only [hu, ne_eq, not_true_eq_false, not_false_eq_true, if_true, if_false]
     all_goals first
       | (have f_rs_fwd := hi.rs_fwd; have f_rs_room := hi.rs_room; have f_fresh := hi.fresh; clear hi; (intros; (try simp only [hubf] at *); grind [mem_removeL, nodup_removeL, removeL_nil]))
-      | (have f_fresh := hi.fresh; have f_mem_room := hi.mem_room; have f_room_mem := hi.room_mem; have f_nonempty := hi.nonempty; have f_nodup := hi.nodup; have f_roomL_iff := hi.roomL_iff; have f_roomL_nodup := hi.roomL_nodup; have f_userL_iff := hi.userL_iff; have f_userL_nodup := hi.userL_nodup; have f_sessL_iff := hi.sessL_iff; have f_rs_fwd := hi.rs_fwd; have f_rs_room := hi.rs_room; have f_virt := hi.virt; have f_children := hi.children; have f_vtable := hi.vtable; have f_conn_iff := hi.conn_iff; have f_conn_open := hi.conn_open; have f_eh := hi.eh; have f_expired := hi.expired; have f_anon := hi.anon; have f_dialout := hi.dialout; have f_count := hi.count; have f_orph_virt := hi.orph_virt; clear hi; (intros; (try simp only [hubf] at *); grind [mem_removeL, nodup_removeL, removeL_nil]))
+      | (have f_fresh := hi.fresh; have f_mem_room := hi.mem_room; have f_room_mem := hi.room_mem; have f_nonempty := hi.nonempty; have f_nodup := hi.nodup; have f_roomL_iff := hi.roomL_iff; have f_roomL_nodup := hi.roomL_nodup; have f_userL_iff := hi.userL_iff; have f_userL_nodup := hi.userL_nodup; have f_sessL_iff := hi.sessL_iff; have f_rs_fwd := hi.rs_fwd; have f_rs_room := hi.rs_room; have f_virt := hi.virt; have f_children := hi.children; have f_vtable := hi.vtable; have f_conn_iff := hi.conn_iff; have f_conn_open := hi.conn_open; have f_eh := hi.eh; have f_expired := hi.expired; have f_anon := hi.anon; have f_dialout := hi.dialout; have f_count := hi.count; have f_orph_virt := hi.orph_virt; have f_incall := hi.incall; clear hi; (intros; (try simp only [hubf] at *); grind [mem_removeL, nodup_removeL, removeL_nil]))
   case rs_room =>
     by_cases hu : user = "" <;> simp only [hu, ne_eq, not_true_eq_false, not_false_eq_true, if_true, if_false]
     all_goals first
       | (have f_rs_room := hi.rs_room; have f_rs_fwd := hi.rs_fwd; have f_fresh := hi.fresh; have f_room_mem := hi.room_mem; clear hi; (intros; (try simp only [hubf] at *); grind [mem_removeL, nodup_removeL, removeL_nil]))
-      | (have f_fresh := hi.fresh; have f_mem_room := hi.mem_room; have f_room_mem := hi.room_mem; have f_nonempty := hi.nonempty; have f_nodup := hi.nodup; have f_roomL_iff := hi.roomL_iff; have f_roomL_nodup := hi.roomL_nodup; have f_userL_iff := hi.userL_iff; have f_userL_nodup := hi.userL_nodup; have f_sessL_iff := hi.sessL_iff; have f_rs_fwd := hi.rs_fwd; have f_rs_room := hi.rs_room; have f_virt := hi.virt; have f_children := hi.children; have f_vtable := hi.vtable; have f_conn_iff := hi.conn_iff; have f_conn_open := hi.conn_open; have f_eh := hi.eh; have f_expired := hi.expired; have f_anon := hi.anon; have f_dialout := hi.dialout; have f_count := hi.count; have f_orph_virt := hi.orph_virt; clear hi; (intros; (try simp only [hubf] at *); grind [mem_removeL, nodup_removeL, removeL_nil]))
+      | (have f_fresh := hi.fresh; have f_mem_room := hi.mem_room; have f_room_mem := hi.room_mem; have f_nonempty := hi.nonempty; have f_nodup := hi.nodup; have f_roomL_iff := hi.roomL_iff; have f_roomL_nodup := hi.roomL_nodup; have f_userL_iff := hi.userL_iff; have f_userL_nodup := hi.userL_nodup; have f_sessL_iff := hi.sessL_iff; have f_rs_fwd := hi.rs_fwd; have f_rs_room := hi.rs_room; have f_virt := hi.virt; have f_children := hi.children; have f_vtable := hi.vtable; have f_conn_iff := hi.conn_iff; have f_conn_open := hi.conn_open; have f_eh := hi.eh; have f_expired := hi.expired; have f_anon := hi.anon; have f_dialout := hi.dialout; have f_count := hi.count; have f_orph_virt := hi.orph_virt; have f_incall := hi.incall; clear hi; (intros; (try simp only [hubf] at *); grind [mem_removeL, nodup_removeL, removeL_nil]))
   case virt =>
     by_cases hu : user = "" <;> simp only [hu, ne_eq, not_true_eq_false, not_false_eq_true, if_true, if_false]
     all_goals first
       | (have f_virt := hi.virt; have f_children := hi.children; have f_fresh := hi.fresh; clear hi; (intros; (try simp only [hubf] at *); grind [mem_removeL, nodup_removeL, removeL_nil]))
-      | (have f_fresh := hi.fresh; have f_mem_room := hi.mem_room; have f_room_mem := hi.room_mem; have f_nonempty := hi.nonempty; have f_nodup := hi.nodup; have f_roomL_iff := hi.roomL_iff; have f_roomL_nodup := hi.roomL_nodup; have f_userL_iff := hi.userL_iff; have f_userL_nodup := hi.userL_nodup; have f_sessL_iff := hi.sessL_iff; have f_rs_fwd := hi.rs_fwd; have f_rs_room := hi.rs_room; have f_virt := hi.virt; have f_children := hi.children; have f_vtable := hi.vtable; have f_conn_iff := hi.conn_iff; have f_conn_open := hi.conn_open; have f_eh := hi.eh; have f_expired := hi.expired; have f_anon := hi.anon; have f_dialout := hi.dialout; have f_count := hi.count; have f_orph_virt := hi.orph_virt; clear hi; (intros; (try simp only [hubf] at *); grind [mem_removeL, nodup_removeL, removeL_nil]))
+      | (have f_fresh := hi.fresh; have f_mem_room := hi.mem_room; have f_room_mem := hi.room_mem; have f_nonempty := hi.nonempty; have f_nodup := hi.nodup; have f_roomL_iff := hi.roomL_iff; have f_roomL_nodup := hi.roomL_nodup; have f_userL_iff := hi.userL_iff; have f_userL_nodup := hi.userL_nodup; have f_sessL_iff := hi.sessL_iff; have f_rs_fwd := hi.rs_fwd; have f_rs_room := hi.rs_room; have f_virt := hi.virt; have f_children := hi.children; have f_vtable := hi.vtable; have f_conn_iff := hi.conn_iff; have f_conn_open := hi.conn_open; have f_eh := hi.eh; have f_expired := hi.expired; have f_anon := hi.anon; have f_dialout := hi.dialout; have f_count := hi.count; have f_orph_virt := hi.orph_virt; have f_incall := hi.incall; clear hi; (intros; (try simp only [hubf] at *); grind [mem_removeL, nodup_removeL, removeL_nil]))
   case children =>
     by_cases hu : user = "" <;> simp only [hu, ne_eq, not_true_eq_false, not_false_eq_true, if_true, if_false]
     all_goals first
       | (have f_children := hi.children; have f_virt := hi.virt; have f_fresh := hi.fresh; clear hi; (intros; (try simp only [hubf] at *); grind [mem_removeL, nodup_removeL, removeL_nil]))
-      | (have f_fresh := hi.fresh; have f_mem_room := hi.mem_room; have f_room_mem := hi.room_mem; have f_nonempty := hi.nonempty; have f_nodup := hi.nodup; have f_roomL_iff := hi.roomL_iff; have f_roomL_nodup := hi.roomL_nodup; have f_userL_iff := hi.userL_iff; have f_userL_nodup := hi.userL_nodup; have f_sessL_iff := hi.sessL_iff; have f_rs_fwd := hi.rs_fwd; have f_rs_room := hi.rs_room; have f_virt := hi.virt; have f_children := hi.children; have f_vtable := hi.vtable; have f_conn_iff := hi.conn_iff; have f_conn_open := hi.conn_open; have f_eh := hi.eh; have f_expired := hi.expired; have f_anon := hi.anon; have f_dialout := hi.dialout; have f_count := hi.count; have f_orph_virt := hi.orph_virt; clear hi; (intros; (try simp only [hubf] at *); grind [mem_removeL, nodup_removeL, removeL_nil]))
+      | (have f_fresh := hi.fresh; have f_mem_room := hi.mem_room; have f_room_mem := hi.room_mem; have f_nonempty := hi.nonempty; have f_nodup := hi.nodup; have f_roomL_iff := hi.roomL_iff; have f_roomL_nodup := hi.roomL_nodup; have f_userL_iff := hi.userL_iff; have f_userL_nodup := hi.userL_nodup; have f_sessL_iff := hi.sessL_iff; have f_rs_fwd := hi.rs_fwd; have f_rs_room := hi.rs_room; have f_virt := hi.virt; have f_children := hi.children; have f_vtable := hi.vtable; have f_conn_iff := hi.conn_iff; have f_conn_open := hi.conn_open; have f_eh := hi.eh; have f_expired := hi.expired; have f_anon := hi.anon; have f_dialout := hi.dialout; have f_count := hi.count; have f_orph_virt := hi.orph_virt; have f_incall := hi.incall; clear hi; (intros; (try simp only [hubf] at *); grind [mem_removeL, nodup_removeL, removeL_nil]))
   case vtable =>
     by_cases hu : user = "" <;> simp only [hu, ne_eq, not_true_eq_false, not_false_eq_true, if_true, if_false]
     all_goals first
       | (have f_vtable := hi.vtable; have f_virt := hi.virt; have f_fresh := hi.fresh; clear hi; (intros; (try simp only [hubf] at *); grind [mem_removeL, nodup_removeL, removeL_nil]))
-      | (have f_fresh := hi.fresh; have f_mem_room := hi.mem_room; have f_room_mem := hi.room_mem; have f_nonempty := hi.nonempty; have f_nodup := hi.nodup; have f_roomL_iff := hi.roomL_iff; have f_roomL_nodup := hi.roomL_nodup; have f_userL_iff := hi.userL_iff; have f_userL_nodup := hi.userL_nodup; have f_sessL_iff := hi.sessL_iff; have f_rs_fwd := hi.rs_fwd; have f_rs_room := hi.rs_room; have f_virt := hi.virt; have f_children := hi.children; have f_vtable := hi.vtable; have f_conn_iff := hi.conn_iff; have f_conn_open := hi.conn_open; have f_eh := hi.eh; have f_expired := hi.expired; have f_anon := hi.anon; have f_dialout := hi.dialout; have f_count := hi.count; have f_orph_virt := hi.orph_virt; clear hi; (intros; (try simp only [hubf] at *); grind [mem_removeL, nodup_removeL, removeL_nil]))
+      | (have f_fresh := hi.fresh; have f_mem_room := hi.mem_room; have f_room_mem := hi.room_mem; have f_nonempty := hi.nonempty; have f_nodup := hi.nodup; have f_roomL_iff := hi.roomL_iff; have f_roomL_nodup := hi.roomL_nodup; have f_userL_iff := hi.userL_iff; have f_userL_nodup := hi.userL_nodup; have f_sessL_iff := hi.sessL_iff; have f_rs_fwd := hi.rs_fwd; have f_rs_room := hi.rs_room; have f_virt := hi.virt; have f_children := hi.children; have f_vtable := hi.vtable; have f_conn_iff := hi.conn_iff; have f_conn_open := hi.conn_open; have f_eh := hi.eh; have f_expired := hi.expired; have f_anon := hi.anon; have f_dialout := hi.dialout; have f_count := hi.count; have f_orph_virt := hi.orph_virt; have f_incall := hi.incall; clear hi; (intros; (try simp only [hubf] at *); grind [mem_removeL, nodup_removeL, removeL_nil]))
   case conn_iff =>
     by_cases hu : user = "" <;> simp only [hu, ne_eq, not_true_eq_false, not_false_eq_true, if_true, if_false]
     all_goals first
       | (have f_conn_iff := hi.conn_iff; have f_fresh := hi.fresh; have f_virt := hi.virt; clear hi; (intros; (try simp only [hubf] at *); grind [mem_removeL, nodup_removeL, removeL_nil]))
-      | (have f_fresh := hi.fresh; have f_mem_room := hi.mem_room; have f_room_mem := hi.room_mem; have f_nonempty := hi.nonempty; have f_nodup := hi.nodup; have f_roomL_iff := hi.roomL_iff; have f_roomL_nodup := hi.roomL_nodup; have f_userL_iff := hi.userL_iff; have f_userL_nodup := hi.userL_nodup; have f_sessL_iff := hi.sessL_iff; have f_rs_fwd := hi.rs_fwd; have f_rs_room := hi.rs_room; have f_virt := hi.virt; have f_children := hi.children; have f_vtable := hi.vtable; have f_conn_iff := hi.conn_iff; have f_conn_open := hi.conn_open; have f_eh := hi.eh; have f_expired := hi.expired; have f_anon := hi.anon; have f_dialout := hi.dialout; have f_count := hi.count; have f_orph_virt := hi.orph_virt; clear hi; (intros; (try simp only [hubf] at *); grind [mem_removeL, nodup_removeL, removeL_nil]))
+      | (have f_fresh := hi.fresh; have f_mem_room := hi.mem_room; have f_room_mem := hi.room_mem; have f_nonempty := hi.nonempty; have f_nodup := hi.nodup; have f_roomL_iff := hi.roomL_iff; have f_roomL_nodup := hi.roomL_nodup; have f_userL_iff := hi.userL_iff; have f_userL_nodup := hi.userL_nodup; have f_sessL_iff := hi.sessL_iff; have f_rs_fwd := hi.rs_fwd; have f_rs_room := hi.rs_room; have f_virt := hi.virt; have f_children := hi.children; have f_vtable := hi.vtable; have f_conn_iff := hi.conn_iff; have f_conn_open := hi.conn_open; have f_eh := hi.eh; have f_expired := hi.expired; have f_anon := hi.anon; have f_dialout := hi.dialout; have f_count := hi.count; have f_orph_virt := hi.orph_virt; have f_incall := hi.incall; clear hi; (intros; (try simp only [hubf] at *); grind [mem_removeL, nodup_removeL, removeL_nil]))
   case conn_open =>
     by_cases hu : user = "" <;> simp only [hu, ne_eq, not_true_eq_false, not_false_eq_true, if_true, if_false]
     all_goals first
       | (have f_conn_open := hi.conn_open; have f_conn_iff := hi.conn_iff; clear hi; (intros; (try simp only [hubf] at *); grind [mem_removeL, nodup_removeL, removeL_nil]))
-      | (have f_fresh := hi.fresh; have f_mem_room := hi.mem_room; have f_room_mem := hi.room_mem; have f_nonempty := hi.nonempty; have f_nodup := hi.nodup; have f_roomL_iff := hi.roomL_iff; have f_roomL_nodup := hi.roomL_nodup; have f_userL_iff := hi.userL_iff; have f_userL_nodup := hi.userL_nodup; have f_sessL_iff := hi.sessL_iff; have f_rs_fwd := hi.rs_fwd; have f_rs_room := hi.rs_room; have f_virt := hi.virt; have f_children := hi.children; have f_vtable := hi.vtable; have f_conn_iff := hi.conn_iff; have f_conn_open := hi.conn_open; have f_eh := hi.eh; have f_expired := hi.expired; have f_anon := hi.anon; have f_dialout := hi.dialout; have f_count := hi.count; have f_orph_virt := hi.orph_virt; clear hi; (intros; (try simp only [hubf] at *); grind [mem_removeL, nodup_removeL, removeL_nil]))
+      | (have f_fresh := hi.fresh; have f_mem_room := hi.mem_room; have f_room_mem := hi.room_mem; have f_nonempty := hi.nonempty; have f_nodup := hi.nodup; have f_roomL_iff := hi.roomL_iff; have f_roomL_nodup := hi.roomL_nodup; have f_userL_iff := hi.userL_iff; have f_userL_nodup := hi.userL_nodup; have f_sessL_iff := hi.sessL_iff; have f_rs_fwd := hi.rs_fwd; have f_rs_room := hi.rs_room; have f_virt := hi.virt; have f_children := hi.children; have f_vtable := hi.vtable; have f_conn_iff := hi.conn_iff; have f_conn_open := hi.conn_open; have f_eh := hi.eh; have f_expired := hi.expired; have f_anon := hi.anon; have f_dialout := hi.dialout; have f_count := hi.count; have f_orph_virt := hi.orph_virt; have f_incall := hi.incall; clear hi; (intros; (try simp only [hubf] at *); grind [mem_removeL, nodup_removeL, removeL_nil]))
   case eh =>
     by_cases hu : user = "" <;> simp only [hu, ne_eq, not_true_eq_false, not_false_eq_true, if_true, if_false]
     all_goals first
       | (have f_eh := hi.eh; have f_conn_iff := hi.conn_iff; have f_conn_open := hi.conn_open; clear hi; (intros; (try simp only [hubf] at *); grind [mem_removeL, nodup_removeL, removeL_nil]))
-      | (have f_fresh := hi.fresh; have f_mem_room := hi.mem_room; have f_room_mem := hi.room_mem; have f_nonempty := hi.nonempty; have f_nodup := hi.nodup; have f_roomL_iff := hi.roomL_iff; have f_roomL_nodup := hi.roomL_nodup; have f_userL_iff := hi.userL_iff; have f_userL_nodup := hi.userL_nodup; have f_sessL_iff := hi.sessL_iff; have f_rs_fwd := hi.rs_fwd; have f_rs_room := hi.rs_room; have f_virt := hi.virt; have f_children := hi.children; have f_vtable := hi.vtable; have f_conn_iff := hi.conn_iff; have f_conn_open := hi.conn_open; have f_eh := hi.eh; have f_expired := hi.expired; have f_anon := hi.anon; have f_dialout := hi.dialout; have f_count := hi.count; have f_orph_virt := hi.orph_virt; clear hi; (intros; (try simp only [hubf] at *); grind [mem_removeL, nodup_removeL, removeL_nil]))
+      | (have f_fresh := hi.fresh; have f_mem_room := hi.mem_room; have f_room_mem := hi.room_mem; have f_nonempty := hi.nonempty; have f_nodup := hi.nodup; have f_roomL_iff := hi.roomL_iff; have f_roomL_nodup := hi.roomL_nodup; have f_userL_iff := hi.userL_iff; have f_userL_nodup := hi.userL_nodup; have f_sessL_iff := hi.sessL_iff; have f_rs_fwd := hi.rs_fwd; have f_rs_room := hi.rs_room; have f_virt := hi.virt; have f_children := hi.children; have f_vtable := hi.vtable; have f_conn_iff := hi.conn_iff; have f_conn_open := hi.conn_open; have f_eh := hi.eh; have f_expired := hi.expired; have f_anon := hi.anon; have f_dialout := hi.dialout; have f_count := hi.count; have f_orph_virt := hi.orph_virt; have f_incall := hi.incall; clear hi; (intros; (try simp only [hubf] at *); grind [mem_removeL, nodup_removeL, removeL_nil]))
   case expired =>
     by_cases hu : user = "" <;> simp only [hu, ne_eq, not_true_eq_false, not_false_eq_true, if_true, if_false]
     all_goals first
       | (have f_expired := hi.expired; have f_fresh := hi.fresh; clear hi; (intros; (try simp only [hubf] at *); grind [mem_removeL, nodup_removeL, removeL_nil]))
-      | (have f_fresh := hi.fresh; have f_mem_room := hi.mem_room; have f_room_mem := hi.room_mem; have f_nonempty := hi.nonempty; have f_nodup := hi.nodup; have f_roomL_iff := hi.roomL_iff; have f_roomL_nodup := hi.roomL_nodup; have f_userL_iff := hi.userL_iff; have f_userL_nodup := hi.userL_nodup; have f_sessL_iff := hi.sessL_iff; have f_rs_fwd := hi.rs_fwd; have f_rs_room := hi.rs_room; have f_virt := hi.virt; have f_children := hi.children; have f_vtable := hi.vtable; have f_conn_iff := hi.conn_iff; have f_conn_open := hi.conn_open; have f_eh := hi.eh; have f_expired := hi.expired; have f_anon := hi.anon; have f_dialout := hi.dialout; have f_count := hi.count; have f_orph_virt := hi.orph_virt; clear hi; (intros; (try simp only [hubf] at *); grind [mem_removeL, nodup_removeL, removeL_nil]))
+      | (have f_fresh := hi.fresh; have f_mem_room := hi.mem_room; have f_room_mem := hi.room_mem; have f_nonempty := hi.nonempty; have f_nodup := hi.nodup; have f_roomL_iff := hi.roomL_iff; have f_roomL_nodup := hi.roomL_nodup; have f_userL_iff := hi.userL_iff; have f_userL_nodup := hi.userL_nodup; have f_sessL_iff := hi.sessL_iff; have f_rs_fwd := hi.rs_fwd; have f_rs_room := hi.rs_room; have f_virt := hi.virt; have f_children := hi.children; have f_vtable := hi.vtable; have f_conn_iff := hi.conn_iff; have f_conn_open := hi.conn_open; have f_eh := hi.eh; have f_expired := hi.expired; have f_anon := hi.anon; have f_dialout := hi.dialout; have f_count := hi.count; have f_orph_virt := hi.orph_virt; have f_incall := hi.incall; clear hi; (intros; (try simp only [hubf] at *); grind [mem_removeL, nodup_removeL, removeL_nil]))
   case anon =>
     by_cases hu : user = "" <;> simp only [hu, ne_eq, not_true_eq_false, not_false_eq_true, if_true, if_false]
     all_goals first
       | (have f_anon := hi.anon; have f_fresh := hi.fresh; clear hi; (intros; (try simp only [hubf] at *); grind [mem_removeL, nodup_removeL, removeL_nil]))
-      | (have f_fresh := hi.fresh; have f_mem_room := hi.mem_room; have f_room_mem := hi.room_mem; have f_nonempty := hi.nonempty; have f_nodup := hi.nodup; have f_roomL_iff := hi.roomL_iff; have f_roomL_nodup := hi.roomL_nodup; have f_userL_iff := hi.userL_iff; have f_userL_nodup := hi.userL_nodup; have f_sessL_iff := hi.sessL_iff; have f_rs_fwd := hi.rs_fwd; have f_rs_room := hi.rs_room; have f_virt := hi.virt; have f_children := hi.children; have f_vtable := hi.vtable; have f_conn_iff := hi.conn_iff; have f_conn_open := hi.conn_open; have f_eh := hi.eh; have f_expired := hi.expired; have f_anon := hi.anon; have f_dialout := hi.dialout; have f_count := hi.count; have f_orph_virt := hi.orph_virt; clear hi; (intros; (try simp only [hubf] at *); grind [mem_removeL, nodup_removeL, removeL_nil]))
+      | (have f_fresh := hi.fresh; have f_mem_room := hi.mem_room; have f_room_mem := hi.room_mem; have f_nonempty := hi.nonempty; have f_nodup := hi.nodup; have f_roomL_iff := hi.roomL_iff; have f_roomL_nodup := hi.roomL_nodup; have f_userL_iff := hi.userL_iff; have f_userL_nodup := hi.userL_nodup; have f_sessL_iff := hi.sessL_iff; have f_rs_fwd := hi.rs_fwd; have f_rs_room := hi.rs_room; have f_virt := hi.virt; have f_children := hi.children; have f_vtable := hi.vtable; have f_conn_iff := hi.conn_iff; have f_conn_open := hi.conn_open; have f_eh := hi.eh; have f_expired := hi.expired; have f_anon := hi.anon; have f_dialout := hi.dialout; have f_count := hi.count; have f_orph_virt := hi.orph_virt; have f_incall := hi.incall; clear hi; (intros; (try simp only [hubf] at *); grind [mem_removeL, nodup_removeL, removeL_nil]))
   case dialout =>
     by_cases hu : user = "" <;> simp only [hu, ne_eq, not_true_eq_false, not_false_eq_true, if_true, if_false]
     all_goals first
       | (have f_dialout := hi.dialout; have f_fresh := hi.fresh; clear hi; (intros; (try simp only [hubf] at *); grind [mem_removeL, nodup_removeL, removeL_nil]))
-      | (have f_fresh := hi.fresh; have f_mem_room := hi.mem_room; have f_room_mem := hi.room_mem; have f_nonempty := hi.nonempty; have f_nodup := hi.nodup; have f_roomL_iff := hi.roomL_iff; have f_roomL_nodup := hi.roomL_nodup; have f_userL_iff := hi.userL_iff; have f_userL_nodup := hi.userL_nodup; have f_sessL_iff := hi.sessL_iff; have f_rs_fwd := hi.rs_fwd; have f_rs_room := hi.rs_room; have f_virt := hi.virt; have f_children := hi.children; have f_vtable := hi.vtable; have f_conn_iff := hi.conn_iff; have f_conn_open := hi.conn_open; have f_eh := hi.eh; have f_expired := hi.expired; have f_anon := hi.anon; have f_dialout := hi.dialout; have f_count := hi.count; have f_orph_virt := hi.orph_virt; clear hi; (intros; (try simp only [hubf] at *); grind [mem_removeL, nodup_removeL, removeL_nil]))
+      | (have f_fresh := hi.fresh; have f_mem_room := hi.mem_room; have f_room_mem := hi.room_mem; have f_nonempty := hi.nonempty; have f_nodup := hi.nodup; have f_roomL_iff := hi.roomL_iff; have f_roomL_nodup := hi.roomL_nodup; have f_userL_iff := hi.userL_iff; have f_userL_nodup := hi.userL_nodup; have f_sessL_iff := hi.sessL_iff; have f_rs_fwd := hi.rs_fwd; have f_rs_room := hi.rs_room; have f_virt := hi.virt; have f_children := hi.children; have f_vtable := hi.vtable; have f_conn_iff := hi.conn_iff; have f_conn_open := hi.conn_open; have f_eh := hi.eh; have f_expired := hi.expired; have f_anon := hi.anon; have f_dialout := hi.dialout; have f_count := hi.count; have f_orph_virt := hi.orph_virt; have f_incall := hi.incall; clear hi; (intros; (try simp only [hubf] at *); grind [mem_removeL, nodup_removeL, removeL_nil]))
   case count =>
     by_cases hu : user = "" <;> simp only [hu, ne_eq, not_true_eq_false, not_false_eq_true, if_true, if_false]
     all_goals first
       | (have f_count := hi.count; have f_fresh := hi.fresh; clear hi; (intros; (try simp only [hubf] at *); grind [mem_removeL, nodup_removeL, removeL_nil]))
-      | (have f_fresh := hi.fresh; have f_mem_room := hi.mem_room; have f_room_mem := hi.room_mem; have f_nonempty := hi.nonempty; have f_nodup := hi.nodup; have f_roomL_iff := hi.roomL_iff; have f_roomL_nodup := hi.roomL_nodup; have f_userL_iff := hi.userL_iff; have f_userL_nodup := hi.userL_nodup; have f_sessL_iff := hi.sessL_iff; have f_rs_fwd := hi.rs_fwd; have f_rs_room := hi.rs_room; have f_virt := hi.virt; have f_children := hi.children; have f_vtable := hi.vtable; have f_conn_iff := hi.conn_iff; have f_conn_open := hi.conn_open; have f_eh := hi.eh; have f_expired := hi.expired; have f_anon := hi.anon; have f_dialout := hi.dialout; have f_count := hi.count; have f_orph_virt := hi.orph_virt; clear hi; (intros; (try simp only [hubf] at *); grind [mem_removeL, nodup_removeL, removeL_nil]))
+      | (have f_fresh := hi.fresh; have f_mem_room := hi.mem_room; have f_room_mem := hi.room_mem; have f_nonempty := hi.nonempty; have f_nodup := hi.nodup; have f_roomL_iff := hi.roomL_iff; have f_roomL_nodup := hi.roomL_nodup; have f_userL_iff := hi.userL_iff; have f_userL_nodup := hi.userL_nodup; have f_sessL_iff := hi.sessL_iff; have f_rs_fwd := hi.rs_fwd; have f_rs_room := hi.rs_room; have f_virt := hi.virt; have f_children := hi.children; have f_vtable := hi.vtable; have f_conn_iff := hi.conn_iff; have f_conn_open := hi.conn_open; have f_eh := hi.eh; have f_expired := hi.expired; have f_anon := hi.anon; have f_dialout := hi.dialout; have f_count := hi.count; have f_orph_virt := hi.orph_virt; have f_incall := hi.incall; clear hi; (intros; (try simp only [hubf] at *); grind [mem_removeL, nodup_removeL, removeL_nil]))
   case orph_virt =>
     by_cases hu : user = "" <;> simp only [hu, ne_eq, not_true_eq_false, not_false_eq_true, if_true, if_false]
     all_goals first
       | (have f_orph_virt := hi.orph_virt; have f_fresh := hi.fresh; have f_children := hi.children; have f_virt := hi.virt; clear hi; (intros; (try simp only [hubf] at *); grind [mem_removeL, nodup_removeL, removeL_nil]))
-      | (have f_fresh := hi.fresh; have f_mem_room := hi.mem_room; have f_room_mem := hi.room_mem; have f_nonempty := hi.nonempty; have f_nodup := hi.nodup; have f_roomL_iff := hi.roomL_iff; have f_roomL_nodup := hi.roomL_nodup; have f_userL_iff := hi.userL_iff; have f_userL_nodup := hi.userL_nodup; have f_sessL_iff := hi.sessL_iff; have f_rs_fwd := hi.rs_fwd; have f_rs_room := hi.rs_room; have f_virt := hi.virt; have f_children := hi.children; have f_vtable := hi.vtable; have f_conn_iff := hi.conn_iff; have f_conn_open := hi.conn_open; have f_eh := hi.eh; have f_expired := hi.expired; have f_anon := hi.anon; have f_dialout := hi.dialout; have f_count := hi.count; have f_orph_virt := hi.orph_virt; clear hi; (intros; (try simp only [hubf] at *); grind [mem_removeL, nodup_removeL, removeL_nil]))
+      | (have f_fresh := hi.fresh; have f_mem_room := hi.mem_room; have f_room_mem := hi.room_mem; have f_nonempty := hi.nonempty; have f_nodup := hi.nodup; have f_roomL_iff := hi.roomL_iff; have f_roomL_nodup := hi.roomL_nodup; have f_userL_iff := hi.userL_iff; have f_userL_nodup := hi.userL_nodup; have f_sessL_iff := hi.sessL_iff; have f_rs_fwd := hi.rs_fwd; have f_rs_room := hi.rs_room; have f_virt := hi.virt; have f_children := hi.children; have f_vtable := hi.vtable; have f_conn_iff := hi.conn_iff; have f_conn_open := hi.conn_open; have f_eh := hi.eh; have f_expired := hi.expired; have f_anon := hi.anon; have f_dialout := hi.dialout; have f_count := hi.count; have f_orph_virt := hi.orph_virt; have f_incall := hi.incall; clear hi; (intros; (try simp only [hubf] at *); grind [mem_removeL, nodup_removeL, removeL_nil]))
+  case incall =>
+    by_cases hu : user = "" <;> simp only [hu, ne_eq, not_true_eq_false, not_false_eq_true, if_true, if_false]
+    all_goals first
+      | (have f_incall := hi.incall; have f_mem_room := hi.mem_room; clear hi; (intros; (try simp only [hubf] at *); grind [mem_removeL, nodup_removeL, removeL_nil]))
+      | (have f_fresh := hi.fresh; have f_mem_room := hi.mem_room; have f_room_mem := hi.room_mem; have f_nonempty := hi.nonempty; have f_nodup := hi.nodup; have f_roomL_iff := hi.roomL_iff; have f_roomL_nodup := hi.roomL_nodup; have f_userL_iff := hi.userL_iff; have f_userL_nodup := hi.userL_nodup; have f_sessL_iff := hi.sessL_iff; have f_rs_fwd := hi.rs_fwd; have f_rs_room := hi.rs_room; have f_virt := hi.virt; have f_children := hi.children; have f_vtable := hi.vtable; have f_conn_iff := hi.conn_iff; have f_conn_open := hi.conn_open; have f_eh := hi.eh; have f_expired := hi.expired; have f_anon := hi.anon; have f_dialout := hi.dialout; have f_count := hi.count; have f_orph_virt := hi.orph_virt; have f_incall := hi.incall; clear hi; (intros; (try simp only [hubf] at *); grind [mem_removeL, nodup_removeL, removeL_nil]))
 
 theorem processHello_inv (a : Acc) (c b : Nat) (kind : Kind) (user : String) (d i : Bool)
     (hk : kind ≠ .virtual) (hi : Inv a.h) : Inv (processHello a c b kind user d i).h := by
@@ -172,7 +177,7 @@ theorem processHello_inv (a : Acc) (c b : Nat) (kind : Kind) (user : String) (d 
     · -- refused: only the waiting list changes
       simp only [hl, if_true]
       have f17 := hi.conn_open; have f18 := hi.eh
-      obtain ⟨f1, f2, f3, f4, f5, f6, f7, f8, f9, f10, f11, f12, f13, f14, f15, f16, _, _, f19, f20, f21, f22, f23⟩ := hi
+      obtain ⟨f1, f2, f3, f4, f5, f6, f7, f8, f9, f10, f11, f12, f13, f14, f15, f16, _, _, f19, f20, f21, f22, f23, f24⟩ := hi
       constructor
       all_goals first | assumption | skip
       · intro c' hc'; simp at hc'; rcases hc' with h1 | rfl
@@ -192,117 +197,122 @@ theorem resumeTables_inv {h : Hub} (hi : Inv h) {c s : Nat} {x : Sess} (hx : h.s
     cases hc : x.conn <;> simp only []
     all_goals first
       | (have f_fresh := hi.fresh; clear hi; (intros; (try simp only [hubf] at *); grind [mem_removeL, nodup_removeL, removeL_nil]))
-      | (have f_fresh := hi.fresh; have f_mem_room := hi.mem_room; have f_room_mem := hi.room_mem; have f_nonempty := hi.nonempty; have f_nodup := hi.nodup; have f_roomL_iff := hi.roomL_iff; have f_roomL_nodup := hi.roomL_nodup; have f_userL_iff := hi.userL_iff; have f_userL_nodup := hi.userL_nodup; have f_sessL_iff := hi.sessL_iff; have f_rs_fwd := hi.rs_fwd; have f_rs_room := hi.rs_room; have f_virt := hi.virt; have f_children := hi.children; have f_vtable := hi.vtable; have f_conn_iff := hi.conn_iff; have f_conn_open := hi.conn_open; have f_eh := hi.eh; have f_expired := hi.expired; have f_anon := hi.anon; have f_dialout := hi.dialout; have f_count := hi.count; have f_orph_virt := hi.orph_virt; clear hi; (intros; (try simp only [hubf] at *); grind [mem_removeL, nodup_removeL, removeL_nil]))
+      | (have f_fresh := hi.fresh; have f_mem_room := hi.mem_room; have f_room_mem := hi.room_mem; have f_nonempty := hi.nonempty; have f_nodup := hi.nodup; have f_roomL_iff := hi.roomL_iff; have f_roomL_nodup := hi.roomL_nodup; have f_userL_iff := hi.userL_iff; have f_userL_nodup := hi.userL_nodup; have f_sessL_iff := hi.sessL_iff; have f_rs_fwd := hi.rs_fwd; have f_rs_room := hi.rs_room; have f_virt := hi.virt; have f_children := hi.children; have f_vtable := hi.vtable; have f_conn_iff := hi.conn_iff; have f_conn_open := hi.conn_open; have f_eh := hi.eh; have f_expired := hi.expired; have f_anon := hi.anon; have f_dialout := hi.dialout; have f_count := hi.count; have f_orph_virt := hi.orph_virt; have f_incall := hi.incall; clear hi; (intros; (try simp only [hubf] at *); grind [mem_removeL, nodup_removeL, removeL_nil]))
   case mem_room =>
     cases hc : x.conn <;> simp only []
     all_goals first
       | (have f_mem_room := hi.mem_room; have f_fresh := hi.fresh; clear hi; (intros; (try simp only [hubf] at *); grind [mem_removeL, nodup_removeL, removeL_nil]))
-      | (have f_fresh := hi.fresh; have f_mem_room := hi.mem_room; have f_room_mem := hi.room_mem; have f_nonempty := hi.nonempty; have f_nodup := hi.nodup; have f_roomL_iff := hi.roomL_iff; have f_roomL_nodup := hi.roomL_nodup; have f_userL_iff := hi.userL_iff; have f_userL_nodup := hi.userL_nodup; have f_sessL_iff := hi.sessL_iff; have f_rs_fwd := hi.rs_fwd; have f_rs_room := hi.rs_room; have f_virt := hi.virt; have f_children := hi.children; have f_vtable := hi.vtable; have f_conn_iff := hi.conn_iff; have f_conn_open := hi.conn_open; have f_eh := hi.eh; have f_expired := hi.expired; have f_anon := hi.anon; have f_dialout := hi.dialout; have f_count := hi.count; have f_orph_virt := hi.orph_virt; clear hi; (intros; (try simp only [hubf] at *); grind [mem_removeL, nodup_removeL, removeL_nil]))
+      | (have f_fresh := hi.fresh; have f_mem_room := hi.mem_room; have f_room_mem := hi.room_mem; have f_nonempty := hi.nonempty; have f_nodup := hi.nodup; have f_roomL_iff := hi.roomL_iff; have f_roomL_nodup := hi.roomL_nodup; have f_userL_iff := hi.userL_iff; have f_userL_nodup := hi.userL_nodup; have f_sessL_iff := hi.sessL_iff; have f_rs_fwd := hi.rs_fwd; have f_rs_room := hi.rs_room; have f_virt := hi.virt; have f_children := hi.children; have f_vtable := hi.vtable; have f_conn_iff := hi.conn_iff; have f_conn_open := hi.conn_open; have f_eh := hi.eh; have f_expired := hi.expired; have f_anon := hi.anon; have f_dialout := hi.dialout; have f_count := hi.count; have f_orph_virt := hi.orph_virt; have f_incall := hi.incall; clear hi; (intros; (try simp only [hubf] at *); grind [mem_removeL, nodup_removeL, removeL_nil]))
   case room_mem =>
     cases hc : x.conn <;> simp only []
     all_goals first
       | (have f_room_mem := hi.room_mem; have f_mem_room := hi.mem_room; have f_fresh := hi.fresh; clear hi; (intros; (try simp only [hubf] at *); grind [mem_removeL, nodup_removeL, removeL_nil]))
-      | (have f_fresh := hi.fresh; have f_mem_room := hi.mem_room; have f_room_mem := hi.room_mem; have f_nonempty := hi.nonempty; have f_nodup := hi.nodup; have f_roomL_iff := hi.roomL_iff; have f_roomL_nodup := hi.roomL_nodup; have f_userL_iff := hi.userL_iff; have f_userL_nodup := hi.userL_nodup; have f_sessL_iff := hi.sessL_iff; have f_rs_fwd := hi.rs_fwd; have f_rs_room := hi.rs_room; have f_virt := hi.virt; have f_children := hi.children; have f_vtable := hi.vtable; have f_conn_iff := hi.conn_iff; have f_conn_open := hi.conn_open; have f_eh := hi.eh; have f_expired := hi.expired; have f_anon := hi.anon; have f_dialout := hi.dialout; have f_count := hi.count; have f_orph_virt := hi.orph_virt; clear hi; (intros; (try simp only [hubf] at *); grind [mem_removeL, nodup_removeL, removeL_nil]))
+      | (have f_fresh := hi.fresh; have f_mem_room := hi.mem_room; have f_room_mem := hi.room_mem; have f_nonempty := hi.nonempty; have f_nodup := hi.nodup; have f_roomL_iff := hi.roomL_iff; have f_roomL_nodup := hi.roomL_nodup; have f_userL_iff := hi.userL_iff; have f_userL_nodup := hi.userL_nodup; have f_sessL_iff := hi.sessL_iff; have f_rs_fwd := hi.rs_fwd; have f_rs_room := hi.rs_room; have f_virt := hi.virt; have f_children := hi.children; have f_vtable := hi.vtable; have f_conn_iff := hi.conn_iff; have f_conn_open := hi.conn_open; have f_eh := hi.eh; have f_expired := hi.expired; have f_anon := hi.anon; have f_dialout := hi.dialout; have f_count := hi.count; have f_orph_virt := hi.orph_virt; have f_incall := hi.incall; clear hi; (intros; (try simp only [hubf] at *); grind [mem_removeL, nodup_removeL, removeL_nil]))
   case nonempty =>
     cases hc : x.conn <;> simp only []
     all_goals first
       | (have f_nonempty := hi.nonempty; have f_mem_room := hi.mem_room; clear hi; (intros; (try simp only [hubf] at *); grind [mem_removeL, nodup_removeL, removeL_nil]))
-      | (have f_fresh := hi.fresh; have f_mem_room := hi.mem_room; have f_room_mem := hi.room_mem; have f_nonempty := hi.nonempty; have f_nodup := hi.nodup; have f_roomL_iff := hi.roomL_iff; have f_roomL_nodup := hi.roomL_nodup; have f_userL_iff := hi.userL_iff; have f_userL_nodup := hi.userL_nodup; have f_sessL_iff := hi.sessL_iff; have f_rs_fwd := hi.rs_fwd; have f_rs_room := hi.rs_room; have f_virt := hi.virt; have f_children := hi.children; have f_vtable := hi.vtable; have f_conn_iff := hi.conn_iff; have f_conn_open := hi.conn_open; have f_eh := hi.eh; have f_expired := hi.expired; have f_anon := hi.anon; have f_dialout := hi.dialout; have f_count := hi.count; have f_orph_virt := hi.orph_virt; clear hi; (intros; (try simp only [hubf] at *); grind [mem_removeL, nodup_removeL, removeL_nil]))
+      | (have f_fresh := hi.fresh; have f_mem_room := hi.mem_room; have f_room_mem := hi.room_mem; have f_nonempty := hi.nonempty; have f_nodup := hi.nodup; have f_roomL_iff := hi.roomL_iff; have f_roomL_nodup := hi.roomL_nodup; have f_userL_iff := hi.userL_iff; have f_userL_nodup := hi.userL_nodup; have f_sessL_iff := hi.sessL_iff; have f_rs_fwd := hi.rs_fwd; have f_rs_room := hi.rs_room; have f_virt := hi.virt; have f_children := hi.children; have f_vtable := hi.vtable; have f_conn_iff := hi.conn_iff; have f_conn_open := hi.conn_open; have f_eh := hi.eh; have f_expired := hi.expired; have f_anon := hi.anon; have f_dialout := hi.dialout; have f_count := hi.count; have f_orph_virt := hi.orph_virt; have f_incall := hi.incall; clear hi; (intros; (try simp only [hubf] at *); grind [mem_removeL, nodup_removeL, removeL_nil]))
   case nodup =>
     cases hc : x.conn <;> simp only []
     all_goals first
       | (have f_nodup := hi.nodup; clear hi; (intros; (try simp only [hubf] at *); grind [mem_removeL, nodup_removeL, removeL_nil]))
-      | (have f_fresh := hi.fresh; have f_mem_room := hi.mem_room; have f_room_mem := hi.room_mem; have f_nonempty := hi.nonempty; have f_nodup := hi.nodup; have f_roomL_iff := hi.roomL_iff; have f_roomL_nodup := hi.roomL_nodup; have f_userL_iff := hi.userL_iff; have f_userL_nodup := hi.userL_nodup; have f_sessL_iff := hi.sessL_iff; have f_rs_fwd := hi.rs_fwd; have f_rs_room := hi.rs_room; have f_virt := hi.virt; have f_children := hi.children; have f_vtable := hi.vtable; have f_conn_iff := hi.conn_iff; have f_conn_open := hi.conn_open; have f_eh := hi.eh; have f_expired := hi.expired; have f_anon := hi.anon; have f_dialout := hi.dialout; have f_count := hi.count; have f_orph_virt := hi.orph_virt; clear hi; (intros; (try simp only [hubf] at *); grind [mem_removeL, nodup_removeL, removeL_nil]))
+      | (have f_fresh := hi.fresh; have f_mem_room := hi.mem_room; have f_room_mem := hi.room_mem; have f_nonempty := hi.nonempty; have f_nodup := hi.nodup; have f_roomL_iff := hi.roomL_iff; have f_roomL_nodup := hi.roomL_nodup; have f_userL_iff := hi.userL_iff; have f_userL_nodup := hi.userL_nodup; have f_sessL_iff := hi.sessL_iff; have f_rs_fwd := hi.rs_fwd; have f_rs_room := hi.rs_room; have f_virt := hi.virt; have f_children := hi.children; have f_vtable := hi.vtable; have f_conn_iff := hi.conn_iff; have f_conn_open := hi.conn_open; have f_eh := hi.eh; have f_expired := hi.expired; have f_anon := hi.anon; have f_dialout := hi.dialout; have f_count := hi.count; have f_orph_virt := hi.orph_virt; have f_incall := hi.incall; clear hi; (intros; (try simp only [hubf] at *); grind [mem_removeL, nodup_removeL, removeL_nil]))
   case roomL_iff =>
     cases hc : x.conn <;> simp only []
     all_goals first
       | (have f_roomL_iff := hi.roomL_iff; have f_fresh := hi.fresh; have f_room_mem := hi.room_mem; have f_mem_room := hi.mem_room; clear hi; (intros; (try simp only [hubf] at *); grind [mem_removeL, nodup_removeL, removeL_nil]))
-      | (have f_fresh := hi.fresh; have f_mem_room := hi.mem_room; have f_room_mem := hi.room_mem; have f_nonempty := hi.nonempty; have f_nodup := hi.nodup; have f_roomL_iff := hi.roomL_iff; have f_roomL_nodup := hi.roomL_nodup; have f_userL_iff := hi.userL_iff; have f_userL_nodup := hi.userL_nodup; have f_sessL_iff := hi.sessL_iff; have f_rs_fwd := hi.rs_fwd; have f_rs_room := hi.rs_room; have f_virt := hi.virt; have f_children := hi.children; have f_vtable := hi.vtable; have f_conn_iff := hi.conn_iff; have f_conn_open := hi.conn_open; have f_eh := hi.eh; have f_expired := hi.expired; have f_anon := hi.anon; have f_dialout := hi.dialout; have f_count := hi.count; have f_orph_virt := hi.orph_virt; clear hi; (intros; (try simp only [hubf] at *); grind [mem_removeL, nodup_removeL, removeL_nil]))
+      | (have f_fresh := hi.fresh; have f_mem_room := hi.mem_room; have f_room_mem := hi.room_mem; have f_nonempty := hi.nonempty; have f_nodup := hi.nodup; have f_roomL_iff := hi.roomL_iff; have f_roomL_nodup := hi.roomL_nodup; have f_userL_iff := hi.userL_iff; have f_userL_nodup := hi.userL_nodup; have f_sessL_iff := hi.sessL_iff; have f_rs_fwd := hi.rs_fwd; have f_rs_room := hi.rs_room; have f_virt := hi.virt; have f_children := hi.children; have f_vtable := hi.vtable; have f_conn_iff := hi.conn_iff; have f_conn_open := hi.conn_open; have f_eh := hi.eh; have f_expired := hi.expired; have f_anon := hi.anon; have f_dialout := hi.dialout; have f_count := hi.count; have f_orph_virt := hi.orph_virt; have f_incall := hi.incall; clear hi; (intros; (try simp only [hubf] at *); grind [mem_removeL, nodup_removeL, removeL_nil]))
   case roomL_nodup =>
     cases hc : x.conn <;> simp only []
     all_goals first
       | (have f_roomL_nodup := hi.roomL_nodup; have f_roomL_iff := hi.roomL_iff; clear hi; (intros; (try simp only [hubf] at *); grind [mem_removeL, nodup_removeL, removeL_nil]))
-      | (have f_fresh := hi.fresh; have f_mem_room := hi.mem_room; have f_room_mem := hi.room_mem; have f_nonempty := hi.nonempty; have f_nodup := hi.nodup; have f_roomL_iff := hi.roomL_iff; have f_roomL_nodup := hi.roomL_nodup; have f_userL_iff := hi.userL_iff; have f_userL_nodup := hi.userL_nodup; have f_sessL_iff := hi.sessL_iff; have f_rs_fwd := hi.rs_fwd; have f_rs_room := hi.rs_room; have f_virt := hi.virt; have f_children := hi.children; have f_vtable := hi.vtable; have f_conn_iff := hi.conn_iff; have f_conn_open := hi.conn_open; have f_eh := hi.eh; have f_expired := hi.expired; have f_anon := hi.anon; have f_dialout := hi.dialout; have f_count := hi.count; have f_orph_virt := hi.orph_virt; clear hi; (intros; (try simp only [hubf] at *); grind [mem_removeL, nodup_removeL, removeL_nil]))
+      | (have f_fresh := hi.fresh; have f_mem_room := hi.mem_room; have f_room_mem := hi.room_mem; have f_nonempty := hi.nonempty; have f_nodup := hi.nodup; have f_roomL_iff := hi.roomL_iff; have f_roomL_nodup := hi.roomL_nodup; have f_userL_iff := hi.userL_iff; have f_userL_nodup := hi.userL_nodup; have f_sessL_iff := hi.sessL_iff; have f_rs_fwd := hi.rs_fwd; have f_rs_room := hi.rs_room; have f_virt := hi.virt; have f_children := hi.children; have f_vtable := hi.vtable; have f_conn_iff := hi.conn_iff; have f_conn_open := hi.conn_open; have f_eh := hi.eh; have f_expired := hi.expired; have f_anon := hi.anon; have f_dialout := hi.dialout; have f_count := hi.count; have f_orph_virt := hi.orph_virt; have f_incall := hi.incall; clear hi; (intros; (try simp only [hubf] at *); grind [mem_removeL, nodup_removeL, removeL_nil]))
   case userL_iff =>
     cases hc : x.conn <;> simp only []
     all_goals first
       | (have f_userL_iff := hi.userL_iff; have f_fresh := hi.fresh; clear hi; (intros; (try simp only [hubf] at *); grind [mem_removeL, nodup_removeL, removeL_nil]))
-      | (have f_fresh := hi.fresh; have f_mem_room := hi.mem_room; have f_room_mem := hi.room_mem; have f_nonempty := hi.nonempty; have f_nodup := hi.nodup; have f_roomL_iff := hi.roomL_iff; have f_roomL_nodup := hi.roomL_nodup; have f_userL_iff := hi.userL_iff; have f_userL_nodup := hi.userL_nodup; have f_sessL_iff := hi.sessL_iff; have f_rs_fwd := hi.rs_fwd; have f_rs_room := hi.rs_room; have f_virt := hi.virt; have f_children := hi.children; have f_vtable := hi.vtable; have f_conn_iff := hi.conn_iff; have f_conn_open := hi.conn_open; have f_eh := hi.eh; have f_expired := hi.expired; have f_anon := hi.anon; have f_dialout := hi.dialout; have f_count := hi.count; have f_orph_virt := hi.orph_virt; clear hi; (intros; (try simp only [hubf] at *); grind [mem_removeL, nodup_removeL, removeL_nil]))
+      | (have f_fresh := hi.fresh; have f_mem_room := hi.mem_room; have f_room_mem := hi.room_mem; have f_nonempty := hi.nonempty; have f_nodup := hi.nodup; have f_roomL_iff := hi.roomL_iff; have f_roomL_nodup := hi.roomL_nodup; have f_userL_iff := hi.userL_iff; have f_userL_nodup := hi.userL_nodup; have f_sessL_iff := hi.sessL_iff; have f_rs_fwd := hi.rs_fwd; have f_rs_room := hi.rs_room; have f_virt := hi.virt; have f_children := hi.children; have f_vtable := hi.vtable; have f_conn_iff := hi.conn_iff; have f_conn_open := hi.conn_open; have f_eh := hi.eh; have f_expired := hi.expired; have f_anon := hi.anon; have f_dialout := hi.dialout; have f_count := hi.count; have f_orph_virt := hi.orph_virt; have f_incall := hi.incall; clear hi; (intros; (try simp only [hubf] at *); grind [mem_removeL, nodup_removeL, removeL_nil]))
   case userL_nodup =>
     cases hc : x.conn <;> simp only []
     all_goals first
       | (have f_userL_nodup := hi.userL_nodup; have f_userL_iff := hi.userL_iff; clear hi; (intros; (try simp only [hubf] at *); grind [mem_removeL, nodup_removeL, removeL_nil]))
-      | (have f_fresh := hi.fresh; have f_mem_room := hi.mem_room; have f_room_mem := hi.room_mem; have f_nonempty := hi.nonempty; have f_nodup := hi.nodup; have f_roomL_iff := hi.roomL_iff; have f_roomL_nodup := hi.roomL_nodup; have f_userL_iff := hi.userL_iff; have f_userL_nodup := hi.userL_nodup; have f_sessL_iff := hi.sessL_iff; have f_rs_fwd := hi.rs_fwd; have f_rs_room := hi.rs_room; have f_virt := hi.virt; have f_children := hi.children; have f_vtable := hi.vtable; have f_conn_iff := hi.conn_iff; have f_conn_open := hi.conn_open; have f_eh := hi.eh; have f_expired := hi.expired; have f_anon := hi.anon; have f_dialout := hi.dialout; have f_count := hi.count; have f_orph_virt := hi.orph_virt; clear hi; (intros; (try simp only [hubf] at *); grind [mem_removeL, nodup_removeL, removeL_nil]))
+      | (have f_fresh := hi.fresh; have f_mem_room := hi.mem_room; have f_room_mem := hi.room_mem; have f_nonempty := hi.nonempty; have f_nodup := hi.nodup; have f_roomL_iff := hi.roomL_iff; have f_roomL_nodup := hi.roomL_nodup; have f_userL_iff := hi.userL_iff; have f_userL_nodup := hi.userL_nodup; have f_sessL_iff := hi.sessL_iff; have f_rs_fwd := hi.rs_fwd; have f_rs_room := hi.rs_room; have f_virt := hi.virt; have f_children := hi.children; have f_vtable := hi.vtable; have f_conn_iff := hi.conn_iff; have f_conn_open := hi.conn_open; have f_eh := hi.eh; have f_expired := hi.expired; have f_anon := hi.anon; have f_dialout := hi.dialout; have f_count := hi.count; have f_orph_virt := hi.orph_virt; have f_incall := hi.incall; clear hi; (intros; (try simp only [hubf] at *); grind [mem_removeL, nodup_removeL, removeL_nil]))
   case sessL_iff =>
     cases hc : x.conn <;> simp only []
     all_goals first
       | (have f_sessL_iff := hi.sessL_iff; have f_fresh := hi.fresh; clear hi; (intros; (try simp only [hubf] at *); grind [mem_removeL, nodup_removeL, removeL_nil]))
-      | (have f_fresh := hi.fresh; have f_mem_room := hi.mem_room; have f_room_mem := hi.room_mem; have f_nonempty := hi.nonempty; have f_nodup := hi.nodup; have f_roomL_iff := hi.roomL_iff; have f_roomL_nodup := hi.roomL_nodup; have f_userL_iff := hi.userL_iff; have f_userL_nodup := hi.userL_nodup; have f_sessL_iff := hi.sessL_iff; have f_rs_fwd := hi.rs_fwd; have f_rs_room := hi.rs_room; have f_virt := hi.virt; have f_children := hi.children; have f_vtable := hi.vtable; have f_conn_iff := hi.conn_iff; have f_conn_open := hi.conn_open; have f_eh := hi.eh; have f_expired := hi.expired; have f_anon := hi.anon; have f_dialout := hi.dialout; have f_count := hi.count; have f_orph_virt := hi.orph_virt; clear hi; (intros; (try simp only [hubf] at *); grind [mem_removeL, nodup_removeL, removeL_nil]))
+      | (have f_fresh := hi.fresh; have f_mem_room := hi.mem_room; have f_room_mem := hi.room_mem; have f_nonempty := hi.nonempty; have f_nodup := hi.nodup; have f_roomL_iff := hi.roomL_iff; have f_roomL_nodup := hi.roomL_nodup; have f_userL_iff := hi.userL_iff; have f_userL_nodup := hi.userL_nodup; have f_sessL_iff := hi.sessL_iff; have f_rs_fwd := hi.rs_fwd; have f_rs_room := hi.rs_room; have f_virt := hi.virt; have f_children := hi.children; have f_vtable := hi.vtable; have f_conn_iff := hi.conn_iff; have f_conn_open := hi.conn_open; have f_eh := hi.eh; have f_expired := hi.expired; have f_anon := hi.anon; have f_dialout := hi.dialout; have f_count := hi.count; have f_orph_virt := hi.orph_virt; have f_incall := hi.incall; clear hi; (intros; (try simp only [hubf] at *); grind [mem_removeL, nodup_removeL, removeL_nil]))
   case rs_fwd =>
     cases hc : x.conn <;> simp only []
     all_goals first
       | (have f_rs_fwd := hi.rs_fwd; have f_rs_room := hi.rs_room; have f_fresh := hi.fresh; clear hi; (intros; (try simp only [hubf] at *); grind [mem_removeL, nodup_removeL, removeL_nil]))
-      | (have f_fresh := hi.fresh; have f_mem_room := hi.mem_room; have f_room_mem := hi.room_mem; have f_nonempty := hi.nonempty; have f_nodup := hi.nodup; have f_roomL_iff := hi.roomL_iff; have f_roomL_nodup := hi.roomL_nodup; have f_userL_iff := hi.userL_iff; have f_userL_nodup := hi.userL_nodup; have f_sessL_iff := hi.sessL_iff; have f_rs_fwd := hi.rs_fwd; have f_rs_room := hi.rs_room; have f_virt := hi.virt; have f_children := hi.children; have f_vtable := hi.vtable; have f_conn_iff := hi.conn_iff; have f_conn_open := hi.conn_open; have f_eh := hi.eh; have f_expired := hi.expired; have f_anon := hi.anon; have f_dialout := hi.dialout; have f_count := hi.count; have f_orph_virt := hi.orph_virt; clear hi; (intros; (try simp only [hubf] at *); grind [mem_removeL, nodup_removeL, removeL_nil]))
+      | (have f_fresh := hi.fresh; have f_mem_room := hi.mem_room; have f_room_mem := hi.room_mem; have f_nonempty := hi.nonempty; have f_nodup := hi.nodup; have f_roomL_iff := hi.roomL_iff; have f_roomL_nodup := hi.roomL_nodup; have f_userL_iff := hi.userL_iff; have f_userL_nodup := hi.userL_nodup; have f_sessL_iff := hi.sessL_iff; have f_rs_fwd := hi.rs_fwd; have f_rs_room := hi.rs_room; have f_virt := hi.virt; have f_children := hi.children; have f_vtable := hi.vtable; have f_conn_iff := hi.conn_iff; have f_conn_open := hi.conn_open; have f_eh := hi.eh; have f_expired := hi.expired; have f_anon := hi.anon; have f_dialout := hi.dialout; have f_count := hi.count; have f_orph_virt := hi.orph_virt; have f_incall := hi.incall; clear hi; (intros; (try simp only [hubf] at *); grind [mem_removeL, nodup_removeL, removeL_nil]))
   case rs_room =>
     cases hc : x.conn <;> simp only []
     all_goals first
       | (have f_rs_room := hi.rs_room; have f_rs_fwd := hi.rs_fwd; have f_fresh := hi.fresh; have f_room_mem := hi.room_mem; clear hi; (intros; (try simp only [hubf] at *); grind [mem_removeL, nodup_removeL, removeL_nil]))
-      | (have f_fresh := hi.fresh; have f_mem_room := hi.mem_room; have f_room_mem := hi.room_mem; have f_nonempty := hi.nonempty; have f_nodup := hi.nodup; have f_roomL_iff := hi.roomL_iff; have f_roomL_nodup := hi.roomL_nodup; have f_userL_iff := hi.userL_iff; have f_userL_nodup := hi.userL_nodup; have f_sessL_iff := hi.sessL_iff; have f_rs_fwd := hi.rs_fwd; have f_rs_room := hi.rs_room; have f_virt := hi.virt; have f_children := hi.children; have f_vtable := hi.vtable; have f_conn_iff := hi.conn_iff; have f_conn_open := hi.conn_open; have f_eh := hi.eh; have f_expired := hi.expired; have f_anon := hi.anon; have f_dialout := hi.dialout; have f_count := hi.count; have f_orph_virt := hi.orph_virt; clear hi; (intros; (try simp only [hubf] at *); grind [mem_removeL, nodup_removeL, removeL_nil]))
+      | (have f_fresh := hi.fresh; have f_mem_room := hi.mem_room; have f_room_mem := hi.room_mem; have f_nonempty := hi.nonempty; have f_nodup := hi.nodup; have f_roomL_iff := hi.roomL_iff; have f_roomL_nodup := hi.roomL_nodup; have f_userL_iff := hi.userL_iff; have f_userL_nodup := hi.userL_nodup; have f_sessL_iff := hi.sessL_iff; have f_rs_fwd := hi.rs_fwd; have f_rs_room := hi.rs_room; have f_virt := hi.virt; have f_children := hi.children; have f_vtable := hi.vtable; have f_conn_iff := hi.conn_iff; have f_conn_open := hi.conn_open; have f_eh := hi.eh; have f_expired := hi.expired; have f_anon := hi.anon; have f_dialout := hi.dialout; have f_count := hi.count; have f_orph_virt := hi.orph_virt; have f_incall := hi.incall; clear hi; (intros; (try simp only [hubf] at *); grind [mem_removeL, nodup_removeL, removeL_nil]))
   case virt =>
     cases hc : x.conn <;> simp only []
     all_goals first
       | (have f_virt := hi.virt; have f_children := hi.children; have f_fresh := hi.fresh; clear hi; (intros; (try simp only [hubf] at *); grind [mem_removeL, nodup_removeL, removeL_nil]))
-      | (have f_fresh := hi.fresh; have f_mem_room := hi.mem_room; have f_room_mem := hi.room_mem; have f_nonempty := hi.nonempty; have f_nodup := hi.nodup; have f_roomL_iff := hi.roomL_iff; have f_roomL_nodup := hi.roomL_nodup; have f_userL_iff := hi.userL_iff; have f_userL_nodup := hi.userL_nodup; have f_sessL_iff := hi.sessL_iff; have f_rs_fwd := hi.rs_fwd; have f_rs_room := hi.rs_room; have f_virt := hi.virt; have f_children := hi.children; have f_vtable := hi.vtable; have f_conn_iff := hi.conn_iff; have f_conn_open := hi.conn_open; have f_eh := hi.eh; have f_expired := hi.expired; have f_anon := hi.anon; have f_dialout := hi.dialout; have f_count := hi.count; have f_orph_virt := hi.orph_virt; clear hi; (intros; (try simp only [hubf] at *); grind [mem_removeL, nodup_removeL, removeL_nil]))
+      | (have f_fresh := hi.fresh; have f_mem_room := hi.mem_room; have f_room_mem := hi.room_mem; have f_nonempty := hi.nonempty; have f_nodup := hi.nodup; have f_roomL_iff := hi.roomL_iff; have f_roomL_nodup := hi.roomL_nodup; have f_userL_iff := hi.userL_iff; have f_userL_nodup := hi.userL_nodup; have f_sessL_iff := hi.sessL_iff; have f_rs_fwd := hi.rs_fwd; have f_rs_room := hi.rs_room; have f_virt := hi.virt; have f_children := hi.children; have f_vtable := hi.vtable; have f_conn_iff := hi.conn_iff; have f_conn_open := hi.conn_open; have f_eh := hi.eh; have f_expired := hi.expired; have f_anon := hi.anon; have f_dialout := hi.dialout; have f_count := hi.count; have f_orph_virt := hi.orph_virt; have f_incall := hi.incall; clear hi; (intros; (try simp only [hubf] at *); grind [mem_removeL, nodup_removeL, removeL_nil]))
   case children =>
     cases hc : x.conn <;> simp only []
     all_goals first
       | (have f_children := hi.children; have f_virt := hi.virt; have f_fresh := hi.fresh; clear hi; (intros; (try simp only [hubf] at *); grind [mem_removeL, nodup_removeL, removeL_nil]))
-      | (have f_fresh := hi.fresh; have f_mem_room := hi.mem_room; have f_room_mem := hi.room_mem; have f_nonempty := hi.nonempty; have f_nodup := hi.nodup; have f_roomL_iff := hi.roomL_iff; have f_roomL_nodup := hi.roomL_nodup; have f_userL_iff := hi.userL_iff; have f_userL_nodup := hi.userL_nodup; have f_sessL_iff := hi.sessL_iff; have f_rs_fwd := hi.rs_fwd; have f_rs_room := hi.rs_room; have f_virt := hi.virt; have f_children := hi.children; have f_vtable := hi.vtable; have f_conn_iff := hi.conn_iff; have f_conn_open := hi.conn_open; have f_eh := hi.eh; have f_expired := hi.expired; have f_anon := hi.anon; have f_dialout := hi.dialout; have f_count := hi.count; have f_orph_virt := hi.orph_virt; clear hi; (intros; (try simp only [hubf] at *); grind [mem_removeL, nodup_removeL, removeL_nil]))
+      | (have f_fresh := hi.fresh; have f_mem_room := hi.mem_room; have f_room_mem := hi.room_mem; have f_nonempty := hi.nonempty; have f_nodup := hi.nodup; have f_roomL_iff := hi.roomL_iff; have f_roomL_nodup := hi.roomL_nodup; have f_userL_iff := hi.userL_iff; have f_userL_nodup := hi.userL_nodup; have f_sessL_iff := hi.sessL_iff; have f_rs_fwd := hi.rs_fwd; have f_rs_room := hi.rs_room; have f_virt := hi.virt; have f_children := hi.children; have f_vtable := hi.vtable; have f_conn_iff := hi.conn_iff; have f_conn_open := hi.conn_open; have f_eh := hi.eh; have f_expired := hi.expired; have f_anon := hi.anon; have f_dialout := hi.dialout; have f_count := hi.count; have f_orph_virt := hi.orph_virt; have f_incall := hi.incall; clear hi; (intros; (try simp only [hubf] at *); grind [mem_removeL, nodup_removeL, removeL_nil]))
   case vtable =>
     cases hc : x.conn <;> simp only []
     all_goals first
       | (have f_vtable := hi.vtable; have f_virt := hi.virt; have f_fresh := hi.fresh; clear hi; (intros; (try simp only [hubf] at *); grind [mem_removeL, nodup_removeL, removeL_nil]))
-      | (have f_fresh := hi.fresh; have f_mem_room := hi.mem_room; have f_room_mem := hi.room_mem; have f_nonempty := hi.nonempty; have f_nodup := hi.nodup; have f_roomL_iff := hi.roomL_iff; have f_roomL_nodup := hi.roomL_nodup; have f_userL_iff := hi.userL_iff; have f_userL_nodup := hi.userL_nodup; have f_sessL_iff := hi.sessL_iff; have f_rs_fwd := hi.rs_fwd; have f_rs_room := hi.rs_room; have f_virt := hi.virt; have f_children := hi.children; have f_vtable := hi.vtable; have f_conn_iff := hi.conn_iff; have f_conn_open := hi.conn_open; have f_eh := hi.eh; have f_expired := hi.expired; have f_anon := hi.anon; have f_dialout := hi.dialout; have f_count := hi.count; have f_orph_virt := hi.orph_virt; clear hi; (intros; (try simp only [hubf] at *); grind [mem_removeL, nodup_removeL, removeL_nil]))
+      | (have f_fresh := hi.fresh; have f_mem_room := hi.mem_room; have f_room_mem := hi.room_mem; have f_nonempty := hi.nonempty; have f_nodup := hi.nodup; have f_roomL_iff := hi.roomL_iff; have f_roomL_nodup := hi.roomL_nodup; have f_userL_iff := hi.userL_iff; have f_userL_nodup := hi.userL_nodup; have f_sessL_iff := hi.sessL_iff; have f_rs_fwd := hi.rs_fwd; have f_rs_room := hi.rs_room; have f_virt := hi.virt; have f_children := hi.children; have f_vtable := hi.vtable; have f_conn_iff := hi.conn_iff; have f_conn_open := hi.conn_open; have f_eh := hi.eh; have f_expired := hi.expired; have f_anon := hi.anon; have f_dialout := hi.dialout; have f_count := hi.count; have f_orph_virt := hi.orph_virt; have f_incall := hi.incall; clear hi; (intros; (try simp only [hubf] at *); grind [mem_removeL, nodup_removeL, removeL_nil]))
   case conn_iff =>
     cases hc : x.conn <;> simp only []
     all_goals first
       | (have f_conn_iff := hi.conn_iff; have f_fresh := hi.fresh; have f_virt := hi.virt; clear hi; (intros; (try simp only [hubf] at *); grind [mem_removeL, nodup_removeL, removeL_nil]))
-      | (have f_fresh := hi.fresh; have f_mem_room := hi.mem_room; have f_room_mem := hi.room_mem; have f_nonempty := hi.nonempty; have f_nodup := hi.nodup; have f_roomL_iff := hi.roomL_iff; have f_roomL_nodup := hi.roomL_nodup; have f_userL_iff := hi.userL_iff; have f_userL_nodup := hi.userL_nodup; have f_sessL_iff := hi.sessL_iff; have f_rs_fwd := hi.rs_fwd; have f_rs_room := hi.rs_room; have f_virt := hi.virt; have f_children := hi.children; have f_vtable := hi.vtable; have f_conn_iff := hi.conn_iff; have f_conn_open := hi.conn_open; have f_eh := hi.eh; have f_expired := hi.expired; have f_anon := hi.anon; have f_dialout := hi.dialout; have f_count := hi.count; have f_orph_virt := hi.orph_virt; clear hi; (intros; (try simp only [hubf] at *); grind [mem_removeL, nodup_removeL, removeL_nil]))
+      | (have f_fresh := hi.fresh; have f_mem_room := hi.mem_room; have f_room_mem := hi.room_mem; have f_nonempty := hi.nonempty; have f_nodup := hi.nodup; have f_roomL_iff := hi.roomL_iff; have f_roomL_nodup := hi.roomL_nodup; have f_userL_iff := hi.userL_iff; have f_userL_nodup := hi.userL_nodup; have f_sessL_iff := hi.sessL_iff; have f_rs_fwd := hi.rs_fwd; have f_rs_room := hi.rs_room; have f_virt := hi.virt; have f_children := hi.children; have f_vtable := hi.vtable; have f_conn_iff := hi.conn_iff; have f_conn_open := hi.conn_open; have f_eh := hi.eh; have f_expired := hi.expired; have f_anon := hi.anon; have f_dialout := hi.dialout; have f_count := hi.count; have f_orph_virt := hi.orph_virt; have f_incall := hi.incall; clear hi; (intros; (try simp only [hubf] at *); grind [mem_removeL, nodup_removeL, removeL_nil]))
   case conn_open =>
     cases hc : x.conn <;> simp only []
     all_goals first
       | (have f_conn_open := hi.conn_open; have f_conn_iff := hi.conn_iff; clear hi; (intros; (try simp only [hubf] at *); grind [mem_removeL, nodup_removeL, removeL_nil]))
-      | (have f_fresh := hi.fresh; have f_mem_room := hi.mem_room; have f_room_mem := hi.room_mem; have f_nonempty := hi.nonempty; have f_nodup := hi.nodup; have f_roomL_iff := hi.roomL_iff; have f_roomL_nodup := hi.roomL_nodup; have f_userL_iff := hi.userL_iff; have f_userL_nodup := hi.userL_nodup; have f_sessL_iff := hi.sessL_iff; have f_rs_fwd := hi.rs_fwd; have f_rs_room := hi.rs_room; have f_virt := hi.virt; have f_children := hi.children; have f_vtable := hi.vtable; have f_conn_iff := hi.conn_iff; have f_conn_open := hi.conn_open; have f_eh := hi.eh; have f_expired := hi.expired; have f_anon := hi.anon; have f_dialout := hi.dialout; have f_count := hi.count; have f_orph_virt := hi.orph_virt; clear hi; (intros; (try simp only [hubf] at *); grind [mem_removeL, nodup_removeL, removeL_nil]))
+      | (have f_fresh := hi.fresh; have f_mem_room := hi.mem_room; have f_room_mem := hi.room_mem; have f_nonempty := hi.nonempty; have f_nodup := hi.nodup; have f_roomL_iff := hi.roomL_iff; have f_roomL_nodup := hi.roomL_nodup; have f_userL_iff := hi.userL_iff; have f_userL_nodup := hi.userL_nodup; have f_sessL_iff := hi.sessL_iff; have f_rs_fwd := hi.rs_fwd; have f_rs_room := hi.rs_room; have f_virt := hi.virt; have f_children := hi.children; have f_vtable := hi.vtable; have f_conn_iff := hi.conn_iff; have f_conn_open := hi.conn_open; have f_eh := hi.eh; have f_expired := hi.expired; have f_anon := hi.anon; have f_dialout := hi.dialout; have f_count := hi.count; have f_orph_virt := hi.orph_virt; have f_incall := hi.incall; clear hi; (intros; (try simp only [hubf] at *); grind [mem_removeL, nodup_removeL, removeL_nil]))
   case eh =>
     cases hc : x.conn <;> simp only []
     all_goals first
       | (have f_eh := hi.eh; have f_conn_iff := hi.conn_iff; have f_conn_open := hi.conn_open; clear hi; (intros; (try simp only [hubf] at *); grind [mem_removeL, nodup_removeL, removeL_nil]))
-      | (have f_fresh := hi.fresh; have f_mem_room := hi.mem_room; have f_room_mem := hi.room_mem; have f_nonempty := hi.nonempty; have f_nodup := hi.nodup; have f_roomL_iff := hi.roomL_iff; have f_roomL_nodup := hi.roomL_nodup; have f_userL_iff := hi.userL_iff; have f_userL_nodup := hi.userL_nodup; have f_sessL_iff := hi.sessL_iff; have f_rs_fwd := hi.rs_fwd; have f_rs_room := hi.rs_room; have f_virt := hi.virt; have f_children := hi.children; have f_vtable := hi.vtable; have f_conn_iff := hi.conn_iff; have f_conn_open := hi.conn_open; have f_eh := hi.eh; have f_expired := hi.expired; have f_anon := hi.anon; have f_dialout := hi.dialout; have f_count := hi.count; have f_orph_virt := hi.orph_virt; clear hi; (intros; (try simp only [hubf] at *); grind [mem_removeL, nodup_removeL, removeL_nil]))
+      | (have f_fresh := hi.fresh; have f_mem_room := hi.mem_room; have f_room_mem := hi.room_mem; have f_nonempty := hi.nonempty; have f_nodup := hi.nodup; have f_roomL_iff := hi.roomL_iff; have f_roomL_nodup := hi.roomL_nodup; have f_userL_iff := hi.userL_iff; have f_userL_nodup := hi.userL_nodup; have f_sessL_iff := hi.sessL_iff; have f_rs_fwd := hi.rs_fwd; have f_rs_room := hi.rs_room; have f_virt := hi.virt; have f_children := hi.children; have f_vtable := hi.vtable; have f_conn_iff := hi.conn_iff; have f_conn_open := hi.conn_open; have f_eh := hi.eh; have f_expired := hi.expired; have f_anon := hi.anon; have f_dialout := hi.dialout; have f_count := hi.count; have f_orph_virt := hi.orph_virt; have f_incall := hi.incall; clear hi; (intros; (try simp only [hubf] at *); grind [mem_removeL, nodup_removeL, removeL_nil]))
   case expired =>
     cases hc : x.conn <;> simp only []
     all_goals first
       | (have f_expired := hi.expired; have f_fresh := hi.fresh; clear hi; (intros; (try simp only [hubf] at *); grind [mem_removeL, nodup_removeL, removeL_nil]))
-      | (have f_fresh := hi.fresh; have f_mem_room := hi.mem_room; have f_room_mem := hi.room_mem; have f_nonempty := hi.nonempty; have f_nodup := hi.nodup; have f_roomL_iff := hi.roomL_iff; have f_roomL_nodup := hi.roomL_nodup; have f_userL_iff := hi.userL_iff; have f_userL_nodup := hi.userL_nodup; have f_sessL_iff := hi.sessL_iff; have f_rs_fwd := hi.rs_fwd; have f_rs_room := hi.rs_room; have f_virt := hi.virt; have f_children := hi.children; have f_vtable := hi.vtable; have f_conn_iff := hi.conn_iff; have f_conn_open := hi.conn_open; have f_eh := hi.eh; have f_expired := hi.expired; have f_anon := hi.anon; have f_dialout := hi.dialout; have f_count := hi.count; have f_orph_virt := hi.orph_virt; clear hi; (intros; (try simp only [hubf] at *); grind [mem_removeL, nodup_removeL, removeL_nil]))
+      | (have f_fresh := hi.fresh; have f_mem_room := hi.mem_room; have f_room_mem := hi.room_mem; have f_nonempty := hi.nonempty; have f_nodup := hi.nodup; have f_roomL_iff := hi.roomL_iff; have f_roomL_nodup := hi.roomL_nodup; have f_userL_iff := hi.userL_iff; have f_userL_nodup := hi.userL_nodup; have f_sessL_iff := hi.sessL_iff; have f_rs_fwd := hi.rs_fwd; have f_rs_room := hi.rs_room; have f_virt := hi.virt; have f_children := hi.children; have f_vtable := hi.vtable; have f_conn_iff := hi.conn_iff; have f_conn_open := hi.conn_open; have f_eh := hi.eh; have f_expired := hi.expired; have f_anon := hi.anon; have f_dialout := hi.dialout; have f_count := hi.count; have f_orph_virt := hi.orph_virt; have f_incall := hi.incall; clear hi; (intros; (try simp only [hubf] at *); grind [mem_removeL, nodup_removeL, removeL_nil]))
   case anon =>
     cases hc : x.conn <;> simp only []
     all_goals first
       | (have f_anon := hi.anon; have f_fresh := hi.fresh; clear hi; (intros; (try simp only [hubf] at *); grind [mem_removeL, nodup_removeL, removeL_nil]))
-      | (have f_fresh := hi.fresh; have f_mem_room := hi.mem_room; have f_room_mem := hi.room_mem; have f_nonempty := hi.nonempty; have f_nodup := hi.nodup; have f_roomL_iff := hi.roomL_iff; have f_roomL_nodup := hi.roomL_nodup; have f_userL_iff := hi.userL_iff; have f_userL_nodup := hi.userL_nodup; have f_sessL_iff := hi.sessL_iff; have f_rs_fwd := hi.rs_fwd; have f_rs_room := hi.rs_room; have f_virt := hi.virt; have f_children := hi.children; have f_vtable := hi.vtable; have f_conn_iff := hi.conn_iff; have f_conn_open := hi.conn_open; have f_eh := hi.eh; have f_expired := hi.expired; have f_anon := hi.anon; have f_dialout := hi.dialout; have f_count := hi.count; have f_orph_virt := hi.orph_virt; clear hi; (intros; (try simp only [hubf] at *); grind [mem_removeL, nodup_removeL, removeL_nil]))
+      | (have f_fresh := hi.fresh; have f_mem_room := hi.mem_room; have f_room_mem := hi.room_mem; have f_nonempty := hi.nonempty; have f_nodup := hi.nodup; have f_roomL_iff := hi.roomL_iff; have f_roomL_nodup := hi.roomL_nodup; have f_userL_iff := hi.userL_iff; have f_userL_nodup := hi.userL_nodup; have f_sessL_iff := hi.sessL_iff; have f_rs_fwd := hi.rs_fwd; have f_rs_room := hi.rs_room; have f_virt := hi.virt; have f_children := hi.children; have f_vtable := hi.vtable; have f_conn_iff := hi.conn_iff; have f_conn_open := hi.conn_open; have f_eh := hi.eh; have f_expired := hi.expired; have f_anon := hi.anon; have f_dialout := hi.dialout; have f_count := hi.count; have f_orph_virt := hi.orph_virt; have f_incall := hi.incall; clear hi; (intros; (try simp only [hubf] at *); grind [mem_removeL, nodup_removeL, removeL_nil]))
   case dialout =>
     cases hc : x.conn <;> simp only []
     all_goals first
       | (have f_dialout := hi.dialout; have f_fresh := hi.fresh; clear hi; (intros; (try simp only [hubf] at *); grind [mem_removeL, nodup_removeL, removeL_nil]))
-      | (have f_fresh := hi.fresh; have f_mem_room := hi.mem_room; have f_room_mem := hi.room_mem; have f_nonempty := hi.nonempty; have f_nodup := hi.nodup; have f_roomL_iff := hi.roomL_iff; have f_roomL_nodup := hi.roomL_nodup; have f_userL_iff := hi.userL_iff; have f_userL_nodup := hi.userL_nodup; have f_sessL_iff := hi.sessL_iff; have f_rs_fwd := hi.rs_fwd; have f_rs_room := hi.rs_room; have f_virt := hi.virt; have f_children := hi.children; have f_vtable := hi.vtable; have f_conn_iff := hi.conn_iff; have f_conn_open := hi.conn_open; have f_eh := hi.eh; have f_expired := hi.expired; have f_anon := hi.anon; have f_dialout := hi.dialout; have f_count := hi.count; have f_orph_virt := hi.orph_virt; clear hi; (intros; (try simp only [hubf] at *); grind [mem_removeL, nodup_removeL, removeL_nil]))
+      | (have f_fresh := hi.fresh; have f_mem_room := hi.mem_room; have f_room_mem := hi.room_mem; have f_nonempty := hi.nonempty; have f_nodup := hi.nodup; have f_roomL_iff := hi.roomL_iff; have f_roomL_nodup := hi.roomL_nodup; have f_userL_iff := hi.userL_iff; have f_userL_nodup := hi.userL_nodup; have f_sessL_iff := hi.sessL_iff; have f_rs_fwd := hi.rs_fwd; have f_rs_room := hi.rs_room; have f_virt := hi.virt; have f_children := hi.children; have f_vtable := hi.vtable; have f_conn_iff := hi.conn_iff; have f_conn_open := hi.conn_open; have f_eh := hi.eh; have f_expired := hi.expired; have f_anon := hi.anon; have f_dialout := hi.dialout; have f_count := hi.count; have f_orph_virt := hi.orph_virt; have f_incall := hi.incall; clear hi; (intros; (try simp only [hubf] at *); grind [mem_removeL, nodup_removeL, removeL_nil]))
   case count =>
     cases hc : x.conn <;> simp only []
     all_goals first
       | (have f_count := hi.count; have f_fresh := hi.fresh; clear hi; (intros; (try simp only [hubf] at *); grind [mem_removeL, nodup_removeL, removeL_nil]))
-      | (have f_fresh := hi.fresh; have f_mem_room := hi.mem_room; have f_room_mem := hi.room_mem; have f_nonempty := hi.nonempty; have f_nodup := hi.nodup; have f_roomL_iff := hi.roomL_iff; have f_roomL_nodup := hi.roomL_nodup; have f_userL_iff := hi.userL_iff; have f_userL_nodup := hi.userL_nodup; have f_sessL_iff := hi.sessL_iff; have f_rs_fwd := hi.rs_fwd; have f_rs_room := hi.rs_room; have f_virt := hi.virt; have f_children := hi.children; have f_vtable := hi.vtable; have f_conn_iff := hi.conn_iff; have f_conn_open := hi.conn_open; have f_eh := hi.eh; have f_expired := hi.expired; have f_anon := hi.anon; have f_dialout := hi.dialout; have f_count := hi.count; have f_orph_virt := hi.orph_virt; clear hi; (intros; (try simp only [hubf] at *); grind [mem_removeL, nodup_removeL, removeL_nil]))
+      | (have f_fresh := hi.fresh; have f_mem_room := hi.mem_room; have f_room_mem := hi.room_mem; have f_nonempty := hi.nonempty; have f_nodup := hi.nodup; have f_roomL_iff := hi.roomL_iff; have f_roomL_nodup := hi.roomL_nodup; have f_userL_iff := hi.userL_iff; have f_userL_nodup := hi.userL_nodup; have f_sessL_iff := hi.sessL_iff; have f_rs_fwd := hi.rs_fwd; have f_rs_room := hi.rs_room; have f_virt := hi.virt; have f_children := hi.children; have f_vtable := hi.vtable; have f_conn_iff := hi.conn_iff; have f_conn_open := hi.conn_open; have f_eh := hi.eh; have f_expired := hi.expired; have f_anon := hi.anon; have f_dialout := hi.dialout; have f_count := hi.count; have f_orph_virt := hi.orph_virt; have f_incall := hi.incall; clear hi; (intros; (try simp only [hubf] at *); grind [mem_removeL, nodup_removeL, removeL_nil]))
   case orph_virt =>
     cases hc : x.conn <;> simp only []
     all_goals first
       | (have f_orph_virt := hi.orph_virt; have f_fresh := hi.fresh; have f_children := hi.children; have f_virt := hi.virt; clear hi; (intros; (try simp only [hubf] at *); grind [mem_removeL, nodup_removeL, removeL_nil]))
-      | (have f_fresh := hi.fresh; have f_mem_room := hi.mem_room; have f_room_mem := hi.room_mem; have f_nonempty := hi.nonempty; have f_nodup := hi.nodup; have f_roomL_iff := hi.roomL_iff; have f_roomL_nodup := hi.roomL_nodup; have f_userL_iff := hi.userL_iff; have f_userL_nodup := hi.userL_nodup; have f_sessL_iff := hi.sessL_iff; have f_rs_fwd := hi.rs_fwd; have f_rs_room := hi.rs_room; have f_virt := hi.virt; have f_children := hi.children; have f_vtable := hi.vtable; have f_conn_iff := hi.conn_iff; have f_conn_open := hi.conn_open; have f_eh := hi.eh; have f_expired := hi.expired; have f_anon := hi.anon; have f_dialout := hi.dialout; have f_count := hi.count; have f_orph_virt := hi.orph_virt; clear hi; (intros; (try simp only [hubf] at *); grind [mem_removeL, nodup_removeL, removeL_nil]))
+      | (have f_fresh := hi.fresh; have f_mem_room := hi.mem_room; have f_room_mem := hi.room_mem; have f_nonempty := hi.nonempty; have f_nodup := hi.nodup; have f_roomL_iff := hi.roomL_iff; have f_roomL_nodup := hi.roomL_nodup; have f_userL_iff := hi.userL_iff; have f_userL_nodup := hi.userL_nodup; have f_sessL_iff := hi.sessL_iff; have f_rs_fwd := hi.rs_fwd; have f_rs_room := hi.rs_room; have f_virt := hi.virt; have f_children := hi.children; have f_vtable := hi.vtable; have f_conn_iff := hi.conn_iff; have f_conn_open := hi.conn_open; have f_eh := hi.eh; have f_expired := hi.expired; have f_anon := hi.anon; have f_dialout := hi.dialout; have f_count := hi.count; have f_orph_virt := hi.orph_virt; have f_incall := hi.incall; clear hi; (intros; (try simp only [hubf] at *); grind [mem_removeL, nodup_removeL, removeL_nil]))
+  case incall =>
+    cases hc : x.conn <;> simp only []
+    all_goals first
+      | (have f_incall := hi.incall; have f_mem_room := hi.mem_room; clear hi; (intros; (try simp only [hubf] at *); grind [mem_removeL, nodup_removeL, removeL_nil]))
+      | (have f_fresh := hi.fresh; have f_mem_room := hi.mem_room; have f_room_mem := hi.room_mem; have f_nonempty := hi.nonempty; have f_nodup := hi.nodup; have f_roomL_iff := hi.roomL_iff; have f_roomL_nodup := hi.roomL_nodup; have f_userL_iff := hi.userL_iff; have f_userL_nodup := hi.userL_nodup; have f_sessL_iff := hi.sessL_iff; have f_rs_fwd := hi.rs_fwd; have f_rs_room := hi.rs_room; have f_virt := hi.virt; have f_children := hi.children; have f_vtable := hi.vtable; have f_conn_iff := hi.conn_iff; have f_conn_open := hi.conn_open; have f_eh := hi.eh; have f_expired := hi.expired; have f_anon := hi.anon; have f_dialout := hi.dialout; have f_count := hi.count; have f_orph_virt := hi.orph_virt; have f_incall := hi.incall; clear hi; (intros; (try simp only [hubf] at *); grind [mem_removeL, nodup_removeL, removeL_nil]))
 
 theorem flushPending_h (s : Nat) : ∀ (l : List Msg) (a : Acc), (flushPending a s l).h = a.h := by
   intro l
@@ -364,95 +374,99 @@ theorem disconnectTables_inv {h : Hub} (hi : Inv h) {c s : Nat} (hcs : h.connSes
   case fresh =>
     first
       | (have f_fresh := hi.fresh; clear hi; (intros; (try simp only [hubf] at *); grind [mem_removeL, nodup_removeL, removeL_nil]))
-      | (have f_fresh := hi.fresh; have f_mem_room := hi.mem_room; have f_room_mem := hi.room_mem; have f_nonempty := hi.nonempty; have f_nodup := hi.nodup; have f_roomL_iff := hi.roomL_iff; have f_roomL_nodup := hi.roomL_nodup; have f_userL_iff := hi.userL_iff; have f_userL_nodup := hi.userL_nodup; have f_sessL_iff := hi.sessL_iff; have f_rs_fwd := hi.rs_fwd; have f_rs_room := hi.rs_room; have f_virt := hi.virt; have f_children := hi.children; have f_vtable := hi.vtable; have f_conn_iff := hi.conn_iff; have f_conn_open := hi.conn_open; have f_eh := hi.eh; have f_expired := hi.expired; have f_anon := hi.anon; have f_dialout := hi.dialout; have f_count := hi.count; have f_orph_virt := hi.orph_virt; clear hi; (intros; (try simp only [hubf] at *); grind [mem_removeL, nodup_removeL, removeL_nil]))
+      | (have f_fresh := hi.fresh; have f_mem_room := hi.mem_room; have f_room_mem := hi.room_mem; have f_nonempty := hi.nonempty; have f_nodup := hi.nodup; have f_roomL_iff := hi.roomL_iff; have f_roomL_nodup := hi.roomL_nodup; have f_userL_iff := hi.userL_iff; have f_userL_nodup := hi.userL_nodup; have f_sessL_iff := hi.sessL_iff; have f_rs_fwd := hi.rs_fwd; have f_rs_room := hi.rs_room; have f_virt := hi.virt; have f_children := hi.children; have f_vtable := hi.vtable; have f_conn_iff := hi.conn_iff; have f_conn_open := hi.conn_open; have f_eh := hi.eh; have f_expired := hi.expired; have f_anon := hi.anon; have f_dialout := hi.dialout; have f_count := hi.count; have f_orph_virt := hi.orph_virt; have f_incall := hi.incall; clear hi; (intros; (try simp only [hubf] at *); grind [mem_removeL, nodup_removeL, removeL_nil]))
   case mem_room =>
     first
       | (have f_mem_room := hi.mem_room; have f_fresh := hi.fresh; clear hi; (intros; (try simp only [hubf] at *); grind [mem_removeL, nodup_removeL, removeL_nil]))
-      | (have f_fresh := hi.fresh; have f_mem_room := hi.mem_room; have f_room_mem := hi.room_mem; have f_nonempty := hi.nonempty; have f_nodup := hi.nodup; have f_roomL_iff := hi.roomL_iff; have f_roomL_nodup := hi.roomL_nodup; have f_userL_iff := hi.userL_iff; have f_userL_nodup := hi.userL_nodup; have f_sessL_iff := hi.sessL_iff; have f_rs_fwd := hi.rs_fwd; have f_rs_room := hi.rs_room; have f_virt := hi.virt; have f_children := hi.children; have f_vtable := hi.vtable; have f_conn_iff := hi.conn_iff; have f_conn_open := hi.conn_open; have f_eh := hi.eh; have f_expired := hi.expired; have f_anon := hi.anon; have f_dialout := hi.dialout; have f_count := hi.count; have f_orph_virt := hi.orph_virt; clear hi; (intros; (try simp only [hubf] at *); grind [mem_removeL, nodup_removeL, removeL_nil]))
+      | (have f_fresh := hi.fresh; have f_mem_room := hi.mem_room; have f_room_mem := hi.room_mem; have f_nonempty := hi.nonempty; have f_nodup := hi.nodup; have f_roomL_iff := hi.roomL_iff; have f_roomL_nodup := hi.roomL_nodup; have f_userL_iff := hi.userL_iff; have f_userL_nodup := hi.userL_nodup; have f_sessL_iff := hi.sessL_iff; have f_rs_fwd := hi.rs_fwd; have f_rs_room := hi.rs_room; have f_virt := hi.virt; have f_children := hi.children; have f_vtable := hi.vtable; have f_conn_iff := hi.conn_iff; have f_conn_open := hi.conn_open; have f_eh := hi.eh; have f_expired := hi.expired; have f_anon := hi.anon; have f_dialout := hi.dialout; have f_count := hi.count; have f_orph_virt := hi.orph_virt; have f_incall := hi.incall; clear hi; (intros; (try simp only [hubf] at *); grind [mem_removeL, nodup_removeL, removeL_nil]))
   case room_mem =>
     first
       | (have f_room_mem := hi.room_mem; have f_mem_room := hi.mem_room; have f_fresh := hi.fresh; clear hi; (intros; (try simp only [hubf] at *); grind [mem_removeL, nodup_removeL, removeL_nil]))
-      | (have f_fresh := hi.fresh; have f_mem_room := hi.mem_room; have f_room_mem := hi.room_mem; have f_nonempty := hi.nonempty; have f_nodup := hi.nodup; have f_roomL_iff := hi.roomL_iff; have f_roomL_nodup := hi.roomL_nodup; have f_userL_iff := hi.userL_iff; have f_userL_nodup := hi.userL_nodup; have f_sessL_iff := hi.sessL_iff; have f_rs_fwd := hi.rs_fwd; have f_rs_room := hi.rs_room; have f_virt := hi.virt; have f_children := hi.children; have f_vtable := hi.vtable; have f_conn_iff := hi.conn_iff; have f_conn_open := hi.conn_open; have f_eh := hi.eh; have f_expired := hi.expired; have f_anon := hi.anon; have f_dialout := hi.dialout; have f_count := hi.count; have f_orph_virt := hi.orph_virt; clear hi; (intros; (try simp only [hubf] at *); grind [mem_removeL, nodup_removeL, removeL_nil]))
+      | (have f_fresh := hi.fresh; have f_mem_room := hi.mem_room; have f_room_mem := hi.room_mem; have f_nonempty := hi.nonempty; have f_nodup := hi.nodup; have f_roomL_iff := hi.roomL_iff; have f_roomL_nodup := hi.roomL_nodup; have f_userL_iff := hi.userL_iff; have f_userL_nodup := hi.userL_nodup; have f_sessL_iff := hi.sessL_iff; have f_rs_fwd := hi.rs_fwd; have f_rs_room := hi.rs_room; have f_virt := hi.virt; have f_children := hi.children; have f_vtable := hi.vtable; have f_conn_iff := hi.conn_iff; have f_conn_open := hi.conn_open; have f_eh := hi.eh; have f_expired := hi.expired; have f_anon := hi.anon; have f_dialout := hi.dialout; have f_count := hi.count; have f_orph_virt := hi.orph_virt; have f_incall := hi.incall; clear hi; (intros; (try simp only [hubf] at *); grind [mem_removeL, nodup_removeL, removeL_nil]))
   case nonempty =>
     first
       | (have f_nonempty := hi.nonempty; have f_mem_room := hi.mem_room; clear hi; (intros; (try simp only [hubf] at *); grind [mem_removeL, nodup_removeL, removeL_nil]))
-      | (have f_fresh := hi.fresh; have f_mem_room := hi.mem_room; have f_room_mem := hi.room_mem; have f_nonempty := hi.nonempty; have f_nodup := hi.nodup; have f_roomL_iff := hi.roomL_iff; have f_roomL_nodup := hi.roomL_nodup; have f_userL_iff := hi.userL_iff; have f_userL_nodup := hi.userL_nodup; have f_sessL_iff := hi.sessL_iff; have f_rs_fwd := hi.rs_fwd; have f_rs_room := hi.rs_room; have f_virt := hi.virt; have f_children := hi.children; have f_vtable := hi.vtable; have f_conn_iff := hi.conn_iff; have f_conn_open := hi.conn_open; have f_eh := hi.eh; have f_expired := hi.expired; have f_anon := hi.anon; have f_dialout := hi.dialout; have f_count := hi.count; have f_orph_virt := hi.orph_virt; clear hi; (intros; (try simp only [hubf] at *); grind [mem_removeL, nodup_removeL, removeL_nil]))
+      | (have f_fresh := hi.fresh; have f_mem_room := hi.mem_room; have f_room_mem := hi.room_mem; have f_nonempty := hi.nonempty; have f_nodup := hi.nodup; have f_roomL_iff := hi.roomL_iff; have f_roomL_nodup := hi.roomL_nodup; have f_userL_iff := hi.userL_iff; have f_userL_nodup := hi.userL_nodup; have f_sessL_iff := hi.sessL_iff; have f_rs_fwd := hi.rs_fwd; have f_rs_room := hi.rs_room; have f_virt := hi.virt; have f_children := hi.children; have f_vtable := hi.vtable; have f_conn_iff := hi.conn_iff; have f_conn_open := hi.conn_open; have f_eh := hi.eh; have f_expired := hi.expired; have f_anon := hi.anon; have f_dialout := hi.dialout; have f_count := hi.count; have f_orph_virt := hi.orph_virt; have f_incall := hi.incall; clear hi; (intros; (try simp only [hubf] at *); grind [mem_removeL, nodup_removeL, removeL_nil]))
   case nodup =>
     first
       | (have f_nodup := hi.nodup; clear hi; (intros; (try simp only [hubf] at *); grind [mem_removeL, nodup_removeL, removeL_nil]))
-      | (have f_fresh := hi.fresh; have f_mem_room := hi.mem_room; have f_room_mem := hi.room_mem; have f_nonempty := hi.nonempty; have f_nodup := hi.nodup; have f_roomL_iff := hi.roomL_iff; have f_roomL_nodup := hi.roomL_nodup; have f_userL_iff := hi.userL_iff; have f_userL_nodup := hi.userL_nodup; have f_sessL_iff := hi.sessL_iff; have f_rs_fwd := hi.rs_fwd; have f_rs_room := hi.rs_room; have f_virt := hi.virt; have f_children := hi.children; have f_vtable := hi.vtable; have f_conn_iff := hi.conn_iff; have f_conn_open := hi.conn_open; have f_eh := hi.eh; have f_expired := hi.expired; have f_anon := hi.anon; have f_dialout := hi.dialout; have f_count := hi.count; have f_orph_virt := hi.orph_virt; clear hi; (intros; (try simp only [hubf] at *); grind [mem_removeL, nodup_removeL, removeL_nil]))
+      | (have f_fresh := hi.fresh; have f_mem_room := hi.mem_room; have f_room_mem := hi.room_mem; have f_nonempty := hi.nonempty; have f_nodup := hi.nodup; have f_roomL_iff := hi.roomL_iff; have f_roomL_nodup := hi.roomL_nodup; have f_userL_iff := hi.userL_iff; have f_userL_nodup := hi.userL_nodup; have f_sessL_iff := hi.sessL_iff; have f_rs_fwd := hi.rs_fwd; have f_rs_room := hi.rs_room; have f_virt := hi.virt; have f_children := hi.children; have f_vtable := hi.vtable; have f_conn_iff := hi.conn_iff; have f_conn_open := hi.conn_open; have f_eh := hi.eh; have f_expired := hi.expired; have f_anon := hi.anon; have f_dialout := hi.dialout; have f_count := hi.count; have f_orph_virt := hi.orph_virt; have f_incall := hi.incall; clear hi; (intros; (try simp only [hubf] at *); grind [mem_removeL, nodup_removeL, removeL_nil]))
   case roomL_iff =>
     first
       | (have f_roomL_iff := hi.roomL_iff; have f_fresh := hi.fresh; have f_room_mem := hi.room_mem; have f_mem_room := hi.mem_room; clear hi; (intros; (try simp only [hubf] at *); grind [mem_removeL, nodup_removeL, removeL_nil]))
-      | (have f_fresh := hi.fresh; have f_mem_room := hi.mem_room; have f_room_mem := hi.room_mem; have f_nonempty := hi.nonempty; have f_nodup := hi.nodup; have f_roomL_iff := hi.roomL_iff; have f_roomL_nodup := hi.roomL_nodup; have f_userL_iff := hi.userL_iff; have f_userL_nodup := hi.userL_nodup; have f_sessL_iff := hi.sessL_iff; have f_rs_fwd := hi.rs_fwd; have f_rs_room := hi.rs_room; have f_virt := hi.virt; have f_children := hi.children; have f_vtable := hi.vtable; have f_conn_iff := hi.conn_iff; have f_conn_open := hi.conn_open; have f_eh := hi.eh; have f_expired := hi.expired; have f_anon := hi.anon; have f_dialout := hi.dialout; have f_count := hi.count; have f_orph_virt := hi.orph_virt; clear hi; (intros; (try simp only [hubf] at *); grind [mem_removeL, nodup_removeL, removeL_nil]))
+      | (have f_fresh := hi.fresh; have f_mem_room := hi.mem_room; have f_room_mem := hi.room_mem; have f_nonempty := hi.nonempty; have f_nodup := hi.nodup; have f_roomL_iff := hi.roomL_iff; have f_roomL_nodup := hi.roomL_nodup; have f_userL_iff := hi.userL_iff; have f_userL_nodup := hi.userL_nodup; have f_sessL_iff := hi.sessL_iff; have f_rs_fwd := hi.rs_fwd; have f_rs_room := hi.rs_room; have f_virt := hi.virt; have f_children := hi.children; have f_vtable := hi.vtable; have f_conn_iff := hi.conn_iff; have f_conn_open := hi.conn_open; have f_eh := hi.eh; have f_expired := hi.expired; have f_anon := hi.anon; have f_dialout := hi.dialout; have f_count := hi.count; have f_orph_virt := hi.orph_virt; have f_incall := hi.incall; clear hi; (intros; (try simp only [hubf] at *); grind [mem_removeL, nodup_removeL, removeL_nil]))
   case roomL_nodup =>
     first
       | (have f_roomL_nodup := hi.roomL_nodup; have f_roomL_iff := hi.roomL_iff; clear hi; (intros; (try simp only [hubf] at *); grind [mem_removeL, nodup_removeL, removeL_nil]))
-      | (have f_fresh := hi.fresh; have f_mem_room := hi.mem_room; have f_room_mem := hi.room_mem; have f_nonempty := hi.nonempty; have f_nodup := hi.nodup; have f_roomL_iff := hi.roomL_iff; have f_roomL_nodup := hi.roomL_nodup; have f_userL_iff := hi.userL_iff; have f_userL_nodup := hi.userL_nodup; have f_sessL_iff := hi.sessL_iff; have f_rs_fwd := hi.rs_fwd; have f_rs_room := hi.rs_room; have f_virt := hi.virt; have f_children := hi.children; have f_vtable := hi.vtable; have f_conn_iff := hi.conn_iff; have f_conn_open := hi.conn_open; have f_eh := hi.eh; have f_expired := hi.expired; have f_anon := hi.anon; have f_dialout := hi.dialout; have f_count := hi.count; have f_orph_virt := hi.orph_virt; clear hi; (intros; (try simp only [hubf] at *); grind [mem_removeL, nodup_removeL, removeL_nil]))
+      | (have f_fresh := hi.fresh; have f_mem_room := hi.mem_room; have f_room_mem := hi.room_mem; have f_nonempty := hi.nonempty; have f_nodup := hi.nodup; have f_roomL_iff := hi.roomL_iff; have f_roomL_nodup := hi.roomL_nodup; have f_userL_iff := hi.userL_iff; have f_userL_nodup := hi.userL_nodup; have f_sessL_iff := hi.sessL_iff; have f_rs_fwd := hi.rs_fwd; have f_rs_room := hi.rs_room; have f_virt := hi.virt; have f_children := hi.children; have f_vtable := hi.vtable; have f_conn_iff := hi.conn_iff; have f_conn_open := hi.conn_open; have f_eh := hi.eh; have f_expired := hi.expired; have f_anon := hi.anon; have f_dialout := hi.dialout; have f_count := hi.count; have f_orph_virt := hi.orph_virt; have f_incall := hi.incall; clear hi; (intros; (try simp only [hubf] at *); grind [mem_removeL, nodup_removeL, removeL_nil]))
   case userL_iff =>
     first
       | (have f_userL_iff := hi.userL_iff; have f_fresh := hi.fresh; clear hi; (intros; (try simp only [hubf] at *); grind [mem_removeL, nodup_removeL, removeL_nil]))
-      | (have f_fresh := hi.fresh; have f_mem_room := hi.mem_room; have f_room_mem := hi.room_mem; have f_nonempty := hi.nonempty; have f_nodup := hi.nodup; have f_roomL_iff := hi.roomL_iff; have f_roomL_nodup := hi.roomL_nodup; have f_userL_iff := hi.userL_iff; have f_userL_nodup := hi.userL_nodup; have f_sessL_iff := hi.sessL_iff; have f_rs_fwd := hi.rs_fwd; have f_rs_room := hi.rs_room; have f_virt := hi.virt; have f_children := hi.children; have f_vtable := hi.vtable; have f_conn_iff := hi.conn_iff; have f_conn_open := hi.conn_open; have f_eh := hi.eh; have f_expired := hi.expired; have f_anon := hi.anon; have f_dialout := hi.dialout; have f_count := hi.count; have f_orph_virt := hi.orph_virt; clear hi; (intros; (try simp only [hubf] at *); grind [mem_removeL, nodup_removeL, removeL_nil]))
+      | (have f_fresh := hi.fresh; have f_mem_room := hi.mem_room; have f_room_mem := hi.room_mem; have f_nonempty := hi.nonempty; have f_nodup := hi.nodup; have f_roomL_iff := hi.roomL_iff; have f_roomL_nodup := hi.roomL_nodup; have f_userL_iff := hi.userL_iff; have f_userL_nodup := hi.userL_nodup; have f_sessL_iff := hi.sessL_iff; have f_rs_fwd := hi.rs_fwd; have f_rs_room := hi.rs_room; have f_virt := hi.virt; have f_children := hi.children; have f_vtable := hi.vtable; have f_conn_iff := hi.conn_iff; have f_conn_open := hi.conn_open; have f_eh := hi.eh; have f_expired := hi.expired; have f_anon := hi.anon; have f_dialout := hi.dialout; have f_count := hi.count; have f_orph_virt := hi.orph_virt; have f_incall := hi.incall; clear hi; (intros; (try simp only [hubf] at *); grind [mem_removeL, nodup_removeL, removeL_nil]))
   case userL_nodup =>
     first
       | (have f_userL_nodup := hi.userL_nodup; have f_userL_iff := hi.userL_iff; clear hi; (intros; (try simp only [hubf] at *); grind [mem_removeL, nodup_removeL, removeL_nil]))
-      | (have f_fresh := hi.fresh; have f_mem_room := hi.mem_room; have f_room_mem := hi.room_mem; have f_nonempty := hi.nonempty; have f_nodup := hi.nodup; have f_roomL_iff := hi.roomL_iff; have f_roomL_nodup := hi.roomL_nodup; have f_userL_iff := hi.userL_iff; have f_userL_nodup := hi.userL_nodup; have f_sessL_iff := hi.sessL_iff; have f_rs_fwd := hi.rs_fwd; have f_rs_room := hi.rs_room; have f_virt := hi.virt; have f_children := hi.children; have f_vtable := hi.vtable; have f_conn_iff := hi.conn_iff; have f_conn_open := hi.conn_open; have f_eh := hi.eh; have f_expired := hi.expired; have f_anon := hi.anon; have f_dialout := hi.dialout; have f_count := hi.count; have f_orph_virt := hi.orph_virt; clear hi; (intros; (try simp only [hubf] at *); grind [mem_removeL, nodup_removeL, removeL_nil]))
+      | (have f_fresh := hi.fresh; have f_mem_room := hi.mem_room; have f_room_mem := hi.room_mem; have f_nonempty := hi.nonempty; have f_nodup := hi.nodup; have f_roomL_iff := hi.roomL_iff; have f_roomL_nodup := hi.roomL_nodup; have f_userL_iff := hi.userL_iff; have f_userL_nodup := hi.userL_nodup; have f_sessL_iff := hi.sessL_iff; have f_rs_fwd := hi.rs_fwd; have f_rs_room := hi.rs_room; have f_virt := hi.virt; have f_children := hi.children; have f_vtable := hi.vtable; have f_conn_iff := hi.conn_iff; have f_conn_open := hi.conn_open; have f_eh := hi.eh; have f_expired := hi.expired; have f_anon := hi.anon; have f_dialout := hi.dialout; have f_count := hi.count; have f_orph_virt := hi.orph_virt; have f_incall := hi.incall; clear hi; (intros; (try simp only [hubf] at *); grind [mem_removeL, nodup_removeL, removeL_nil]))
   case sessL_iff =>
     first
       | (have f_sessL_iff := hi.sessL_iff; have f_fresh := hi.fresh; clear hi; (intros; (try simp only [hubf] at *); grind [mem_removeL, nodup_removeL, removeL_nil]))
-      | (have f_fresh := hi.fresh; have f_mem_room := hi.mem_room; have f_room_mem := hi.room_mem; have f_nonempty := hi.nonempty; have f_nodup := hi.nodup; have f_roomL_iff := hi.roomL_iff; have f_roomL_nodup := hi.roomL_nodup; have f_userL_iff := hi.userL_iff; have f_userL_nodup := hi.userL_nodup; have f_sessL_iff := hi.sessL_iff; have f_rs_fwd := hi.rs_fwd; have f_rs_room := hi.rs_room; have f_virt := hi.virt; have f_children := hi.children; have f_vtable := hi.vtable; have f_conn_iff := hi.conn_iff; have f_conn_open := hi.conn_open; have f_eh := hi.eh; have f_expired := hi.expired; have f_anon := hi.anon; have f_dialout := hi.dialout; have f_count := hi.count; have f_orph_virt := hi.orph_virt; clear hi; (intros; (try simp only [hubf] at *); grind [mem_removeL, nodup_removeL, removeL_nil]))
+      | (have f_fresh := hi.fresh; have f_mem_room := hi.mem_room; have f_room_mem := hi.room_mem; have f_nonempty := hi.nonempty; have f_nodup := hi.nodup; have f_roomL_iff := hi.roomL_iff; have f_roomL_nodup := hi.roomL_nodup; have f_userL_iff := hi.userL_iff; have f_userL_nodup := hi.userL_nodup; have f_sessL_iff := hi.sessL_iff; have f_rs_fwd := hi.rs_fwd; have f_rs_room := hi.rs_room; have f_virt := hi.virt; have f_children := hi.children; have f_vtable := hi.vtable; have f_conn_iff := hi.conn_iff; have f_conn_open := hi.conn_open; have f_eh := hi.eh; have f_expired := hi.expired; have f_anon := hi.anon; have f_dialout := hi.dialout; have f_count := hi.count; have f_orph_virt := hi.orph_virt; have f_incall := hi.incall; clear hi; (intros; (try simp only [hubf] at *); grind [mem_removeL, nodup_removeL, removeL_nil]))
   case rs_fwd =>
     first
       | (have f_rs_fwd := hi.rs_fwd; have f_rs_room := hi.rs_room; have f_fresh := hi.fresh; clear hi; (intros; (try simp only [hubf] at *); grind [mem_removeL, nodup_removeL, removeL_nil]))
-      | (have f_fresh := hi.fresh; have f_mem_room := hi.mem_room; have f_room_mem := hi.room_mem; have f_nonempty := hi.nonempty; have f_nodup := hi.nodup; have f_roomL_iff := hi.roomL_iff; have f_roomL_nodup := hi.roomL_nodup; have f_userL_iff := hi.userL_iff; have f_userL_nodup := hi.userL_nodup; have f_sessL_iff := hi.sessL_iff; have f_rs_fwd := hi.rs_fwd; have f_rs_room := hi.rs_room; have f_virt := hi.virt; have f_children := hi.children; have f_vtable := hi.vtable; have f_conn_iff := hi.conn_iff; have f_conn_open := hi.conn_open; have f_eh := hi.eh; have f_expired := hi.expired; have f_anon := hi.anon; have f_dialout := hi.dialout; have f_count := hi.count; have f_orph_virt := hi.orph_virt; clear hi; (intros; (try simp only [hubf] at *); grind [mem_removeL, nodup_removeL, removeL_nil]))
+      | (have f_fresh := hi.fresh; have f_mem_room := hi.mem_room; have f_room_mem := hi.room_mem; have f_nonempty := hi.nonempty; have f_nodup := hi.nodup; have f_roomL_iff := hi.roomL_iff; have f_roomL_nodup := hi.roomL_nodup; have f_userL_iff := hi.userL_iff; have f_userL_nodup := hi.userL_nodup; have f_sessL_iff := hi.sessL_iff; have f_rs_fwd := hi.rs_fwd; have f_rs_room := hi.rs_room; have f_virt := hi.virt; have f_children := hi.children; have f_vtable := hi.vtable; have f_conn_iff := hi.conn_iff; have f_conn_open := hi.conn_open; have f_eh := hi.eh; have f_expired := hi.expired; have f_anon := hi.anon; have f_dialout := hi.dialout; have f_count := hi.count; have f_orph_virt := hi.orph_virt; have f_incall := hi.incall; clear hi; (intros; (try simp only [hubf] at *); grind [mem_removeL, nodup_removeL, removeL_nil]))
   case rs_room =>
     first
       | (have f_rs_room := hi.rs_room; have f_rs_fwd := hi.rs_fwd; have f_fresh := hi.fresh; have f_room_mem := hi.room_mem; clear hi; (intros; (try simp only [hubf] at *); grind [mem_removeL, nodup_removeL, removeL_nil]))
-      | (have f_fresh := hi.fresh; have f_mem_room := hi.mem_room; have f_room_mem := hi.room_mem; have f_nonempty := hi.nonempty; have f_nodup := hi.nodup; have f_roomL_iff := hi.roomL_iff; have f_roomL_nodup := hi.roomL_nodup; have f_userL_iff := hi.userL_iff; have f_userL_nodup := hi.userL_nodup; have f_sessL_iff := hi.sessL_iff; have f_rs_fwd := hi.rs_fwd; have f_rs_room := hi.rs_room; have f_virt := hi.virt; have f_children := hi.children; have f_vtable := hi.vtable; have f_conn_iff := hi.conn_iff; have f_conn_open := hi.conn_open; have f_eh := hi.eh; have f_expired := hi.expired; have f_anon := hi.anon; have f_dialout := hi.dialout; have f_count := hi.count; have f_orph_virt := hi.orph_virt; clear hi; (intros; (try simp only [hubf] at *); grind [mem_removeL, nodup_removeL, removeL_nil]))
+      | (have f_fresh := hi.fresh; have f_mem_room := hi.mem_room; have f_room_mem := hi.room_mem; have f_nonempty := hi.nonempty; have f_nodup := hi.nodup; have f_roomL_iff := hi.roomL_iff; have f_roomL_nodup := hi.roomL_nodup; have f_userL_iff := hi.userL_iff; have f_userL_nodup := hi.userL_nodup; have f_sessL_iff := hi.sessL_iff; have f_rs_fwd := hi.rs_fwd; have f_rs_room := hi.rs_room; have f_virt := hi.virt; have f_children := hi.children; have f_vtable := hi.vtable; have f_conn_iff := hi.conn_iff; have f_conn_open := hi.conn_open; have f_eh := hi.eh; have f_expired := hi.expired; have f_anon := hi.anon; have f_dialout := hi.dialout; have f_count := hi.count; have f_orph_virt := hi.orph_virt; have f_incall := hi.incall; clear hi; (intros; (try simp only [hubf] at *); grind [mem_removeL, nodup_removeL, removeL_nil]))
   case virt =>
     first
       | (have f_virt := hi.virt; have f_children := hi.children; have f_fresh := hi.fresh; clear hi; (intros; (try simp only [hubf] at *); grind [mem_removeL, nodup_removeL, removeL_nil]))
-      | (have f_fresh := hi.fresh; have f_mem_room := hi.mem_room; have f_room_mem := hi.room_mem; have f_nonempty := hi.nonempty; have f_nodup := hi.nodup; have f_roomL_iff := hi.roomL_iff; have f_roomL_nodup := hi.roomL_nodup; have f_userL_iff := hi.userL_iff; have f_userL_nodup := hi.userL_nodup; have f_sessL_iff := hi.sessL_iff; have f_rs_fwd := hi.rs_fwd; have f_rs_room := hi.rs_room; have f_virt := hi.virt; have f_children := hi.children; have f_vtable := hi.vtable; have f_conn_iff := hi.conn_iff; have f_conn_open := hi.conn_open; have f_eh := hi.eh; have f_expired := hi.expired; have f_anon := hi.anon; have f_dialout := hi.dialout; have f_count := hi.count; have f_orph_virt := hi.orph_virt; clear hi; (intros; (try simp only [hubf] at *); grind [mem_removeL, nodup_removeL, removeL_nil]))
+      | (have f_fresh := hi.fresh; have f_mem_room := hi.mem_room; have f_room_mem := hi.room_mem; have f_nonempty := hi.nonempty; have f_nodup := hi.nodup; have f_roomL_iff := hi.roomL_iff; have f_roomL_nodup := hi.roomL_nodup; have f_userL_iff := hi.userL_iff; have f_userL_nodup := hi.userL_nodup; have f_sessL_iff := hi.sessL_iff; have f_rs_fwd := hi.rs_fwd; have f_rs_room := hi.rs_room; have f_virt := hi.virt; have f_children := hi.children; have f_vtable := hi.vtable; have f_conn_iff := hi.conn_iff; have f_conn_open := hi.conn_open; have f_eh := hi.eh; have f_expired := hi.expired; have f_anon := hi.anon; have f_dialout := hi.dialout; have f_count := hi.count; have f_orph_virt := hi.orph_virt; have f_incall := hi.incall; clear hi; (intros; (try simp only [hubf] at *); grind [mem_removeL, nodup_removeL, removeL_nil]))
   case children =>
     first
       | (have f_children := hi.children; have f_virt := hi.virt; have f_fresh := hi.fresh; clear hi; (intros; (try simp only [hubf] at *); grind [mem_removeL, nodup_removeL, removeL_nil]))
-      | (have f_fresh := hi.fresh; have f_mem_room := hi.mem_room; have f_room_mem := hi.room_mem; have f_nonempty := hi.nonempty; have f_nodup := hi.nodup; have f_roomL_iff := hi.roomL_iff; have f_roomL_nodup := hi.roomL_nodup; have f_userL_iff := hi.userL_iff; have f_userL_nodup := hi.userL_nodup; have f_sessL_iff := hi.sessL_iff; have f_rs_fwd := hi.rs_fwd; have f_rs_room := hi.rs_room; have f_virt := hi.virt; have f_children := hi.children; have f_vtable := hi.vtable; have f_conn_iff := hi.conn_iff; have f_conn_open := hi.conn_open; have f_eh := hi.eh; have f_expired := hi.expired; have f_anon := hi.anon; have f_dialout := hi.dialout; have f_count := hi.count; have f_orph_virt := hi.orph_virt; clear hi; (intros; (try simp only [hubf] at *); grind [mem_removeL, nodup_removeL, removeL_nil]))
+      | (have f_fresh := hi.fresh; have f_mem_room := hi.mem_room; have f_room_mem := hi.room_mem; have f_nonempty := hi.nonempty; have f_nodup := hi.nodup; have f_roomL_iff := hi.roomL_iff; have f_roomL_nodup := hi.roomL_nodup; have f_userL_iff := hi.userL_iff; have f_userL_nodup := hi.userL_nodup; have f_sessL_iff := hi.sessL_iff; have f_rs_fwd := hi.rs_fwd; have f_rs_room := hi.rs_room; have f_virt := hi.virt; have f_children := hi.children; have f_vtable := hi.vtable; have f_conn_iff := hi.conn_iff; have f_conn_open := hi.conn_open; have f_eh := hi.eh; have f_expired := hi.expired; have f_anon := hi.anon; have f_dialout := hi.dialout; have f_count := hi.count; have f_orph_virt := hi.orph_virt; have f_incall := hi.incall; clear hi; (intros; (try simp only [hubf] at *); grind [mem_removeL, nodup_removeL, removeL_nil]))
   case vtable =>
     first
       | (have f_vtable := hi.vtable; have f_virt := hi.virt; have f_fresh := hi.fresh; clear hi; (intros; (try simp only [hubf] at *); grind [mem_removeL, nodup_removeL, removeL_nil]))
-      | (have f_fresh := hi.fresh; have f_mem_room := hi.mem_room; have f_room_mem := hi.room_mem; have f_nonempty := hi.nonempty; have f_nodup := hi.nodup; have f_roomL_iff := hi.roomL_iff; have f_roomL_nodup := hi.roomL_nodup; have f_userL_iff := hi.userL_iff; have f_userL_nodup := hi.userL_nodup; have f_sessL_iff := hi.sessL_iff; have f_rs_fwd := hi.rs_fwd; have f_rs_room := hi.rs_room; have f_virt := hi.virt; have f_children := hi.children; have f_vtable := hi.vtable; have f_conn_iff := hi.conn_iff; have f_conn_open := hi.conn_open; have f_eh := hi.eh; have f_expired := hi.expired; have f_anon := hi.anon; have f_dialout := hi.dialout; have f_count := hi.count; have f_orph_virt := hi.orph_virt; clear hi; (intros; (try simp only [hubf] at *); grind [mem_removeL, nodup_removeL, removeL_nil]))
+      | (have f_fresh := hi.fresh; have f_mem_room := hi.mem_room; have f_room_mem := hi.room_mem; have f_nonempty := hi.nonempty; have f_nodup := hi.nodup; have f_roomL_iff := hi.roomL_iff; have f_roomL_nodup := hi.roomL_nodup; have f_userL_iff := hi.userL_iff; have f_userL_nodup := hi.userL_nodup; have f_sessL_iff := hi.sessL_iff; have f_rs_fwd := hi.rs_fwd; have f_rs_room := hi.rs_room; have f_virt := hi.virt; have f_children := hi.children; have f_vtable := hi.vtable; have f_conn_iff := hi.conn_iff; have f_conn_open := hi.conn_open; have f_eh := hi.eh; have f_expired := hi.expired; have f_anon := hi.anon; have f_dialout := hi.dialout; have f_count := hi.count; have f_orph_virt := hi.orph_virt; have f_incall := hi.incall; clear hi; (intros; (try simp only [hubf] at *); grind [mem_removeL, nodup_removeL, removeL_nil]))
   case conn_iff =>
     first
       | (have f_conn_iff := hi.conn_iff; have f_fresh := hi.fresh; have f_virt := hi.virt; clear hi; (intros; (try simp only [hubf] at *); grind [mem_removeL, nodup_removeL, removeL_nil]))
-      | (have f_fresh := hi.fresh; have f_mem_room := hi.mem_room; have f_room_mem := hi.room_mem; have f_nonempty := hi.nonempty; have f_nodup := hi.nodup; have f_roomL_iff := hi.roomL_iff; have f_roomL_nodup := hi.roomL_nodup; have f_userL_iff := hi.userL_iff; have f_userL_nodup := hi.userL_nodup; have f_sessL_iff := hi.sessL_iff; have f_rs_fwd := hi.rs_fwd; have f_rs_room := hi.rs_room; have f_virt := hi.virt; have f_children := hi.children; have f_vtable := hi.vtable; have f_conn_iff := hi.conn_iff; have f_conn_open := hi.conn_open; have f_eh := hi.eh; have f_expired := hi.expired; have f_anon := hi.anon; have f_dialout := hi.dialout; have f_count := hi.count; have f_orph_virt := hi.orph_virt; clear hi; (intros; (try simp only [hubf] at *); grind [mem_removeL, nodup_removeL, removeL_nil]))
+      | (have f_fresh := hi.fresh; have f_mem_room := hi.mem_room; have f_room_mem := hi.room_mem; have f_nonempty := hi.nonempty; have f_nodup := hi.nodup; have f_roomL_iff := hi.roomL_iff; have f_roomL_nodup := hi.roomL_nodup; have f_userL_iff := hi.userL_iff; have f_userL_nodup := hi.userL_nodup; have f_sessL_iff := hi.sessL_iff; have f_rs_fwd := hi.rs_fwd; have f_rs_room := hi.rs_room; have f_virt := hi.virt; have f_children := hi.children; have f_vtable := hi.vtable; have f_conn_iff := hi.conn_iff; have f_conn_open := hi.conn_open; have f_eh := hi.eh; have f_expired := hi.expired; have f_anon := hi.anon; have f_dialout := hi.dialout; have f_count := hi.count; have f_orph_virt := hi.orph_virt; have f_incall := hi.incall; clear hi; (intros; (try simp only [hubf] at *); grind [mem_removeL, nodup_removeL, removeL_nil]))
   case conn_open =>
     first
       | (have f_conn_open := hi.conn_open; have f_conn_iff := hi.conn_iff; clear hi; (intros; (try simp only [hubf] at *); grind [mem_removeL, nodup_removeL, removeL_nil]))
-      | (have f_fresh := hi.fresh; have f_mem_room := hi.mem_room; have f_room_mem := hi.room_mem; have f_nonempty := hi.nonempty; have f_nodup := hi.nodup; have f_roomL_iff := hi.roomL_iff; have f_roomL_nodup := hi.roomL_nodup; have f_userL_iff := hi.userL_iff; have f_userL_nodup := hi.userL_nodup; have f_sessL_iff := hi.sessL_iff; have f_rs_fwd := hi.rs_fwd; have f_rs_room := hi.rs_room; have f_virt := hi.virt; have f_children := hi.children; have f_vtable := hi.vtable; have f_conn_iff := hi.conn_iff; have f_conn_open := hi.conn_open; have f_eh := hi.eh; have f_expired := hi.expired; have f_anon := hi.anon; have f_dialout := hi.dialout; have f_count := hi.count; have f_orph_virt := hi.orph_virt; clear hi; (intros; (try simp only [hubf] at *); grind [mem_removeL, nodup_removeL, removeL_nil]))
+      | (have f_fresh := hi.fresh; have f_mem_room := hi.mem_room; have f_room_mem := hi.room_mem; have f_nonempty := hi.nonempty; have f_nodup := hi.nodup; have f_roomL_iff := hi.roomL_iff; have f_roomL_nodup := hi.roomL_nodup; have f_userL_iff := hi.userL_iff; have f_userL_nodup := hi.userL_nodup; have f_sessL_iff := hi.sessL_iff; have f_rs_fwd := hi.rs_fwd; have f_rs_room := hi.rs_room; have f_virt := hi.virt; have f_children := hi.children; have f_vtable := hi.vtable; have f_conn_iff := hi.conn_iff; have f_conn_open := hi.conn_open; have f_eh := hi.eh; have f_expired := hi.expired; have f_anon := hi.anon; have f_dialout := hi.dialout; have f_count := hi.count; have f_orph_virt := hi.orph_virt; have f_incall := hi.incall; clear hi; (intros; (try simp only [hubf] at *); grind [mem_removeL, nodup_removeL, removeL_nil]))
   case eh =>
     first
       | (have f_eh := hi.eh; have f_conn_iff := hi.conn_iff; have f_conn_open := hi.conn_open; clear hi; (intros; (try simp only [hubf] at *); grind [mem_removeL, nodup_removeL, removeL_nil]))
-      | (have f_fresh := hi.fresh; have f_mem_room := hi.mem_room; have f_room_mem := hi.room_mem; have f_nonempty := hi.nonempty; have f_nodup := hi.nodup; have f_roomL_iff := hi.roomL_iff; have f_roomL_nodup := hi.roomL_nodup; have f_userL_iff := hi.userL_iff; have f_userL_nodup := hi.userL_nodup; have f_sessL_iff := hi.sessL_iff; have f_rs_fwd := hi.rs_fwd; have f_rs_room := hi.rs_room; have f_virt := hi.virt; have f_children := hi.children; have f_vtable := hi.vtable; have f_conn_iff := hi.conn_iff; have f_conn_open := hi.conn_open; have f_eh := hi.eh; have f_expired := hi.expired; have f_anon := hi.anon; have f_dialout := hi.dialout; have f_count := hi.count; have f_orph_virt := hi.orph_virt; clear hi; (intros; (try simp only [hubf] at *); grind [mem_removeL, nodup_removeL, removeL_nil]))
+      | (have f_fresh := hi.fresh; have f_mem_room := hi.mem_room; have f_room_mem := hi.room_mem; have f_nonempty := hi.nonempty; have f_nodup := hi.nodup; have f_roomL_iff := hi.roomL_iff; have f_roomL_nodup := hi.roomL_nodup; have f_userL_iff := hi.userL_iff; have f_userL_nodup := hi.userL_nodup; have f_sessL_iff := hi.sessL_iff; have f_rs_fwd := hi.rs_fwd; have f_rs_room := hi.rs_room; have f_virt := hi.virt; have f_children := hi.children; have f_vtable := hi.vtable; have f_conn_iff := hi.conn_iff; have f_conn_open := hi.conn_open; have f_eh := hi.eh; have f_expired := hi.expired; have f_anon := hi.anon; have f_dialout := hi.dialout; have f_count := hi.count; have f_orph_virt := hi.orph_virt; have f_incall := hi.incall; clear hi; (intros; (try simp only [hubf] at *); grind [mem_removeL, nodup_removeL, removeL_nil]))
   case expired =>
     first
       | (have f_expired := hi.expired; have f_fresh := hi.fresh; clear hi; (intros; (try simp only [hubf] at *); grind [mem_removeL, nodup_removeL, removeL_nil]))
-      | (have f_fresh := hi.fresh; have f_mem_room := hi.mem_room; have f_room_mem := hi.room_mem; have f_nonempty := hi.nonempty; have f_nodup := hi.nodup; have f_roomL_iff := hi.roomL_iff; have f_roomL_nodup := hi.roomL_nodup; have f_userL_iff := hi.userL_iff; have f_userL_nodup := hi.userL_nodup; have f_sessL_iff := hi.sessL_iff; have f_rs_fwd := hi.rs_fwd; have f_rs_room := hi.rs_room; have f_virt := hi.virt; have f_children := hi.children; have f_vtable := hi.vtable; have f_conn_iff := hi.conn_iff; have f_conn_open := hi.conn_open; have f_eh := hi.eh; have f_expired := hi.expired; have f_anon := hi.anon; have f_dialout := hi.dialout; have f_count := hi.count; have f_orph_virt := hi.orph_virt; clear hi; (intros; (try simp only [hubf] at *); grind [mem_removeL, nodup_removeL, removeL_nil]))
+      | (have f_fresh := hi.fresh; have f_mem_room := hi.mem_room; have f_room_mem := hi.room_mem; have f_nonempty := hi.nonempty; have f_nodup := hi.nodup; have f_roomL_iff := hi.roomL_iff; have f_roomL_nodup := hi.roomL_nodup; have f_userL_iff := hi.userL_iff; have f_userL_nodup := hi.userL_nodup; have f_sessL_iff := hi.sessL_iff; have f_rs_fwd := hi.rs_fwd; have f_rs_room := hi.rs_room; have f_virt := hi.virt; have f_children := hi.children; have f_vtable := hi.vtable; have f_conn_iff := hi.conn_iff; have f_conn_open := hi.conn_open; have f_eh := hi.eh; have f_expired := hi.expired; have f_anon := hi.anon; have f_dialout := hi.dialout; have f_count := hi.count; have f_orph_virt := hi.orph_virt; have f_incall := hi.incall; clear hi; (intros; (try simp only [hubf] at *); grind [mem_removeL, nodup_removeL, removeL_nil]))
   case anon =>
     first
       | (have f_anon := hi.anon; have f_fresh := hi.fresh; clear hi; (intros; (try simp only [hubf] at *); grind [mem_removeL, nodup_removeL, removeL_nil]))
-      | (have f_fresh := hi.fresh; have f_mem_room := hi.mem_room; have f_room_mem := hi.room_mem; have f_nonempty := hi.nonempty; have f_nodup := hi.nodup; have f_roomL_iff := hi.roomL_iff; have f_roomL_nodup := hi.roomL_nodup; have f_userL_iff := hi.userL_iff; have f_userL_nodup := hi.userL_nodup; have f_sessL_iff := hi.sessL_iff; have f_rs_fwd := hi.rs_fwd; have f_rs_room := hi.rs_room; have f_virt := hi.virt; have f_children := hi.children; have f_vtable := hi.vtable; have f_conn_iff := hi.conn_iff; have f_conn_open := hi.conn_open; have f_eh := hi.eh; have f_expired := hi.expired; have f_anon := hi.anon; have f_dialout := hi.dialout; have f_count := hi.count; have f_orph_virt := hi.orph_virt; clear hi; (intros; (try simp only [hubf] at *); grind [mem_removeL, nodup_removeL, removeL_nil]))
+      | (have f_fresh := hi.fresh; have f_mem_room := hi.mem_room; have f_room_mem := hi.room_mem; have f_nonempty := hi.nonempty; have f_nodup := hi.nodup; have f_roomL_iff := hi.roomL_iff; have f_roomL_nodup := hi.roomL_nodup; have f_userL_iff := hi.userL_iff; have f_userL_nodup := hi.userL_nodup; have f_sessL_iff := hi.sessL_iff; have f_rs_fwd := hi.rs_fwd; have f_rs_room := hi.rs_room; have f_virt := hi.virt; have f_children := hi.children; have f_vtable := hi.vtable; have f_conn_iff := hi.conn_iff; have f_conn_open := hi.conn_open; have f_eh := hi.eh; have f_expired := hi.expired; have f_anon := hi.anon; have f_dialout := hi.dialout; have f_count := hi.count; have f_orph_virt := hi.orph_virt; have f_incall := hi.incall; clear hi; (intros; (try simp only [hubf] at *); grind [mem_removeL, nodup_removeL, removeL_nil]))
   case dialout =>
     first
       | (have f_dialout := hi.dialout; have f_fresh := hi.fresh; clear hi; (intros; (try simp only [hubf] at *); grind [mem_removeL, nodup_removeL, removeL_nil]))
-      | (have f_fresh := hi.fresh; have f_mem_room := hi.mem_room; have f_room_mem := hi.room_mem; have f_nonempty := hi.nonempty; have f_nodup := hi.nodup; have f_roomL_iff := hi.roomL_iff; have f_roomL_nodup := hi.roomL_nodup; have f_userL_iff := hi.userL_iff; have f_userL_nodup := hi.userL_nodup; have f_sessL_iff := hi.sessL_iff; have f_rs_fwd := hi.rs_fwd; have f_rs_room := hi.rs_room; have f_virt := hi.virt; have f_children := hi.children; have f_vtable := hi.vtable; have f_conn_iff := hi.conn_iff; have f_conn_open := hi.conn_open; have f_eh := hi.eh; have f_expired := hi.expired; have f_anon := hi.anon; have f_dialout := hi.dialout; have f_count := hi.count; have f_orph_virt := hi.orph_virt; clear hi; (intros; (try simp only [hubf] at *); grind [mem_removeL, nodup_removeL, removeL_nil]))
+      | (have f_fresh := hi.fresh; have f_mem_room := hi.mem_room; have f_room_mem := hi.room_mem; have f_nonempty := hi.nonempty; have f_nodup := hi.nodup; have f_roomL_iff := hi.roomL_iff; have f_roomL_nodup := hi.roomL_nodup; have f_userL_iff := hi.userL_iff; have f_userL_nodup := hi.userL_nodup; have f_sessL_iff := hi.sessL_iff; have f_rs_fwd := hi.rs_fwd; have f_rs_room := hi.rs_room; have f_virt := hi.virt; have f_children := hi.children; have f_vtable := hi.vtable; have f_conn_iff := hi.conn_iff; have f_conn_open := hi.conn_open; have f_eh := hi.eh; have f_expired := hi.expired; have f_anon := hi.anon; have f_dialout := hi.dialout; have f_count := hi.count; have f_orph_virt := hi.orph_virt; have f_incall := hi.incall; clear hi; (intros; (try simp only [hubf] at *); grind [mem_removeL, nodup_removeL, removeL_nil]))
   case count =>
     first
       | (have f_count := hi.count; have f_fresh := hi.fresh; clear hi; (intros; (try simp only [hubf] at *); grind [mem_removeL, nodup_removeL, removeL_nil]))
-      | (have f_fresh := hi.fresh; have f_mem_room := hi.mem_room; have f_room_mem := hi.room_mem; have f_nonempty := hi.nonempty; have f_nodup := hi.nodup; have f_roomL_iff := hi.roomL_iff; have f_roomL_nodup := hi.roomL_nodup; have f_userL_iff := hi.userL_iff; have f_userL_nodup := hi.userL_nodup; have f_sessL_iff := hi.sessL_iff; have f_rs_fwd := hi.rs_fwd; have f_rs_room := hi.rs_room; have f_virt := hi.virt; have f_children := hi.children; have f_vtable := hi.vtable; have f_conn_iff := hi.conn_iff; have f_conn_open := hi.conn_open; have f_eh := hi.eh; have f_expired := hi.expired; have f_anon := hi.anon; have f_dialout := hi.dialout; have f_count := hi.count; have f_orph_virt := hi.orph_virt; clear hi; (intros; (try simp only [hubf] at *); grind [mem_removeL, nodup_removeL, removeL_nil]))
+      | (have f_fresh := hi.fresh; have f_mem_room := hi.mem_room; have f_room_mem := hi.room_mem; have f_nonempty := hi.nonempty; have f_nodup := hi.nodup; have f_roomL_iff := hi.roomL_iff; have f_roomL_nodup := hi.roomL_nodup; have f_userL_iff := hi.userL_iff; have f_userL_nodup := hi.userL_nodup; have f_sessL_iff := hi.sessL_iff; have f_rs_fwd := hi.rs_fwd; have f_rs_room := hi.rs_room; have f_virt := hi.virt; have f_children := hi.children; have f_vtable := hi.vtable; have f_conn_iff := hi.conn_iff; have f_conn_open := hi.conn_open; have f_eh := hi.eh; have f_expired := hi.expired; have f_anon := hi.anon; have f_dialout := hi.dialout; have f_count := hi.count; have f_orph_virt := hi.orph_virt; have f_incall := hi.incall; clear hi; (intros; (try simp only [hubf] at *); grind [mem_removeL, nodup_removeL, removeL_nil]))
   case orph_virt =>
     first
       | (have f_orph_virt := hi.orph_virt; have f_fresh := hi.fresh; have f_children := hi.children; have f_virt := hi.virt; clear hi; (intros; (try simp only [hubf] at *); grind [mem_removeL, nodup_removeL, removeL_nil]))
-      | (have f_fresh := hi.fresh; have f_mem_room := hi.mem_room; have f_room_mem := hi.room_mem; have f_nonempty := hi.nonempty; have f_nodup := hi.nodup; have f_roomL_iff := hi.roomL_iff; have f_roomL_nodup := hi.roomL_nodup; have f_userL_iff := hi.userL_iff; have f_userL_nodup := hi.userL_nodup; have f_sessL_iff := hi.sessL_iff; have f_rs_fwd := hi.rs_fwd; have f_rs_room := hi.rs_room; have f_virt := hi.virt; have f_children := hi.children; have f_vtable := hi.vtable; have f_conn_iff := hi.conn_iff; have f_conn_open := hi.conn_open; have f_eh := hi.eh; have f_expired := hi.expired; have f_anon := hi.anon; have f_dialout := hi.dialout; have f_count := hi.count; have f_orph_virt := hi.orph_virt; clear hi; (intros; (try simp only [hubf] at *); grind [mem_removeL, nodup_removeL, removeL_nil]))
+      | (have f_fresh := hi.fresh; have f_mem_room := hi.mem_room; have f_room_mem := hi.room_mem; have f_nonempty := hi.nonempty; have f_nodup := hi.nodup; have f_roomL_iff := hi.roomL_iff; have f_roomL_nodup := hi.roomL_nodup; have f_userL_iff := hi.userL_iff; have f_userL_nodup := hi.userL_nodup; have f_sessL_iff := hi.sessL_iff; have f_rs_fwd := hi.rs_fwd; have f_rs_room := hi.rs_room; have f_virt := hi.virt; have f_children := hi.children; have f_vtable := hi.vtable; have f_conn_iff := hi.conn_iff; have f_conn_open := hi.conn_open; have f_eh := hi.eh; have f_expired := hi.expired; have f_anon := hi.anon; have f_dialout := hi.dialout; have f_count := hi.count; have f_orph_virt := hi.orph_virt; have f_incall := hi.incall; clear hi; (intros; (try simp only [hubf] at *); grind [mem_removeL, nodup_removeL, removeL_nil]))
+  case incall =>
+    first
+      | (have f_incall := hi.incall; have f_mem_room := hi.mem_room; clear hi; (intros; (try simp only [hubf] at *); grind [mem_removeL, nodup_removeL, removeL_nil]))
+      | (have f_fresh := hi.fresh; have f_mem_room := hi.mem_room; have f_room_mem := hi.room_mem; have f_nonempty := hi.nonempty; have f_nodup := hi.nodup; have f_roomL_iff := hi.roomL_iff; have f_roomL_nodup := hi.roomL_nodup; have f_userL_iff := hi.userL_iff; have f_userL_nodup := hi.userL_nodup; have f_sessL_iff := hi.sessL_iff; have f_rs_fwd := hi.rs_fwd; have f_rs_room := hi.rs_room; have f_virt := hi.virt; have f_children := hi.children; have f_vtable := hi.vtable; have f_conn_iff := hi.conn_iff; have f_conn_open := hi.conn_open; have f_eh := hi.eh; have f_expired := hi.expired; have f_anon := hi.anon; have f_dialout := hi.dialout; have f_count := hi.count; have f_orph_virt := hi.orph_virt; have f_incall := hi.incall; clear hi; (intros; (try simp only [hubf] at *); grind [mem_removeL, nodup_removeL, removeL_nil]))
 
 theorem processDisconnect_inv (a : Acc) (c : Nat) (hi : Inv a.h) : Inv (processDisconnect a c).h := by
   unfold processDisconnect
@@ -562,10 +576,11 @@ theorem virtual_inv {h : Hub} (hi : Inv h) {s : Nat} {x : Sess} (hx : h.sess s =
   have hrs := pub_ne_empty h.nextSid
   have nm := newRoom_members (virtualTables h s x r vkey user ic) x.backend r h.nextSid ""
   have nnd := newRoom_nodup (virtualTables h s x r vkey user ic) x.backend r h.nextSid ""
-  generalize hnr : newRoom (virtualTables h s x r vkey user ic) x.backend r h.nextSid "" = nr at nm nnd
+  have nic := newRoom_inCall (virtualTables h s x r vkey user ic) x.backend r h.nextSid ""
+  generalize hnr : newRoom (virtualTables h s x r vkey user ic) x.backend r h.nextSid "" = nr at nm nnd nic
   have hvr : (virtualTables h s x r vkey user ic).rooms = h.rooms := by
     unfold virtualTables; simp only [hubf]
-  rw [hvr] at nm nnd
+  rw [hvr] at nm nnd nic
   have nnd' := nnd (fun rm hrm => hi.nodup _ _ rm hrm)
   unfold addMember
   rw [hnr]
@@ -585,95 +600,99 @@ theorem virtual_inv {h : Hub} (hi : Inv h) {s : Nat} {x : Sess} (hx : h.sess s =
   case fresh =>
     first
       | (have f_fresh := hi.fresh; clear hi; (intros; (try simp only [hubf, rsSet_sid2rs _ _ _ hrs, rsSet_rs2sid _ _ _ hrs] at *); grind [mem_removeL, nodup_removeL, removeL_nil]))
-      | (have f_fresh := hi.fresh; have f_mem_room := hi.mem_room; have f_room_mem := hi.room_mem; have f_nonempty := hi.nonempty; have f_nodup := hi.nodup; have f_roomL_iff := hi.roomL_iff; have f_roomL_nodup := hi.roomL_nodup; have f_userL_iff := hi.userL_iff; have f_userL_nodup := hi.userL_nodup; have f_sessL_iff := hi.sessL_iff; have f_rs_fwd := hi.rs_fwd; have f_rs_room := hi.rs_room; have f_virt := hi.virt; have f_children := hi.children; have f_vtable := hi.vtable; have f_conn_iff := hi.conn_iff; have f_conn_open := hi.conn_open; have f_eh := hi.eh; have f_expired := hi.expired; have f_anon := hi.anon; have f_dialout := hi.dialout; have f_count := hi.count; have f_orph_virt := hi.orph_virt; clear hi; (intros; (try simp only [hubf, rsSet_sid2rs _ _ _ hrs, rsSet_rs2sid _ _ _ hrs] at *); grind [mem_removeL, nodup_removeL, removeL_nil]))
+      | (have f_fresh := hi.fresh; have f_mem_room := hi.mem_room; have f_room_mem := hi.room_mem; have f_nonempty := hi.nonempty; have f_nodup := hi.nodup; have f_roomL_iff := hi.roomL_iff; have f_roomL_nodup := hi.roomL_nodup; have f_userL_iff := hi.userL_iff; have f_userL_nodup := hi.userL_nodup; have f_sessL_iff := hi.sessL_iff; have f_rs_fwd := hi.rs_fwd; have f_rs_room := hi.rs_room; have f_virt := hi.virt; have f_children := hi.children; have f_vtable := hi.vtable; have f_conn_iff := hi.conn_iff; have f_conn_open := hi.conn_open; have f_eh := hi.eh; have f_expired := hi.expired; have f_anon := hi.anon; have f_dialout := hi.dialout; have f_count := hi.count; have f_orph_virt := hi.orph_virt; have f_incall := hi.incall; clear hi; (intros; (try simp only [hubf, rsSet_sid2rs _ _ _ hrs, rsSet_rs2sid _ _ _ hrs] at *); grind [mem_removeL, nodup_removeL, removeL_nil]))
   case mem_room =>
     first
       | (have f_mem_room := hi.mem_room; have f_fresh := hi.fresh; clear hi; (intros; (try simp only [hubf, rsSet_sid2rs _ _ _ hrs, rsSet_rs2sid _ _ _ hrs] at *); grind [mem_removeL, nodup_removeL, removeL_nil]))
-      | (have f_fresh := hi.fresh; have f_mem_room := hi.mem_room; have f_room_mem := hi.room_mem; have f_nonempty := hi.nonempty; have f_nodup := hi.nodup; have f_roomL_iff := hi.roomL_iff; have f_roomL_nodup := hi.roomL_nodup; have f_userL_iff := hi.userL_iff; have f_userL_nodup := hi.userL_nodup; have f_sessL_iff := hi.sessL_iff; have f_rs_fwd := hi.rs_fwd; have f_rs_room := hi.rs_room; have f_virt := hi.virt; have f_children := hi.children; have f_vtable := hi.vtable; have f_conn_iff := hi.conn_iff; have f_conn_open := hi.conn_open; have f_eh := hi.eh; have f_expired := hi.expired; have f_anon := hi.anon; have f_dialout := hi.dialout; have f_count := hi.count; have f_orph_virt := hi.orph_virt; clear hi; (intros; (try simp only [hubf, rsSet_sid2rs _ _ _ hrs, rsSet_rs2sid _ _ _ hrs] at *); grind [mem_removeL, nodup_removeL, removeL_nil]))
+      | (have f_fresh := hi.fresh; have f_mem_room := hi.mem_room; have f_room_mem := hi.room_mem; have f_nonempty := hi.nonempty; have f_nodup := hi.nodup; have f_roomL_iff := hi.roomL_iff; have f_roomL_nodup := hi.roomL_nodup; have f_userL_iff := hi.userL_iff; have f_userL_nodup := hi.userL_nodup; have f_sessL_iff := hi.sessL_iff; have f_rs_fwd := hi.rs_fwd; have f_rs_room := hi.rs_room; have f_virt := hi.virt; have f_children := hi.children; have f_vtable := hi.vtable; have f_conn_iff := hi.conn_iff; have f_conn_open := hi.conn_open; have f_eh := hi.eh; have f_expired := hi.expired; have f_anon := hi.anon; have f_dialout := hi.dialout; have f_count := hi.count; have f_orph_virt := hi.orph_virt; have f_incall := hi.incall; clear hi; (intros; (try simp only [hubf, rsSet_sid2rs _ _ _ hrs, rsSet_rs2sid _ _ _ hrs] at *); grind [mem_removeL, nodup_removeL, removeL_nil]))
   case room_mem =>
     first
       | (have f_room_mem := hi.room_mem; have f_mem_room := hi.mem_room; have f_fresh := hi.fresh; clear hi; (intros; (try simp only [hubf, rsSet_sid2rs _ _ _ hrs, rsSet_rs2sid _ _ _ hrs] at *); grind [mem_removeL, nodup_removeL, removeL_nil]))
-      | (have f_fresh := hi.fresh; have f_mem_room := hi.mem_room; have f_room_mem := hi.room_mem; have f_nonempty := hi.nonempty; have f_nodup := hi.nodup; have f_roomL_iff := hi.roomL_iff; have f_roomL_nodup := hi.roomL_nodup; have f_userL_iff := hi.userL_iff; have f_userL_nodup := hi.userL_nodup; have f_sessL_iff := hi.sessL_iff; have f_rs_fwd := hi.rs_fwd; have f_rs_room := hi.rs_room; have f_virt := hi.virt; have f_children := hi.children; have f_vtable := hi.vtable; have f_conn_iff := hi.conn_iff; have f_conn_open := hi.conn_open; have f_eh := hi.eh; have f_expired := hi.expired; have f_anon := hi.anon; have f_dialout := hi.dialout; have f_count := hi.count; have f_orph_virt := hi.orph_virt; clear hi; (intros; (try simp only [hubf, rsSet_sid2rs _ _ _ hrs, rsSet_rs2sid _ _ _ hrs] at *); grind [mem_removeL, nodup_removeL, removeL_nil]))
+      | (have f_fresh := hi.fresh; have f_mem_room := hi.mem_room; have f_room_mem := hi.room_mem; have f_nonempty := hi.nonempty; have f_nodup := hi.nodup; have f_roomL_iff := hi.roomL_iff; have f_roomL_nodup := hi.roomL_nodup; have f_userL_iff := hi.userL_iff; have f_userL_nodup := hi.userL_nodup; have f_sessL_iff := hi.sessL_iff; have f_rs_fwd := hi.rs_fwd; have f_rs_room := hi.rs_room; have f_virt := hi.virt; have f_children := hi.children; have f_vtable := hi.vtable; have f_conn_iff := hi.conn_iff; have f_conn_open := hi.conn_open; have f_eh := hi.eh; have f_expired := hi.expired; have f_anon := hi.anon; have f_dialout := hi.dialout; have f_count := hi.count; have f_orph_virt := hi.orph_virt; have f_incall := hi.incall; clear hi; (intros; (try simp only [hubf, rsSet_sid2rs _ _ _ hrs, rsSet_rs2sid _ _ _ hrs] at *); grind [mem_removeL, nodup_removeL, removeL_nil]))
   case nonempty =>
     first
       | (have f_nonempty := hi.nonempty; have f_mem_room := hi.mem_room; clear hi; (intros; (try simp only [hubf, rsSet_sid2rs _ _ _ hrs, rsSet_rs2sid _ _ _ hrs] at *); grind [mem_removeL, nodup_removeL, removeL_nil]))
-      | (have f_fresh := hi.fresh; have f_mem_room := hi.mem_room; have f_room_mem := hi.room_mem; have f_nonempty := hi.nonempty; have f_nodup := hi.nodup; have f_roomL_iff := hi.roomL_iff; have f_roomL_nodup := hi.roomL_nodup; have f_userL_iff := hi.userL_iff; have f_userL_nodup := hi.userL_nodup; have f_sessL_iff := hi.sessL_iff; have f_rs_fwd := hi.rs_fwd; have f_rs_room := hi.rs_room; have f_virt := hi.virt; have f_children := hi.children; have f_vtable := hi.vtable; have f_conn_iff := hi.conn_iff; have f_conn_open := hi.conn_open; have f_eh := hi.eh; have f_expired := hi.expired; have f_anon := hi.anon; have f_dialout := hi.dialout; have f_count := hi.count; have f_orph_virt := hi.orph_virt; clear hi; (intros; (try simp only [hubf, rsSet_sid2rs _ _ _ hrs, rsSet_rs2sid _ _ _ hrs] at *); grind [mem_removeL, nodup_removeL, removeL_nil]))
+      | (have f_fresh := hi.fresh; have f_mem_room := hi.mem_room; have f_room_mem := hi.room_mem; have f_nonempty := hi.nonempty; have f_nodup := hi.nodup; have f_roomL_iff := hi.roomL_iff; have f_roomL_nodup := hi.roomL_nodup; have f_userL_iff := hi.userL_iff; have f_userL_nodup := hi.userL_nodup; have f_sessL_iff := hi.sessL_iff; have f_rs_fwd := hi.rs_fwd; have f_rs_room := hi.rs_room; have f_virt := hi.virt; have f_children := hi.children; have f_vtable := hi.vtable; have f_conn_iff := hi.conn_iff; have f_conn_open := hi.conn_open; have f_eh := hi.eh; have f_expired := hi.expired; have f_anon := hi.anon; have f_dialout := hi.dialout; have f_count := hi.count; have f_orph_virt := hi.orph_virt; have f_incall := hi.incall; clear hi; (intros; (try simp only [hubf, rsSet_sid2rs _ _ _ hrs, rsSet_rs2sid _ _ _ hrs] at *); grind [mem_removeL, nodup_removeL, removeL_nil]))
   case nodup =>
     first
       | (have f_nodup := hi.nodup; clear hi; (intros; (try simp only [hubf, rsSet_sid2rs _ _ _ hrs, rsSet_rs2sid _ _ _ hrs] at *); grind [mem_removeL, nodup_removeL, removeL_nil]))
-      | (have f_fresh := hi.fresh; have f_mem_room := hi.mem_room; have f_room_mem := hi.room_mem; have f_nonempty := hi.nonempty; have f_nodup := hi.nodup; have f_roomL_iff := hi.roomL_iff; have f_roomL_nodup := hi.roomL_nodup; have f_userL_iff := hi.userL_iff; have f_userL_nodup := hi.userL_nodup; have f_sessL_iff := hi.sessL_iff; have f_rs_fwd := hi.rs_fwd; have f_rs_room := hi.rs_room; have f_virt := hi.virt; have f_children := hi.children; have f_vtable := hi.vtable; have f_conn_iff := hi.conn_iff; have f_conn_open := hi.conn_open; have f_eh := hi.eh; have f_expired := hi.expired; have f_anon := hi.anon; have f_dialout := hi.dialout; have f_count := hi.count; have f_orph_virt := hi.orph_virt; clear hi; (intros; (try simp only [hubf, rsSet_sid2rs _ _ _ hrs, rsSet_rs2sid _ _ _ hrs] at *); grind [mem_removeL, nodup_removeL, removeL_nil]))
+      | (have f_fresh := hi.fresh; have f_mem_room := hi.mem_room; have f_room_mem := hi.room_mem; have f_nonempty := hi.nonempty; have f_nodup := hi.nodup; have f_roomL_iff := hi.roomL_iff; have f_roomL_nodup := hi.roomL_nodup; have f_userL_iff := hi.userL_iff; have f_userL_nodup := hi.userL_nodup; have f_sessL_iff := hi.sessL_iff; have f_rs_fwd := hi.rs_fwd; have f_rs_room := hi.rs_room; have f_virt := hi.virt; have f_children := hi.children; have f_vtable := hi.vtable; have f_conn_iff := hi.conn_iff; have f_conn_open := hi.conn_open; have f_eh := hi.eh; have f_expired := hi.expired; have f_anon := hi.anon; have f_dialout := hi.dialout; have f_count := hi.count; have f_orph_virt := hi.orph_virt; have f_incall := hi.incall; clear hi; (intros; (try simp only [hubf, rsSet_sid2rs _ _ _ hrs, rsSet_rs2sid _ _ _ hrs] at *); grind [mem_removeL, nodup_removeL, removeL_nil]))
   case roomL_iff =>
     first
       | (have f_roomL_iff := hi.roomL_iff; have f_fresh := hi.fresh; have f_room_mem := hi.room_mem; have f_mem_room := hi.mem_room; clear hi; (intros; (try simp only [hubf, rsSet_sid2rs _ _ _ hrs, rsSet_rs2sid _ _ _ hrs] at *); grind [mem_removeL, nodup_removeL, removeL_nil]))
-      | (have f_fresh := hi.fresh; have f_mem_room := hi.mem_room; have f_room_mem := hi.room_mem; have f_nonempty := hi.nonempty; have f_nodup := hi.nodup; have f_roomL_iff := hi.roomL_iff; have f_roomL_nodup := hi.roomL_nodup; have f_userL_iff := hi.userL_iff; have f_userL_nodup := hi.userL_nodup; have f_sessL_iff := hi.sessL_iff; have f_rs_fwd := hi.rs_fwd; have f_rs_room := hi.rs_room; have f_virt := hi.virt; have f_children := hi.children; have f_vtable := hi.vtable; have f_conn_iff := hi.conn_iff; have f_conn_open := hi.conn_open; have f_eh := hi.eh; have f_expired := hi.expired; have f_anon := hi.anon; have f_dialout := hi.dialout; have f_count := hi.count; have f_orph_virt := hi.orph_virt; clear hi; (intros; (try simp only [hubf, rsSet_sid2rs _ _ _ hrs, rsSet_rs2sid _ _ _ hrs] at *); grind [mem_removeL, nodup_removeL, removeL_nil]))
+      | (have f_fresh := hi.fresh; have f_mem_room := hi.mem_room; have f_room_mem := hi.room_mem; have f_nonempty := hi.nonempty; have f_nodup := hi.nodup; have f_roomL_iff := hi.roomL_iff; have f_roomL_nodup := hi.roomL_nodup; have f_userL_iff := hi.userL_iff; have f_userL_nodup := hi.userL_nodup; have f_sessL_iff := hi.sessL_iff; have f_rs_fwd := hi.rs_fwd; have f_rs_room := hi.rs_room; have f_virt := hi.virt; have f_children := hi.children; have f_vtable := hi.vtable; have f_conn_iff := hi.conn_iff; have f_conn_open := hi.conn_open; have f_eh := hi.eh; have f_expired := hi.expired; have f_anon := hi.anon; have f_dialout := hi.dialout; have f_count := hi.count; have f_orph_virt := hi.orph_virt; have f_incall := hi.incall; clear hi; (intros; (try simp only [hubf, rsSet_sid2rs _ _ _ hrs, rsSet_rs2sid _ _ _ hrs] at *); grind [mem_removeL, nodup_removeL, removeL_nil]))
   case roomL_nodup =>
     first
       | (have f_roomL_nodup := hi.roomL_nodup; have f_roomL_iff := hi.roomL_iff; clear hi; (intros; (try simp only [hubf, rsSet_sid2rs _ _ _ hrs, rsSet_rs2sid _ _ _ hrs] at *); grind [mem_removeL, nodup_removeL, removeL_nil]))
-      | (have f_fresh := hi.fresh; have f_mem_room := hi.mem_room; have f_room_mem := hi.room_mem; have f_nonempty := hi.nonempty; have f_nodup := hi.nodup; have f_roomL_iff := hi.roomL_iff; have f_roomL_nodup := hi.roomL_nodup; have f_userL_iff := hi.userL_iff; have f_userL_nodup := hi.userL_nodup; have f_sessL_iff := hi.sessL_iff; have f_rs_fwd := hi.rs_fwd; have f_rs_room := hi.rs_room; have f_virt := hi.virt; have f_children := hi.children; have f_vtable := hi.vtable; have f_conn_iff := hi.conn_iff; have f_conn_open := hi.conn_open; have f_eh := hi.eh; have f_expired := hi.expired; have f_anon := hi.anon; have f_dialout := hi.dialout; have f_count := hi.count; have f_orph_virt := hi.orph_virt; clear hi; (intros; (try simp only [hubf, rsSet_sid2rs _ _ _ hrs, rsSet_rs2sid _ _ _ hrs] at *); grind [mem_removeL, nodup_removeL, removeL_nil]))
+      | (have f_fresh := hi.fresh; have f_mem_room := hi.mem_room; have f_room_mem := hi.room_mem; have f_nonempty := hi.nonempty; have f_nodup := hi.nodup; have f_roomL_iff := hi.roomL_iff; have f_roomL_nodup := hi.roomL_nodup; have f_userL_iff := hi.userL_iff; have f_userL_nodup := hi.userL_nodup; have f_sessL_iff := hi.sessL_iff; have f_rs_fwd := hi.rs_fwd; have f_rs_room := hi.rs_room; have f_virt := hi.virt; have f_children := hi.children; have f_vtable := hi.vtable; have f_conn_iff := hi.conn_iff; have f_conn_open := hi.conn_open; have f_eh := hi.eh; have f_expired := hi.expired; have f_anon := hi.anon; have f_dialout := hi.dialout; have f_count := hi.count; have f_orph_virt := hi.orph_virt; have f_incall := hi.incall; clear hi; (intros; (try simp only [hubf, rsSet_sid2rs _ _ _ hrs, rsSet_rs2sid _ _ _ hrs] at *); grind [mem_removeL, nodup_removeL, removeL_nil]))
   case userL_iff =>
     first
       | (have f_userL_iff := hi.userL_iff; have f_fresh := hi.fresh; clear hi; (intros; (try simp only [hubf, rsSet_sid2rs _ _ _ hrs, rsSet_rs2sid _ _ _ hrs] at *); grind [mem_removeL, nodup_removeL, removeL_nil]))
-      | (have f_fresh := hi.fresh; have f_mem_room := hi.mem_room; have f_room_mem := hi.room_mem; have f_nonempty := hi.nonempty; have f_nodup := hi.nodup; have f_roomL_iff := hi.roomL_iff; have f_roomL_nodup := hi.roomL_nodup; have f_userL_iff := hi.userL_iff; have f_userL_nodup := hi.userL_nodup; have f_sessL_iff := hi.sessL_iff; have f_rs_fwd := hi.rs_fwd; have f_rs_room := hi.rs_room; have f_virt := hi.virt; have f_children := hi.children; have f_vtable := hi.vtable; have f_conn_iff := hi.conn_iff; have f_conn_open := hi.conn_open; have f_eh := hi.eh; have f_expired := hi.expired; have f_anon := hi.anon; have f_dialout := hi.dialout; have f_count := hi.count; have f_orph_virt := hi.orph_virt; clear hi; (intros; (try simp only [hubf, rsSet_sid2rs _ _ _ hrs, rsSet_rs2sid _ _ _ hrs] at *); grind [mem_removeL, nodup_removeL, removeL_nil]))
+      | (have f_fresh := hi.fresh; have f_mem_room := hi.mem_room; have f_room_mem := hi.room_mem; have f_nonempty := hi.nonempty; have f_nodup := hi.nodup; have f_roomL_iff := hi.roomL_iff; have f_roomL_nodup := hi.roomL_nodup; have f_userL_iff := hi.userL_iff; have f_userL_nodup := hi.userL_nodup; have f_sessL_iff := hi.sessL_iff; have f_rs_fwd := hi.rs_fwd; have f_rs_room := hi.rs_room; have f_virt := hi.virt; have f_children := hi.children; have f_vtable := hi.vtable; have f_conn_iff := hi.conn_iff; have f_conn_open := hi.conn_open; have f_eh := hi.eh; have f_expired := hi.expired; have f_anon := hi.anon; have f_dialout := hi.dialout; have f_count := hi.count; have f_orph_virt := hi.orph_virt; have f_incall := hi.incall; clear hi; (intros; (try simp only [hubf, rsSet_sid2rs _ _ _ hrs, rsSet_rs2sid _ _ _ hrs] at *); grind [mem_removeL, nodup_removeL, removeL_nil]))
   case userL_nodup =>
     first
       | (have f_userL_nodup := hi.userL_nodup; have f_userL_iff := hi.userL_iff; clear hi; (intros; (try simp only [hubf, rsSet_sid2rs _ _ _ hrs, rsSet_rs2sid _ _ _ hrs] at *); grind [mem_removeL, nodup_removeL, removeL_nil]))
-      | (have f_fresh := hi.fresh; have f_mem_room := hi.mem_room; have f_room_mem := hi.room_mem; have f_nonempty := hi.nonempty; have f_nodup := hi.nodup; have f_roomL_iff := hi.roomL_iff; have f_roomL_nodup := hi.roomL_nodup; have f_userL_iff := hi.userL_iff; have f_userL_nodup := hi.userL_nodup; have f_sessL_iff := hi.sessL_iff; have f_rs_fwd := hi.rs_fwd; have f_rs_room := hi.rs_room; have f_virt := hi.virt; have f_children := hi.children; have f_vtable := hi.vtable; have f_conn_iff := hi.conn_iff; have f_conn_open := hi.conn_open; have f_eh := hi.eh; have f_expired := hi.expired; have f_anon := hi.anon; have f_dialout := hi.dialout; have f_count := hi.count; have f_orph_virt := hi.orph_virt; clear hi; (intros; (try simp only [hubf, rsSet_sid2rs _ _ _ hrs, rsSet_rs2sid _ _ _ hrs] at *); grind [mem_removeL, nodup_removeL, removeL_nil]))
+      | (have f_fresh := hi.fresh; have f_mem_room := hi.mem_room; have f_room_mem := hi.room_mem; have f_nonempty := hi.nonempty; have f_nodup := hi.nodup; have f_roomL_iff := hi.roomL_iff; have f_roomL_nodup := hi.roomL_nodup; have f_userL_iff := hi.userL_iff; have f_userL_nodup := hi.userL_nodup; have f_sessL_iff := hi.sessL_iff; have f_rs_fwd := hi.rs_fwd; have f_rs_room := hi.rs_room; have f_virt := hi.virt; have f_children := hi.children; have f_vtable := hi.vtable; have f_conn_iff := hi.conn_iff; have f_conn_open := hi.conn_open; have f_eh := hi.eh; have f_expired := hi.expired; have f_anon := hi.anon; have f_dialout := hi.dialout; have f_count := hi.count; have f_orph_virt := hi.orph_virt; have f_incall := hi.incall; clear hi; (intros; (try simp only [hubf, rsSet_sid2rs _ _ _ hrs, rsSet_rs2sid _ _ _ hrs] at *); grind [mem_removeL, nodup_removeL, removeL_nil]))
   case sessL_iff =>
     first
       | (have f_sessL_iff := hi.sessL_iff; have f_fresh := hi.fresh; clear hi; (intros; (try simp only [hubf, rsSet_sid2rs _ _ _ hrs, rsSet_rs2sid _ _ _ hrs] at *); grind [mem_removeL, nodup_removeL, removeL_nil]))
-      | (have f_fresh := hi.fresh; have f_mem_room := hi.mem_room; have f_room_mem := hi.room_mem; have f_nonempty := hi.nonempty; have f_nodup := hi.nodup; have f_roomL_iff := hi.roomL_iff; have f_roomL_nodup := hi.roomL_nodup; have f_userL_iff := hi.userL_iff; have f_userL_nodup := hi.userL_nodup; have f_sessL_iff := hi.sessL_iff; have f_rs_fwd := hi.rs_fwd; have f_rs_room := hi.rs_room; have f_virt := hi.virt; have f_children := hi.children; have f_vtable := hi.vtable; have f_conn_iff := hi.conn_iff; have f_conn_open := hi.conn_open; have f_eh := hi.eh; have f_expired := hi.expired; have f_anon := hi.anon; have f_dialout := hi.dialout; have f_count := hi.count; have f_orph_virt := hi.orph_virt; clear hi; (intros; (try simp only [hubf, rsSet_sid2rs _ _ _ hrs, rsSet_rs2sid _ _ _ hrs] at *); grind [mem_removeL, nodup_removeL, removeL_nil]))
+      | (have f_fresh := hi.fresh; have f_mem_room := hi.mem_room; have f_room_mem := hi.room_mem; have f_nonempty := hi.nonempty; have f_nodup := hi.nodup; have f_roomL_iff := hi.roomL_iff; have f_roomL_nodup := hi.roomL_nodup; have f_userL_iff := hi.userL_iff; have f_userL_nodup := hi.userL_nodup; have f_sessL_iff := hi.sessL_iff; have f_rs_fwd := hi.rs_fwd; have f_rs_room := hi.rs_room; have f_virt := hi.virt; have f_children := hi.children; have f_vtable := hi.vtable; have f_conn_iff := hi.conn_iff; have f_conn_open := hi.conn_open; have f_eh := hi.eh; have f_expired := hi.expired; have f_anon := hi.anon; have f_dialout := hi.dialout; have f_count := hi.count; have f_orph_virt := hi.orph_virt; have f_incall := hi.incall; clear hi; (intros; (try simp only [hubf, rsSet_sid2rs _ _ _ hrs, rsSet_rs2sid _ _ _ hrs] at *); grind [mem_removeL, nodup_removeL, removeL_nil]))
   case rs_fwd =>
     first
       | (have f_rs_fwd := hi.rs_fwd; have f_rs_room := hi.rs_room; have f_fresh := hi.fresh; clear hi; (intros; (try simp only [hubf, rsSet_sid2rs _ _ _ hrs, rsSet_rs2sid _ _ _ hrs] at *); grind [mem_removeL, nodup_removeL, removeL_nil]))
-      | (have f_fresh := hi.fresh; have f_mem_room := hi.mem_room; have f_room_mem := hi.room_mem; have f_nonempty := hi.nonempty; have f_nodup := hi.nodup; have f_roomL_iff := hi.roomL_iff; have f_roomL_nodup := hi.roomL_nodup; have f_userL_iff := hi.userL_iff; have f_userL_nodup := hi.userL_nodup; have f_sessL_iff := hi.sessL_iff; have f_rs_fwd := hi.rs_fwd; have f_rs_room := hi.rs_room; have f_virt := hi.virt; have f_children := hi.children; have f_vtable := hi.vtable; have f_conn_iff := hi.conn_iff; have f_conn_open := hi.conn_open; have f_eh := hi.eh; have f_expired := hi.expired; have f_anon := hi.anon; have f_dialout := hi.dialout; have f_count := hi.count; have f_orph_virt := hi.orph_virt; clear hi; (intros; (try simp only [hubf, rsSet_sid2rs _ _ _ hrs, rsSet_rs2sid _ _ _ hrs] at *); grind [mem_removeL, nodup_removeL, removeL_nil]))
+      | (have f_fresh := hi.fresh; have f_mem_room := hi.mem_room; have f_room_mem := hi.room_mem; have f_nonempty := hi.nonempty; have f_nodup := hi.nodup; have f_roomL_iff := hi.roomL_iff; have f_roomL_nodup := hi.roomL_nodup; have f_userL_iff := hi.userL_iff; have f_userL_nodup := hi.userL_nodup; have f_sessL_iff := hi.sessL_iff; have f_rs_fwd := hi.rs_fwd; have f_rs_room := hi.rs_room; have f_virt := hi.virt; have f_children := hi.children; have f_vtable := hi.vtable; have f_conn_iff := hi.conn_iff; have f_conn_open := hi.conn_open; have f_eh := hi.eh; have f_expired := hi.expired; have f_anon := hi.anon; have f_dialout := hi.dialout; have f_count := hi.count; have f_orph_virt := hi.orph_virt; have f_incall := hi.incall; clear hi; (intros; (try simp only [hubf, rsSet_sid2rs _ _ _ hrs, rsSet_rs2sid _ _ _ hrs] at *); grind [mem_removeL, nodup_removeL, removeL_nil]))
   case rs_room =>
     first
       | (have f_rs_room := hi.rs_room; have f_rs_fwd := hi.rs_fwd; have f_fresh := hi.fresh; have f_room_mem := hi.room_mem; clear hi; (intros; (try simp only [hubf, rsSet_sid2rs _ _ _ hrs, rsSet_rs2sid _ _ _ hrs] at *); grind [mem_removeL, nodup_removeL, removeL_nil]))
-      | (have f_fresh := hi.fresh; have f_mem_room := hi.mem_room; have f_room_mem := hi.room_mem; have f_nonempty := hi.nonempty; have f_nodup := hi.nodup; have f_roomL_iff := hi.roomL_iff; have f_roomL_nodup := hi.roomL_nodup; have f_userL_iff := hi.userL_iff; have f_userL_nodup := hi.userL_nodup; have f_sessL_iff := hi.sessL_iff; have f_rs_fwd := hi.rs_fwd; have f_rs_room := hi.rs_room; have f_virt := hi.virt; have f_children := hi.children; have f_vtable := hi.vtable; have f_conn_iff := hi.conn_iff; have f_conn_open := hi.conn_open; have f_eh := hi.eh; have f_expired := hi.expired; have f_anon := hi.anon; have f_dialout := hi.dialout; have f_count := hi.count; have f_orph_virt := hi.orph_virt; clear hi; (intros; (try simp only [hubf, rsSet_sid2rs _ _ _ hrs, rsSet_rs2sid _ _ _ hrs] at *); grind [mem_removeL, nodup_removeL, removeL_nil]))
+      | (have f_fresh := hi.fresh; have f_mem_room := hi.mem_room; have f_room_mem := hi.room_mem; have f_nonempty := hi.nonempty; have f_nodup := hi.nodup; have f_roomL_iff := hi.roomL_iff; have f_roomL_nodup := hi.roomL_nodup; have f_userL_iff := hi.userL_iff; have f_userL_nodup := hi.userL_nodup; have f_sessL_iff := hi.sessL_iff; have f_rs_fwd := hi.rs_fwd; have f_rs_room := hi.rs_room; have f_virt := hi.virt; have f_children := hi.children; have f_vtable := hi.vtable; have f_conn_iff := hi.conn_iff; have f_conn_open := hi.conn_open; have f_eh := hi.eh; have f_expired := hi.expired; have f_anon := hi.anon; have f_dialout := hi.dialout; have f_count := hi.count; have f_orph_virt := hi.orph_virt; have f_incall := hi.incall; clear hi; (intros; (try simp only [hubf, rsSet_sid2rs _ _ _ hrs, rsSet_rs2sid _ _ _ hrs] at *); grind [mem_removeL, nodup_removeL, removeL_nil]))
   case virt =>
     first
       | (have f_virt := hi.virt; have f_children := hi.children; have f_fresh := hi.fresh; clear hi; (intros; (try simp only [hubf, rsSet_sid2rs _ _ _ hrs, rsSet_rs2sid _ _ _ hrs] at *); grind [mem_removeL, nodup_removeL, removeL_nil]))
-      | (have f_fresh := hi.fresh; have f_mem_room := hi.mem_room; have f_room_mem := hi.room_mem; have f_nonempty := hi.nonempty; have f_nodup := hi.nodup; have f_roomL_iff := hi.roomL_iff; have f_roomL_nodup := hi.roomL_nodup; have f_userL_iff := hi.userL_iff; have f_userL_nodup := hi.userL_nodup; have f_sessL_iff := hi.sessL_iff; have f_rs_fwd := hi.rs_fwd; have f_rs_room := hi.rs_room; have f_virt := hi.virt; have f_children := hi.children; have f_vtable := hi.vtable; have f_conn_iff := hi.conn_iff; have f_conn_open := hi.conn_open; have f_eh := hi.eh; have f_expired := hi.expired; have f_anon := hi.anon; have f_dialout := hi.dialout; have f_count := hi.count; have f_orph_virt := hi.orph_virt; clear hi; (intros; (try simp only [hubf, rsSet_sid2rs _ _ _ hrs, rsSet_rs2sid _ _ _ hrs] at *); grind [mem_removeL, nodup_removeL, removeL_nil]))
+      | (have f_fresh := hi.fresh; have f_mem_room := hi.mem_room; have f_room_mem := hi.room_mem; have f_nonempty := hi.nonempty; have f_nodup := hi.nodup; have f_roomL_iff := hi.roomL_iff; have f_roomL_nodup := hi.roomL_nodup; have f_userL_iff := hi.userL_iff; have f_userL_nodup := hi.userL_nodup; have f_sessL_iff := hi.sessL_iff; have f_rs_fwd := hi.rs_fwd; have f_rs_room := hi.rs_room; have f_virt := hi.virt; have f_children := hi.children; have f_vtable := hi.vtable; have f_conn_iff := hi.conn_iff; have f_conn_open := hi.conn_open; have f_eh := hi.eh; have f_expired := hi.expired; have f_anon := hi.anon; have f_dialout := hi.dialout; have f_count := hi.count; have f_orph_virt := hi.orph_virt; have f_incall := hi.incall; clear hi; (intros; (try simp only [hubf, rsSet_sid2rs _ _ _ hrs, rsSet_rs2sid _ _ _ hrs] at *); grind [mem_removeL, nodup_removeL, removeL_nil]))
   case children =>
     first
       | (have f_children := hi.children; have f_virt := hi.virt; have f_fresh := hi.fresh; clear hi; (intros; (try simp only [hubf, rsSet_sid2rs _ _ _ hrs, rsSet_rs2sid _ _ _ hrs] at *); grind [mem_removeL, nodup_removeL, removeL_nil]))
-      | (have f_fresh := hi.fresh; have f_mem_room := hi.mem_room; have f_room_mem := hi.room_mem; have f_nonempty := hi.nonempty; have f_nodup := hi.nodup; have f_roomL_iff := hi.roomL_iff; have f_roomL_nodup := hi.roomL_nodup; have f_userL_iff := hi.userL_iff; have f_userL_nodup := hi.userL_nodup; have f_sessL_iff := hi.sessL_iff; have f_rs_fwd := hi.rs_fwd; have f_rs_room := hi.rs_room; have f_virt := hi.virt; have f_children := hi.children; have f_vtable := hi.vtable; have f_conn_iff := hi.conn_iff; have f_conn_open := hi.conn_open; have f_eh := hi.eh; have f_expired := hi.expired; have f_anon := hi.anon; have f_dialout := hi.dialout; have f_count := hi.count; have f_orph_virt := hi.orph_virt; clear hi; (intros; (try simp only [hubf, rsSet_sid2rs _ _ _ hrs, rsSet_rs2sid _ _ _ hrs] at *); grind [mem_removeL, nodup_removeL, removeL_nil]))
+      | (have f_fresh := hi.fresh; have f_mem_room := hi.mem_room; have f_room_mem := hi.room_mem; have f_nonempty := hi.nonempty; have f_nodup := hi.nodup; have f_roomL_iff := hi.roomL_iff; have f_roomL_nodup := hi.roomL_nodup; have f_userL_iff := hi.userL_iff; have f_userL_nodup := hi.userL_nodup; have f_sessL_iff := hi.sessL_iff; have f_rs_fwd := hi.rs_fwd; have f_rs_room := hi.rs_room; have f_virt := hi.virt; have f_children := hi.children; have f_vtable := hi.vtable; have f_conn_iff := hi.conn_iff; have f_conn_open := hi.conn_open; have f_eh := hi.eh; have f_expired := hi.expired; have f_anon := hi.anon; have f_dialout := hi.dialout; have f_count := hi.count; have f_orph_virt := hi.orph_virt; have f_incall := hi.incall; clear hi; (intros; (try simp only [hubf, rsSet_sid2rs _ _ _ hrs, rsSet_rs2sid _ _ _ hrs] at *); grind [mem_removeL, nodup_removeL, removeL_nil]))
   case vtable =>
     first
       | (have f_vtable := hi.vtable; have f_virt := hi.virt; have f_fresh := hi.fresh; clear hi; (intros; (try simp only [hubf, rsSet_sid2rs _ _ _ hrs, rsSet_rs2sid _ _ _ hrs] at *); grind [mem_removeL, nodup_removeL, removeL_nil]))
-      | (have f_fresh := hi.fresh; have f_mem_room := hi.mem_room; have f_room_mem := hi.room_mem; have f_nonempty := hi.nonempty; have f_nodup := hi.nodup; have f_roomL_iff := hi.roomL_iff; have f_roomL_nodup := hi.roomL_nodup; have f_userL_iff := hi.userL_iff; have f_userL_nodup := hi.userL_nodup; have f_sessL_iff := hi.sessL_iff; have f_rs_fwd := hi.rs_fwd; have f_rs_room := hi.rs_room; have f_virt := hi.virt; have f_children := hi.children; have f_vtable := hi.vtable; have f_conn_iff := hi.conn_iff; have f_conn_open := hi.conn_open; have f_eh := hi.eh; have f_expired := hi.expired; have f_anon := hi.anon; have f_dialout := hi.dialout; have f_count := hi.count; have f_orph_virt := hi.orph_virt; clear hi; (intros; (try simp only [hubf, rsSet_sid2rs _ _ _ hrs, rsSet_rs2sid _ _ _ hrs] at *); grind [mem_removeL, nodup_removeL, removeL_nil]))
+      | (have f_fresh := hi.fresh; have f_mem_room := hi.mem_room; have f_room_mem := hi.room_mem; have f_nonempty := hi.nonempty; have f_nodup := hi.nodup; have f_roomL_iff := hi.roomL_iff; have f_roomL_nodup := hi.roomL_nodup; have f_userL_iff := hi.userL_iff; have f_userL_nodup := hi.userL_nodup; have f_sessL_iff := hi.sessL_iff; have f_rs_fwd := hi.rs_fwd; have f_rs_room := hi.rs_room; have f_virt := hi.virt; have f_children := hi.children; have f_vtable := hi.vtable; have f_conn_iff := hi.conn_iff; have f_conn_open := hi.conn_open; have f_eh := hi.eh; have f_expired := hi.expired; have f_anon := hi.anon; have f_dialout := hi.dialout; have f_count := hi.count; have f_orph_virt := hi.orph_virt; have f_incall := hi.incall; clear hi; (intros; (try simp only [hubf, rsSet_sid2rs _ _ _ hrs, rsSet_rs2sid _ _ _ hrs] at *); grind [mem_removeL, nodup_removeL, removeL_nil]))
   case conn_iff =>
     first
       | (have f_conn_iff := hi.conn_iff; have f_fresh := hi.fresh; have f_virt := hi.virt; clear hi; (intros; (try simp only [hubf, rsSet_sid2rs _ _ _ hrs, rsSet_rs2sid _ _ _ hrs] at *); grind [mem_removeL, nodup_removeL, removeL_nil]))
-      | (have f_fresh := hi.fresh; have f_mem_room := hi.mem_room; have f_room_mem := hi.room_mem; have f_nonempty := hi.nonempty; have f_nodup := hi.nodup; have f_roomL_iff := hi.roomL_iff; have f_roomL_nodup := hi.roomL_nodup; have f_userL_iff := hi.userL_iff; have f_userL_nodup := hi.userL_nodup; have f_sessL_iff := hi.sessL_iff; have f_rs_fwd := hi.rs_fwd; have f_rs_room := hi.rs_room; have f_virt := hi.virt; have f_children := hi.children; have f_vtable := hi.vtable; have f_conn_iff := hi.conn_iff; have f_conn_open := hi.conn_open; have f_eh := hi.eh; have f_expired := hi.expired; have f_anon := hi.anon; have f_dialout := hi.dialout; have f_count := hi.count; have f_orph_virt := hi.orph_virt; clear hi; (intros; (try simp only [hubf, rsSet_sid2rs _ _ _ hrs, rsSet_rs2sid _ _ _ hrs] at *); grind [mem_removeL, nodup_removeL, removeL_nil]))
+      | (have f_fresh := hi.fresh; have f_mem_room := hi.mem_room; have f_room_mem := hi.room_mem; have f_nonempty := hi.nonempty; have f_nodup := hi.nodup; have f_roomL_iff := hi.roomL_iff; have f_roomL_nodup := hi.roomL_nodup; have f_userL_iff := hi.userL_iff; have f_userL_nodup := hi.userL_nodup; have f_sessL_iff := hi.sessL_iff; have f_rs_fwd := hi.rs_fwd; have f_rs_room := hi.rs_room; have f_virt := hi.virt; have f_children := hi.children; have f_vtable := hi.vtable; have f_conn_iff := hi.conn_iff; have f_conn_open := hi.conn_open; have f_eh := hi.eh; have f_expired := hi.expired; have f_anon := hi.anon; have f_dialout := hi.dialout; have f_count := hi.count; have f_orph_virt := hi.orph_virt; have f_incall := hi.incall; clear hi; (intros; (try simp only [hubf, rsSet_sid2rs _ _ _ hrs, rsSet_rs2sid _ _ _ hrs] at *); grind [mem_removeL, nodup_removeL, removeL_nil]))
   case conn_open =>
     first
       | (have f_conn_open := hi.conn_open; have f_conn_iff := hi.conn_iff; clear hi; (intros; (try simp only [hubf, rsSet_sid2rs _ _ _ hrs, rsSet_rs2sid _ _ _ hrs] at *); grind [mem_removeL, nodup_removeL, removeL_nil]))
-      | (have f_fresh := hi.fresh; have f_mem_room := hi.mem_room; have f_room_mem := hi.room_mem; have f_nonempty := hi.nonempty; have f_nodup := hi.nodup; have f_roomL_iff := hi.roomL_iff; have f_roomL_nodup := hi.roomL_nodup; have f_userL_iff := hi.userL_iff; have f_userL_nodup := hi.userL_nodup; have f_sessL_iff := hi.sessL_iff; have f_rs_fwd := hi.rs_fwd; have f_rs_room := hi.rs_room; have f_virt := hi.virt; have f_children := hi.children; have f_vtable := hi.vtable; have f_conn_iff := hi.conn_iff; have f_conn_open := hi.conn_open; have f_eh := hi.eh; have f_expired := hi.expired; have f_anon := hi.anon; have f_dialout := hi.dialout; have f_count := hi.count; have f_orph_virt := hi.orph_virt; clear hi; (intros; (try simp only [hubf, rsSet_sid2rs _ _ _ hrs, rsSet_rs2sid _ _ _ hrs] at *); grind [mem_removeL, nodup_removeL, removeL_nil]))
+      | (have f_fresh := hi.fresh; have f_mem_room := hi.mem_room; have f_room_mem := hi.room_mem; have f_nonempty := hi.nonempty; have f_nodup := hi.nodup; have f_roomL_iff := hi.roomL_iff; have f_roomL_nodup := hi.roomL_nodup; have f_userL_iff := hi.userL_iff; have f_userL_nodup := hi.userL_nodup; have f_sessL_iff := hi.sessL_iff; have f_rs_fwd := hi.rs_fwd; have f_rs_room := hi.rs_room; have f_virt := hi.virt; have f_children := hi.children; have f_vtable := hi.vtable; have f_conn_iff := hi.conn_iff; have f_conn_open := hi.conn_open; have f_eh := hi.eh; have f_expired := hi.expired; have f_anon := hi.anon; have f_dialout := hi.dialout; have f_count := hi.count; have f_orph_virt := hi.orph_virt; have f_incall := hi.incall; clear hi; (intros; (try simp only [hubf, rsSet_sid2rs _ _ _ hrs, rsSet_rs2sid _ _ _ hrs] at *); grind [mem_removeL, nodup_removeL, removeL_nil]))
   case eh =>
     first
       | (have f_eh := hi.eh; have f_conn_iff := hi.conn_iff; have f_conn_open := hi.conn_open; clear hi; (intros; (try simp only [hubf, rsSet_sid2rs _ _ _ hrs, rsSet_rs2sid _ _ _ hrs] at *); grind [mem_removeL, nodup_removeL, removeL_nil]))
-      | (have f_fresh := hi.fresh; have f_mem_room := hi.mem_room; have f_room_mem := hi.room_mem; have f_nonempty := hi.nonempty; have f_nodup := hi.nodup; have f_roomL_iff := hi.roomL_iff; have f_roomL_nodup := hi.roomL_nodup; have f_userL_iff := hi.userL_iff; have f_userL_nodup := hi.userL_nodup; have f_sessL_iff := hi.sessL_iff; have f_rs_fwd := hi.rs_fwd; have f_rs_room := hi.rs_room; have f_virt := hi.virt; have f_children := hi.children; have f_vtable := hi.vtable; have f_conn_iff := hi.conn_iff; have f_conn_open := hi.conn_open; have f_eh := hi.eh; have f_expired := hi.expired; have f_anon := hi.anon; have f_dialout := hi.dialout; have f_count := hi.count; have f_orph_virt := hi.orph_virt; clear hi; (intros; (try simp only [hubf, rsSet_sid2rs _ _ _ hrs, rsSet_rs2sid _ _ _ hrs] at *); grind [mem_removeL, nodup_removeL, removeL_nil]))
+      | (have f_fresh := hi.fresh; have f_mem_room := hi.mem_room; have f_room_mem := hi.room_mem; have f_nonempty := hi.nonempty; have f_nodup := hi.nodup; have f_roomL_iff := hi.roomL_iff; have f_roomL_nodup := hi.roomL_nodup; have f_userL_iff := hi.userL_iff; have f_userL_nodup := hi.userL_nodup; have f_sessL_iff := hi.sessL_iff; have f_rs_fwd := hi.rs_fwd; have f_rs_room := hi.rs_room; have f_virt := hi.virt; have f_children := hi.children; have f_vtable := hi.vtable; have f_conn_iff := hi.conn_iff; have f_conn_open := hi.conn_open; have f_eh := hi.eh; have f_expired := hi.expired; have f_anon := hi.anon; have f_dialout := hi.dialout; have f_count := hi.count; have f_orph_virt := hi.orph_virt; have f_incall := hi.incall; clear hi; (intros; (try simp only [hubf, rsSet_sid2rs _ _ _ hrs, rsSet_rs2sid _ _ _ hrs] at *); grind [mem_removeL, nodup_removeL, removeL_nil]))
   case expired =>
     first
       | (have f_expired := hi.expired; have f_fresh := hi.fresh; clear hi; (intros; (try simp only [hubf, rsSet_sid2rs _ _ _ hrs, rsSet_rs2sid _ _ _ hrs] at *); grind [mem_removeL, nodup_removeL, removeL_nil]))
-      | (have f_fresh := hi.fresh; have f_mem_room := hi.mem_room; have f_room_mem := hi.room_mem; have f_nonempty := hi.nonempty; have f_nodup := hi.nodup; have f_roomL_iff := hi.roomL_iff; have f_roomL_nodup := hi.roomL_nodup; have f_userL_iff := hi.userL_iff; have f_userL_nodup := hi.userL_nodup; have f_sessL_iff := hi.sessL_iff; have f_rs_fwd := hi.rs_fwd; have f_rs_room := hi.rs_room; have f_virt := hi.virt; have f_children := hi.children; have f_vtable := hi.vtable; have f_conn_iff := hi.conn_iff; have f_conn_open := hi.conn_open; have f_eh := hi.eh; have f_expired := hi.expired; have f_anon := hi.anon; have f_dialout := hi.dialout; have f_count := hi.count; have f_orph_virt := hi.orph_virt; clear hi; (intros; (try simp only [hubf, rsSet_sid2rs _ _ _ hrs, rsSet_rs2sid _ _ _ hrs] at *); grind [mem_removeL, nodup_removeL, removeL_nil]))
+      | (have f_fresh := hi.fresh; have f_mem_room := hi.mem_room; have f_room_mem := hi.room_mem; have f_nonempty := hi.nonempty; have f_nodup := hi.nodup; have f_roomL_iff := hi.roomL_iff; have f_roomL_nodup := hi.roomL_nodup; have f_userL_iff := hi.userL_iff; have f_userL_nodup := hi.userL_nodup; have f_sessL_iff := hi.sessL_iff; have f_rs_fwd := hi.rs_fwd; have f_rs_room := hi.rs_room; have f_virt := hi.virt; have f_children := hi.children; have f_vtable := hi.vtable; have f_conn_iff := hi.conn_iff; have f_conn_open := hi.conn_open; have f_eh := hi.eh; have f_expired := hi.expired; have f_anon := hi.anon; have f_dialout := hi.dialout; have f_count := hi.count; have f_orph_virt := hi.orph_virt; have f_incall := hi.incall; clear hi; (intros; (try simp only [hubf, rsSet_sid2rs _ _ _ hrs, rsSet_rs2sid _ _ _ hrs] at *); grind [mem_removeL, nodup_removeL, removeL_nil]))
   case anon =>
     first
       | (have f_anon := hi.anon; have f_fresh := hi.fresh; clear hi; (intros; (try simp only [hubf, rsSet_sid2rs _ _ _ hrs, rsSet_rs2sid _ _ _ hrs] at *); grind [mem_removeL, nodup_removeL, removeL_nil]))
-      | (have f_fresh := hi.fresh; have f_mem_room := hi.mem_room; have f_room_mem := hi.room_mem; have f_nonempty := hi.nonempty; have f_nodup := hi.nodup; have f_roomL_iff := hi.roomL_iff; have f_roomL_nodup := hi.roomL_nodup; have f_userL_iff := hi.userL_iff; have f_userL_nodup := hi.userL_nodup; have f_sessL_iff := hi.sessL_iff; have f_rs_fwd := hi.rs_fwd; have f_rs_room := hi.rs_room; have f_virt := hi.virt; have f_children := hi.children; have f_vtable := hi.vtable; have f_conn_iff := hi.conn_iff; have f_conn_open := hi.conn_open; have f_eh := hi.eh; have f_expired := hi.expired; have f_anon := hi.anon; have f_dialout := hi.dialout; have f_count := hi.count; have f_orph_virt := hi.orph_virt; clear hi; (intros; (try simp only [hubf, rsSet_sid2rs _ _ _ hrs, rsSet_rs2sid _ _ _ hrs] at *); grind [mem_removeL, nodup_removeL, removeL_nil]))
+      | (have f_fresh := hi.fresh; have f_mem_room := hi.mem_room; have f_room_mem := hi.room_mem; have f_nonempty := hi.nonempty; have f_nodup := hi.nodup; have f_roomL_iff := hi.roomL_iff; have f_roomL_nodup := hi.roomL_nodup; have f_userL_iff := hi.userL_iff; have f_userL_nodup := hi.userL_nodup; have f_sessL_iff := hi.sessL_iff; have f_rs_fwd := hi.rs_fwd; have f_rs_room := hi.rs_room; have f_virt := hi.virt; have f_children := hi.children; have f_vtable := hi.vtable; have f_conn_iff := hi.conn_iff; have f_conn_open := hi.conn_open; have f_eh := hi.eh; have f_expired := hi.expired; have f_anon := hi.anon; have f_dialout := hi.dialout; have f_count := hi.count; have f_orph_virt := hi.orph_virt; have f_incall := hi.incall; clear hi; (intros; (try simp only [hubf, rsSet_sid2rs _ _ _ hrs, rsSet_rs2sid _ _ _ hrs] at *); grind [mem_removeL, nodup_removeL, removeL_nil]))
   case dialout =>
     first
       | (have f_dialout := hi.dialout; have f_fresh := hi.fresh; clear hi; (intros; (try simp only [hubf, rsSet_sid2rs _ _ _ hrs, rsSet_rs2sid _ _ _ hrs] at *); grind [mem_removeL, nodup_removeL, removeL_nil]))
-      | (have f_fresh := hi.fresh; have f_mem_room := hi.mem_room; have f_room_mem := hi.room_mem; have f_nonempty := hi.nonempty; have f_nodup := hi.nodup; have f_roomL_iff := hi.roomL_iff; have f_roomL_nodup := hi.roomL_nodup; have f_userL_iff := hi.userL_iff; have f_userL_nodup := hi.userL_nodup; have f_sessL_iff := hi.sessL_iff; have f_rs_fwd := hi.rs_fwd; have f_rs_room := hi.rs_room; have f_virt := hi.virt; have f_children := hi.children; have f_vtable := hi.vtable; have f_conn_iff := hi.conn_iff; have f_conn_open := hi.conn_open; have f_eh := hi.eh; have f_expired := hi.expired; have f_anon := hi.anon; have f_dialout := hi.dialout; have f_count := hi.count; have f_orph_virt := hi.orph_virt; clear hi; (intros; (try simp only [hubf, rsSet_sid2rs _ _ _ hrs, rsSet_rs2sid _ _ _ hrs] at *); grind [mem_removeL, nodup_removeL, removeL_nil]))
+      | (have f_fresh := hi.fresh; have f_mem_room := hi.mem_room; have f_room_mem := hi.room_mem; have f_nonempty := hi.nonempty; have f_nodup := hi.nodup; have f_roomL_iff := hi.roomL_iff; have f_roomL_nodup := hi.roomL_nodup; have f_userL_iff := hi.userL_iff; have f_userL_nodup := hi.userL_nodup; have f_sessL_iff := hi.sessL_iff; have f_rs_fwd := hi.rs_fwd; have f_rs_room := hi.rs_room; have f_virt := hi.virt; have f_children := hi.children; have f_vtable := hi.vtable; have f_conn_iff := hi.conn_iff; have f_conn_open := hi.conn_open; have f_eh := hi.eh; have f_expired := hi.expired; have f_anon := hi.anon; have f_dialout := hi.dialout; have f_count := hi.count; have f_orph_virt := hi.orph_virt; have f_incall := hi.incall; clear hi; (intros; (try simp only [hubf, rsSet_sid2rs _ _ _ hrs, rsSet_rs2sid _ _ _ hrs] at *); grind [mem_removeL, nodup_removeL, removeL_nil]))
   case count =>
     first
       | (have f_count := hi.count; have f_fresh := hi.fresh; clear hi; (intros; (try simp only [hubf, rsSet_sid2rs _ _ _ hrs, rsSet_rs2sid _ _ _ hrs] at *); grind [mem_removeL, nodup_removeL, removeL_nil]))
-      | (have f_fresh := hi.fresh; have f_mem_room := hi.mem_room; have f_room_mem := hi.room_mem; have f_nonempty := hi.nonempty; have f_nodup := hi.nodup; have f_roomL_iff := hi.roomL_iff; have f_roomL_nodup := hi.roomL_nodup; have f_userL_iff := hi.userL_iff; have f_userL_nodup := hi.userL_nodup; have f_sessL_iff := hi.sessL_iff; have f_rs_fwd := hi.rs_fwd; have f_rs_room := hi.rs_room; have f_virt := hi.virt; have f_children := hi.children; have f_vtable := hi.vtable; have f_conn_iff := hi.conn_iff; have f_conn_open := hi.conn_open; have f_eh := hi.eh; have f_expired := hi.expired; have f_anon := hi.anon; have f_dialout := hi.dialout; have f_count := hi.count; have f_orph_virt := hi.orph_virt; clear hi; (intros; (try simp only [hubf, rsSet_sid2rs _ _ _ hrs, rsSet_rs2sid _ _ _ hrs] at *); grind [mem_removeL, nodup_removeL, removeL_nil]))
+      | (have f_fresh := hi.fresh; have f_mem_room := hi.mem_room; have f_room_mem := hi.room_mem; have f_nonempty := hi.nonempty; have f_nodup := hi.nodup; have f_roomL_iff := hi.roomL_iff; have f_roomL_nodup := hi.roomL_nodup; have f_userL_iff := hi.userL_iff; have f_userL_nodup := hi.userL_nodup; have f_sessL_iff := hi.sessL_iff; have f_rs_fwd := hi.rs_fwd; have f_rs_room := hi.rs_room; have f_virt := hi.virt; have f_children := hi.children; have f_vtable := hi.vtable; have f_conn_iff := hi.conn_iff; have f_conn_open := hi.conn_open; have f_eh := hi.eh; have f_expired := hi.expired; have f_anon := hi.anon; have f_dialout := hi.dialout; have f_count := hi.count; have f_orph_virt := hi.orph_virt; have f_incall := hi.incall; clear hi; (intros; (try simp only [hubf, rsSet_sid2rs _ _ _ hrs, rsSet_rs2sid _ _ _ hrs] at *); grind [mem_removeL, nodup_removeL, removeL_nil]))
   case orph_virt =>
     first
       | (have f_orph_virt := hi.orph_virt; have f_fresh := hi.fresh; have f_children := hi.children; have f_virt := hi.virt; clear hi; (intros; (try simp only [hubf, rsSet_sid2rs _ _ _ hrs, rsSet_rs2sid _ _ _ hrs] at *); grind [mem_removeL, nodup_removeL, removeL_nil]))
-      | (have f_fresh := hi.fresh; have f_mem_room := hi.mem_room; have f_room_mem := hi.room_mem; have f_nonempty := hi.nonempty; have f_nodup := hi.nodup; have f_roomL_iff := hi.roomL_iff; have f_roomL_nodup := hi.roomL_nodup; have f_userL_iff := hi.userL_iff; have f_userL_nodup := hi.userL_nodup; have f_sessL_iff := hi.sessL_iff; have f_rs_fwd := hi.rs_fwd; have f_rs_room := hi.rs_room; have f_virt := hi.virt; have f_children := hi.children; have f_vtable := hi.vtable; have f_conn_iff := hi.conn_iff; have f_conn_open := hi.conn_open; have f_eh := hi.eh; have f_expired := hi.expired; have f_anon := hi.anon; have f_dialout := hi.dialout; have f_count := hi.count; have f_orph_virt := hi.orph_virt; clear hi; (intros; (try simp only [hubf, rsSet_sid2rs _ _ _ hrs, rsSet_rs2sid _ _ _ hrs] at *); grind [mem_removeL, nodup_removeL, removeL_nil]))
+      | (have f_fresh := hi.fresh; have f_mem_room := hi.mem_room; have f_room_mem := hi.room_mem; have f_nonempty := hi.nonempty; have f_nodup := hi.nodup; have f_roomL_iff := hi.roomL_iff; have f_roomL_nodup := hi.roomL_nodup; have f_userL_iff := hi.userL_iff; have f_userL_nodup := hi.userL_nodup; have f_sessL_iff := hi.sessL_iff; have f_rs_fwd := hi.rs_fwd; have f_rs_room := hi.rs_room; have f_virt := hi.virt; have f_children := hi.children; have f_vtable := hi.vtable; have f_conn_iff := hi.conn_iff; have f_conn_open := hi.conn_open; have f_eh := hi.eh; have f_expired := hi.expired; have f_anon := hi.anon; have f_dialout := hi.dialout; have f_count := hi.count; have f_orph_virt := hi.orph_virt; have f_incall := hi.incall; clear hi; (intros; (try simp only [hubf, rsSet_sid2rs _ _ _ hrs, rsSet_rs2sid _ _ _ hrs] at *); grind [mem_removeL, nodup_removeL, removeL_nil]))
+  case incall =>
+    first
+      | (have f_incall := hi.incall; have f_mem_room := hi.mem_room; clear hi; (intros; (try simp only [hubf, rsSet_sid2rs _ _ _ hrs, rsSet_rs2sid _ _ _ hrs] at *); grind [mem_removeL, nodup_removeL, removeL_nil]))
+      | (have f_fresh := hi.fresh; have f_mem_room := hi.mem_room; have f_room_mem := hi.room_mem; have f_nonempty := hi.nonempty; have f_nodup := hi.nodup; have f_roomL_iff := hi.roomL_iff; have f_roomL_nodup := hi.roomL_nodup; have f_userL_iff := hi.userL_iff; have f_userL_nodup := hi.userL_nodup; have f_sessL_iff := hi.sessL_iff; have f_rs_fwd := hi.rs_fwd; have f_rs_room := hi.rs_room; have f_virt := hi.virt; have f_children := hi.children; have f_vtable := hi.vtable; have f_conn_iff := hi.conn_iff; have f_conn_open := hi.conn_open; have f_eh := hi.eh; have f_expired := hi.expired; have f_anon := hi.anon; have f_dialout := hi.dialout; have f_count := hi.count; have f_orph_virt := hi.orph_virt; have f_incall := hi.incall; clear hi; (intros; (try simp only [hubf, rsSet_sid2rs _ _ _ hrs, rsSet_rs2sid _ _ _ hrs] at *); grind [mem_removeL, nodup_removeL, removeL_nil]))
 
 theorem addVirtual_inv (a : Acc) (s : Nat) (r vkey user : String) (ic : Option Nat) (ok : Bool) (hi : Inv a.h) :
     Inv (addVirtual a s r vkey user ic ok).h := by
@@ -715,7 +734,7 @@ theorem removeVirtual_inv (a : Acc) (s : Nat) (r vkey : String) (hi : Inv a.h) :
           simp only []
           apply closeSession_inv
           -- forgetting a `Hub.virtualSessions` entry only weakens what the invariant has to show
-          obtain ⟨f1, f2, f3, f4, f5, f6, f7, f8, f9, f10, f11, f12, f13, f14, f15, f16, f17, f18, f19, f20, f21, f22, f23⟩ := hi
+          obtain ⟨f1, f2, f3, f4, f5, f6, f7, f8, f9, f10, f11, f12, f13, f14, f15, f16, f17, f18, f19, f20, f21, f22, f23, f24⟩ := hi
           constructor
           all_goals first | assumption | skip
           · intro p k v' hv'
@@ -736,194 +755,204 @@ theorem InvG.setSess_same {orph : List Nat} {h : Hub} (hi : InvX orph h) {s : Na
   case fresh =>
     first
       | (have f_fresh := hi.fresh; clear hi; (intros; (try simp only [hubf] at *); grind [mem_removeL, nodup_removeL, removeL_nil]))
-      | (have f_fresh := hi.fresh; have f_mem_room := hi.mem_room; have f_room_mem := hi.room_mem; have f_nonempty := hi.nonempty; have f_nodup := hi.nodup; have f_roomL_iff := hi.roomL_iff; have f_roomL_nodup := hi.roomL_nodup; have f_userL_iff := hi.userL_iff; have f_userL_nodup := hi.userL_nodup; have f_sessL_iff := hi.sessL_iff; have f_rs_fwd := hi.rs_fwd; have f_rs_room := hi.rs_room; have f_virt := hi.virt; have f_children := hi.children; have f_vtable := hi.vtable; have f_conn_iff := hi.conn_iff; have f_conn_open := hi.conn_open; have f_eh := hi.eh; have f_expired := hi.expired; have f_anon := hi.anon; have f_dialout := hi.dialout; have f_count := hi.count; have f_orph_virt := hi.orph_virt; clear hi; (intros; (try simp only [hubf] at *); grind [mem_removeL, nodup_removeL, removeL_nil]))
+      | (have f_fresh := hi.fresh; have f_mem_room := hi.mem_room; have f_room_mem := hi.room_mem; have f_nonempty := hi.nonempty; have f_nodup := hi.nodup; have f_roomL_iff := hi.roomL_iff; have f_roomL_nodup := hi.roomL_nodup; have f_userL_iff := hi.userL_iff; have f_userL_nodup := hi.userL_nodup; have f_sessL_iff := hi.sessL_iff; have f_rs_fwd := hi.rs_fwd; have f_rs_room := hi.rs_room; have f_virt := hi.virt; have f_children := hi.children; have f_vtable := hi.vtable; have f_conn_iff := hi.conn_iff; have f_conn_open := hi.conn_open; have f_eh := hi.eh; have f_expired := hi.expired; have f_anon := hi.anon; have f_dialout := hi.dialout; have f_count := hi.count; have f_orph_virt := hi.orph_virt; have f_incall := hi.incall; clear hi; (intros; (try simp only [hubf] at *); grind [mem_removeL, nodup_removeL, removeL_nil]))
   case mem_room =>
     first
       | (have f_mem_room := hi.mem_room; have f_fresh := hi.fresh; clear hi; (intros; (try simp only [hubf] at *); grind [mem_removeL, nodup_removeL, removeL_nil]))
-      | (have f_fresh := hi.fresh; have f_mem_room := hi.mem_room; have f_room_mem := hi.room_mem; have f_nonempty := hi.nonempty; have f_nodup := hi.nodup; have f_roomL_iff := hi.roomL_iff; have f_roomL_nodup := hi.roomL_nodup; have f_userL_iff := hi.userL_iff; have f_userL_nodup := hi.userL_nodup; have f_sessL_iff := hi.sessL_iff; have f_rs_fwd := hi.rs_fwd; have f_rs_room := hi.rs_room; have f_virt := hi.virt; have f_children := hi.children; have f_vtable := hi.vtable; have f_conn_iff := hi.conn_iff; have f_conn_open := hi.conn_open; have f_eh := hi.eh; have f_expired := hi.expired; have f_anon := hi.anon; have f_dialout := hi.dialout; have f_count := hi.count; have f_orph_virt := hi.orph_virt; clear hi; (intros; (try simp only [hubf] at *); grind [mem_removeL, nodup_removeL, removeL_nil]))
+      | (have f_fresh := hi.fresh; have f_mem_room := hi.mem_room; have f_room_mem := hi.room_mem; have f_nonempty := hi.nonempty; have f_nodup := hi.nodup; have f_roomL_iff := hi.roomL_iff; have f_roomL_nodup := hi.roomL_nodup; have f_userL_iff := hi.userL_iff; have f_userL_nodup := hi.userL_nodup; have f_sessL_iff := hi.sessL_iff; have f_rs_fwd := hi.rs_fwd; have f_rs_room := hi.rs_room; have f_virt := hi.virt; have f_children := hi.children; have f_vtable := hi.vtable; have f_conn_iff := hi.conn_iff; have f_conn_open := hi.conn_open; have f_eh := hi.eh; have f_expired := hi.expired; have f_anon := hi.anon; have f_dialout := hi.dialout; have f_count := hi.count; have f_orph_virt := hi.orph_virt; have f_incall := hi.incall; clear hi; (intros; (try simp only [hubf] at *); grind [mem_removeL, nodup_removeL, removeL_nil]))
   case room_mem =>
     first
       | (have f_room_mem := hi.room_mem; have f_mem_room := hi.mem_room; have f_fresh := hi.fresh; clear hi; (intros; (try simp only [hubf] at *); grind [mem_removeL, nodup_removeL, removeL_nil]))
-      | (have f_fresh := hi.fresh; have f_mem_room := hi.mem_room; have f_room_mem := hi.room_mem; have f_nonempty := hi.nonempty; have f_nodup := hi.nodup; have f_roomL_iff := hi.roomL_iff; have f_roomL_nodup := hi.roomL_nodup; have f_userL_iff := hi.userL_iff; have f_userL_nodup := hi.userL_nodup; have f_sessL_iff := hi.sessL_iff; have f_rs_fwd := hi.rs_fwd; have f_rs_room := hi.rs_room; have f_virt := hi.virt; have f_children := hi.children; have f_vtable := hi.vtable; have f_conn_iff := hi.conn_iff; have f_conn_open := hi.conn_open; have f_eh := hi.eh; have f_expired := hi.expired; have f_anon := hi.anon; have f_dialout := hi.dialout; have f_count := hi.count; have f_orph_virt := hi.orph_virt; clear hi; (intros; (try simp only [hubf] at *); grind [mem_removeL, nodup_removeL, removeL_nil]))
+      | (have f_fresh := hi.fresh; have f_mem_room := hi.mem_room; have f_room_mem := hi.room_mem; have f_nonempty := hi.nonempty; have f_nodup := hi.nodup; have f_roomL_iff := hi.roomL_iff; have f_roomL_nodup := hi.roomL_nodup; have f_userL_iff := hi.userL_iff; have f_userL_nodup := hi.userL_nodup; have f_sessL_iff := hi.sessL_iff; have f_rs_fwd := hi.rs_fwd; have f_rs_room := hi.rs_room; have f_virt := hi.virt; have f_children := hi.children; have f_vtable := hi.vtable; have f_conn_iff := hi.conn_iff; have f_conn_open := hi.conn_open; have f_eh := hi.eh; have f_expired := hi.expired; have f_anon := hi.anon; have f_dialout := hi.dialout; have f_count := hi.count; have f_orph_virt := hi.orph_virt; have f_incall := hi.incall; clear hi; (intros; (try simp only [hubf] at *); grind [mem_removeL, nodup_removeL, removeL_nil]))
   case nonempty =>
     first
       | (have f_nonempty := hi.nonempty; have f_mem_room := hi.mem_room; clear hi; (intros; (try simp only [hubf] at *); grind [mem_removeL, nodup_removeL, removeL_nil]))
-      | (have f_fresh := hi.fresh; have f_mem_room := hi.mem_room; have f_room_mem := hi.room_mem; have f_nonempty := hi.nonempty; have f_nodup := hi.nodup; have f_roomL_iff := hi.roomL_iff; have f_roomL_nodup := hi.roomL_nodup; have f_userL_iff := hi.userL_iff; have f_userL_nodup := hi.userL_nodup; have f_sessL_iff := hi.sessL_iff; have f_rs_fwd := hi.rs_fwd; have f_rs_room := hi.rs_room; have f_virt := hi.virt; have f_children := hi.children; have f_vtable := hi.vtable; have f_conn_iff := hi.conn_iff; have f_conn_open := hi.conn_open; have f_eh := hi.eh; have f_expired := hi.expired; have f_anon := hi.anon; have f_dialout := hi.dialout; have f_count := hi.count; have f_orph_virt := hi.orph_virt; clear hi; (intros; (try simp only [hubf] at *); grind [mem_removeL, nodup_removeL, removeL_nil]))
+      | (have f_fresh := hi.fresh; have f_mem_room := hi.mem_room; have f_room_mem := hi.room_mem; have f_nonempty := hi.nonempty; have f_nodup := hi.nodup; have f_roomL_iff := hi.roomL_iff; have f_roomL_nodup := hi.roomL_nodup; have f_userL_iff := hi.userL_iff; have f_userL_nodup := hi.userL_nodup; have f_sessL_iff := hi.sessL_iff; have f_rs_fwd := hi.rs_fwd; have f_rs_room := hi.rs_room; have f_virt := hi.virt; have f_children := hi.children; have f_vtable := hi.vtable; have f_conn_iff := hi.conn_iff; have f_conn_open := hi.conn_open; have f_eh := hi.eh; have f_expired := hi.expired; have f_anon := hi.anon; have f_dialout := hi.dialout; have f_count := hi.count; have f_orph_virt := hi.orph_virt; have f_incall := hi.incall; clear hi; (intros; (try simp only [hubf] at *); grind [mem_removeL, nodup_removeL, removeL_nil]))
   case nodup =>
     first
       | (have f_nodup := hi.nodup; clear hi; (intros; (try simp only [hubf] at *); grind [mem_removeL, nodup_removeL, removeL_nil]))
-      | (have f_fresh := hi.fresh; have f_mem_room := hi.mem_room; have f_room_mem := hi.room_mem; have f_nonempty := hi.nonempty; have f_nodup := hi.nodup; have f_roomL_iff := hi.roomL_iff; have f_roomL_nodup := hi.roomL_nodup; have f_userL_iff := hi.userL_iff; have f_userL_nodup := hi.userL_nodup; have f_sessL_iff := hi.sessL_iff; have f_rs_fwd := hi.rs_fwd; have f_rs_room := hi.rs_room; have f_virt := hi.virt; have f_children := hi.children; have f_vtable := hi.vtable; have f_conn_iff := hi.conn_iff; have f_conn_open := hi.conn_open; have f_eh := hi.eh; have f_expired := hi.expired; have f_anon := hi.anon; have f_dialout := hi.dialout; have f_count := hi.count; have f_orph_virt := hi.orph_virt; clear hi; (intros; (try simp only [hubf] at *); grind [mem_removeL, nodup_removeL, removeL_nil]))
+      | (have f_fresh := hi.fresh; have f_mem_room := hi.mem_room; have f_room_mem := hi.room_mem; have f_nonempty := hi.nonempty; have f_nodup := hi.nodup; have f_roomL_iff := hi.roomL_iff; have f_roomL_nodup := hi.roomL_nodup; have f_userL_iff := hi.userL_iff; have f_userL_nodup := hi.userL_nodup; have f_sessL_iff := hi.sessL_iff; have f_rs_fwd := hi.rs_fwd; have f_rs_room := hi.rs_room; have f_virt := hi.virt; have f_children := hi.children; have f_vtable := hi.vtable; have f_conn_iff := hi.conn_iff; have f_conn_open := hi.conn_open; have f_eh := hi.eh; have f_expired := hi.expired; have f_anon := hi.anon; have f_dialout := hi.dialout; have f_count := hi.count; have f_orph_virt := hi.orph_virt; have f_incall := hi.incall; clear hi; (intros; (try simp only [hubf] at *); grind [mem_removeL, nodup_removeL, removeL_nil]))
   case roomL_iff =>
     first
       | (have f_roomL_iff := hi.roomL_iff; have f_fresh := hi.fresh; have f_room_mem := hi.room_mem; have f_mem_room := hi.mem_room; clear hi; (intros; (try simp only [hubf] at *); grind [mem_removeL, nodup_removeL, removeL_nil]))
-      | (have f_fresh := hi.fresh; have f_mem_room := hi.mem_room; have f_room_mem := hi.room_mem; have f_nonempty := hi.nonempty; have f_nodup := hi.nodup; have f_roomL_iff := hi.roomL_iff; have f_roomL_nodup := hi.roomL_nodup; have f_userL_iff := hi.userL_iff; have f_userL_nodup := hi.userL_nodup; have f_sessL_iff := hi.sessL_iff; have f_rs_fwd := hi.rs_fwd; have f_rs_room := hi.rs_room; have f_virt := hi.virt; have f_children := hi.children; have f_vtable := hi.vtable; have f_conn_iff := hi.conn_iff; have f_conn_open := hi.conn_open; have f_eh := hi.eh; have f_expired := hi.expired; have f_anon := hi.anon; have f_dialout := hi.dialout; have f_count := hi.count; have f_orph_virt := hi.orph_virt; clear hi; (intros; (try simp only [hubf] at *); grind [mem_removeL, nodup_removeL, removeL_nil]))
+      | (have f_fresh := hi.fresh; have f_mem_room := hi.mem_room; have f_room_mem := hi.room_mem; have f_nonempty := hi.nonempty; have f_nodup := hi.nodup; have f_roomL_iff := hi.roomL_iff; have f_roomL_nodup := hi.roomL_nodup; have f_userL_iff := hi.userL_iff; have f_userL_nodup := hi.userL_nodup; have f_sessL_iff := hi.sessL_iff; have f_rs_fwd := hi.rs_fwd; have f_rs_room := hi.rs_room; have f_virt := hi.virt; have f_children := hi.children; have f_vtable := hi.vtable; have f_conn_iff := hi.conn_iff; have f_conn_open := hi.conn_open; have f_eh := hi.eh; have f_expired := hi.expired; have f_anon := hi.anon; have f_dialout := hi.dialout; have f_count := hi.count; have f_orph_virt := hi.orph_virt; have f_incall := hi.incall; clear hi; (intros; (try simp only [hubf] at *); grind [mem_removeL, nodup_removeL, removeL_nil]))
   case roomL_nodup =>
     first
       | (have f_roomL_nodup := hi.roomL_nodup; have f_roomL_iff := hi.roomL_iff; clear hi; (intros; (try simp only [hubf] at *); grind [mem_removeL, nodup_removeL, removeL_nil]))
-      | (have f_fresh := hi.fresh; have f_mem_room := hi.mem_room; have f_room_mem := hi.room_mem; have f_nonempty := hi.nonempty; have f_nodup := hi.nodup; have f_roomL_iff := hi.roomL_iff; have f_roomL_nodup := hi.roomL_nodup; have f_userL_iff := hi.userL_iff; have f_userL_nodup := hi.userL_nodup; have f_sessL_iff := hi.sessL_iff; have f_rs_fwd := hi.rs_fwd; have f_rs_room := hi.rs_room; have f_virt := hi.virt; have f_children := hi.children; have f_vtable := hi.vtable; have f_conn_iff := hi.conn_iff; have f_conn_open := hi.conn_open; have f_eh := hi.eh; have f_expired := hi.expired; have f_anon := hi.anon; have f_dialout := hi.dialout; have f_count := hi.count; have f_orph_virt := hi.orph_virt; clear hi; (intros; (try simp only [hubf] at *); grind [mem_removeL, nodup_removeL, removeL_nil]))
+      | (have f_fresh := hi.fresh; have f_mem_room := hi.mem_room; have f_room_mem := hi.room_mem; have f_nonempty := hi.nonempty; have f_nodup := hi.nodup; have f_roomL_iff := hi.roomL_iff; have f_roomL_nodup := hi.roomL_nodup; have f_userL_iff := hi.userL_iff; have f_userL_nodup := hi.userL_nodup; have f_sessL_iff := hi.sessL_iff; have f_rs_fwd := hi.rs_fwd; have f_rs_room := hi.rs_room; have f_virt := hi.virt; have f_children := hi.children; have f_vtable := hi.vtable; have f_conn_iff := hi.conn_iff; have f_conn_open := hi.conn_open; have f_eh := hi.eh; have f_expired := hi.expired; have f_anon := hi.anon; have f_dialout := hi.dialout; have f_count := hi.count; have f_orph_virt := hi.orph_virt; have f_incall := hi.incall; clear hi; (intros; (try simp only [hubf] at *); grind [mem_removeL, nodup_removeL, removeL_nil]))
   case userL_iff =>
     first
       | (have f_userL_iff := hi.userL_iff; have f_fresh := hi.fresh; clear hi; (intros; (try simp only [hubf] at *); grind [mem_removeL, nodup_removeL, removeL_nil]))
-      | (have f_fresh := hi.fresh; have f_mem_room := hi.mem_room; have f_room_mem := hi.room_mem; have f_nonempty := hi.nonempty; have f_nodup := hi.nodup; have f_roomL_iff := hi.roomL_iff; have f_roomL_nodup := hi.roomL_nodup; have f_userL_iff := hi.userL_iff; have f_userL_nodup := hi.userL_nodup; have f_sessL_iff := hi.sessL_iff; have f_rs_fwd := hi.rs_fwd; have f_rs_room := hi.rs_room; have f_virt := hi.virt; have f_children := hi.children; have f_vtable := hi.vtable; have f_conn_iff := hi.conn_iff; have f_conn_open := hi.conn_open; have f_eh := hi.eh; have f_expired := hi.expired; have f_anon := hi.anon; have f_dialout := hi.dialout; have f_count := hi.count; have f_orph_virt := hi.orph_virt; clear hi; (intros; (try simp only [hubf] at *); grind [mem_removeL, nodup_removeL, removeL_nil]))
+      | (have f_fresh := hi.fresh; have f_mem_room := hi.mem_room; have f_room_mem := hi.room_mem; have f_nonempty := hi.nonempty; have f_nodup := hi.nodup; have f_roomL_iff := hi.roomL_iff; have f_roomL_nodup := hi.roomL_nodup; have f_userL_iff := hi.userL_iff; have f_userL_nodup := hi.userL_nodup; have f_sessL_iff := hi.sessL_iff; have f_rs_fwd := hi.rs_fwd; have f_rs_room := hi.rs_room; have f_virt := hi.virt; have f_children := hi.children; have f_vtable := hi.vtable; have f_conn_iff := hi.conn_iff; have f_conn_open := hi.conn_open; have f_eh := hi.eh; have f_expired := hi.expired; have f_anon := hi.anon; have f_dialout := hi.dialout; have f_count := hi.count; have f_orph_virt := hi.orph_virt; have f_incall := hi.incall; clear hi; (intros; (try simp only [hubf] at *); grind [mem_removeL, nodup_removeL, removeL_nil]))
   case userL_nodup =>
     first
       | (have f_userL_nodup := hi.userL_nodup; have f_userL_iff := hi.userL_iff; clear hi; (intros; (try simp only [hubf] at *); grind [mem_removeL, nodup_removeL, removeL_nil]))
-      | (have f_fresh := hi.fresh; have f_mem_room := hi.mem_room; have f_room_mem := hi.room_mem; have f_nonempty := hi.nonempty; have f_nodup := hi.nodup; have f_roomL_iff := hi.roomL_iff; have f_roomL_nodup := hi.roomL_nodup; have f_userL_iff := hi.userL_iff; have f_userL_nodup := hi.userL_nodup; have f_sessL_iff := hi.sessL_iff; have f_rs_fwd := hi.rs_fwd; have f_rs_room := hi.rs_room; have f_virt := hi.virt; have f_children := hi.children; have f_vtable := hi.vtable; have f_conn_iff := hi.conn_iff; have f_conn_open := hi.conn_open; have f_eh := hi.eh; have f_expired := hi.expired; have f_anon := hi.anon; have f_dialout := hi.dialout; have f_count := hi.count; have f_orph_virt := hi.orph_virt; clear hi; (intros; (try simp only [hubf] at *); grind [mem_removeL, nodup_removeL, removeL_nil]))
+      | (have f_fresh := hi.fresh; have f_mem_room := hi.mem_room; have f_room_mem := hi.room_mem; have f_nonempty := hi.nonempty; have f_nodup := hi.nodup; have f_roomL_iff := hi.roomL_iff; have f_roomL_nodup := hi.roomL_nodup; have f_userL_iff := hi.userL_iff; have f_userL_nodup := hi.userL_nodup; have f_sessL_iff := hi.sessL_iff; have f_rs_fwd := hi.rs_fwd; have f_rs_room := hi.rs_room; have f_virt := hi.virt; have f_children := hi.children; have f_vtable := hi.vtable; have f_conn_iff := hi.conn_iff; have f_conn_open := hi.conn_open; have f_eh := hi.eh; have f_expired := hi.expired; have f_anon := hi.anon; have f_dialout := hi.dialout; have f_count := hi.count; have f_orph_virt := hi.orph_virt; have f_incall := hi.incall; clear hi; (intros; (try simp only [hubf] at *); grind [mem_removeL, nodup_removeL, removeL_nil]))
   case sessL_iff =>
     first
       | (have f_sessL_iff := hi.sessL_iff; have f_fresh := hi.fresh; clear hi; (intros; (try simp only [hubf] at *); grind [mem_removeL, nodup_removeL, removeL_nil]))
-      | (have f_fresh := hi.fresh; have f_mem_room := hi.mem_room; have f_room_mem := hi.room_mem; have f_nonempty := hi.nonempty; have f_nodup := hi.nodup; have f_roomL_iff := hi.roomL_iff; have f_roomL_nodup := hi.roomL_nodup; have f_userL_iff := hi.userL_iff; have f_userL_nodup := hi.userL_nodup; have f_sessL_iff := hi.sessL_iff; have f_rs_fwd := hi.rs_fwd; have f_rs_room := hi.rs_room; have f_virt := hi.virt; have f_children := hi.children; have f_vtable := hi.vtable; have f_conn_iff := hi.conn_iff; have f_conn_open := hi.conn_open; have f_eh := hi.eh; have f_expired := hi.expired; have f_anon := hi.anon; have f_dialout := hi.dialout; have f_count := hi.count; have f_orph_virt := hi.orph_virt; clear hi; (intros; (try simp only [hubf] at *); grind [mem_removeL, nodup_removeL, removeL_nil]))
+      | (have f_fresh := hi.fresh; have f_mem_room := hi.mem_room; have f_room_mem := hi.room_mem; have f_nonempty := hi.nonempty; have f_nodup := hi.nodup; have f_roomL_iff := hi.roomL_iff; have f_roomL_nodup := hi.roomL_nodup; have f_userL_iff := hi.userL_iff; have f_userL_nodup := hi.userL_nodup; have f_sessL_iff := hi.sessL_iff; have f_rs_fwd := hi.rs_fwd; have f_rs_room := hi.rs_room; have f_virt := hi.virt; have f_children := hi.children; have f_vtable := hi.vtable; have f_conn_iff := hi.conn_iff; have f_conn_open := hi.conn_open; have f_eh := hi.eh; have f_expired := hi.expired; have f_anon := hi.anon; have f_dialout := hi.dialout; have f_count := hi.count; have f_orph_virt := hi.orph_virt; have f_incall := hi.incall; clear hi; (intros; (try simp only [hubf] at *); grind [mem_removeL, nodup_removeL, removeL_nil]))
   case rs_fwd =>
     first
       | (have f_rs_fwd := hi.rs_fwd; have f_rs_room := hi.rs_room; have f_fresh := hi.fresh; clear hi; (intros; (try simp only [hubf] at *); grind [mem_removeL, nodup_removeL, removeL_nil]))
-      | (have f_fresh := hi.fresh; have f_mem_room := hi.mem_room; have f_room_mem := hi.room_mem; have f_nonempty := hi.nonempty; have f_nodup := hi.nodup; have f_roomL_iff := hi.roomL_iff; have f_roomL_nodup := hi.roomL_nodup; have f_userL_iff := hi.userL_iff; have f_userL_nodup := hi.userL_nodup; have f_sessL_iff := hi.sessL_iff; have f_rs_fwd := hi.rs_fwd; have f_rs_room := hi.rs_room; have f_virt := hi.virt; have f_children := hi.children; have f_vtable := hi.vtable; have f_conn_iff := hi.conn_iff; have f_conn_open := hi.conn_open; have f_eh := hi.eh; have f_expired := hi.expired; have f_anon := hi.anon; have f_dialout := hi.dialout; have f_count := hi.count; have f_orph_virt := hi.orph_virt; clear hi; (intros; (try simp only [hubf] at *); grind [mem_removeL, nodup_removeL, removeL_nil]))
+      | (have f_fresh := hi.fresh; have f_mem_room := hi.mem_room; have f_room_mem := hi.room_mem; have f_nonempty := hi.nonempty; have f_nodup := hi.nodup; have f_roomL_iff := hi.roomL_iff; have f_roomL_nodup := hi.roomL_nodup; have f_userL_iff := hi.userL_iff; have f_userL_nodup := hi.userL_nodup; have f_sessL_iff := hi.sessL_iff; have f_rs_fwd := hi.rs_fwd; have f_rs_room := hi.rs_room; have f_virt := hi.virt; have f_children := hi.children; have f_vtable := hi.vtable; have f_conn_iff := hi.conn_iff; have f_conn_open := hi.conn_open; have f_eh := hi.eh; have f_expired := hi.expired; have f_anon := hi.anon; have f_dialout := hi.dialout; have f_count := hi.count; have f_orph_virt := hi.orph_virt; have f_incall := hi.incall; clear hi; (intros; (try simp only [hubf] at *); grind [mem_removeL, nodup_removeL, removeL_nil]))
   case rs_room =>
     first
       | (have f_rs_room := hi.rs_room; have f_rs_fwd := hi.rs_fwd; have f_fresh := hi.fresh; have f_room_mem := hi.room_mem; clear hi; (intros; (try simp only [hubf] at *); grind [mem_removeL, nodup_removeL, removeL_nil]))
-      | (have f_fresh := hi.fresh; have f_mem_room := hi.mem_room; have f_room_mem := hi.room_mem; have f_nonempty := hi.nonempty; have f_nodup := hi.nodup; have f_roomL_iff := hi.roomL_iff; have f_roomL_nodup := hi.roomL_nodup; have f_userL_iff := hi.userL_iff; have f_userL_nodup := hi.userL_nodup; have f_sessL_iff := hi.sessL_iff; have f_rs_fwd := hi.rs_fwd; have f_rs_room := hi.rs_room; have f_virt := hi.virt; have f_children := hi.children; have f_vtable := hi.vtable; have f_conn_iff := hi.conn_iff; have f_conn_open := hi.conn_open; have f_eh := hi.eh; have f_expired := hi.expired; have f_anon := hi.anon; have f_dialout := hi.dialout; have f_count := hi.count; have f_orph_virt := hi.orph_virt; clear hi; (intros; (try simp only [hubf] at *); grind [mem_removeL, nodup_removeL, removeL_nil]))
+      | (have f_fresh := hi.fresh; have f_mem_room := hi.mem_room; have f_room_mem := hi.room_mem; have f_nonempty := hi.nonempty; have f_nodup := hi.nodup; have f_roomL_iff := hi.roomL_iff; have f_roomL_nodup := hi.roomL_nodup; have f_userL_iff := hi.userL_iff; have f_userL_nodup := hi.userL_nodup; have f_sessL_iff := hi.sessL_iff; have f_rs_fwd := hi.rs_fwd; have f_rs_room := hi.rs_room; have f_virt := hi.virt; have f_children := hi.children; have f_vtable := hi.vtable; have f_conn_iff := hi.conn_iff; have f_conn_open := hi.conn_open; have f_eh := hi.eh; have f_expired := hi.expired; have f_anon := hi.anon; have f_dialout := hi.dialout; have f_count := hi.count; have f_orph_virt := hi.orph_virt; have f_incall := hi.incall; clear hi; (intros; (try simp only [hubf] at *); grind [mem_removeL, nodup_removeL, removeL_nil]))
   case virt =>
     first
       | (have f_virt := hi.virt; have f_children := hi.children; have f_fresh := hi.fresh; clear hi; (intros; (try simp only [hubf] at *); grind [mem_removeL, nodup_removeL, removeL_nil]))
-      | (have f_fresh := hi.fresh; have f_mem_room := hi.mem_room; have f_room_mem := hi.room_mem; have f_nonempty := hi.nonempty; have f_nodup := hi.nodup; have f_roomL_iff := hi.roomL_iff; have f_roomL_nodup := hi.roomL_nodup; have f_userL_iff := hi.userL_iff; have f_userL_nodup := hi.userL_nodup; have f_sessL_iff := hi.sessL_iff; have f_rs_fwd := hi.rs_fwd; have f_rs_room := hi.rs_room; have f_virt := hi.virt; have f_children := hi.children; have f_vtable := hi.vtable; have f_conn_iff := hi.conn_iff; have f_conn_open := hi.conn_open; have f_eh := hi.eh; have f_expired := hi.expired; have f_anon := hi.anon; have f_dialout := hi.dialout; have f_count := hi.count; have f_orph_virt := hi.orph_virt; clear hi; (intros; (try simp only [hubf] at *); grind [mem_removeL, nodup_removeL, removeL_nil]))
+      | (have f_fresh := hi.fresh; have f_mem_room := hi.mem_room; have f_room_mem := hi.room_mem; have f_nonempty := hi.nonempty; have f_nodup := hi.nodup; have f_roomL_iff := hi.roomL_iff; have f_roomL_nodup := hi.roomL_nodup; have f_userL_iff := hi.userL_iff; have f_userL_nodup := hi.userL_nodup; have f_sessL_iff := hi.sessL_iff; have f_rs_fwd := hi.rs_fwd; have f_rs_room := hi.rs_room; have f_virt := hi.virt; have f_children := hi.children; have f_vtable := hi.vtable; have f_conn_iff := hi.conn_iff; have f_conn_open := hi.conn_open; have f_eh := hi.eh; have f_expired := hi.expired; have f_anon := hi.anon; have f_dialout := hi.dialout; have f_count := hi.count; have f_orph_virt := hi.orph_virt; have f_incall := hi.incall; clear hi; (intros; (try simp only [hubf] at *); grind [mem_removeL, nodup_removeL, removeL_nil]))
   case children =>
     first
       | (have f_children := hi.children; have f_virt := hi.virt; have f_fresh := hi.fresh; clear hi; (intros; (try simp only [hubf] at *); grind [mem_removeL, nodup_removeL, removeL_nil]))
-      | (have f_fresh := hi.fresh; have f_mem_room := hi.mem_room; have f_room_mem := hi.room_mem; have f_nonempty := hi.nonempty; have f_nodup := hi.nodup; have f_roomL_iff := hi.roomL_iff; have f_roomL_nodup := hi.roomL_nodup; have f_userL_iff := hi.userL_iff; have f_userL_nodup := hi.userL_nodup; have f_sessL_iff := hi.sessL_iff; have f_rs_fwd := hi.rs_fwd; have f_rs_room := hi.rs_room; have f_virt := hi.virt; have f_children := hi.children; have f_vtable := hi.vtable; have f_conn_iff := hi.conn_iff; have f_conn_open := hi.conn_open; have f_eh := hi.eh; have f_expired := hi.expired; have f_anon := hi.anon; have f_dialout := hi.dialout; have f_count := hi.count; have f_orph_virt := hi.orph_virt; clear hi; (intros; (try simp only [hubf] at *); grind [mem_removeL, nodup_removeL, removeL_nil]))
+      | (have f_fresh := hi.fresh; have f_mem_room := hi.mem_room; have f_room_mem := hi.room_mem; have f_nonempty := hi.nonempty; have f_nodup := hi.nodup; have f_roomL_iff := hi.roomL_iff; have f_roomL_nodup := hi.roomL_nodup; have f_userL_iff := hi.userL_iff; have f_userL_nodup := hi.userL_nodup; have f_sessL_iff := hi.sessL_iff; have f_rs_fwd := hi.rs_fwd; have f_rs_room := hi.rs_room; have f_virt := hi.virt; have f_children := hi.children; have f_vtable := hi.vtable; have f_conn_iff := hi.conn_iff; have f_conn_open := hi.conn_open; have f_eh := hi.eh; have f_expired := hi.expired; have f_anon := hi.anon; have f_dialout := hi.dialout; have f_count := hi.count; have f_orph_virt := hi.orph_virt; have f_incall := hi.incall; clear hi; (intros; (try simp only [hubf] at *); grind [mem_removeL, nodup_removeL, removeL_nil]))
   case vtable =>
     first
       | (have f_vtable := hi.vtable; have f_virt := hi.virt; have f_fresh := hi.fresh; clear hi; (intros; (try simp only [hubf] at *); grind [mem_removeL, nodup_removeL, removeL_nil]))
-      | (have f_fresh := hi.fresh; have f_mem_room := hi.mem_room; have f_room_mem := hi.room_mem; have f_nonempty := hi.nonempty; have f_nodup := hi.nodup; have f_roomL_iff := hi.roomL_iff; have f_roomL_nodup := hi.roomL_nodup; have f_userL_iff := hi.userL_iff; have f_userL_nodup := hi.userL_nodup; have f_sessL_iff := hi.sessL_iff; have f_rs_fwd := hi.rs_fwd; have f_rs_room := hi.rs_room; have f_virt := hi.virt; have f_children := hi.children; have f_vtable := hi.vtable; have f_conn_iff := hi.conn_iff; have f_conn_open := hi.conn_open; have f_eh := hi.eh; have f_expired := hi.expired; have f_anon := hi.anon; have f_dialout := hi.dialout; have f_count := hi.count; have f_orph_virt := hi.orph_virt; clear hi; (intros; (try simp only [hubf] at *); grind [mem_removeL, nodup_removeL, removeL_nil]))
+      | (have f_fresh := hi.fresh; have f_mem_room := hi.mem_room; have f_room_mem := hi.room_mem; have f_nonempty := hi.nonempty; have f_nodup := hi.nodup; have f_roomL_iff := hi.roomL_iff; have f_roomL_nodup := hi.roomL_nodup; have f_userL_iff := hi.userL_iff; have f_userL_nodup := hi.userL_nodup; have f_sessL_iff := hi.sessL_iff; have f_rs_fwd := hi.rs_fwd; have f_rs_room := hi.rs_room; have f_virt := hi.virt; have f_children := hi.children; have f_vtable := hi.vtable; have f_conn_iff := hi.conn_iff; have f_conn_open := hi.conn_open; have f_eh := hi.eh; have f_expired := hi.expired; have f_anon := hi.anon; have f_dialout := hi.dialout; have f_count := hi.count; have f_orph_virt := hi.orph_virt; have f_incall := hi.incall; clear hi; (intros; (try simp only [hubf] at *); grind [mem_removeL, nodup_removeL, removeL_nil]))
   case conn_iff =>
     first
       | (have f_conn_iff := hi.conn_iff; have f_fresh := hi.fresh; have f_virt := hi.virt; clear hi; (intros; (try simp only [hubf] at *); grind [mem_removeL, nodup_removeL, removeL_nil]))
-      | (have f_fresh := hi.fresh; have f_mem_room := hi.mem_room; have f_room_mem := hi.room_mem; have f_nonempty := hi.nonempty; have f_nodup := hi.nodup; have f_roomL_iff := hi.roomL_iff; have f_roomL_nodup := hi.roomL_nodup; have f_userL_iff := hi.userL_iff; have f_userL_nodup := hi.userL_nodup; have f_sessL_iff := hi.sessL_iff; have f_rs_fwd := hi.rs_fwd; have f_rs_room := hi.rs_room; have f_virt := hi.virt; have f_children := hi.children; have f_vtable := hi.vtable; have f_conn_iff := hi.conn_iff; have f_conn_open := hi.conn_open; have f_eh := hi.eh; have f_expired := hi.expired; have f_anon := hi.anon; have f_dialout := hi.dialout; have f_count := hi.count; have f_orph_virt := hi.orph_virt; clear hi; (intros; (try simp only [hubf] at *); grind [mem_removeL, nodup_removeL, removeL_nil]))
+      | (have f_fresh := hi.fresh; have f_mem_room := hi.mem_room; have f_room_mem := hi.room_mem; have f_nonempty := hi.nonempty; have f_nodup := hi.nodup; have f_roomL_iff := hi.roomL_iff; have f_roomL_nodup := hi.roomL_nodup; have f_userL_iff := hi.userL_iff; have f_userL_nodup := hi.userL_nodup; have f_sessL_iff := hi.sessL_iff; have f_rs_fwd := hi.rs_fwd; have f_rs_room := hi.rs_room; have f_virt := hi.virt; have f_children := hi.children; have f_vtable := hi.vtable; have f_conn_iff := hi.conn_iff; have f_conn_open := hi.conn_open; have f_eh := hi.eh; have f_expired := hi.expired; have f_anon := hi.anon; have f_dialout := hi.dialout; have f_count := hi.count; have f_orph_virt := hi.orph_virt; have f_incall := hi.incall; clear hi; (intros; (try simp only [hubf] at *); grind [mem_removeL, nodup_removeL, removeL_nil]))
   case conn_open =>
     first
       | (have f_conn_open := hi.conn_open; have f_conn_iff := hi.conn_iff; clear hi; (intros; (try simp only [hubf] at *); grind [mem_removeL, nodup_removeL, removeL_nil]))
-      | (have f_fresh := hi.fresh; have f_mem_room := hi.mem_room; have f_room_mem := hi.room_mem; have f_nonempty := hi.nonempty; have f_nodup := hi.nodup; have f_roomL_iff := hi.roomL_iff; have f_roomL_nodup := hi.roomL_nodup; have f_userL_iff := hi.userL_iff; have f_userL_nodup := hi.userL_nodup; have f_sessL_iff := hi.sessL_iff; have f_rs_fwd := hi.rs_fwd; have f_rs_room := hi.rs_room; have f_virt := hi.virt; have f_children := hi.children; have f_vtable := hi.vtable; have f_conn_iff := hi.conn_iff; have f_conn_open := hi.conn_open; have f_eh := hi.eh; have f_expired := hi.expired; have f_anon := hi.anon; have f_dialout := hi.dialout; have f_count := hi.count; have f_orph_virt := hi.orph_virt; clear hi; (intros; (try simp only [hubf] at *); grind [mem_removeL, nodup_removeL, removeL_nil]))
+      | (have f_fresh := hi.fresh; have f_mem_room := hi.mem_room; have f_room_mem := hi.room_mem; have f_nonempty := hi.nonempty; have f_nodup := hi.nodup; have f_roomL_iff := hi.roomL_iff; have f_roomL_nodup := hi.roomL_nodup; have f_userL_iff := hi.userL_iff; have f_userL_nodup := hi.userL_nodup; have f_sessL_iff := hi.sessL_iff; have f_rs_fwd := hi.rs_fwd; have f_rs_room := hi.rs_room; have f_virt := hi.virt; have f_children := hi.children; have f_vtable := hi.vtable; have f_conn_iff := hi.conn_iff; have f_conn_open := hi.conn_open; have f_eh := hi.eh; have f_expired := hi.expired; have f_anon := hi.anon; have f_dialout := hi.dialout; have f_count := hi.count; have f_orph_virt := hi.orph_virt; have f_incall := hi.incall; clear hi; (intros; (try simp only [hubf] at *); grind [mem_removeL, nodup_removeL, removeL_nil]))
   case eh =>
     first
       | (have f_eh := hi.eh; have f_conn_iff := hi.conn_iff; have f_conn_open := hi.conn_open; clear hi; (intros; (try simp only [hubf] at *); grind [mem_removeL, nodup_removeL, removeL_nil]))
-      | (have f_fresh := hi.fresh; have f_mem_room := hi.mem_room; have f_room_mem := hi.room_mem; have f_nonempty := hi.nonempty; have f_nodup := hi.nodup; have f_roomL_iff := hi.roomL_iff; have f_roomL_nodup := hi.roomL_nodup; have f_userL_iff := hi.userL_iff; have f_userL_nodup := hi.userL_nodup; have f_sessL_iff := hi.sessL_iff; have f_rs_fwd := hi.rs_fwd; have f_rs_room := hi.rs_room; have f_virt := hi.virt; have f_children := hi.children; have f_vtable := hi.vtable; have f_conn_iff := hi.conn_iff; have f_conn_open := hi.conn_open; have f_eh := hi.eh; have f_expired := hi.expired; have f_anon := hi.anon; have f_dialout := hi.dialout; have f_count := hi.count; have f_orph_virt := hi.orph_virt; clear hi; (intros; (try simp only [hubf] at *); grind [mem_removeL, nodup_removeL, removeL_nil]))
+      | (have f_fresh := hi.fresh; have f_mem_room := hi.mem_room; have f_room_mem := hi.room_mem; have f_nonempty := hi.nonempty; have f_nodup := hi.nodup; have f_roomL_iff := hi.roomL_iff; have f_roomL_nodup := hi.roomL_nodup; have f_userL_iff := hi.userL_iff; have f_userL_nodup := hi.userL_nodup; have f_sessL_iff := hi.sessL_iff; have f_rs_fwd := hi.rs_fwd; have f_rs_room := hi.rs_room; have f_virt := hi.virt; have f_children := hi.children; have f_vtable := hi.vtable; have f_conn_iff := hi.conn_iff; have f_conn_open := hi.conn_open; have f_eh := hi.eh; have f_expired := hi.expired; have f_anon := hi.anon; have f_dialout := hi.dialout; have f_count := hi.count; have f_orph_virt := hi.orph_virt; have f_incall := hi.incall; clear hi; (intros; (try simp only [hubf] at *); grind [mem_removeL, nodup_removeL, removeL_nil]))
   case expired =>
     first
       | (have f_expired := hi.expired; have f_fresh := hi.fresh; clear hi; (intros; (try simp only [hubf] at *); grind [mem_removeL, nodup_removeL, removeL_nil]))
-      | (have f_fresh := hi.fresh; have f_mem_room := hi.mem_room; have f_room_mem := hi.room_mem; have f_nonempty := hi.nonempty; have f_nodup := hi.nodup; have f_roomL_iff := hi.roomL_iff; have f_roomL_nodup := hi.roomL_nodup; have f_userL_iff := hi.userL_iff; have f_userL_nodup := hi.userL_nodup; have f_sessL_iff := hi.sessL_iff; have f_rs_fwd := hi.rs_fwd; have f_rs_room := hi.rs_room; have f_virt := hi.virt; have f_children := hi.children; have f_vtable := hi.vtable; have f_conn_iff := hi.conn_iff; have f_conn_open := hi.conn_open; have f_eh := hi.eh; have f_expired := hi.expired; have f_anon := hi.anon; have f_dialout := hi.dialout; have f_count := hi.count; have f_orph_virt := hi.orph_virt; clear hi; (intros; (try simp only [hubf] at *); grind [mem_removeL, nodup_removeL, removeL_nil]))
+      | (have f_fresh := hi.fresh; have f_mem_room := hi.mem_room; have f_room_mem := hi.room_mem; have f_nonempty := hi.nonempty; have f_nodup := hi.nodup; have f_roomL_iff := hi.roomL_iff; have f_roomL_nodup := hi.roomL_nodup; have f_userL_iff := hi.userL_iff; have f_userL_nodup := hi.userL_nodup; have f_sessL_iff := hi.sessL_iff; have f_rs_fwd := hi.rs_fwd; have f_rs_room := hi.rs_room; have f_virt := hi.virt; have f_children := hi.children; have f_vtable := hi.vtable; have f_conn_iff := hi.conn_iff; have f_conn_open := hi.conn_open; have f_eh := hi.eh; have f_expired := hi.expired; have f_anon := hi.anon; have f_dialout := hi.dialout; have f_count := hi.count; have f_orph_virt := hi.orph_virt; have f_incall := hi.incall; clear hi; (intros; (try simp only [hubf] at *); grind [mem_removeL, nodup_removeL, removeL_nil]))
   case anon =>
     first
       | (have f_anon := hi.anon; have f_fresh := hi.fresh; clear hi; (intros; (try simp only [hubf] at *); grind [mem_removeL, nodup_removeL, removeL_nil]))
-      | (have f_fresh := hi.fresh; have f_mem_room := hi.mem_room; have f_room_mem := hi.room_mem; have f_nonempty := hi.nonempty; have f_nodup := hi.nodup; have f_roomL_iff := hi.roomL_iff; have f_roomL_nodup := hi.roomL_nodup; have f_userL_iff := hi.userL_iff; have f_userL_nodup := hi.userL_nodup; have f_sessL_iff := hi.sessL_iff; have f_rs_fwd := hi.rs_fwd; have f_rs_room := hi.rs_room; have f_virt := hi.virt; have f_children := hi.children; have f_vtable := hi.vtable; have f_conn_iff := hi.conn_iff; have f_conn_open := hi.conn_open; have f_eh := hi.eh; have f_expired := hi.expired; have f_anon := hi.anon; have f_dialout := hi.dialout; have f_count := hi.count; have f_orph_virt := hi.orph_virt; clear hi; (intros; (try simp only [hubf] at *); grind [mem_removeL, nodup_removeL, removeL_nil]))
+      | (have f_fresh := hi.fresh; have f_mem_room := hi.mem_room; have f_room_mem := hi.room_mem; have f_nonempty := hi.nonempty; have f_nodup := hi.nodup; have f_roomL_iff := hi.roomL_iff; have f_roomL_nodup := hi.roomL_nodup; have f_userL_iff := hi.userL_iff; have f_userL_nodup := hi.userL_nodup; have f_sessL_iff := hi.sessL_iff; have f_rs_fwd := hi.rs_fwd; have f_rs_room := hi.rs_room; have f_virt := hi.virt; have f_children := hi.children; have f_vtable := hi.vtable; have f_conn_iff := hi.conn_iff; have f_conn_open := hi.conn_open; have f_eh := hi.eh; have f_expired := hi.expired; have f_anon := hi.anon; have f_dialout := hi.dialout; have f_count := hi.count; have f_orph_virt := hi.orph_virt; have f_incall := hi.incall; clear hi; (intros; (try simp only [hubf] at *); grind [mem_removeL, nodup_removeL, removeL_nil]))
   case dialout =>
     first
       | (have f_dialout := hi.dialout; have f_fresh := hi.fresh; clear hi; (intros; (try simp only [hubf] at *); grind [mem_removeL, nodup_removeL, removeL_nil]))
-      | (have f_fresh := hi.fresh; have f_mem_room := hi.mem_room; have f_room_mem := hi.room_mem; have f_nonempty := hi.nonempty; have f_nodup := hi.nodup; have f_roomL_iff := hi.roomL_iff; have f_roomL_nodup := hi.roomL_nodup; have f_userL_iff := hi.userL_iff; have f_userL_nodup := hi.userL_nodup; have f_sessL_iff := hi.sessL_iff; have f_rs_fwd := hi.rs_fwd; have f_rs_room := hi.rs_room; have f_virt := hi.virt; have f_children := hi.children; have f_vtable := hi.vtable; have f_conn_iff := hi.conn_iff; have f_conn_open := hi.conn_open; have f_eh := hi.eh; have f_expired := hi.expired; have f_anon := hi.anon; have f_dialout := hi.dialout; have f_count := hi.count; have f_orph_virt := hi.orph_virt; clear hi; (intros; (try simp only [hubf] at *); grind [mem_removeL, nodup_removeL, removeL_nil]))
+      | (have f_fresh := hi.fresh; have f_mem_room := hi.mem_room; have f_room_mem := hi.room_mem; have f_nonempty := hi.nonempty; have f_nodup := hi.nodup; have f_roomL_iff := hi.roomL_iff; have f_roomL_nodup := hi.roomL_nodup; have f_userL_iff := hi.userL_iff; have f_userL_nodup := hi.userL_nodup; have f_sessL_iff := hi.sessL_iff; have f_rs_fwd := hi.rs_fwd; have f_rs_room := hi.rs_room; have f_virt := hi.virt; have f_children := hi.children; have f_vtable := hi.vtable; have f_conn_iff := hi.conn_iff; have f_conn_open := hi.conn_open; have f_eh := hi.eh; have f_expired := hi.expired; have f_anon := hi.anon; have f_dialout := hi.dialout; have f_count := hi.count; have f_orph_virt := hi.orph_virt; have f_incall := hi.incall; clear hi; (intros; (try simp only [hubf] at *); grind [mem_removeL, nodup_removeL, removeL_nil]))
   case count =>
     first
       | (have f_count := hi.count; have f_fresh := hi.fresh; clear hi; (intros; (try simp only [hubf] at *); grind [mem_removeL, nodup_removeL, removeL_nil]))
-      | (have f_fresh := hi.fresh; have f_mem_room := hi.mem_room; have f_room_mem := hi.room_mem; have f_nonempty := hi.nonempty; have f_nodup := hi.nodup; have f_roomL_iff := hi.roomL_iff; have f_roomL_nodup := hi.roomL_nodup; have f_userL_iff := hi.userL_iff; have f_userL_nodup := hi.userL_nodup; have f_sessL_iff := hi.sessL_iff; have f_rs_fwd := hi.rs_fwd; have f_rs_room := hi.rs_room; have f_virt := hi.virt; have f_children := hi.children; have f_vtable := hi.vtable; have f_conn_iff := hi.conn_iff; have f_conn_open := hi.conn_open; have f_eh := hi.eh; have f_expired := hi.expired; have f_anon := hi.anon; have f_dialout := hi.dialout; have f_count := hi.count; have f_orph_virt := hi.orph_virt; clear hi; (intros; (try simp only [hubf] at *); grind [mem_removeL, nodup_removeL, removeL_nil]))
+      | (have f_fresh := hi.fresh; have f_mem_room := hi.mem_room; have f_room_mem := hi.room_mem; have f_nonempty := hi.nonempty; have f_nodup := hi.nodup; have f_roomL_iff := hi.roomL_iff; have f_roomL_nodup := hi.roomL_nodup; have f_userL_iff := hi.userL_iff; have f_userL_nodup := hi.userL_nodup; have f_sessL_iff := hi.sessL_iff; have f_rs_fwd := hi.rs_fwd; have f_rs_room := hi.rs_room; have f_virt := hi.virt; have f_children := hi.children; have f_vtable := hi.vtable; have f_conn_iff := hi.conn_iff; have f_conn_open := hi.conn_open; have f_eh := hi.eh; have f_expired := hi.expired; have f_anon := hi.anon; have f_dialout := hi.dialout; have f_count := hi.count; have f_orph_virt := hi.orph_virt; have f_incall := hi.incall; clear hi; (intros; (try simp only [hubf] at *); grind [mem_removeL, nodup_removeL, removeL_nil]))
   case orph_virt =>
     first
       | (have f_orph_virt := hi.orph_virt; have f_fresh := hi.fresh; have f_children := hi.children; have f_virt := hi.virt; clear hi; (intros; (try simp only [hubf] at *); grind [mem_removeL, nodup_removeL, removeL_nil]))
-      | (have f_fresh := hi.fresh; have f_mem_room := hi.mem_room; have f_room_mem := hi.room_mem; have f_nonempty := hi.nonempty; have f_nodup := hi.nodup; have f_roomL_iff := hi.roomL_iff; have f_roomL_nodup := hi.roomL_nodup; have f_userL_iff := hi.userL_iff; have f_userL_nodup := hi.userL_nodup; have f_sessL_iff := hi.sessL_iff; have f_rs_fwd := hi.rs_fwd; have f_rs_room := hi.rs_room; have f_virt := hi.virt; have f_children := hi.children; have f_vtable := hi.vtable; have f_conn_iff := hi.conn_iff; have f_conn_open := hi.conn_open; have f_eh := hi.eh; have f_expired := hi.expired; have f_anon := hi.anon; have f_dialout := hi.dialout; have f_count := hi.count; have f_orph_virt := hi.orph_virt; clear hi; (intros; (try simp only [hubf] at *); grind [mem_removeL, nodup_removeL, removeL_nil]))
+      | (have f_fresh := hi.fresh; have f_mem_room := hi.mem_room; have f_room_mem := hi.room_mem; have f_nonempty := hi.nonempty; have f_nodup := hi.nodup; have f_roomL_iff := hi.roomL_iff; have f_roomL_nodup := hi.roomL_nodup; have f_userL_iff := hi.userL_iff; have f_userL_nodup := hi.userL_nodup; have f_sessL_iff := hi.sessL_iff; have f_rs_fwd := hi.rs_fwd; have f_rs_room := hi.rs_room; have f_virt := hi.virt; have f_children := hi.children; have f_vtable := hi.vtable; have f_conn_iff := hi.conn_iff; have f_conn_open := hi.conn_open; have f_eh := hi.eh; have f_expired := hi.expired; have f_anon := hi.anon; have f_dialout := hi.dialout; have f_count := hi.count; have f_orph_virt := hi.orph_virt; have f_incall := hi.incall; clear hi; (intros; (try simp only [hubf] at *); grind [mem_removeL, nodup_removeL, removeL_nil]))
+  case incall =>
+    first
+      | (have f_incall := hi.incall; have f_mem_room := hi.mem_room; clear hi; (intros; (try simp only [hubf] at *); grind [mem_removeL, nodup_removeL, removeL_nil]))
+      | (have f_fresh := hi.fresh; have f_mem_room := hi.mem_room; have f_room_mem := hi.room_mem; have f_nonempty := hi.nonempty; have f_nodup := hi.nodup; have f_roomL_iff := hi.roomL_iff; have f_roomL_nodup := hi.roomL_nodup; have f_userL_iff := hi.userL_iff; have f_userL_nodup := hi.userL_nodup; have f_sessL_iff := hi.sessL_iff; have f_rs_fwd := hi.rs_fwd; have f_rs_room := hi.rs_room; have f_virt := hi.virt; have f_children := hi.children; have f_vtable := hi.vtable; have f_conn_iff := hi.conn_iff; have f_conn_open := hi.conn_open; have f_eh := hi.eh; have f_expired := hi.expired; have f_anon := hi.anon; have f_dialout := hi.dialout; have f_count := hi.count; have f_orph_virt := hi.orph_virt; have f_incall := hi.incall; clear hi; (intros; (try simp only [hubf] at *); grind [mem_removeL, nodup_removeL, removeL_nil]))
 
 set_option maxHeartbeats 4000000 in
 theorem InvG.setRoom_same {orph : List Nat} {h : Hub} (hi : InvX orph h) {b : Nat} {r : String} {rm rm' : Room}
-    (hrm : h.rooms b r = some rm) (hm : rm'.members = rm.members) : InvX orph (setRoom h b r (some rm')) := by
+    (hrm : h.rooms b r = some rm) (hm : rm'.members = rm.members)
+    (hic : ∀ s, s ∈ rm'.inCall → s ∈ rm.members) : InvX orph (setRoom h b r (some rm')) := by
   constructor
   case fresh =>
     first
       | (have f_fresh := hi.fresh; clear hi; (intros; (try simp only [hubf] at *); grind [mem_removeL, nodup_removeL, removeL_nil]))
-      | (have f_fresh := hi.fresh; have f_mem_room := hi.mem_room; have f_room_mem := hi.room_mem; have f_nonempty := hi.nonempty; have f_nodup := hi.nodup; have f_roomL_iff := hi.roomL_iff; have f_roomL_nodup := hi.roomL_nodup; have f_userL_iff := hi.userL_iff; have f_userL_nodup := hi.userL_nodup; have f_sessL_iff := hi.sessL_iff; have f_rs_fwd := hi.rs_fwd; have f_rs_room := hi.rs_room; have f_virt := hi.virt; have f_children := hi.children; have f_vtable := hi.vtable; have f_conn_iff := hi.conn_iff; have f_conn_open := hi.conn_open; have f_eh := hi.eh; have f_expired := hi.expired; have f_anon := hi.anon; have f_dialout := hi.dialout; have f_count := hi.count; have f_orph_virt := hi.orph_virt; clear hi; (intros; (try simp only [hubf] at *); grind [mem_removeL, nodup_removeL, removeL_nil]))
+      | (have f_fresh := hi.fresh; have f_mem_room := hi.mem_room; have f_room_mem := hi.room_mem; have f_nonempty := hi.nonempty; have f_nodup := hi.nodup; have f_roomL_iff := hi.roomL_iff; have f_roomL_nodup := hi.roomL_nodup; have f_userL_iff := hi.userL_iff; have f_userL_nodup := hi.userL_nodup; have f_sessL_iff := hi.sessL_iff; have f_rs_fwd := hi.rs_fwd; have f_rs_room := hi.rs_room; have f_virt := hi.virt; have f_children := hi.children; have f_vtable := hi.vtable; have f_conn_iff := hi.conn_iff; have f_conn_open := hi.conn_open; have f_eh := hi.eh; have f_expired := hi.expired; have f_anon := hi.anon; have f_dialout := hi.dialout; have f_count := hi.count; have f_orph_virt := hi.orph_virt; have f_incall := hi.incall; clear hi; (intros; (try simp only [hubf] at *); grind [mem_removeL, nodup_removeL, removeL_nil]))
   case mem_room =>
     first
       | (have f_mem_room := hi.mem_room; have f_fresh := hi.fresh; clear hi; (intros; (try simp only [hubf] at *); grind [mem_removeL, nodup_removeL, removeL_nil]))
-      | (have f_fresh := hi.fresh; have f_mem_room := hi.mem_room; have f_room_mem := hi.room_mem; have f_nonempty := hi.nonempty; have f_nodup := hi.nodup; have f_roomL_iff := hi.roomL_iff; have f_roomL_nodup := hi.roomL_nodup; have f_userL_iff := hi.userL_iff; have f_userL_nodup := hi.userL_nodup; have f_sessL_iff := hi.sessL_iff; have f_rs_fwd := hi.rs_fwd; have f_rs_room := hi.rs_room; have f_virt := hi.virt; have f_children := hi.children; have f_vtable := hi.vtable; have f_conn_iff := hi.conn_iff; have f_conn_open := hi.conn_open; have f_eh := hi.eh; have f_expired := hi.expired; have f_anon := hi.anon; have f_dialout := hi.dialout; have f_count := hi.count; have f_orph_virt := hi.orph_virt; clear hi; (intros; (try simp only [hubf] at *); grind [mem_removeL, nodup_removeL, removeL_nil]))
+      | (have f_fresh := hi.fresh; have f_mem_room := hi.mem_room; have f_room_mem := hi.room_mem; have f_nonempty := hi.nonempty; have f_nodup := hi.nodup; have f_roomL_iff := hi.roomL_iff; have f_roomL_nodup := hi.roomL_nodup; have f_userL_iff := hi.userL_iff; have f_userL_nodup := hi.userL_nodup; have f_sessL_iff := hi.sessL_iff; have f_rs_fwd := hi.rs_fwd; have f_rs_room := hi.rs_room; have f_virt := hi.virt; have f_children := hi.children; have f_vtable := hi.vtable; have f_conn_iff := hi.conn_iff; have f_conn_open := hi.conn_open; have f_eh := hi.eh; have f_expired := hi.expired; have f_anon := hi.anon; have f_dialout := hi.dialout; have f_count := hi.count; have f_orph_virt := hi.orph_virt; have f_incall := hi.incall; clear hi; (intros; (try simp only [hubf] at *); grind [mem_removeL, nodup_removeL, removeL_nil]))
   case room_mem =>
     first
       | (have f_room_mem := hi.room_mem; have f_mem_room := hi.mem_room; have f_fresh := hi.fresh; clear hi; (intros; (try simp only [hubf] at *); grind [mem_removeL, nodup_removeL, removeL_nil]))
-      | (have f_fresh := hi.fresh; have f_mem_room := hi.mem_room; have f_room_mem := hi.room_mem; have f_nonempty := hi.nonempty; have f_nodup := hi.nodup; have f_roomL_iff := hi.roomL_iff; have f_roomL_nodup := hi.roomL_nodup; have f_userL_iff := hi.userL_iff; have f_userL_nodup := hi.userL_nodup; have f_sessL_iff := hi.sessL_iff; have f_rs_fwd := hi.rs_fwd; have f_rs_room := hi.rs_room; have f_virt := hi.virt; have f_children := hi.children; have f_vtable := hi.vtable; have f_conn_iff := hi.conn_iff; have f_conn_open := hi.conn_open; have f_eh := hi.eh; have f_expired := hi.expired; have f_anon := hi.anon; have f_dialout := hi.dialout; have f_count := hi.count; have f_orph_virt := hi.orph_virt; clear hi; (intros; (try simp only [hubf] at *); grind [mem_removeL, nodup_removeL, removeL_nil]))
+      | (have f_fresh := hi.fresh; have f_mem_room := hi.mem_room; have f_room_mem := hi.room_mem; have f_nonempty := hi.nonempty; have f_nodup := hi.nodup; have f_roomL_iff := hi.roomL_iff; have f_roomL_nodup := hi.roomL_nodup; have f_userL_iff := hi.userL_iff; have f_userL_nodup := hi.userL_nodup; have f_sessL_iff := hi.sessL_iff; have f_rs_fwd := hi.rs_fwd; have f_rs_room := hi.rs_room; have f_virt := hi.virt; have f_children := hi.children; have f_vtable := hi.vtable; have f_conn_iff := hi.conn_iff; have f_conn_open := hi.conn_open; have f_eh := hi.eh; have f_expired := hi.expired; have f_anon := hi.anon; have f_dialout := hi.dialout; have f_count := hi.count; have f_orph_virt := hi.orph_virt; have f_incall := hi.incall; clear hi; (intros; (try simp only [hubf] at *); grind [mem_removeL, nodup_removeL, removeL_nil]))
   case nonempty =>
     first
       | (have f_nonempty := hi.nonempty; have f_mem_room := hi.mem_room; clear hi; (intros; (try simp only [hubf] at *); grind [mem_removeL, nodup_removeL, removeL_nil]))
-      | (have f_fresh := hi.fresh; have f_mem_room := hi.mem_room; have f_room_mem := hi.room_mem; have f_nonempty := hi.nonempty; have f_nodup := hi.nodup; have f_roomL_iff := hi.roomL_iff; have f_roomL_nodup := hi.roomL_nodup; have f_userL_iff := hi.userL_iff; have f_userL_nodup := hi.userL_nodup; have f_sessL_iff := hi.sessL_iff; have f_rs_fwd := hi.rs_fwd; have f_rs_room := hi.rs_room; have f_virt := hi.virt; have f_children := hi.children; have f_vtable := hi.vtable; have f_conn_iff := hi.conn_iff; have f_conn_open := hi.conn_open; have f_eh := hi.eh; have f_expired := hi.expired; have f_anon := hi.anon; have f_dialout := hi.dialout; have f_count := hi.count; have f_orph_virt := hi.orph_virt; clear hi; (intros; (try simp only [hubf] at *); grind [mem_removeL, nodup_removeL, removeL_nil]))
+      | (have f_fresh := hi.fresh; have f_mem_room := hi.mem_room; have f_room_mem := hi.room_mem; have f_nonempty := hi.nonempty; have f_nodup := hi.nodup; have f_roomL_iff := hi.roomL_iff; have f_roomL_nodup := hi.roomL_nodup; have f_userL_iff := hi.userL_iff; have f_userL_nodup := hi.userL_nodup; have f_sessL_iff := hi.sessL_iff; have f_rs_fwd := hi.rs_fwd; have f_rs_room := hi.rs_room; have f_virt := hi.virt; have f_children := hi.children; have f_vtable := hi.vtable; have f_conn_iff := hi.conn_iff; have f_conn_open := hi.conn_open; have f_eh := hi.eh; have f_expired := hi.expired; have f_anon := hi.anon; have f_dialout := hi.dialout; have f_count := hi.count; have f_orph_virt := hi.orph_virt; have f_incall := hi.incall; clear hi; (intros; (try simp only [hubf] at *); grind [mem_removeL, nodup_removeL, removeL_nil]))
   case nodup =>
     first
       | (have f_nodup := hi.nodup; clear hi; (intros; (try simp only [hubf] at *); grind [mem_removeL, nodup_removeL, removeL_nil]))
-      | (have f_fresh := hi.fresh; have f_mem_room := hi.mem_room; have f_room_mem := hi.room_mem; have f_nonempty := hi.nonempty; have f_nodup := hi.nodup; have f_roomL_iff := hi.roomL_iff; have f_roomL_nodup := hi.roomL_nodup; have f_userL_iff := hi.userL_iff; have f_userL_nodup := hi.userL_nodup; have f_sessL_iff := hi.sessL_iff; have f_rs_fwd := hi.rs_fwd; have f_rs_room := hi.rs_room; have f_virt := hi.virt; have f_children := hi.children; have f_vtable := hi.vtable; have f_conn_iff := hi.conn_iff; have f_conn_open := hi.conn_open; have f_eh := hi.eh; have f_expired := hi.expired; have f_anon := hi.anon; have f_dialout := hi.dialout; have f_count := hi.count; have f_orph_virt := hi.orph_virt; clear hi; (intros; (try simp only [hubf] at *); grind [mem_removeL, nodup_removeL, removeL_nil]))
+      | (have f_fresh := hi.fresh; have f_mem_room := hi.mem_room; have f_room_mem := hi.room_mem; have f_nonempty := hi.nonempty; have f_nodup := hi.nodup; have f_roomL_iff := hi.roomL_iff; have f_roomL_nodup := hi.roomL_nodup; have f_userL_iff := hi.userL_iff; have f_userL_nodup := hi.userL_nodup; have f_sessL_iff := hi.sessL_iff; have f_rs_fwd := hi.rs_fwd; have f_rs_room := hi.rs_room; have f_virt := hi.virt; have f_children := hi.children; have f_vtable := hi.vtable; have f_conn_iff := hi.conn_iff; have f_conn_open := hi.conn_open; have f_eh := hi.eh; have f_expired := hi.expired; have f_anon := hi.anon; have f_dialout := hi.dialout; have f_count := hi.count; have f_orph_virt := hi.orph_virt; have f_incall := hi.incall; clear hi; (intros; (try simp only [hubf] at *); grind [mem_removeL, nodup_removeL, removeL_nil]))
   case roomL_iff =>
     first
       | (have f_roomL_iff := hi.roomL_iff; have f_fresh := hi.fresh; have f_room_mem := hi.room_mem; have f_mem_room := hi.mem_room; clear hi; (intros; (try simp only [hubf] at *); grind [mem_removeL, nodup_removeL, removeL_nil]))
-      | (have f_fresh := hi.fresh; have f_mem_room := hi.mem_room; have f_room_mem := hi.room_mem; have f_nonempty := hi.nonempty; have f_nodup := hi.nodup; have f_roomL_iff := hi.roomL_iff; have f_roomL_nodup := hi.roomL_nodup; have f_userL_iff := hi.userL_iff; have f_userL_nodup := hi.userL_nodup; have f_sessL_iff := hi.sessL_iff; have f_rs_fwd := hi.rs_fwd; have f_rs_room := hi.rs_room; have f_virt := hi.virt; have f_children := hi.children; have f_vtable := hi.vtable; have f_conn_iff := hi.conn_iff; have f_conn_open := hi.conn_open; have f_eh := hi.eh; have f_expired := hi.expired; have f_anon := hi.anon; have f_dialout := hi.dialout; have f_count := hi.count; have f_orph_virt := hi.orph_virt; clear hi; (intros; (try simp only [hubf] at *); grind [mem_removeL, nodup_removeL, removeL_nil]))
+      | (have f_fresh := hi.fresh; have f_mem_room := hi.mem_room; have f_room_mem := hi.room_mem; have f_nonempty := hi.nonempty; have f_nodup := hi.nodup; have f_roomL_iff := hi.roomL_iff; have f_roomL_nodup := hi.roomL_nodup; have f_userL_iff := hi.userL_iff; have f_userL_nodup := hi.userL_nodup; have f_sessL_iff := hi.sessL_iff; have f_rs_fwd := hi.rs_fwd; have f_rs_room := hi.rs_room; have f_virt := hi.virt; have f_children := hi.children; have f_vtable := hi.vtable; have f_conn_iff := hi.conn_iff; have f_conn_open := hi.conn_open; have f_eh := hi.eh; have f_expired := hi.expired; have f_anon := hi.anon; have f_dialout := hi.dialout; have f_count := hi.count; have f_orph_virt := hi.orph_virt; have f_incall := hi.incall; clear hi; (intros; (try simp only [hubf] at *); grind [mem_removeL, nodup_removeL, removeL_nil]))
   case roomL_nodup =>
     first
       | (have f_roomL_nodup := hi.roomL_nodup; have f_roomL_iff := hi.roomL_iff; clear hi; (intros; (try simp only [hubf] at *); grind [mem_removeL, nodup_removeL, removeL_nil]))
-      | (have f_fresh := hi.fresh; have f_mem_room := hi.mem_room; have f_room_mem := hi.room_mem; have f_nonempty := hi.nonempty; have f_nodup := hi.nodup; have f_roomL_iff := hi.roomL_iff; have f_roomL_nodup := hi.roomL_nodup; have f_userL_iff := hi.userL_iff; have f_userL_nodup := hi.userL_nodup; have f_sessL_iff := hi.sessL_iff; have f_rs_fwd := hi.rs_fwd; have f_rs_room := hi.rs_room; have f_virt := hi.virt; have f_children := hi.children; have f_vtable := hi.vtable; have f_conn_iff := hi.conn_iff; have f_conn_open := hi.conn_open; have f_eh := hi.eh; have f_expired := hi.expired; have f_anon := hi.anon; have f_dialout := hi.dialout; have f_count := hi.count; have f_orph_virt := hi.orph_virt; clear hi; (intros; (try simp only [hubf] at *); grind [mem_removeL, nodup_removeL, removeL_nil]))
+      | (have f_fresh := hi.fresh; have f_mem_room := hi.mem_room; have f_room_mem := hi.room_mem; have f_nonempty := hi.nonempty; have f_nodup := hi.nodup; have f_roomL_iff := hi.roomL_iff; have f_roomL_nodup := hi.roomL_nodup; have f_userL_iff := hi.userL_iff; have f_userL_nodup := hi.userL_nodup; have f_sessL_iff := hi.sessL_iff; have f_rs_fwd := hi.rs_fwd; have f_rs_room := hi.rs_room; have f_virt := hi.virt; have f_children := hi.children; have f_vtable := hi.vtable; have f_conn_iff := hi.conn_iff; have f_conn_open := hi.conn_open; have f_eh := hi.eh; have f_expired := hi.expired; have f_anon := hi.anon; have f_dialout := hi.dialout; have f_count := hi.count; have f_orph_virt := hi.orph_virt; have f_incall := hi.incall; clear hi; (intros; (try simp only [hubf] at *); grind [mem_removeL, nodup_removeL, removeL_nil]))
   case userL_iff =>
     first
       | (have f_userL_iff := hi.userL_iff; have f_fresh := hi.fresh; clear hi; (intros; (try simp only [hubf] at *); grind [mem_removeL, nodup_removeL, removeL_nil]))
-      | (have f_fresh := hi.fresh; have f_mem_room := hi.mem_room; have f_room_mem := hi.room_mem; have f_nonempty := hi.nonempty; have f_nodup := hi.nodup; have f_roomL_iff := hi.roomL_iff; have f_roomL_nodup := hi.roomL_nodup; have f_userL_iff := hi.userL_iff; have f_userL_nodup := hi.userL_nodup; have f_sessL_iff := hi.sessL_iff; have f_rs_fwd := hi.rs_fwd; have f_rs_room := hi.rs_room; have f_virt := hi.virt; have f_children := hi.children; have f_vtable := hi.vtable; have f_conn_iff := hi.conn_iff; have f_conn_open := hi.conn_open; have f_eh := hi.eh; have f_expired := hi.expired; have f_anon := hi.anon; have f_dialout := hi.dialout; have f_count := hi.count; have f_orph_virt := hi.orph_virt; clear hi; (intros; (try simp only [hubf] at *); grind [mem_removeL, nodup_removeL, removeL_nil]))
+      | (have f_fresh := hi.fresh; have f_mem_room := hi.mem_room; have f_room_mem := hi.room_mem; have f_nonempty := hi.nonempty; have f_nodup := hi.nodup; have f_roomL_iff := hi.roomL_iff; have f_roomL_nodup := hi.roomL_nodup; have f_userL_iff := hi.userL_iff; have f_userL_nodup := hi.userL_nodup; have f_sessL_iff := hi.sessL_iff; have f_rs_fwd := hi.rs_fwd; have f_rs_room := hi.rs_room; have f_virt := hi.virt; have f_children := hi.children; have f_vtable := hi.vtable; have f_conn_iff := hi.conn_iff; have f_conn_open := hi.conn_open; have f_eh := hi.eh; have f_expired := hi.expired; have f_anon := hi.anon; have f_dialout := hi.dialout; have f_count := hi.count; have f_orph_virt := hi.orph_virt; have f_incall := hi.incall; clear hi; (intros; (try simp only [hubf] at *); grind [mem_removeL, nodup_removeL, removeL_nil]))
   case userL_nodup =>
     first
       | (have f_userL_nodup := hi.userL_nodup; have f_userL_iff := hi.userL_iff; clear hi; (intros; (try simp only [hubf] at *); grind [mem_removeL, nodup_removeL, removeL_nil]))
-      | (have f_fresh := hi.fresh; have f_mem_room := hi.mem_room; have f_room_mem := hi.room_mem; have f_nonempty := hi.nonempty; have f_nodup := hi.nodup; have f_roomL_iff := hi.roomL_iff; have f_roomL_nodup := hi.roomL_nodup; have f_userL_iff := hi.userL_iff; have f_userL_nodup := hi.userL_nodup; have f_sessL_iff := hi.sessL_iff; have f_rs_fwd := hi.rs_fwd; have f_rs_room := hi.rs_room; have f_virt := hi.virt; have f_children := hi.children; have f_vtable := hi.vtable; have f_conn_iff := hi.conn_iff; have f_conn_open := hi.conn_open; have f_eh := hi.eh; have f_expired := hi.expired; have f_anon := hi.anon; have f_dialout := hi.dialout; have f_count := hi.count; have f_orph_virt := hi.orph_virt; clear hi; (intros; (try simp only [hubf] at *); grind [mem_removeL, nodup_removeL, removeL_nil]))
+      | (have f_fresh := hi.fresh; have f_mem_room := hi.mem_room; have f_room_mem := hi.room_mem; have f_nonempty := hi.nonempty; have f_nodup := hi.nodup; have f_roomL_iff := hi.roomL_iff; have f_roomL_nodup := hi.roomL_nodup; have f_userL_iff := hi.userL_iff; have f_userL_nodup := hi.userL_nodup; have f_sessL_iff := hi.sessL_iff; have f_rs_fwd := hi.rs_fwd; have f_rs_room := hi.rs_room; have f_virt := hi.virt; have f_children := hi.children; have f_vtable := hi.vtable; have f_conn_iff := hi.conn_iff; have f_conn_open := hi.conn_open; have f_eh := hi.eh; have f_expired := hi.expired; have f_anon := hi.anon; have f_dialout := hi.dialout; have f_count := hi.count; have f_orph_virt := hi.orph_virt; have f_incall := hi.incall; clear hi; (intros; (try simp only [hubf] at *); grind [mem_removeL, nodup_removeL, removeL_nil]))
   case sessL_iff =>
     first
       | (have f_sessL_iff := hi.sessL_iff; have f_fresh := hi.fresh; clear hi; (intros; (try simp only [hubf] at *); grind [mem_removeL, nodup_removeL, removeL_nil]))
-      | (have f_fresh := hi.fresh; have f_mem_room := hi.mem_room; have f_room_mem := hi.room_mem; have f_nonempty := hi.nonempty; have f_nodup := hi.nodup; have f_roomL_iff := hi.roomL_iff; have f_roomL_nodup := hi.roomL_nodup; have f_userL_iff := hi.userL_iff; have f_userL_nodup := hi.userL_nodup; have f_sessL_iff := hi.sessL_iff; have f_rs_fwd := hi.rs_fwd; have f_rs_room := hi.rs_room; have f_virt := hi.virt; have f_children := hi.children; have f_vtable := hi.vtable; have f_conn_iff := hi.conn_iff; have f_conn_open := hi.conn_open; have f_eh := hi.eh; have f_expired := hi.expired; have f_anon := hi.anon; have f_dialout := hi.dialout; have f_count := hi.count; have f_orph_virt := hi.orph_virt; clear hi; (intros; (try simp only [hubf] at *); grind [mem_removeL, nodup_removeL, removeL_nil]))
+      | (have f_fresh := hi.fresh; have f_mem_room := hi.mem_room; have f_room_mem := hi.room_mem; have f_nonempty := hi.nonempty; have f_nodup := hi.nodup; have f_roomL_iff := hi.roomL_iff; have f_roomL_nodup := hi.roomL_nodup; have f_userL_iff := hi.userL_iff; have f_userL_nodup := hi.userL_nodup; have f_sessL_iff := hi.sessL_iff; have f_rs_fwd := hi.rs_fwd; have f_rs_room := hi.rs_room; have f_virt := hi.virt; have f_children := hi.children; have f_vtable := hi.vtable; have f_conn_iff := hi.conn_iff; have f_conn_open := hi.conn_open; have f_eh := hi.eh; have f_expired := hi.expired; have f_anon := hi.anon; have f_dialout := hi.dialout; have f_count := hi.count; have f_orph_virt := hi.orph_virt; have f_incall := hi.incall; clear hi; (intros; (try simp only [hubf] at *); grind [mem_removeL, nodup_removeL, removeL_nil]))
   case rs_fwd =>
     first
       | (have f_rs_fwd := hi.rs_fwd; have f_rs_room := hi.rs_room; have f_fresh := hi.fresh; clear hi; (intros; (try simp only [hubf] at *); grind [mem_removeL, nodup_removeL, removeL_nil]))
-      | (have f_fresh := hi.fresh; have f_mem_room := hi.mem_room; have f_room_mem := hi.room_mem; have f_nonempty := hi.nonempty; have f_nodup := hi.nodup; have f_roomL_iff := hi.roomL_iff; have f_roomL_nodup := hi.roomL_nodup; have f_userL_iff := hi.userL_iff; have f_userL_nodup := hi.userL_nodup; have f_sessL_iff := hi.sessL_iff; have f_rs_fwd := hi.rs_fwd; have f_rs_room := hi.rs_room; have f_virt := hi.virt; have f_children := hi.children; have f_vtable := hi.vtable; have f_conn_iff := hi.conn_iff; have f_conn_open := hi.conn_open; have f_eh := hi.eh; have f_expired := hi.expired; have f_anon := hi.anon; have f_dialout := hi.dialout; have f_count := hi.count; have f_orph_virt := hi.orph_virt; clear hi; (intros; (try simp only [hubf] at *); grind [mem_removeL, nodup_removeL, removeL_nil]))
+      | (have f_fresh := hi.fresh; have f_mem_room := hi.mem_room; have f_room_mem := hi.room_mem; have f_nonempty := hi.nonempty; have f_nodup := hi.nodup; have f_roomL_iff := hi.roomL_iff; have f_roomL_nodup := hi.roomL_nodup; have f_userL_iff := hi.userL_iff; have f_userL_nodup := hi.userL_nodup; have f_sessL_iff := hi.sessL_iff; have f_rs_fwd := hi.rs_fwd; have f_rs_room := hi.rs_room; have f_virt := hi.virt; have f_children := hi.children; have f_vtable := hi.vtable; have f_conn_iff := hi.conn_iff; have f_conn_open := hi.conn_open; have f_eh := hi.eh; have f_expired := hi.expired; have f_anon := hi.anon; have f_dialout := hi.dialout; have f_count := hi.count; have f_orph_virt := hi.orph_virt; have f_incall := hi.incall; clear hi; (intros; (try simp only [hubf] at *); grind [mem_removeL, nodup_removeL, removeL_nil]))
   case rs_room =>
     first
       | (have f_rs_room := hi.rs_room; have f_rs_fwd := hi.rs_fwd; have f_fresh := hi.fresh; have f_room_mem := hi.room_mem; clear hi; (intros; (try simp only [hubf] at *); grind [mem_removeL, nodup_removeL, removeL_nil]))
-      | (have f_fresh := hi.fresh; have f_mem_room := hi.mem_room; have f_room_mem := hi.room_mem; have f_nonempty := hi.nonempty; have f_nodup := hi.nodup; have f_roomL_iff := hi.roomL_iff; have f_roomL_nodup := hi.roomL_nodup; have f_userL_iff := hi.userL_iff; have f_userL_nodup := hi.userL_nodup; have f_sessL_iff := hi.sessL_iff; have f_rs_fwd := hi.rs_fwd; have f_rs_room := hi.rs_room; have f_virt := hi.virt; have f_children := hi.children; have f_vtable := hi.vtable; have f_conn_iff := hi.conn_iff; have f_conn_open := hi.conn_open; have f_eh := hi.eh; have f_expired := hi.expired; have f_anon := hi.anon; have f_dialout := hi.dialout; have f_count := hi.count; have f_orph_virt := hi.orph_virt; clear hi; (intros; (try simp only [hubf] at *); grind [mem_removeL, nodup_removeL, removeL_nil]))
+      | (have f_fresh := hi.fresh; have f_mem_room := hi.mem_room; have f_room_mem := hi.room_mem; have f_nonempty := hi.nonempty; have f_nodup := hi.nodup; have f_roomL_iff := hi.roomL_iff; have f_roomL_nodup := hi.roomL_nodup; have f_userL_iff := hi.userL_iff; have f_userL_nodup := hi.userL_nodup; have f_sessL_iff := hi.sessL_iff; have f_rs_fwd := hi.rs_fwd; have f_rs_room := hi.rs_room; have f_virt := hi.virt; have f_children := hi.children; have f_vtable := hi.vtable; have f_conn_iff := hi.conn_iff; have f_conn_open := hi.conn_open; have f_eh := hi.eh; have f_expired := hi.expired; have f_anon := hi.anon; have f_dialout := hi.dialout; have f_count := hi.count; have f_orph_virt := hi.orph_virt; have f_incall := hi.incall; clear hi; (intros; (try simp only [hubf] at *); grind [mem_removeL, nodup_removeL, removeL_nil]))
   case virt =>
     first
       | (have f_virt := hi.virt; have f_children := hi.children; have f_fresh := hi.fresh; clear hi; (intros; (try simp only [hubf] at *); grind [mem_removeL, nodup_removeL, removeL_nil]))
-      | (have f_fresh := hi.fresh; have f_mem_room := hi.mem_room; have f_room_mem := hi.room_mem; have f_nonempty := hi.nonempty; have f_nodup := hi.nodup; have f_roomL_iff := hi.roomL_iff; have f_roomL_nodup := hi.roomL_nodup; have f_userL_iff := hi.userL_iff; have f_userL_nodup := hi.userL_nodup; have f_sessL_iff := hi.sessL_iff; have f_rs_fwd := hi.rs_fwd; have f_rs_room := hi.rs_room; have f_virt := hi.virt; have f_children := hi.children; have f_vtable := hi.vtable; have f_conn_iff := hi.conn_iff; have f_conn_open := hi.conn_open; have f_eh := hi.eh; have f_expired := hi.expired; have f_anon := hi.anon; have f_dialout := hi.dialout; have f_count := hi.count; have f_orph_virt := hi.orph_virt; clear hi; (intros; (try simp only [hubf] at *); grind [mem_removeL, nodup_removeL, removeL_nil]))
+      | (have f_fresh := hi.fresh; have f_mem_room := hi.mem_room; have f_room_mem := hi.room_mem; have f_nonempty := hi.nonempty; have f_nodup := hi.nodup; have f_roomL_iff := hi.roomL_iff; have f_roomL_nodup := hi.roomL_nodup; have f_userL_iff := hi.userL_iff; have f_userL_nodup := hi.userL_nodup; have f_sessL_iff := hi.sessL_iff; have f_rs_fwd := hi.rs_fwd; have f_rs_room := hi.rs_room; have f_virt := hi.virt; have f_children := hi.children; have f_vtable := hi.vtable; have f_conn_iff := hi.conn_iff; have f_conn_open := hi.conn_open; have f_eh := hi.eh; have f_expired := hi.expired; have f_anon := hi.anon; have f_dialout := hi.dialout; have f_count := hi.count; have f_orph_virt := hi.orph_virt; have f_incall := hi.incall; clear hi; (intros; (try simp only [hubf] at *); grind [mem_removeL, nodup_removeL, removeL_nil]))
   case children =>
     first
       | (have f_children := hi.children; have f_virt := hi.virt; have f_fresh := hi.fresh; clear hi; (intros; (try simp only [hubf] at *); grind [mem_removeL, nodup_removeL, removeL_nil]))
-      | (have f_fresh := hi.fresh; have f_mem_room := hi.mem_room; have f_room_mem := hi.room_mem; have f_nonempty := hi.nonempty; have f_nodup := hi.nodup; have f_roomL_iff := hi.roomL_iff; have f_roomL_nodup := hi.roomL_nodup; have f_userL_iff := hi.userL_iff; have f_userL_nodup := hi.userL_nodup; have f_sessL_iff := hi.sessL_iff; have f_rs_fwd := hi.rs_fwd; have f_rs_room := hi.rs_room; have f_virt := hi.virt; have f_children := hi.children; have f_vtable := hi.vtable; have f_conn_iff := hi.conn_iff; have f_conn_open := hi.conn_open; have f_eh := hi.eh; have f_expired := hi.expired; have f_anon := hi.anon; have f_dialout := hi.dialout; have f_count := hi.count; have f_orph_virt := hi.orph_virt; clear hi; (intros; (try simp only [hubf] at *); grind [mem_removeL, nodup_removeL, removeL_nil]))
+      | (have f_fresh := hi.fresh; have f_mem_room := hi.mem_room; have f_room_mem := hi.room_mem; have f_nonempty := hi.nonempty; have f_nodup := hi.nodup; have f_roomL_iff := hi.roomL_iff; have f_roomL_nodup := hi.roomL_nodup; have f_userL_iff := hi.userL_iff; have f_userL_nodup := hi.userL_nodup; have f_sessL_iff := hi.sessL_iff; have f_rs_fwd := hi.rs_fwd; have f_rs_room := hi.rs_room; have f_virt := hi.virt; have f_children := hi.children; have f_vtable := hi.vtable; have f_conn_iff := hi.conn_iff; have f_conn_open := hi.conn_open; have f_eh := hi.eh; have f_expired := hi.expired; have f_anon := hi.anon; have f_dialout := hi.dialout; have f_count := hi.count; have f_orph_virt := hi.orph_virt; have f_incall := hi.incall; clear hi; (intros; (try simp only [hubf] at *); grind [mem_removeL, nodup_removeL, removeL_nil]))
   case vtable =>
     first
       | (have f_vtable := hi.vtable; have f_virt := hi.virt; have f_fresh := hi.fresh; clear hi; (intros; (try simp only [hubf] at *); grind [mem_removeL, nodup_removeL, removeL_nil]))
-      | (have f_fresh := hi.fresh; have f_mem_room := hi.mem_room; have f_room_mem := hi.room_mem; have f_nonempty := hi.nonempty; have f_nodup := hi.nodup; have f_roomL_iff := hi.roomL_iff; have f_roomL_nodup := hi.roomL_nodup; have f_userL_iff := hi.userL_iff; have f_userL_nodup := hi.userL_nodup; have f_sessL_iff := hi.sessL_iff; have f_rs_fwd := hi.rs_fwd; have f_rs_room := hi.rs_room; have f_virt := hi.virt; have f_children := hi.children; have f_vtable := hi.vtable; have f_conn_iff := hi.conn_iff; have f_conn_open := hi.conn_open; have f_eh := hi.eh; have f_expired := hi.expired; have f_anon := hi.anon; have f_dialout := hi.dialout; have f_count := hi.count; have f_orph_virt := hi.orph_virt; clear hi; (intros; (try simp only [hubf] at *); grind [mem_removeL, nodup_removeL, removeL_nil]))
+      | (have f_fresh := hi.fresh; have f_mem_room := hi.mem_room; have f_room_mem := hi.room_mem; have f_nonempty := hi.nonempty; have f_nodup := hi.nodup; have f_roomL_iff := hi.roomL_iff; have f_roomL_nodup := hi.roomL_nodup; have f_userL_iff := hi.userL_iff; have f_userL_nodup := hi.userL_nodup; have f_sessL_iff := hi.sessL_iff; have f_rs_fwd := hi.rs_fwd; have f_rs_room := hi.rs_room; have f_virt := hi.virt; have f_children := hi.children; have f_vtable := hi.vtable; have f_conn_iff := hi.conn_iff; have f_conn_open := hi.conn_open; have f_eh := hi.eh; have f_expired := hi.expired; have f_anon := hi.anon; have f_dialout := hi.dialout; have f_count := hi.count; have f_orph_virt := hi.orph_virt; have f_incall := hi.incall; clear hi; (intros; (try simp only [hubf] at *); grind [mem_removeL, nodup_removeL, removeL_nil]))
   case conn_iff =>
     first
       | (have f_conn_iff := hi.conn_iff; have f_fresh := hi.fresh; have f_virt := hi.virt; clear hi; (intros; (try simp only [hubf] at *); grind [mem_removeL, nodup_removeL, removeL_nil]))
-      | (have f_fresh := hi.fresh; have f_mem_room := hi.mem_room; have f_room_mem := hi.room_mem; have f_nonempty := hi.nonempty; have f_nodup := hi.nodup; have f_roomL_iff := hi.roomL_iff; have f_roomL_nodup := hi.roomL_nodup; have f_userL_iff := hi.userL_iff; have f_userL_nodup := hi.userL_nodup; have f_sessL_iff := hi.sessL_iff; have f_rs_fwd := hi.rs_fwd; have f_rs_room := hi.rs_room; have f_virt := hi.virt; have f_children := hi.children; have f_vtable := hi.vtable; have f_conn_iff := hi.conn_iff; have f_conn_open := hi.conn_open; have f_eh := hi.eh; have f_expired := hi.expired; have f_anon := hi.anon; have f_dialout := hi.dialout; have f_count := hi.count; have f_orph_virt := hi.orph_virt; clear hi; (intros; (try simp only [hubf] at *); grind [mem_removeL, nodup_removeL, removeL_nil]))
+      | (have f_fresh := hi.fresh; have f_mem_room := hi.mem_room; have f_room_mem := hi.room_mem; have f_nonempty := hi.nonempty; have f_nodup := hi.nodup; have f_roomL_iff := hi.roomL_iff; have f_roomL_nodup := hi.roomL_nodup; have f_userL_iff := hi.userL_iff; have f_userL_nodup := hi.userL_nodup; have f_sessL_iff := hi.sessL_iff; have f_rs_fwd := hi.rs_fwd; have f_rs_room := hi.rs_room; have f_virt := hi.virt; have f_children := hi.children; have f_vtable := hi.vtable; have f_conn_iff := hi.conn_iff; have f_conn_open := hi.conn_open; have f_eh := hi.eh; have f_expired := hi.expired; have f_anon := hi.anon; have f_dialout := hi.dialout; have f_count := hi.count; have f_orph_virt := hi.orph_virt; have f_incall := hi.incall; clear hi; (intros; (try simp only [hubf] at *); grind [mem_removeL, nodup_removeL, removeL_nil]))
   case conn_open =>
     first
       | (have f_conn_open := hi.conn_open; have f_conn_iff := hi.conn_iff; clear hi; (intros; (try simp only [hubf] at *); grind [mem_removeL, nodup_removeL, removeL_nil]))
-      | (have f_fresh := hi.fresh; have f_mem_room := hi.mem_room; have f_room_mem := hi.room_mem; have f_nonempty := hi.nonempty; have f_nodup := hi.nodup; have f_roomL_iff := hi.roomL_iff; have f_roomL_nodup := hi.roomL_nodup; have f_userL_iff := hi.userL_iff; have f_userL_nodup := hi.userL_nodup; have f_sessL_iff := hi.sessL_iff; have f_rs_fwd := hi.rs_fwd; have f_rs_room := hi.rs_room; have f_virt := hi.virt; have f_children := hi.children; have f_vtable := hi.vtable; have f_conn_iff := hi.conn_iff; have f_conn_open := hi.conn_open; have f_eh := hi.eh; have f_expired := hi.expired; have f_anon := hi.anon; have f_dialout := hi.dialout; have f_count := hi.count; have f_orph_virt := hi.orph_virt; clear hi; (intros; (try simp only [hubf] at *); grind [mem_removeL, nodup_removeL, removeL_nil]))
+      | (have f_fresh := hi.fresh; have f_mem_room := hi.mem_room; have f_room_mem := hi.room_mem; have f_nonempty := hi.nonempty; have f_nodup := hi.nodup; have f_roomL_iff := hi.roomL_iff; have f_roomL_nodup := hi.roomL_nodup; have f_userL_iff := hi.userL_iff; have f_userL_nodup := hi.userL_nodup; have f_sessL_iff := hi.sessL_iff; have f_rs_fwd := hi.rs_fwd; have f_rs_room := hi.rs_room; have f_virt := hi.virt; have f_children := hi.children; have f_vtable := hi.vtable; have f_conn_iff := hi.conn_iff; have f_conn_open := hi.conn_open; have f_eh := hi.eh; have f_expired := hi.expired; have f_anon := hi.anon; have f_dialout := hi.dialout; have f_count := hi.count; have f_orph_virt := hi.orph_virt; have f_incall := hi.incall; clear hi; (intros; (try simp only [hubf] at *); grind [mem_removeL, nodup_removeL, removeL_nil]))
   case eh =>
     first
       | (have f_eh := hi.eh; have f_conn_iff := hi.conn_iff; have f_conn_open := hi.conn_open; clear hi; (intros; (try simp only [hubf] at *); grind [mem_removeL, nodup_removeL, removeL_nil]))
-      | (have f_fresh := hi.fresh; have f_mem_room := hi.mem_room; have f_room_mem := hi.room_mem; have f_nonempty := hi.nonempty; have f_nodup := hi.nodup; have f_roomL_iff := hi.roomL_iff; have f_roomL_nodup := hi.roomL_nodup; have f_userL_iff := hi.userL_iff; have f_userL_nodup := hi.userL_nodup; have f_sessL_iff := hi.sessL_iff; have f_rs_fwd := hi.rs_fwd; have f_rs_room := hi.rs_room; have f_virt := hi.virt; have f_children := hi.children; have f_vtable := hi.vtable; have f_conn_iff := hi.conn_iff; have f_conn_open := hi.conn_open; have f_eh := hi.eh; have f_expired := hi.expired; have f_anon := hi.anon; have f_dialout := hi.dialout; have f_count := hi.count; have f_orph_virt := hi.orph_virt; clear hi; (intros; (try simp only [hubf] at *); grind [mem_removeL, nodup_removeL, removeL_nil]))
+      | (have f_fresh := hi.fresh; have f_mem_room := hi.mem_room; have f_room_mem := hi.room_mem; have f_nonempty := hi.nonempty; have f_nodup := hi.nodup; have f_roomL_iff := hi.roomL_iff; have f_roomL_nodup := hi.roomL_nodup; have f_userL_iff := hi.userL_iff; have f_userL_nodup := hi.userL_nodup; have f_sessL_iff := hi.sessL_iff; have f_rs_fwd := hi.rs_fwd; have f_rs_room := hi.rs_room; have f_virt := hi.virt; have f_children := hi.children; have f_vtable := hi.vtable; have f_conn_iff := hi.conn_iff; have f_conn_open := hi.conn_open; have f_eh := hi.eh; have f_expired := hi.expired; have f_anon := hi.anon; have f_dialout := hi.dialout; have f_count := hi.count; have f_orph_virt := hi.orph_virt; have f_incall := hi.incall; clear hi; (intros; (try simp only [hubf] at *); grind [mem_removeL, nodup_removeL, removeL_nil]))
   case expired =>
     first
       | (have f_expired := hi.expired; have f_fresh := hi.fresh; clear hi; (intros; (try simp only [hubf] at *); grind [mem_removeL, nodup_removeL, removeL_nil]))
-      | (have f_fresh := hi.fresh; have f_mem_room := hi.mem_room; have f_room_mem := hi.room_mem; have f_nonempty := hi.nonempty; have f_nodup := hi.nodup; have f_roomL_iff := hi.roomL_iff; have f_roomL_nodup := hi.roomL_nodup; have f_userL_iff := hi.userL_iff; have f_userL_nodup := hi.userL_nodup; have f_sessL_iff := hi.sessL_iff; have f_rs_fwd := hi.rs_fwd; have f_rs_room := hi.rs_room; have f_virt := hi.virt; have f_children := hi.children; have f_vtable := hi.vtable; have f_conn_iff := hi.conn_iff; have f_conn_open := hi.conn_open; have f_eh := hi.eh; have f_expired := hi.expired; have f_anon := hi.anon; have f_dialout := hi.dialout; have f_count := hi.count; have f_orph_virt := hi.orph_virt; clear hi; (intros; (try simp only [hubf] at *); grind [mem_removeL, nodup_removeL, removeL_nil]))
+      | (have f_fresh := hi.fresh; have f_mem_room := hi.mem_room; have f_room_mem := hi.room_mem; have f_nonempty := hi.nonempty; have f_nodup := hi.nodup; have f_roomL_iff := hi.roomL_iff; have f_roomL_nodup := hi.roomL_nodup; have f_userL_iff := hi.userL_iff; have f_userL_nodup := hi.userL_nodup; have f_sessL_iff := hi.sessL_iff; have f_rs_fwd := hi.rs_fwd; have f_rs_room := hi.rs_room; have f_virt := hi.virt; have f_children := hi.children; have f_vtable := hi.vtable; have f_conn_iff := hi.conn_iff; have f_conn_open := hi.conn_open; have f_eh := hi.eh; have f_expired := hi.expired; have f_anon := hi.anon; have f_dialout := hi.dialout; have f_count := hi.count; have f_orph_virt := hi.orph_virt; have f_incall := hi.incall; clear hi; (intros; (try simp only [hubf] at *); grind [mem_removeL, nodup_removeL, removeL_nil]))
   case anon =>
     first
       | (have f_anon := hi.anon; have f_fresh := hi.fresh; clear hi; (intros; (try simp only [hubf] at *); grind [mem_removeL, nodup_removeL, removeL_nil]))
-      | (have f_fresh := hi.fresh; have f_mem_room := hi.mem_room; have f_room_mem := hi.room_mem; have f_nonempty := hi.nonempty; have f_nodup := hi.nodup; have f_roomL_iff := hi.roomL_iff; have f_roomL_nodup := hi.roomL_nodup; have f_userL_iff := hi.userL_iff; have f_userL_nodup := hi.userL_nodup; have f_sessL_iff := hi.sessL_iff; have f_rs_fwd := hi.rs_fwd; have f_rs_room := hi.rs_room; have f_virt := hi.virt; have f_children := hi.children; have f_vtable := hi.vtable; have f_conn_iff := hi.conn_iff; have f_conn_open := hi.conn_open; have f_eh := hi.eh; have f_expired := hi.expired; have f_anon := hi.anon; have f_dialout := hi.dialout; have f_count := hi.count; have f_orph_virt := hi.orph_virt; clear hi; (intros; (try simp only [hubf] at *); grind [mem_removeL, nodup_removeL, removeL_nil]))
+      | (have f_fresh := hi.fresh; have f_mem_room := hi.mem_room; have f_room_mem := hi.room_mem; have f_nonempty := hi.nonempty; have f_nodup := hi.nodup; have f_roomL_iff := hi.roomL_iff; have f_roomL_nodup := hi.roomL_nodup; have f_userL_iff := hi.userL_iff; have f_userL_nodup := hi.userL_nodup; have f_sessL_iff := hi.sessL_iff; have f_rs_fwd := hi.rs_fwd; have f_rs_room := hi.rs_room; have f_virt := hi.virt; have f_children := hi.children; have f_vtable := hi.vtable; have f_conn_iff := hi.conn_iff; have f_conn_open := hi.conn_open; have f_eh := hi.eh; have f_expired := hi.expired; have f_anon := hi.anon; have f_dialout := hi.dialout; have f_count := hi.count; have f_orph_virt := hi.orph_virt; have f_incall := hi.incall; clear hi; (intros; (try simp only [hubf] at *); grind [mem_removeL, nodup_removeL, removeL_nil]))
   case dialout =>
     first
       | (have f_dialout := hi.dialout; have f_fresh := hi.fresh; clear hi; (intros; (try simp only [hubf] at *); grind [mem_removeL, nodup_removeL, removeL_nil]))
-      | (have f_fresh := hi.fresh; have f_mem_room := hi.mem_room; have f_room_mem := hi.room_mem; have f_nonempty := hi.nonempty; have f_nodup := hi.nodup; have f_roomL_iff := hi.roomL_iff; have f_roomL_nodup := hi.roomL_nodup; have f_userL_iff := hi.userL_iff; have f_userL_nodup := hi.userL_nodup; have f_sessL_iff := hi.sessL_iff; have f_rs_fwd := hi.rs_fwd; have f_rs_room := hi.rs_room; have f_virt := hi.virt; have f_children := hi.children; have f_vtable := hi.vtable; have f_conn_iff := hi.conn_iff; have f_conn_open := hi.conn_open; have f_eh := hi.eh; have f_expired := hi.expired; have f_anon := hi.anon; have f_dialout := hi.dialout; have f_count := hi.count; have f_orph_virt := hi.orph_virt; clear hi; (intros; (try simp only [hubf] at *); grind [mem_removeL, nodup_removeL, removeL_nil]))
+      | (have f_fresh := hi.fresh; have f_mem_room := hi.mem_room; have f_room_mem := hi.room_mem; have f_nonempty := hi.nonempty; have f_nodup := hi.nodup; have f_roomL_iff := hi.roomL_iff; have f_roomL_nodup := hi.roomL_nodup; have f_userL_iff := hi.userL_iff; have f_userL_nodup := hi.userL_nodup; have f_sessL_iff := hi.sessL_iff; have f_rs_fwd := hi.rs_fwd; have f_rs_room := hi.rs_room; have f_virt := hi.virt; have f_children := hi.children; have f_vtable := hi.vtable; have f_conn_iff := hi.conn_iff; have f_conn_open := hi.conn_open; have f_eh := hi.eh; have f_expired := hi.expired; have f_anon := hi.anon; have f_dialout := hi.dialout; have f_count := hi.count; have f_orph_virt := hi.orph_virt; have f_incall := hi.incall; clear hi; (intros; (try simp only [hubf] at *); grind [mem_removeL, nodup_removeL, removeL_nil]))
   case count =>
     first
       | (have f_count := hi.count; have f_fresh := hi.fresh; clear hi; (intros; (try simp only [hubf] at *); grind [mem_removeL, nodup_removeL, removeL_nil]))
-      | (have f_fresh := hi.fresh; have f_mem_room := hi.mem_room; have f_room_mem := hi.room_mem; have f_nonempty := hi.nonempty; have f_nodup := hi.nodup; have f_roomL_iff := hi.roomL_iff; have f_roomL_nodup := hi.roomL_nodup; have f_userL_iff := hi.userL_iff; have f_userL_nodup := hi.userL_nodup; have f_sessL_iff := hi.sessL_iff; have f_rs_fwd := hi.rs_fwd; have f_rs_room := hi.rs_room; have f_virt := hi.virt; have f_children := hi.children; have f_vtable := hi.vtable; have f_conn_iff := hi.conn_iff; have f_conn_open := hi.conn_open; have f_eh := hi.eh; have f_expired := hi.expired; have f_anon := hi.anon; have f_dialout := hi.dialout; have f_count := hi.count; have f_orph_virt := hi.orph_virt; clear hi; (intros; (try simp only [hubf] at *); grind [mem_removeL, nodup_removeL, removeL_nil]))
+      | (have f_fresh := hi.fresh; have f_mem_room := hi.mem_room; have f_room_mem := hi.room_mem; have f_nonempty := hi.nonempty; have f_nodup := hi.nodup; have f_roomL_iff := hi.roomL_iff; have f_roomL_nodup := hi.roomL_nodup; have f_userL_iff := hi.userL_iff; have f_userL_nodup := hi.userL_nodup; have f_sessL_iff := hi.sessL_iff; have f_rs_fwd := hi.rs_fwd; have f_rs_room := hi.rs_room; have f_virt := hi.virt; have f_children := hi.children; have f_vtable := hi.vtable; have f_conn_iff := hi.conn_iff; have f_conn_open := hi.conn_open; have f_eh := hi.eh; have f_expired := hi.expired; have f_anon := hi.anon; have f_dialout := hi.dialout; have f_count := hi.count; have f_orph_virt := hi.orph_virt; have f_incall := hi.incall; clear hi; (intros; (try simp only [hubf] at *); grind [mem_removeL, nodup_removeL, removeL_nil]))
   case orph_virt =>
     first
       | (have f_orph_virt := hi.orph_virt; have f_fresh := hi.fresh; have f_children := hi.children; have f_virt := hi.virt; clear hi; (intros; (try simp only [hubf] at *); grind [mem_removeL, nodup_removeL, removeL_nil]))
-      | (have f_fresh := hi.fresh; have f_mem_room := hi.mem_room; have f_room_mem := hi.room_mem; have f_nonempty := hi.nonempty; have f_nodup := hi.nodup; have f_roomL_iff := hi.roomL_iff; have f_roomL_nodup := hi.roomL_nodup; have f_userL_iff := hi.userL_iff; have f_userL_nodup := hi.userL_nodup; have f_sessL_iff := hi.sessL_iff; have f_rs_fwd := hi.rs_fwd; have f_rs_room := hi.rs_room; have f_virt := hi.virt; have f_children := hi.children; have f_vtable := hi.vtable; have f_conn_iff := hi.conn_iff; have f_conn_open := hi.conn_open; have f_eh := hi.eh; have f_expired := hi.expired; have f_anon := hi.anon; have f_dialout := hi.dialout; have f_count := hi.count; have f_orph_virt := hi.orph_virt; clear hi; (intros; (try simp only [hubf] at *); grind [mem_removeL, nodup_removeL, removeL_nil]))
+      | (have f_fresh := hi.fresh; have f_mem_room := hi.mem_room; have f_room_mem := hi.room_mem; have f_nonempty := hi.nonempty; have f_nodup := hi.nodup; have f_roomL_iff := hi.roomL_iff; have f_roomL_nodup := hi.roomL_nodup; have f_userL_iff := hi.userL_iff; have f_userL_nodup := hi.userL_nodup; have f_sessL_iff := hi.sessL_iff; have f_rs_fwd := hi.rs_fwd; have f_rs_room := hi.rs_room; have f_virt := hi.virt; have f_children := hi.children; have f_vtable := hi.vtable; have f_conn_iff := hi.conn_iff; have f_conn_open := hi.conn_open; have f_eh := hi.eh; have f_expired := hi.expired; have f_anon := hi.anon; have f_dialout := hi.dialout; have f_count := hi.count; have f_orph_virt := hi.orph_virt; have f_incall := hi.incall; clear hi; (intros; (try simp only [hubf] at *); grind [mem_removeL, nodup_removeL, removeL_nil]))
+  case incall =>
+    first
+      | (have f_incall := hi.incall; have f_mem_room := hi.mem_room; clear hi; (intros; (try simp only [hubf] at *); grind [mem_removeL, nodup_removeL, removeL_nil]))
+      | (have f_fresh := hi.fresh; have f_mem_room := hi.mem_room; have f_room_mem := hi.room_mem; have f_nonempty := hi.nonempty; have f_nodup := hi.nodup; have f_roomL_iff := hi.roomL_iff; have f_roomL_nodup := hi.roomL_nodup; have f_userL_iff := hi.userL_iff; have f_userL_nodup := hi.userL_nodup; have f_sessL_iff := hi.sessL_iff; have f_rs_fwd := hi.rs_fwd; have f_rs_room := hi.rs_room; have f_virt := hi.virt; have f_children := hi.children; have f_vtable := hi.vtable; have f_conn_iff := hi.conn_iff; have f_conn_open := hi.conn_open; have f_eh := hi.eh; have f_expired := hi.expired; have f_anon := hi.anon; have f_dialout := hi.dialout; have f_count := hi.count; have f_orph_virt := hi.orph_virt; have f_incall := hi.incall; clear hi; (intros; (try simp only [hubf] at *); grind [mem_removeL, nodup_removeL, removeL_nil]))
 
-theorem roomInCallUpdate_inv (a : Acc) (b : Nat) (room : Option String) (s ic : Nat) (hi : Inv a.h) :
+theorem roomInCallUpdate_inv (a : Acc) (b : Nat) (room : Option String) (s ic : Nat) (hi : Inv a.h)
+    (hs : ∀ r rm, room = some r → a.h.rooms b r = some rm → s ∈ rm.members) :
     Inv (roomInCallUpdate a b room s ic).h := by
   unfold roomInCallUpdate
   cases room with
@@ -934,9 +963,22 @@ theorem roomInCallUpdate_inv (a : Acc) (b : Nat) (room : Option String) (s ic : 
     | none => exact hi
     | some rm =>
       simp only []
+      have hsm := hs r rm rfl hrm
+      have hin := fun t ht => hi.incall b r rm t hrm ht
       refine InvG.congr (coreOf (publishUsersChangedWithInternal_core _ _ _) rfl) ?_
       apply hi.setRoom_same hrm
-      split <;> rfl
+      · split <;> rfl
+      · intro t ht
+        split at ht
+        · simp only [] at ht
+          split at ht
+          · exact hin t ht
+          · simp only [List.mem_append, List.mem_singleton] at ht
+            rcases ht with h1 | rfl
+            · exact hin t h1
+            · exact hsm
+        · simp only [] at ht
+          exact hin t (mem_removeL.mp ht).1
 
 theorem internalInCall_inv (a : Acc) (s : Nat) (ic : Nat) (hi : Inv a.h) : Inv (internalInCall a s ic).h := by
   unfold internalInCall
@@ -948,7 +990,13 @@ theorem internalInCall_inv (a : Acc) (s : Nat) (ic : Nat) (hi : Inv a.h) : Inv (
     · exact hi
     · split
       · exact hi
-      · exact roomInCallUpdate_inv _ _ _ _ _ (hi.setSess_same hx rfl rfl rfl rfl rfl rfl rfl rfl)
+      · have h1 : Inv (setSess a.h s (some { x with inCall := ic })) :=
+          hi.setSess_same hx rfl rfl rfl rfl rfl rfl rfl rfl
+        apply roomInCallUpdate_inv _ _ _ _ _ h1
+        intro r rm hr hrm
+        simp only [hubf] at hrm
+        obtain ⟨rm', h1, h2⟩ := hi.room_mem' s x r hx hr
+        rw [hrm] at h1; cases h1; exact h2
 
 /-! ### room API -/
 
@@ -999,13 +1047,42 @@ theorem apiIncallAll_inv (a : Acc) (b : Nat) (r : String) (ic : Nat) (hi : Inv a
   | none => exact hi
   | some rm =>
     simp only []
+    have hin := hi.incall b r rm
     split
     · split
       · exact hi
-      · exact InvG.congr (coreOf (sendAll_core _ _ _) rfl) (hi.setRoom_same hrm rfl)
+      · refine InvG.congr (coreOf (sendAll_core _ _ _) rfl) (hi.setRoom_same hrm rfl ?_)
+        intro t ht
+        simp only [List.mem_append, List.mem_filter] at ht
+        rcases ht with h1 | h1
+        · exact hin t hrm h1
+        · exact h1.1.1.1
     · split
-      · exact InvG.congr (coreOf (sendAll_core _ _ _) rfl) (hi.setRoom_same hrm rfl)
+      · exact InvG.congr (coreOf (sendAll_core _ _ _) rfl) (hi.setRoom_same hrm rfl (by intro t ht; cases ht))
       · exact hi
+
+theorem facts_incall : Generated.Hub.inCallMembersOnly = true := by decide
+
+theorem incallFold_sub (members : List Nat) : ∀ (cs : List PUser) (ic : List Nat),
+    (∀ u, u ∈ cs → u.sid ∈ members) → (∀ t, t ∈ ic → t ∈ members) →
+    ∀ t, t ∈ cs.foldl (fun ic u => if u.inCall % 2 = 1 then (if ic.contains u.sid then ic else ic ++ [u.sid]) else removeL ic u.sid) ic →
+      t ∈ members := by
+  intro cs
+  induction cs with
+  | nil => intro ic _ h t ht; exact h t ht
+  | cons u cs ih =>
+    intro ic hcs hicm t ht
+    simp only [List.foldl_cons] at ht
+    apply ih _ (fun v hv => hcs v (List.mem_cons_of_mem _ hv)) _ t ht
+    intro t' ht'
+    split at ht'
+    · split at ht'
+      · exact hicm t' ht'
+      · simp only [List.mem_append, List.mem_singleton] at ht'
+        rcases ht' with h1 | rfl
+        · exact hicm t' h1
+        · exact hcs u List.mem_cons_self
+    · exact hicm t' (mem_removeL.mp ht').1
 
 theorem apiIncall_inv (a : Acc) (b : Nat) (r : String) (ch us : List (String × Nat)) (hi : Inv a.h) :
     Inv (apiIncall a b r ch us).h := by
@@ -1016,8 +1093,14 @@ theorem apiIncall_inv (a : Acc) (b : Nat) (r : String) (ch us : List (String × 
   · cases hrm : a.h.rooms b r with
     | none => exact hi
     | some rm =>
-      simp only []
-      exact InvG.congr (coreOf (pubRoom_core _ _ _ _) rfl) (hi.setRoom_same hrm rfl)
+      simp only [facts_incall, if_true]
+      refine InvG.congr (coreOf (pubRoom_core _ _ _ _) rfl) (hi.setRoom_same hrm rfl ?_)
+      intro t ht
+      simp only [] at ht
+      refine incallFold_sub rm.members _ _ ?_ (fun t' ht' => hi.incall b r rm t' hrm ht') t ht
+      intro u hu
+      have := (List.mem_filter.mp hu).2
+      simpa using this
 
 theorem apiParticipants_inv (a : Acc) (b : Nat) (r : String) (ch : List (String × Option (List String)))
     (us : List String) (hi : Inv a.h) : Inv (apiParticipants a b r ch us).h := by
@@ -1040,7 +1123,7 @@ def Rdel (b : Nat) (r : String) (ms : List Nat) : Nat → Sess → String → Pr
 
 theorem InvG.weaken {R R' : Nat → Sess → String → Prop} {orph : List Nat} {h : Hub}
     (hRR : ∀ s x r, R s x r → R' s x r) (hi : InvG R orph h) : InvG R' orph h := by
-  obtain ⟨f1, f2, f3, f4, f5, f6, f7, f8, f9, f10, f11, f12, f13, f14, f15, f16, f17, f18, f19, f20, f21, f22, f23⟩ := hi
+  obtain ⟨f1, f2, f3, f4, f5, f6, f7, f8, f9, f10, f11, f12, f13, f14, f15, f16, f17, f18, f19, f20, f21, f22, f23, f24⟩ := hi
   constructor
   all_goals first | assumption | skip
   · intro s x r hx hr
@@ -1057,95 +1140,99 @@ theorem deleteStart_inv {h : Hub} (hi : Inv h) {b : Nat} {r : String} {rm : Room
   case fresh =>
     first
       | (have f_fresh := hi.fresh; clear hi; (intros; (try simp only [hubf] at *); grind [mem_removeL, nodup_removeL, removeL_nil]))
-      | (have f_fresh := hi.fresh; have f_mem_room := hi.mem_room; have f_room_mem := hi.room_mem; have f_nonempty := hi.nonempty; have f_nodup := hi.nodup; have f_roomL_iff := hi.roomL_iff; have f_roomL_nodup := hi.roomL_nodup; have f_userL_iff := hi.userL_iff; have f_userL_nodup := hi.userL_nodup; have f_sessL_iff := hi.sessL_iff; have f_rs_fwd := hi.rs_fwd; have f_rs_room := hi.rs_room; have f_virt := hi.virt; have f_children := hi.children; have f_vtable := hi.vtable; have f_conn_iff := hi.conn_iff; have f_conn_open := hi.conn_open; have f_eh := hi.eh; have f_expired := hi.expired; have f_anon := hi.anon; have f_dialout := hi.dialout; have f_count := hi.count; have f_orph_virt := hi.orph_virt; clear hi; (intros; (try simp only [hubf] at *); grind [mem_removeL, nodup_removeL, removeL_nil]))
+      | (have f_fresh := hi.fresh; have f_mem_room := hi.mem_room; have f_room_mem := hi.room_mem; have f_nonempty := hi.nonempty; have f_nodup := hi.nodup; have f_roomL_iff := hi.roomL_iff; have f_roomL_nodup := hi.roomL_nodup; have f_userL_iff := hi.userL_iff; have f_userL_nodup := hi.userL_nodup; have f_sessL_iff := hi.sessL_iff; have f_rs_fwd := hi.rs_fwd; have f_rs_room := hi.rs_room; have f_virt := hi.virt; have f_children := hi.children; have f_vtable := hi.vtable; have f_conn_iff := hi.conn_iff; have f_conn_open := hi.conn_open; have f_eh := hi.eh; have f_expired := hi.expired; have f_anon := hi.anon; have f_dialout := hi.dialout; have f_count := hi.count; have f_orph_virt := hi.orph_virt; have f_incall := hi.incall; clear hi; (intros; (try simp only [hubf] at *); grind [mem_removeL, nodup_removeL, removeL_nil]))
   case mem_room =>
     first
       | (have f_mem_room := hi.mem_room; have f_fresh := hi.fresh; clear hi; (intros; (try simp only [hubf] at *); grind [mem_removeL, nodup_removeL, removeL_nil]))
-      | (have f_fresh := hi.fresh; have f_mem_room := hi.mem_room; have f_room_mem := hi.room_mem; have f_nonempty := hi.nonempty; have f_nodup := hi.nodup; have f_roomL_iff := hi.roomL_iff; have f_roomL_nodup := hi.roomL_nodup; have f_userL_iff := hi.userL_iff; have f_userL_nodup := hi.userL_nodup; have f_sessL_iff := hi.sessL_iff; have f_rs_fwd := hi.rs_fwd; have f_rs_room := hi.rs_room; have f_virt := hi.virt; have f_children := hi.children; have f_vtable := hi.vtable; have f_conn_iff := hi.conn_iff; have f_conn_open := hi.conn_open; have f_eh := hi.eh; have f_expired := hi.expired; have f_anon := hi.anon; have f_dialout := hi.dialout; have f_count := hi.count; have f_orph_virt := hi.orph_virt; clear hi; (intros; (try simp only [hubf] at *); grind [mem_removeL, nodup_removeL, removeL_nil]))
+      | (have f_fresh := hi.fresh; have f_mem_room := hi.mem_room; have f_room_mem := hi.room_mem; have f_nonempty := hi.nonempty; have f_nodup := hi.nodup; have f_roomL_iff := hi.roomL_iff; have f_roomL_nodup := hi.roomL_nodup; have f_userL_iff := hi.userL_iff; have f_userL_nodup := hi.userL_nodup; have f_sessL_iff := hi.sessL_iff; have f_rs_fwd := hi.rs_fwd; have f_rs_room := hi.rs_room; have f_virt := hi.virt; have f_children := hi.children; have f_vtable := hi.vtable; have f_conn_iff := hi.conn_iff; have f_conn_open := hi.conn_open; have f_eh := hi.eh; have f_expired := hi.expired; have f_anon := hi.anon; have f_dialout := hi.dialout; have f_count := hi.count; have f_orph_virt := hi.orph_virt; have f_incall := hi.incall; clear hi; (intros; (try simp only [hubf] at *); grind [mem_removeL, nodup_removeL, removeL_nil]))
   case room_mem =>
     first
       | (have f_room_mem := hi.room_mem; have f_mem_room := hi.mem_room; have f_fresh := hi.fresh; clear hi; (intros; (try simp only [hubf] at *); grind [mem_removeL, nodup_removeL, removeL_nil]))
-      | (have f_fresh := hi.fresh; have f_mem_room := hi.mem_room; have f_room_mem := hi.room_mem; have f_nonempty := hi.nonempty; have f_nodup := hi.nodup; have f_roomL_iff := hi.roomL_iff; have f_roomL_nodup := hi.roomL_nodup; have f_userL_iff := hi.userL_iff; have f_userL_nodup := hi.userL_nodup; have f_sessL_iff := hi.sessL_iff; have f_rs_fwd := hi.rs_fwd; have f_rs_room := hi.rs_room; have f_virt := hi.virt; have f_children := hi.children; have f_vtable := hi.vtable; have f_conn_iff := hi.conn_iff; have f_conn_open := hi.conn_open; have f_eh := hi.eh; have f_expired := hi.expired; have f_anon := hi.anon; have f_dialout := hi.dialout; have f_count := hi.count; have f_orph_virt := hi.orph_virt; clear hi; (intros; (try simp only [hubf] at *); grind [mem_removeL, nodup_removeL, removeL_nil]))
+      | (have f_fresh := hi.fresh; have f_mem_room := hi.mem_room; have f_room_mem := hi.room_mem; have f_nonempty := hi.nonempty; have f_nodup := hi.nodup; have f_roomL_iff := hi.roomL_iff; have f_roomL_nodup := hi.roomL_nodup; have f_userL_iff := hi.userL_iff; have f_userL_nodup := hi.userL_nodup; have f_sessL_iff := hi.sessL_iff; have f_rs_fwd := hi.rs_fwd; have f_rs_room := hi.rs_room; have f_virt := hi.virt; have f_children := hi.children; have f_vtable := hi.vtable; have f_conn_iff := hi.conn_iff; have f_conn_open := hi.conn_open; have f_eh := hi.eh; have f_expired := hi.expired; have f_anon := hi.anon; have f_dialout := hi.dialout; have f_count := hi.count; have f_orph_virt := hi.orph_virt; have f_incall := hi.incall; clear hi; (intros; (try simp only [hubf] at *); grind [mem_removeL, nodup_removeL, removeL_nil]))
   case nonempty =>
     first
       | (have f_nonempty := hi.nonempty; have f_mem_room := hi.mem_room; clear hi; (intros; (try simp only [hubf] at *); grind [mem_removeL, nodup_removeL, removeL_nil]))
-      | (have f_fresh := hi.fresh; have f_mem_room := hi.mem_room; have f_room_mem := hi.room_mem; have f_nonempty := hi.nonempty; have f_nodup := hi.nodup; have f_roomL_iff := hi.roomL_iff; have f_roomL_nodup := hi.roomL_nodup; have f_userL_iff := hi.userL_iff; have f_userL_nodup := hi.userL_nodup; have f_sessL_iff := hi.sessL_iff; have f_rs_fwd := hi.rs_fwd; have f_rs_room := hi.rs_room; have f_virt := hi.virt; have f_children := hi.children; have f_vtable := hi.vtable; have f_conn_iff := hi.conn_iff; have f_conn_open := hi.conn_open; have f_eh := hi.eh; have f_expired := hi.expired; have f_anon := hi.anon; have f_dialout := hi.dialout; have f_count := hi.count; have f_orph_virt := hi.orph_virt; clear hi; (intros; (try simp only [hubf] at *); grind [mem_removeL, nodup_removeL, removeL_nil]))
+      | (have f_fresh := hi.fresh; have f_mem_room := hi.mem_room; have f_room_mem := hi.room_mem; have f_nonempty := hi.nonempty; have f_nodup := hi.nodup; have f_roomL_iff := hi.roomL_iff; have f_roomL_nodup := hi.roomL_nodup; have f_userL_iff := hi.userL_iff; have f_userL_nodup := hi.userL_nodup; have f_sessL_iff := hi.sessL_iff; have f_rs_fwd := hi.rs_fwd; have f_rs_room := hi.rs_room; have f_virt := hi.virt; have f_children := hi.children; have f_vtable := hi.vtable; have f_conn_iff := hi.conn_iff; have f_conn_open := hi.conn_open; have f_eh := hi.eh; have f_expired := hi.expired; have f_anon := hi.anon; have f_dialout := hi.dialout; have f_count := hi.count; have f_orph_virt := hi.orph_virt; have f_incall := hi.incall; clear hi; (intros; (try simp only [hubf] at *); grind [mem_removeL, nodup_removeL, removeL_nil]))
   case nodup =>
     first
       | (have f_nodup := hi.nodup; clear hi; (intros; (try simp only [hubf] at *); grind [mem_removeL, nodup_removeL, removeL_nil]))
-      | (have f_fresh := hi.fresh; have f_mem_room := hi.mem_room; have f_room_mem := hi.room_mem; have f_nonempty := hi.nonempty; have f_nodup := hi.nodup; have f_roomL_iff := hi.roomL_iff; have f_roomL_nodup := hi.roomL_nodup; have f_userL_iff := hi.userL_iff; have f_userL_nodup := hi.userL_nodup; have f_sessL_iff := hi.sessL_iff; have f_rs_fwd := hi.rs_fwd; have f_rs_room := hi.rs_room; have f_virt := hi.virt; have f_children := hi.children; have f_vtable := hi.vtable; have f_conn_iff := hi.conn_iff; have f_conn_open := hi.conn_open; have f_eh := hi.eh; have f_expired := hi.expired; have f_anon := hi.anon; have f_dialout := hi.dialout; have f_count := hi.count; have f_orph_virt := hi.orph_virt; clear hi; (intros; (try simp only [hubf] at *); grind [mem_removeL, nodup_removeL, removeL_nil]))
+      | (have f_fresh := hi.fresh; have f_mem_room := hi.mem_room; have f_room_mem := hi.room_mem; have f_nonempty := hi.nonempty; have f_nodup := hi.nodup; have f_roomL_iff := hi.roomL_iff; have f_roomL_nodup := hi.roomL_nodup; have f_userL_iff := hi.userL_iff; have f_userL_nodup := hi.userL_nodup; have f_sessL_iff := hi.sessL_iff; have f_rs_fwd := hi.rs_fwd; have f_rs_room := hi.rs_room; have f_virt := hi.virt; have f_children := hi.children; have f_vtable := hi.vtable; have f_conn_iff := hi.conn_iff; have f_conn_open := hi.conn_open; have f_eh := hi.eh; have f_expired := hi.expired; have f_anon := hi.anon; have f_dialout := hi.dialout; have f_count := hi.count; have f_orph_virt := hi.orph_virt; have f_incall := hi.incall; clear hi; (intros; (try simp only [hubf] at *); grind [mem_removeL, nodup_removeL, removeL_nil]))
   case roomL_iff =>
     first
       | (have f_roomL_iff := hi.roomL_iff; have f_fresh := hi.fresh; have f_room_mem := hi.room_mem; have f_mem_room := hi.mem_room; clear hi; (intros; (try simp only [hubf] at *); grind [mem_removeL, nodup_removeL, removeL_nil]))
-      | (have f_fresh := hi.fresh; have f_mem_room := hi.mem_room; have f_room_mem := hi.room_mem; have f_nonempty := hi.nonempty; have f_nodup := hi.nodup; have f_roomL_iff := hi.roomL_iff; have f_roomL_nodup := hi.roomL_nodup; have f_userL_iff := hi.userL_iff; have f_userL_nodup := hi.userL_nodup; have f_sessL_iff := hi.sessL_iff; have f_rs_fwd := hi.rs_fwd; have f_rs_room := hi.rs_room; have f_virt := hi.virt; have f_children := hi.children; have f_vtable := hi.vtable; have f_conn_iff := hi.conn_iff; have f_conn_open := hi.conn_open; have f_eh := hi.eh; have f_expired := hi.expired; have f_anon := hi.anon; have f_dialout := hi.dialout; have f_count := hi.count; have f_orph_virt := hi.orph_virt; clear hi; (intros; (try simp only [hubf] at *); grind [mem_removeL, nodup_removeL, removeL_nil]))
+      | (have f_fresh := hi.fresh; have f_mem_room := hi.mem_room; have f_room_mem := hi.room_mem; have f_nonempty := hi.nonempty; have f_nodup := hi.nodup; have f_roomL_iff := hi.roomL_iff; have f_roomL_nodup := hi.roomL_nodup; have f_userL_iff := hi.userL_iff; have f_userL_nodup := hi.userL_nodup; have f_sessL_iff := hi.sessL_iff; have f_rs_fwd := hi.rs_fwd; have f_rs_room := hi.rs_room; have f_virt := hi.virt; have f_children := hi.children; have f_vtable := hi.vtable; have f_conn_iff := hi.conn_iff; have f_conn_open := hi.conn_open; have f_eh := hi.eh; have f_expired := hi.expired; have f_anon := hi.anon; have f_dialout := hi.dialout; have f_count := hi.count; have f_orph_virt := hi.orph_virt; have f_incall := hi.incall; clear hi; (intros; (try simp only [hubf] at *); grind [mem_removeL, nodup_removeL, removeL_nil]))
   case roomL_nodup =>
     first
       | (have f_roomL_nodup := hi.roomL_nodup; have f_roomL_iff := hi.roomL_iff; clear hi; (intros; (try simp only [hubf] at *); grind [mem_removeL, nodup_removeL, removeL_nil]))
-      | (have f_fresh := hi.fresh; have f_mem_room := hi.mem_room; have f_room_mem := hi.room_mem; have f_nonempty := hi.nonempty; have f_nodup := hi.nodup; have f_roomL_iff := hi.roomL_iff; have f_roomL_nodup := hi.roomL_nodup; have f_userL_iff := hi.userL_iff; have f_userL_nodup := hi.userL_nodup; have f_sessL_iff := hi.sessL_iff; have f_rs_fwd := hi.rs_fwd; have f_rs_room := hi.rs_room; have f_virt := hi.virt; have f_children := hi.children; have f_vtable := hi.vtable; have f_conn_iff := hi.conn_iff; have f_conn_open := hi.conn_open; have f_eh := hi.eh; have f_expired := hi.expired; have f_anon := hi.anon; have f_dialout := hi.dialout; have f_count := hi.count; have f_orph_virt := hi.orph_virt; clear hi; (intros; (try simp only [hubf] at *); grind [mem_removeL, nodup_removeL, removeL_nil]))
+      | (have f_fresh := hi.fresh; have f_mem_room := hi.mem_room; have f_room_mem := hi.room_mem; have f_nonempty := hi.nonempty; have f_nodup := hi.nodup; have f_roomL_iff := hi.roomL_iff; have f_roomL_nodup := hi.roomL_nodup; have f_userL_iff := hi.userL_iff; have f_userL_nodup := hi.userL_nodup; have f_sessL_iff := hi.sessL_iff; have f_rs_fwd := hi.rs_fwd; have f_rs_room := hi.rs_room; have f_virt := hi.virt; have f_children := hi.children; have f_vtable := hi.vtable; have f_conn_iff := hi.conn_iff; have f_conn_open := hi.conn_open; have f_eh := hi.eh; have f_expired := hi.expired; have f_anon := hi.anon; have f_dialout := hi.dialout; have f_count := hi.count; have f_orph_virt := hi.orph_virt; have f_incall := hi.incall; clear hi; (intros; (try simp only [hubf] at *); grind [mem_removeL, nodup_removeL, removeL_nil]))
   case userL_iff =>
     first
       | (have f_userL_iff := hi.userL_iff; have f_fresh := hi.fresh; clear hi; (intros; (try simp only [hubf] at *); grind [mem_removeL, nodup_removeL, removeL_nil]))
-      | (have f_fresh := hi.fresh; have f_mem_room := hi.mem_room; have f_room_mem := hi.room_mem; have f_nonempty := hi.nonempty; have f_nodup := hi.nodup; have f_roomL_iff := hi.roomL_iff; have f_roomL_nodup := hi.roomL_nodup; have f_userL_iff := hi.userL_iff; have f_userL_nodup := hi.userL_nodup; have f_sessL_iff := hi.sessL_iff; have f_rs_fwd := hi.rs_fwd; have f_rs_room := hi.rs_room; have f_virt := hi.virt; have f_children := hi.children; have f_vtable := hi.vtable; have f_conn_iff := hi.conn_iff; have f_conn_open := hi.conn_open; have f_eh := hi.eh; have f_expired := hi.expired; have f_anon := hi.anon; have f_dialout := hi.dialout; have f_count := hi.count; have f_orph_virt := hi.orph_virt; clear hi; (intros; (try simp only [hubf] at *); grind [mem_removeL, nodup_removeL, removeL_nil]))
+      | (have f_fresh := hi.fresh; have f_mem_room := hi.mem_room; have f_room_mem := hi.room_mem; have f_nonempty := hi.nonempty; have f_nodup := hi.nodup; have f_roomL_iff := hi.roomL_iff; have f_roomL_nodup := hi.roomL_nodup; have f_userL_iff := hi.userL_iff; have f_userL_nodup := hi.userL_nodup; have f_sessL_iff := hi.sessL_iff; have f_rs_fwd := hi.rs_fwd; have f_rs_room := hi.rs_room; have f_virt := hi.virt; have f_children := hi.children; have f_vtable := hi.vtable; have f_conn_iff := hi.conn_iff; have f_conn_open := hi.conn_open; have f_eh := hi.eh; have f_expired := hi.expired; have f_anon := hi.anon; have f_dialout := hi.dialout; have f_count := hi.count; have f_orph_virt := hi.orph_virt; have f_incall := hi.incall; clear hi; (intros; (try simp only [hubf] at *); grind [mem_removeL, nodup_removeL, removeL_nil]))
   case userL_nodup =>
     first
       | (have f_userL_nodup := hi.userL_nodup; have f_userL_iff := hi.userL_iff; clear hi; (intros; (try simp only [hubf] at *); grind [mem_removeL, nodup_removeL, removeL_nil]))
-      | (have f_fresh := hi.fresh; have f_mem_room := hi.mem_room; have f_room_mem := hi.room_mem; have f_nonempty := hi.nonempty; have f_nodup := hi.nodup; have f_roomL_iff := hi.roomL_iff; have f_roomL_nodup := hi.roomL_nodup; have f_userL_iff := hi.userL_iff; have f_userL_nodup := hi.userL_nodup; have f_sessL_iff := hi.sessL_iff; have f_rs_fwd := hi.rs_fwd; have f_rs_room := hi.rs_room; have f_virt := hi.virt; have f_children := hi.children; have f_vtable := hi.vtable; have f_conn_iff := hi.conn_iff; have f_conn_open := hi.conn_open; have f_eh := hi.eh; have f_expired := hi.expired; have f_anon := hi.anon; have f_dialout := hi.dialout; have f_count := hi.count; have f_orph_virt := hi.orph_virt; clear hi; (intros; (try simp only [hubf] at *); grind [mem_removeL, nodup_removeL, removeL_nil]))
+      | (have f_fresh := hi.fresh; have f_mem_room := hi.mem_room; have f_room_mem := hi.room_mem; have f_nonempty := hi.nonempty; have f_nodup := hi.nodup; have f_roomL_iff := hi.roomL_iff; have f_roomL_nodup := hi.roomL_nodup; have f_userL_iff := hi.userL_iff; have f_userL_nodup := hi.userL_nodup; have f_sessL_iff := hi.sessL_iff; have f_rs_fwd := hi.rs_fwd; have f_rs_room := hi.rs_room; have f_virt := hi.virt; have f_children := hi.children; have f_vtable := hi.vtable; have f_conn_iff := hi.conn_iff; have f_conn_open := hi.conn_open; have f_eh := hi.eh; have f_expired := hi.expired; have f_anon := hi.anon; have f_dialout := hi.dialout; have f_count := hi.count; have f_orph_virt := hi.orph_virt; have f_incall := hi.incall; clear hi; (intros; (try simp only [hubf] at *); grind [mem_removeL, nodup_removeL, removeL_nil]))
   case sessL_iff =>
     first
       | (have f_sessL_iff := hi.sessL_iff; have f_fresh := hi.fresh; clear hi; (intros; (try simp only [hubf] at *); grind [mem_removeL, nodup_removeL, removeL_nil]))
-      | (have f_fresh := hi.fresh; have f_mem_room := hi.mem_room; have f_room_mem := hi.room_mem; have f_nonempty := hi.nonempty; have f_nodup := hi.nodup; have f_roomL_iff := hi.roomL_iff; have f_roomL_nodup := hi.roomL_nodup; have f_userL_iff := hi.userL_iff; have f_userL_nodup := hi.userL_nodup; have f_sessL_iff := hi.sessL_iff; have f_rs_fwd := hi.rs_fwd; have f_rs_room := hi.rs_room; have f_virt := hi.virt; have f_children := hi.children; have f_vtable := hi.vtable; have f_conn_iff := hi.conn_iff; have f_conn_open := hi.conn_open; have f_eh := hi.eh; have f_expired := hi.expired; have f_anon := hi.anon; have f_dialout := hi.dialout; have f_count := hi.count; have f_orph_virt := hi.orph_virt; clear hi; (intros; (try simp only [hubf] at *); grind [mem_removeL, nodup_removeL, removeL_nil]))
+      | (have f_fresh := hi.fresh; have f_mem_room := hi.mem_room; have f_room_mem := hi.room_mem; have f_nonempty := hi.nonempty; have f_nodup := hi.nodup; have f_roomL_iff := hi.roomL_iff; have f_roomL_nodup := hi.roomL_nodup; have f_userL_iff := hi.userL_iff; have f_userL_nodup := hi.userL_nodup; have f_sessL_iff := hi.sessL_iff; have f_rs_fwd := hi.rs_fwd; have f_rs_room := hi.rs_room; have f_virt := hi.virt; have f_children := hi.children; have f_vtable := hi.vtable; have f_conn_iff := hi.conn_iff; have f_conn_open := hi.conn_open; have f_eh := hi.eh; have f_expired := hi.expired; have f_anon := hi.anon; have f_dialout := hi.dialout; have f_count := hi.count; have f_orph_virt := hi.orph_virt; have f_incall := hi.incall; clear hi; (intros; (try simp only [hubf] at *); grind [mem_removeL, nodup_removeL, removeL_nil]))
   case rs_fwd =>
     first
       | (have f_rs_fwd := hi.rs_fwd; have f_rs_room := hi.rs_room; have f_fresh := hi.fresh; clear hi; (intros; (try simp only [hubf] at *); grind [mem_removeL, nodup_removeL, removeL_nil]))
-      | (have f_fresh := hi.fresh; have f_mem_room := hi.mem_room; have f_room_mem := hi.room_mem; have f_nonempty := hi.nonempty; have f_nodup := hi.nodup; have f_roomL_iff := hi.roomL_iff; have f_roomL_nodup := hi.roomL_nodup; have f_userL_iff := hi.userL_iff; have f_userL_nodup := hi.userL_nodup; have f_sessL_iff := hi.sessL_iff; have f_rs_fwd := hi.rs_fwd; have f_rs_room := hi.rs_room; have f_virt := hi.virt; have f_children := hi.children; have f_vtable := hi.vtable; have f_conn_iff := hi.conn_iff; have f_conn_open := hi.conn_open; have f_eh := hi.eh; have f_expired := hi.expired; have f_anon := hi.anon; have f_dialout := hi.dialout; have f_count := hi.count; have f_orph_virt := hi.orph_virt; clear hi; (intros; (try simp only [hubf] at *); grind [mem_removeL, nodup_removeL, removeL_nil]))
+      | (have f_fresh := hi.fresh; have f_mem_room := hi.mem_room; have f_room_mem := hi.room_mem; have f_nonempty := hi.nonempty; have f_nodup := hi.nodup; have f_roomL_iff := hi.roomL_iff; have f_roomL_nodup := hi.roomL_nodup; have f_userL_iff := hi.userL_iff; have f_userL_nodup := hi.userL_nodup; have f_sessL_iff := hi.sessL_iff; have f_rs_fwd := hi.rs_fwd; have f_rs_room := hi.rs_room; have f_virt := hi.virt; have f_children := hi.children; have f_vtable := hi.vtable; have f_conn_iff := hi.conn_iff; have f_conn_open := hi.conn_open; have f_eh := hi.eh; have f_expired := hi.expired; have f_anon := hi.anon; have f_dialout := hi.dialout; have f_count := hi.count; have f_orph_virt := hi.orph_virt; have f_incall := hi.incall; clear hi; (intros; (try simp only [hubf] at *); grind [mem_removeL, nodup_removeL, removeL_nil]))
   case rs_room =>
     first
       | (have f_rs_room := hi.rs_room; have f_rs_fwd := hi.rs_fwd; have f_fresh := hi.fresh; have f_room_mem := hi.room_mem; clear hi; (intros; (try simp only [hubf] at *); grind [mem_removeL, nodup_removeL, removeL_nil]))
-      | (have f_fresh := hi.fresh; have f_mem_room := hi.mem_room; have f_room_mem := hi.room_mem; have f_nonempty := hi.nonempty; have f_nodup := hi.nodup; have f_roomL_iff := hi.roomL_iff; have f_roomL_nodup := hi.roomL_nodup; have f_userL_iff := hi.userL_iff; have f_userL_nodup := hi.userL_nodup; have f_sessL_iff := hi.sessL_iff; have f_rs_fwd := hi.rs_fwd; have f_rs_room := hi.rs_room; have f_virt := hi.virt; have f_children := hi.children; have f_vtable := hi.vtable; have f_conn_iff := hi.conn_iff; have f_conn_open := hi.conn_open; have f_eh := hi.eh; have f_expired := hi.expired; have f_anon := hi.anon; have f_dialout := hi.dialout; have f_count := hi.count; have f_orph_virt := hi.orph_virt; clear hi; (intros; (try simp only [hubf] at *); grind [mem_removeL, nodup_removeL, removeL_nil]))
+      | (have f_fresh := hi.fresh; have f_mem_room := hi.mem_room; have f_room_mem := hi.room_mem; have f_nonempty := hi.nonempty; have f_nodup := hi.nodup; have f_roomL_iff := hi.roomL_iff; have f_roomL_nodup := hi.roomL_nodup; have f_userL_iff := hi.userL_iff; have f_userL_nodup := hi.userL_nodup; have f_sessL_iff := hi.sessL_iff; have f_rs_fwd := hi.rs_fwd; have f_rs_room := hi.rs_room; have f_virt := hi.virt; have f_children := hi.children; have f_vtable := hi.vtable; have f_conn_iff := hi.conn_iff; have f_conn_open := hi.conn_open; have f_eh := hi.eh; have f_expired := hi.expired; have f_anon := hi.anon; have f_dialout := hi.dialout; have f_count := hi.count; have f_orph_virt := hi.orph_virt; have f_incall := hi.incall; clear hi; (intros; (try simp only [hubf] at *); grind [mem_removeL, nodup_removeL, removeL_nil]))
   case virt =>
     first
       | (have f_virt := hi.virt; have f_children := hi.children; have f_fresh := hi.fresh; clear hi; (intros; (try simp only [hubf] at *); grind [mem_removeL, nodup_removeL, removeL_nil]))
-      | (have f_fresh := hi.fresh; have f_mem_room := hi.mem_room; have f_room_mem := hi.room_mem; have f_nonempty := hi.nonempty; have f_nodup := hi.nodup; have f_roomL_iff := hi.roomL_iff; have f_roomL_nodup := hi.roomL_nodup; have f_userL_iff := hi.userL_iff; have f_userL_nodup := hi.userL_nodup; have f_sessL_iff := hi.sessL_iff; have f_rs_fwd := hi.rs_fwd; have f_rs_room := hi.rs_room; have f_virt := hi.virt; have f_children := hi.children; have f_vtable := hi.vtable; have f_conn_iff := hi.conn_iff; have f_conn_open := hi.conn_open; have f_eh := hi.eh; have f_expired := hi.expired; have f_anon := hi.anon; have f_dialout := hi.dialout; have f_count := hi.count; have f_orph_virt := hi.orph_virt; clear hi; (intros; (try simp only [hubf] at *); grind [mem_removeL, nodup_removeL, removeL_nil]))
+      | (have f_fresh := hi.fresh; have f_mem_room := hi.mem_room; have f_room_mem := hi.room_mem; have f_nonempty := hi.nonempty; have f_nodup := hi.nodup; have f_roomL_iff := hi.roomL_iff; have f_roomL_nodup := hi.roomL_nodup; have f_userL_iff := hi.userL_iff; have f_userL_nodup := hi.userL_nodup; have f_sessL_iff := hi.sessL_iff; have f_rs_fwd := hi.rs_fwd; have f_rs_room := hi.rs_room; have f_virt := hi.virt; have f_children := hi.children; have f_vtable := hi.vtable; have f_conn_iff := hi.conn_iff; have f_conn_open := hi.conn_open; have f_eh := hi.eh; have f_expired := hi.expired; have f_anon := hi.anon; have f_dialout := hi.dialout; have f_count := hi.count; have f_orph_virt := hi.orph_virt; have f_incall := hi.incall; clear hi; (intros; (try simp only [hubf] at *); grind [mem_removeL, nodup_removeL, removeL_nil]))
   case children =>
     first
       | (have f_children := hi.children; have f_virt := hi.virt; have f_fresh := hi.fresh; clear hi; (intros; (try simp only [hubf] at *); grind [mem_removeL, nodup_removeL, removeL_nil]))
-      | (have f_fresh := hi.fresh; have f_mem_room := hi.mem_room; have f_room_mem := hi.room_mem; have f_nonempty := hi.nonempty; have f_nodup := hi.nodup; have f_roomL_iff := hi.roomL_iff; have f_roomL_nodup := hi.roomL_nodup; have f_userL_iff := hi.userL_iff; have f_userL_nodup := hi.userL_nodup; have f_sessL_iff := hi.sessL_iff; have f_rs_fwd := hi.rs_fwd; have f_rs_room := hi.rs_room; have f_virt := hi.virt; have f_children := hi.children; have f_vtable := hi.vtable; have f_conn_iff := hi.conn_iff; have f_conn_open := hi.conn_open; have f_eh := hi.eh; have f_expired := hi.expired; have f_anon := hi.anon; have f_dialout := hi.dialout; have f_count := hi.count; have f_orph_virt := hi.orph_virt; clear hi; (intros; (try simp only [hubf] at *); grind [mem_removeL, nodup_removeL, removeL_nil]))
+      | (have f_fresh := hi.fresh; have f_mem_room := hi.mem_room; have f_room_mem := hi.room_mem; have f_nonempty := hi.nonempty; have f_nodup := hi.nodup; have f_roomL_iff := hi.roomL_iff; have f_roomL_nodup := hi.roomL_nodup; have f_userL_iff := hi.userL_iff; have f_userL_nodup := hi.userL_nodup; have f_sessL_iff := hi.sessL_iff; have f_rs_fwd := hi.rs_fwd; have f_rs_room := hi.rs_room; have f_virt := hi.virt; have f_children := hi.children; have f_vtable := hi.vtable; have f_conn_iff := hi.conn_iff; have f_conn_open := hi.conn_open; have f_eh := hi.eh; have f_expired := hi.expired; have f_anon := hi.anon; have f_dialout := hi.dialout; have f_count := hi.count; have f_orph_virt := hi.orph_virt; have f_incall := hi.incall; clear hi; (intros; (try simp only [hubf] at *); grind [mem_removeL, nodup_removeL, removeL_nil]))
   case vtable =>
     first
       | (have f_vtable := hi.vtable; have f_virt := hi.virt; have f_fresh := hi.fresh; clear hi; (intros; (try simp only [hubf] at *); grind [mem_removeL, nodup_removeL, removeL_nil]))
-      | (have f_fresh := hi.fresh; have f_mem_room := hi.mem_room; have f_room_mem := hi.room_mem; have f_nonempty := hi.nonempty; have f_nodup := hi.nodup; have f_roomL_iff := hi.roomL_iff; have f_roomL_nodup := hi.roomL_nodup; have f_userL_iff := hi.userL_iff; have f_userL_nodup := hi.userL_nodup; have f_sessL_iff := hi.sessL_iff; have f_rs_fwd := hi.rs_fwd; have f_rs_room := hi.rs_room; have f_virt := hi.virt; have f_children := hi.children; have f_vtable := hi.vtable; have f_conn_iff := hi.conn_iff; have f_conn_open := hi.conn_open; have f_eh := hi.eh; have f_expired := hi.expired; have f_anon := hi.anon; have f_dialout := hi.dialout; have f_count := hi.count; have f_orph_virt := hi.orph_virt; clear hi; (intros; (try simp only [hubf] at *); grind [mem_removeL, nodup_removeL, removeL_nil]))
+      | (have f_fresh := hi.fresh; have f_mem_room := hi.mem_room; have f_room_mem := hi.room_mem; have f_nonempty := hi.nonempty; have f_nodup := hi.nodup; have f_roomL_iff := hi.roomL_iff; have f_roomL_nodup := hi.roomL_nodup; have f_userL_iff := hi.userL_iff; have f_userL_nodup := hi.userL_nodup; have f_sessL_iff := hi.sessL_iff; have f_rs_fwd := hi.rs_fwd; have f_rs_room := hi.rs_room; have f_virt := hi.virt; have f_children := hi.children; have f_vtable := hi.vtable; have f_conn_iff := hi.conn_iff; have f_conn_open := hi.conn_open; have f_eh := hi.eh; have f_expired := hi.expired; have f_anon := hi.anon; have f_dialout := hi.dialout; have f_count := hi.count; have f_orph_virt := hi.orph_virt; have f_incall := hi.incall; clear hi; (intros; (try simp only [hubf] at *); grind [mem_removeL, nodup_removeL, removeL_nil]))
   case conn_iff =>
     first
       | (have f_conn_iff := hi.conn_iff; have f_fresh := hi.fresh; have f_virt := hi.virt; clear hi; (intros; (try simp only [hubf] at *); grind [mem_removeL, nodup_removeL, removeL_nil]))
-      | (have f_fresh := hi.fresh; have f_mem_room := hi.mem_room; have f_room_mem := hi.room_mem; have f_nonempty := hi.nonempty; have f_nodup := hi.nodup; have f_roomL_iff := hi.roomL_iff; have f_roomL_nodup := hi.roomL_nodup; have f_userL_iff := hi.userL_iff; have f_userL_nodup := hi.userL_nodup; have f_sessL_iff := hi.sessL_iff; have f_rs_fwd := hi.rs_fwd; have f_rs_room := hi.rs_room; have f_virt := hi.virt; have f_children := hi.children; have f_vtable := hi.vtable; have f_conn_iff := hi.conn_iff; have f_conn_open := hi.conn_open; have f_eh := hi.eh; have f_expired := hi.expired; have f_anon := hi.anon; have f_dialout := hi.dialout; have f_count := hi.count; have f_orph_virt := hi.orph_virt; clear hi; (intros; (try simp only [hubf] at *); grind [mem_removeL, nodup_removeL, removeL_nil]))
+      | (have f_fresh := hi.fresh; have f_mem_room := hi.mem_room; have f_room_mem := hi.room_mem; have f_nonempty := hi.nonempty; have f_nodup := hi.nodup; have f_roomL_iff := hi.roomL_iff; have f_roomL_nodup := hi.roomL_nodup; have f_userL_iff := hi.userL_iff; have f_userL_nodup := hi.userL_nodup; have f_sessL_iff := hi.sessL_iff; have f_rs_fwd := hi.rs_fwd; have f_rs_room := hi.rs_room; have f_virt := hi.virt; have f_children := hi.children; have f_vtable := hi.vtable; have f_conn_iff := hi.conn_iff; have f_conn_open := hi.conn_open; have f_eh := hi.eh; have f_expired := hi.expired; have f_anon := hi.anon; have f_dialout := hi.dialout; have f_count := hi.count; have f_orph_virt := hi.orph_virt; have f_incall := hi.incall; clear hi; (intros; (try simp only [hubf] at *); grind [mem_removeL, nodup_removeL, removeL_nil]))
   case conn_open =>
     first
       | (have f_conn_open := hi.conn_open; have f_conn_iff := hi.conn_iff; clear hi; (intros; (try simp only [hubf] at *); grind [mem_removeL, nodup_removeL, removeL_nil]))
-      | (have f_fresh := hi.fresh; have f_mem_room := hi.mem_room; have f_room_mem := hi.room_mem; have f_nonempty := hi.nonempty; have f_nodup := hi.nodup; have f_roomL_iff := hi.roomL_iff; have f_roomL_nodup := hi.roomL_nodup; have f_userL_iff := hi.userL_iff; have f_userL_nodup := hi.userL_nodup; have f_sessL_iff := hi.sessL_iff; have f_rs_fwd := hi.rs_fwd; have f_rs_room := hi.rs_room; have f_virt := hi.virt; have f_children := hi.children; have f_vtable := hi.vtable; have f_conn_iff := hi.conn_iff; have f_conn_open := hi.conn_open; have f_eh := hi.eh; have f_expired := hi.expired; have f_anon := hi.anon; have f_dialout := hi.dialout; have f_count := hi.count; have f_orph_virt := hi.orph_virt; clear hi; (intros; (try simp only [hubf] at *); grind [mem_removeL, nodup_removeL, removeL_nil]))
+      | (have f_fresh := hi.fresh; have f_mem_room := hi.mem_room; have f_room_mem := hi.room_mem; have f_nonempty := hi.nonempty; have f_nodup := hi.nodup; have f_roomL_iff := hi.roomL_iff; have f_roomL_nodup := hi.roomL_nodup; have f_userL_iff := hi.userL_iff; have f_userL_nodup := hi.userL_nodup; have f_sessL_iff := hi.sessL_iff; have f_rs_fwd := hi.rs_fwd; have f_rs_room := hi.rs_room; have f_virt := hi.virt; have f_children := hi.children; have f_vtable := hi.vtable; have f_conn_iff := hi.conn_iff; have f_conn_open := hi.conn_open; have f_eh := hi.eh; have f_expired := hi.expired; have f_anon := hi.anon; have f_dialout := hi.dialout; have f_count := hi.count; have f_orph_virt := hi.orph_virt; have f_incall := hi.incall; clear hi; (intros; (try simp only [hubf] at *); grind [mem_removeL, nodup_removeL, removeL_nil]))
   case eh =>
     first
       | (have f_eh := hi.eh; have f_conn_iff := hi.conn_iff; have f_conn_open := hi.conn_open; clear hi; (intros; (try simp only [hubf] at *); grind [mem_removeL, nodup_removeL, removeL_nil]))
-      | (have f_fresh := hi.fresh; have f_mem_room := hi.mem_room; have f_room_mem := hi.room_mem; have f_nonempty := hi.nonempty; have f_nodup := hi.nodup; have f_roomL_iff := hi.roomL_iff; have f_roomL_nodup := hi.roomL_nodup; have f_userL_iff := hi.userL_iff; have f_userL_nodup := hi.userL_nodup; have f_sessL_iff := hi.sessL_iff; have f_rs_fwd := hi.rs_fwd; have f_rs_room := hi.rs_room; have f_virt := hi.virt; have f_children := hi.children; have f_vtable := hi.vtable; have f_conn_iff := hi.conn_iff; have f_conn_open := hi.conn_open; have f_eh := hi.eh; have f_expired := hi.expired; have f_anon := hi.anon; have f_dialout := hi.dialout; have f_count := hi.count; have f_orph_virt := hi.orph_virt; clear hi; (intros; (try simp only [hubf] at *); grind [mem_removeL, nodup_removeL, removeL_nil]))
+      | (have f_fresh := hi.fresh; have f_mem_room := hi.mem_room; have f_room_mem := hi.room_mem; have f_nonempty := hi.nonempty; have f_nodup := hi.nodup; have f_roomL_iff := hi.roomL_iff; have f_roomL_nodup := hi.roomL_nodup; have f_userL_iff := hi.userL_iff; have f_userL_nodup := hi.userL_nodup; have f_sessL_iff := hi.sessL_iff; have f_rs_fwd := hi.rs_fwd; have f_rs_room := hi.rs_room; have f_virt := hi.virt; have f_children := hi.children; have f_vtable := hi.vtable; have f_conn_iff := hi.conn_iff; have f_conn_open := hi.conn_open; have f_eh := hi.eh; have f_expired := hi.expired; have f_anon := hi.anon; have f_dialout := hi.dialout; have f_count := hi.count; have f_orph_virt := hi.orph_virt; have f_incall := hi.incall; clear hi; (intros; (try simp only [hubf] at *); grind [mem_removeL, nodup_removeL, removeL_nil]))
   case expired =>
     first
       | (have f_expired := hi.expired; have f_fresh := hi.fresh; clear hi; (intros; (try simp only [hubf] at *); grind [mem_removeL, nodup_removeL, removeL_nil]))
-      | (have f_fresh := hi.fresh; have f_mem_room := hi.mem_room; have f_room_mem := hi.room_mem; have f_nonempty := hi.nonempty; have f_nodup := hi.nodup; have f_roomL_iff := hi.roomL_iff; have f_roomL_nodup := hi.roomL_nodup; have f_userL_iff := hi.userL_iff; have f_userL_nodup := hi.userL_nodup; have f_sessL_iff := hi.sessL_iff; have f_rs_fwd := hi.rs_fwd; have f_rs_room := hi.rs_room; have f_virt := hi.virt; have f_children := hi.children; have f_vtable := hi.vtable; have f_conn_iff := hi.conn_iff; have f_conn_open := hi.conn_open; have f_eh := hi.eh; have f_expired := hi.expired; have f_anon := hi.anon; have f_dialout := hi.dialout; have f_count := hi.count; have f_orph_virt := hi.orph_virt; clear hi; (intros; (try simp only [hubf] at *); grind [mem_removeL, nodup_removeL, removeL_nil]))
+      | (have f_fresh := hi.fresh; have f_mem_room := hi.mem_room; have f_room_mem := hi.room_mem; have f_nonempty := hi.nonempty; have f_nodup := hi.nodup; have f_roomL_iff := hi.roomL_iff; have f_roomL_nodup := hi.roomL_nodup; have f_userL_iff := hi.userL_iff; have f_userL_nodup := hi.userL_nodup; have f_sessL_iff := hi.sessL_iff; have f_rs_fwd := hi.rs_fwd; have f_rs_room := hi.rs_room; have f_virt := hi.virt; have f_children := hi.children; have f_vtable := hi.vtable; have f_conn_iff := hi.conn_iff; have f_conn_open := hi.conn_open; have f_eh := hi.eh; have f_expired := hi.expired; have f_anon := hi.anon; have f_dialout := hi.dialout; have f_count := hi.count; have f_orph_virt := hi.orph_virt; have f_incall := hi.incall; clear hi; (intros; (try simp only [hubf] at *); grind [mem_removeL, nodup_removeL, removeL_nil]))
   case anon =>
     first
       | (have f_anon := hi.anon; have f_fresh := hi.fresh; clear hi; (intros; (try simp only [hubf] at *); grind [mem_removeL, nodup_removeL, removeL_nil]))
-      | (have f_fresh := hi.fresh; have f_mem_room := hi.mem_room; have f_room_mem := hi.room_mem; have f_nonempty := hi.nonempty; have f_nodup := hi.nodup; have f_roomL_iff := hi.roomL_iff; have f_roomL_nodup := hi.roomL_nodup; have f_userL_iff := hi.userL_iff; have f_userL_nodup := hi.userL_nodup; have f_sessL_iff := hi.sessL_iff; have f_rs_fwd := hi.rs_fwd; have f_rs_room := hi.rs_room; have f_virt := hi.virt; have f_children := hi.children; have f_vtable := hi.vtable; have f_conn_iff := hi.conn_iff; have f_conn_open := hi.conn_open; have f_eh := hi.eh; have f_expired := hi.expired; have f_anon := hi.anon; have f_dialout := hi.dialout; have f_count := hi.count; have f_orph_virt := hi.orph_virt; clear hi; (intros; (try simp only [hubf] at *); grind [mem_removeL, nodup_removeL, removeL_nil]))
+      | (have f_fresh := hi.fresh; have f_mem_room := hi.mem_room; have f_room_mem := hi.room_mem; have f_nonempty := hi.nonempty; have f_nodup := hi.nodup; have f_roomL_iff := hi.roomL_iff; have f_roomL_nodup := hi.roomL_nodup; have f_userL_iff := hi.userL_iff; have f_userL_nodup := hi.userL_nodup; have f_sessL_iff := hi.sessL_iff; have f_rs_fwd := hi.rs_fwd; have f_rs_room := hi.rs_room; have f_virt := hi.virt; have f_children := hi.children; have f_vtable := hi.vtable; have f_conn_iff := hi.conn_iff; have f_conn_open := hi.conn_open; have f_eh := hi.eh; have f_expired := hi.expired; have f_anon := hi.anon; have f_dialout := hi.dialout; have f_count := hi.count; have f_orph_virt := hi.orph_virt; have f_incall := hi.incall; clear hi; (intros; (try simp only [hubf] at *); grind [mem_removeL, nodup_removeL, removeL_nil]))
   case dialout =>
     first
       | (have f_dialout := hi.dialout; have f_fresh := hi.fresh; clear hi; (intros; (try simp only [hubf] at *); grind [mem_removeL, nodup_removeL, removeL_nil]))
-      | (have f_fresh := hi.fresh; have f_mem_room := hi.mem_room; have f_room_mem := hi.room_mem; have f_nonempty := hi.nonempty; have f_nodup := hi.nodup; have f_roomL_iff := hi.roomL_iff; have f_roomL_nodup := hi.roomL_nodup; have f_userL_iff := hi.userL_iff; have f_userL_nodup := hi.userL_nodup; have f_sessL_iff := hi.sessL_iff; have f_rs_fwd := hi.rs_fwd; have f_rs_room := hi.rs_room; have f_virt := hi.virt; have f_children := hi.children; have f_vtable := hi.vtable; have f_conn_iff := hi.conn_iff; have f_conn_open := hi.conn_open; have f_eh := hi.eh; have f_expired := hi.expired; have f_anon := hi.anon; have f_dialout := hi.dialout; have f_count := hi.count; have f_orph_virt := hi.orph_virt; clear hi; (intros; (try simp only [hubf] at *); grind [mem_removeL, nodup_removeL, removeL_nil]))
+      | (have f_fresh := hi.fresh; have f_mem_room := hi.mem_room; have f_room_mem := hi.room_mem; have f_nonempty := hi.nonempty; have f_nodup := hi.nodup; have f_roomL_iff := hi.roomL_iff; have f_roomL_nodup := hi.roomL_nodup; have f_userL_iff := hi.userL_iff; have f_userL_nodup := hi.userL_nodup; have f_sessL_iff := hi.sessL_iff; have f_rs_fwd := hi.rs_fwd; have f_rs_room := hi.rs_room; have f_virt := hi.virt; have f_children := hi.children; have f_vtable := hi.vtable; have f_conn_iff := hi.conn_iff; have f_conn_open := hi.conn_open; have f_eh := hi.eh; have f_expired := hi.expired; have f_anon := hi.anon; have f_dialout := hi.dialout; have f_count := hi.count; have f_orph_virt := hi.orph_virt; have f_incall := hi.incall; clear hi; (intros; (try simp only [hubf] at *); grind [mem_removeL, nodup_removeL, removeL_nil]))
   case count =>
     first
       | (have f_count := hi.count; have f_fresh := hi.fresh; clear hi; (intros; (try simp only [hubf] at *); grind [mem_removeL, nodup_removeL, removeL_nil]))
-      | (have f_fresh := hi.fresh; have f_mem_room := hi.mem_room; have f_room_mem := hi.room_mem; have f_nonempty := hi.nonempty; have f_nodup := hi.nodup; have f_roomL_iff := hi.roomL_iff; have f_roomL_nodup := hi.roomL_nodup; have f_userL_iff := hi.userL_iff; have f_userL_nodup := hi.userL_nodup; have f_sessL_iff := hi.sessL_iff; have f_rs_fwd := hi.rs_fwd; have f_rs_room := hi.rs_room; have f_virt := hi.virt; have f_children := hi.children; have f_vtable := hi.vtable; have f_conn_iff := hi.conn_iff; have f_conn_open := hi.conn_open; have f_eh := hi.eh; have f_expired := hi.expired; have f_anon := hi.anon; have f_dialout := hi.dialout; have f_count := hi.count; have f_orph_virt := hi.orph_virt; clear hi; (intros; (try simp only [hubf] at *); grind [mem_removeL, nodup_removeL, removeL_nil]))
+      | (have f_fresh := hi.fresh; have f_mem_room := hi.mem_room; have f_room_mem := hi.room_mem; have f_nonempty := hi.nonempty; have f_nodup := hi.nodup; have f_roomL_iff := hi.roomL_iff; have f_roomL_nodup := hi.roomL_nodup; have f_userL_iff := hi.userL_iff; have f_userL_nodup := hi.userL_nodup; have f_sessL_iff := hi.sessL_iff; have f_rs_fwd := hi.rs_fwd; have f_rs_room := hi.rs_room; have f_virt := hi.virt; have f_children := hi.children; have f_vtable := hi.vtable; have f_conn_iff := hi.conn_iff; have f_conn_open := hi.conn_open; have f_eh := hi.eh; have f_expired := hi.expired; have f_anon := hi.anon; have f_dialout := hi.dialout; have f_count := hi.count; have f_orph_virt := hi.orph_virt; have f_incall := hi.incall; clear hi; (intros; (try simp only [hubf] at *); grind [mem_removeL, nodup_removeL, removeL_nil]))
   case orph_virt =>
     first
       | (have f_orph_virt := hi.orph_virt; have f_fresh := hi.fresh; have f_children := hi.children; have f_virt := hi.virt; clear hi; (intros; (try simp only [hubf] at *); grind [mem_removeL, nodup_removeL, removeL_nil]))
-      | (have f_fresh := hi.fresh; have f_mem_room := hi.mem_room; have f_room_mem := hi.room_mem; have f_nonempty := hi.nonempty; have f_nodup := hi.nodup; have f_roomL_iff := hi.roomL_iff; have f_roomL_nodup := hi.roomL_nodup; have f_userL_iff := hi.userL_iff; have f_userL_nodup := hi.userL_nodup; have f_sessL_iff := hi.sessL_iff; have f_rs_fwd := hi.rs_fwd; have f_rs_room := hi.rs_room; have f_virt := hi.virt; have f_children := hi.children; have f_vtable := hi.vtable; have f_conn_iff := hi.conn_iff; have f_conn_open := hi.conn_open; have f_eh := hi.eh; have f_expired := hi.expired; have f_anon := hi.anon; have f_dialout := hi.dialout; have f_count := hi.count; have f_orph_virt := hi.orph_virt; clear hi; (intros; (try simp only [hubf] at *); grind [mem_removeL, nodup_removeL, removeL_nil]))
+      | (have f_fresh := hi.fresh; have f_mem_room := hi.mem_room; have f_room_mem := hi.room_mem; have f_nonempty := hi.nonempty; have f_nodup := hi.nodup; have f_roomL_iff := hi.roomL_iff; have f_roomL_nodup := hi.roomL_nodup; have f_userL_iff := hi.userL_iff; have f_userL_nodup := hi.userL_nodup; have f_sessL_iff := hi.sessL_iff; have f_rs_fwd := hi.rs_fwd; have f_rs_room := hi.rs_room; have f_virt := hi.virt; have f_children := hi.children; have f_vtable := hi.vtable; have f_conn_iff := hi.conn_iff; have f_conn_open := hi.conn_open; have f_eh := hi.eh; have f_expired := hi.expired; have f_anon := hi.anon; have f_dialout := hi.dialout; have f_count := hi.count; have f_orph_virt := hi.orph_virt; have f_incall := hi.incall; clear hi; (intros; (try simp only [hubf] at *); grind [mem_removeL, nodup_removeL, removeL_nil]))
+  case incall =>
+    first
+      | (have f_incall := hi.incall; have f_mem_room := hi.mem_room; clear hi; (intros; (try simp only [hubf] at *); grind [mem_removeL, nodup_removeL, removeL_nil]))
+      | (have f_fresh := hi.fresh; have f_mem_room := hi.mem_room; have f_room_mem := hi.room_mem; have f_nonempty := hi.nonempty; have f_nodup := hi.nodup; have f_roomL_iff := hi.roomL_iff; have f_roomL_nodup := hi.roomL_nodup; have f_userL_iff := hi.userL_iff; have f_userL_nodup := hi.userL_nodup; have f_sessL_iff := hi.sessL_iff; have f_rs_fwd := hi.rs_fwd; have f_rs_room := hi.rs_room; have f_virt := hi.virt; have f_children := hi.children; have f_vtable := hi.vtable; have f_conn_iff := hi.conn_iff; have f_conn_open := hi.conn_open; have f_eh := hi.eh; have f_expired := hi.expired; have f_anon := hi.anon; have f_dialout := hi.dialout; have f_count := hi.count; have f_orph_virt := hi.orph_virt; have f_incall := hi.incall; clear hi; (intros; (try simp only [hubf] at *); grind [mem_removeL, nodup_removeL, removeL_nil]))
 
 /-- What `leaveRoom` does to a session whose room is gone from the table. -/
 def leaveGone (h : Hub) (s : Nat) (x : Sess) (r : String) : Hub :=
@@ -1172,121 +1259,126 @@ theorem leaveGone_inv {h : Hub} {b : Nat} {r : String} {ms : List Nat} (hi : Inv
     by_cases hk : x.kind = .virtual <;> simp only [hk, if_true, if_false]
     all_goals first
       | (have f_fresh := hi.fresh; clear hi; (intros; (try simp only [hubf] at *); grind [mem_removeL, nodup_removeL, removeL_nil]))
-      | (have f_fresh := hi.fresh; have f_mem_room := hi.mem_room; have f_room_mem := hi.room_mem; have f_nonempty := hi.nonempty; have f_nodup := hi.nodup; have f_roomL_iff := hi.roomL_iff; have f_roomL_nodup := hi.roomL_nodup; have f_userL_iff := hi.userL_iff; have f_userL_nodup := hi.userL_nodup; have f_sessL_iff := hi.sessL_iff; have f_rs_fwd := hi.rs_fwd; have f_rs_room := hi.rs_room; have f_virt := hi.virt; have f_children := hi.children; have f_vtable := hi.vtable; have f_conn_iff := hi.conn_iff; have f_conn_open := hi.conn_open; have f_eh := hi.eh; have f_expired := hi.expired; have f_anon := hi.anon; have f_dialout := hi.dialout; have f_count := hi.count; have f_orph_virt := hi.orph_virt; clear hi; (intros; (try simp only [hubf] at *); grind [mem_removeL, nodup_removeL, removeL_nil]))
+      | (have f_fresh := hi.fresh; have f_mem_room := hi.mem_room; have f_room_mem := hi.room_mem; have f_nonempty := hi.nonempty; have f_nodup := hi.nodup; have f_roomL_iff := hi.roomL_iff; have f_roomL_nodup := hi.roomL_nodup; have f_userL_iff := hi.userL_iff; have f_userL_nodup := hi.userL_nodup; have f_sessL_iff := hi.sessL_iff; have f_rs_fwd := hi.rs_fwd; have f_rs_room := hi.rs_room; have f_virt := hi.virt; have f_children := hi.children; have f_vtable := hi.vtable; have f_conn_iff := hi.conn_iff; have f_conn_open := hi.conn_open; have f_eh := hi.eh; have f_expired := hi.expired; have f_anon := hi.anon; have f_dialout := hi.dialout; have f_count := hi.count; have f_orph_virt := hi.orph_virt; have f_incall := hi.incall; clear hi; (intros; (try simp only [hubf] at *); grind [mem_removeL, nodup_removeL, removeL_nil]))
   case mem_room =>
     by_cases hk : x.kind = .virtual <;> simp only [hk, if_true, if_false]
     all_goals first
       | (have f_mem_room := hi.mem_room; have f_fresh := hi.fresh; clear hi; (intros; (try simp only [hubf] at *); grind [mem_removeL, nodup_removeL, removeL_nil]))
-      | (have f_fresh := hi.fresh; have f_mem_room := hi.mem_room; have f_room_mem := hi.room_mem; have f_nonempty := hi.nonempty; have f_nodup := hi.nodup; have f_roomL_iff := hi.roomL_iff; have f_roomL_nodup := hi.roomL_nodup; have f_userL_iff := hi.userL_iff; have f_userL_nodup := hi.userL_nodup; have f_sessL_iff := hi.sessL_iff; have f_rs_fwd := hi.rs_fwd; have f_rs_room := hi.rs_room; have f_virt := hi.virt; have f_children := hi.children; have f_vtable := hi.vtable; have f_conn_iff := hi.conn_iff; have f_conn_open := hi.conn_open; have f_eh := hi.eh; have f_expired := hi.expired; have f_anon := hi.anon; have f_dialout := hi.dialout; have f_count := hi.count; have f_orph_virt := hi.orph_virt; clear hi; (intros; (try simp only [hubf] at *); grind [mem_removeL, nodup_removeL, removeL_nil]))
+      | (have f_fresh := hi.fresh; have f_mem_room := hi.mem_room; have f_room_mem := hi.room_mem; have f_nonempty := hi.nonempty; have f_nodup := hi.nodup; have f_roomL_iff := hi.roomL_iff; have f_roomL_nodup := hi.roomL_nodup; have f_userL_iff := hi.userL_iff; have f_userL_nodup := hi.userL_nodup; have f_sessL_iff := hi.sessL_iff; have f_rs_fwd := hi.rs_fwd; have f_rs_room := hi.rs_room; have f_virt := hi.virt; have f_children := hi.children; have f_vtable := hi.vtable; have f_conn_iff := hi.conn_iff; have f_conn_open := hi.conn_open; have f_eh := hi.eh; have f_expired := hi.expired; have f_anon := hi.anon; have f_dialout := hi.dialout; have f_count := hi.count; have f_orph_virt := hi.orph_virt; have f_incall := hi.incall; clear hi; (intros; (try simp only [hubf] at *); grind [mem_removeL, nodup_removeL, removeL_nil]))
   case room_mem =>
     by_cases hk : x.kind = .virtual <;> simp only [hk, if_true, if_false]
     all_goals first
       | (have f_room_mem := hi.room_mem; have f_mem_room := hi.mem_room; have f_fresh := hi.fresh; clear hi; (intros; (try simp only [hubf] at *); grind [mem_removeL, nodup_removeL, removeL_nil]))
-      | (have f_fresh := hi.fresh; have f_mem_room := hi.mem_room; have f_room_mem := hi.room_mem; have f_nonempty := hi.nonempty; have f_nodup := hi.nodup; have f_roomL_iff := hi.roomL_iff; have f_roomL_nodup := hi.roomL_nodup; have f_userL_iff := hi.userL_iff; have f_userL_nodup := hi.userL_nodup; have f_sessL_iff := hi.sessL_iff; have f_rs_fwd := hi.rs_fwd; have f_rs_room := hi.rs_room; have f_virt := hi.virt; have f_children := hi.children; have f_vtable := hi.vtable; have f_conn_iff := hi.conn_iff; have f_conn_open := hi.conn_open; have f_eh := hi.eh; have f_expired := hi.expired; have f_anon := hi.anon; have f_dialout := hi.dialout; have f_count := hi.count; have f_orph_virt := hi.orph_virt; clear hi; (intros; (try simp only [hubf] at *); grind [mem_removeL, nodup_removeL, removeL_nil]))
+      | (have f_fresh := hi.fresh; have f_mem_room := hi.mem_room; have f_room_mem := hi.room_mem; have f_nonempty := hi.nonempty; have f_nodup := hi.nodup; have f_roomL_iff := hi.roomL_iff; have f_roomL_nodup := hi.roomL_nodup; have f_userL_iff := hi.userL_iff; have f_userL_nodup := hi.userL_nodup; have f_sessL_iff := hi.sessL_iff; have f_rs_fwd := hi.rs_fwd; have f_rs_room := hi.rs_room; have f_virt := hi.virt; have f_children := hi.children; have f_vtable := hi.vtable; have f_conn_iff := hi.conn_iff; have f_conn_open := hi.conn_open; have f_eh := hi.eh; have f_expired := hi.expired; have f_anon := hi.anon; have f_dialout := hi.dialout; have f_count := hi.count; have f_orph_virt := hi.orph_virt; have f_incall := hi.incall; clear hi; (intros; (try simp only [hubf] at *); grind [mem_removeL, nodup_removeL, removeL_nil]))
   case nonempty =>
     by_cases hk : x.kind = .virtual <;> simp only [hk, if_true, if_false]
     all_goals first
       | (have f_nonempty := hi.nonempty; have f_mem_room := hi.mem_room; clear hi; (intros; (try simp only [hubf] at *); grind [mem_removeL, nodup_removeL, removeL_nil]))
-      | (have f_fresh := hi.fresh; have f_mem_room := hi.mem_room; have f_room_mem := hi.room_mem; have f_nonempty := hi.nonempty; have f_nodup := hi.nodup; have f_roomL_iff := hi.roomL_iff; have f_roomL_nodup := hi.roomL_nodup; have f_userL_iff := hi.userL_iff; have f_userL_nodup := hi.userL_nodup; have f_sessL_iff := hi.sessL_iff; have f_rs_fwd := hi.rs_fwd; have f_rs_room := hi.rs_room; have f_virt := hi.virt; have f_children := hi.children; have f_vtable := hi.vtable; have f_conn_iff := hi.conn_iff; have f_conn_open := hi.conn_open; have f_eh := hi.eh; have f_expired := hi.expired; have f_anon := hi.anon; have f_dialout := hi.dialout; have f_count := hi.count; have f_orph_virt := hi.orph_virt; clear hi; (intros; (try simp only [hubf] at *); grind [mem_removeL, nodup_removeL, removeL_nil]))
+      | (have f_fresh := hi.fresh; have f_mem_room := hi.mem_room; have f_room_mem := hi.room_mem; have f_nonempty := hi.nonempty; have f_nodup := hi.nodup; have f_roomL_iff := hi.roomL_iff; have f_roomL_nodup := hi.roomL_nodup; have f_userL_iff := hi.userL_iff; have f_userL_nodup := hi.userL_nodup; have f_sessL_iff := hi.sessL_iff; have f_rs_fwd := hi.rs_fwd; have f_rs_room := hi.rs_room; have f_virt := hi.virt; have f_children := hi.children; have f_vtable := hi.vtable; have f_conn_iff := hi.conn_iff; have f_conn_open := hi.conn_open; have f_eh := hi.eh; have f_expired := hi.expired; have f_anon := hi.anon; have f_dialout := hi.dialout; have f_count := hi.count; have f_orph_virt := hi.orph_virt; have f_incall := hi.incall; clear hi; (intros; (try simp only [hubf] at *); grind [mem_removeL, nodup_removeL, removeL_nil]))
   case nodup =>
     by_cases hk : x.kind = .virtual <;> simp only [hk, if_true, if_false]
     all_goals first
       | (have f_nodup := hi.nodup; clear hi; (intros; (try simp only [hubf] at *); grind [mem_removeL, nodup_removeL, removeL_nil]))
-      | (have f_fresh := hi.fresh; have f_mem_room := hi.mem_room; have f_room_mem := hi.room_mem; have f_nonempty := hi.nonempty; have f_nodup := hi.nodup; have f_roomL_iff := hi.roomL_iff; have f_roomL_nodup := hi.roomL_nodup; have f_userL_iff := hi.userL_iff; have f_userL_nodup := hi.userL_nodup; have f_sessL_iff := hi.sessL_iff; have f_rs_fwd := hi.rs_fwd; have f_rs_room := hi.rs_room; have f_virt := hi.virt; have f_children := hi.children; have f_vtable := hi.vtable; have f_conn_iff := hi.conn_iff; have f_conn_open := hi.conn_open; have f_eh := hi.eh; have f_expired := hi.expired; have f_anon := hi.anon; have f_dialout := hi.dialout; have f_count := hi.count; have f_orph_virt := hi.orph_virt; clear hi; (intros; (try simp only [hubf] at *); grind [mem_removeL, nodup_removeL, removeL_nil]))
+      | (have f_fresh := hi.fresh; have f_mem_room := hi.mem_room; have f_room_mem := hi.room_mem; have f_nonempty := hi.nonempty; have f_nodup := hi.nodup; have f_roomL_iff := hi.roomL_iff; have f_roomL_nodup := hi.roomL_nodup; have f_userL_iff := hi.userL_iff; have f_userL_nodup := hi.userL_nodup; have f_sessL_iff := hi.sessL_iff; have f_rs_fwd := hi.rs_fwd; have f_rs_room := hi.rs_room; have f_virt := hi.virt; have f_children := hi.children; have f_vtable := hi.vtable; have f_conn_iff := hi.conn_iff; have f_conn_open := hi.conn_open; have f_eh := hi.eh; have f_expired := hi.expired; have f_anon := hi.anon; have f_dialout := hi.dialout; have f_count := hi.count; have f_orph_virt := hi.orph_virt; have f_incall := hi.incall; clear hi; (intros; (try simp only [hubf] at *); grind [mem_removeL, nodup_removeL, removeL_nil]))
   case roomL_iff =>
     by_cases hk : x.kind = .virtual <;> simp only [hk, if_true, if_false]
     all_goals first
       | (have f_roomL_iff := hi.roomL_iff; have f_fresh := hi.fresh; have f_room_mem := hi.room_mem; have f_mem_room := hi.mem_room; clear hi; (intros; (try simp only [hubf] at *); grind [mem_removeL, nodup_removeL, removeL_nil]))
-      | (have f_fresh := hi.fresh; have f_mem_room := hi.mem_room; have f_room_mem := hi.room_mem; have f_nonempty := hi.nonempty; have f_nodup := hi.nodup; have f_roomL_iff := hi.roomL_iff; have f_roomL_nodup := hi.roomL_nodup; have f_userL_iff := hi.userL_iff; have f_userL_nodup := hi.userL_nodup; have f_sessL_iff := hi.sessL_iff; have f_rs_fwd := hi.rs_fwd; have f_rs_room := hi.rs_room; have f_virt := hi.virt; have f_children := hi.children; have f_vtable := hi.vtable; have f_conn_iff := hi.conn_iff; have f_conn_open := hi.conn_open; have f_eh := hi.eh; have f_expired := hi.expired; have f_anon := hi.anon; have f_dialout := hi.dialout; have f_count := hi.count; have f_orph_virt := hi.orph_virt; clear hi; (intros; (try simp only [hubf] at *); grind [mem_removeL, nodup_removeL, removeL_nil]))
+      | (have f_fresh := hi.fresh; have f_mem_room := hi.mem_room; have f_room_mem := hi.room_mem; have f_nonempty := hi.nonempty; have f_nodup := hi.nodup; have f_roomL_iff := hi.roomL_iff; have f_roomL_nodup := hi.roomL_nodup; have f_userL_iff := hi.userL_iff; have f_userL_nodup := hi.userL_nodup; have f_sessL_iff := hi.sessL_iff; have f_rs_fwd := hi.rs_fwd; have f_rs_room := hi.rs_room; have f_virt := hi.virt; have f_children := hi.children; have f_vtable := hi.vtable; have f_conn_iff := hi.conn_iff; have f_conn_open := hi.conn_open; have f_eh := hi.eh; have f_expired := hi.expired; have f_anon := hi.anon; have f_dialout := hi.dialout; have f_count := hi.count; have f_orph_virt := hi.orph_virt; have f_incall := hi.incall; clear hi; (intros; (try simp only [hubf] at *); grind [mem_removeL, nodup_removeL, removeL_nil]))
   case roomL_nodup =>
     by_cases hk : x.kind = .virtual <;> simp only [hk, if_true, if_false]
     all_goals first
       | (have f_roomL_nodup := hi.roomL_nodup; have f_roomL_iff := hi.roomL_iff; clear hi; (intros; (try simp only [hubf] at *); grind [mem_removeL, nodup_removeL, removeL_nil]))
-      | (have f_fresh := hi.fresh; have f_mem_room := hi.mem_room; have f_room_mem := hi.room_mem; have f_nonempty := hi.nonempty; have f_nodup := hi.nodup; have f_roomL_iff := hi.roomL_iff; have f_roomL_nodup := hi.roomL_nodup; have f_userL_iff := hi.userL_iff; have f_userL_nodup := hi.userL_nodup; have f_sessL_iff := hi.sessL_iff; have f_rs_fwd := hi.rs_fwd; have f_rs_room := hi.rs_room; have f_virt := hi.virt; have f_children := hi.children; have f_vtable := hi.vtable; have f_conn_iff := hi.conn_iff; have f_conn_open := hi.conn_open; have f_eh := hi.eh; have f_expired := hi.expired; have f_anon := hi.anon; have f_dialout := hi.dialout; have f_count := hi.count; have f_orph_virt := hi.orph_virt; clear hi; (intros; (try simp only [hubf] at *); grind [mem_removeL, nodup_removeL, removeL_nil]))
+      | (have f_fresh := hi.fresh; have f_mem_room := hi.mem_room; have f_room_mem := hi.room_mem; have f_nonempty := hi.nonempty; have f_nodup := hi.nodup; have f_roomL_iff := hi.roomL_iff; have f_roomL_nodup := hi.roomL_nodup; have f_userL_iff := hi.userL_iff; have f_userL_nodup := hi.userL_nodup; have f_sessL_iff := hi.sessL_iff; have f_rs_fwd := hi.rs_fwd; have f_rs_room := hi.rs_room; have f_virt := hi.virt; have f_children := hi.children; have f_vtable := hi.vtable; have f_conn_iff := hi.conn_iff; have f_conn_open := hi.conn_open; have f_eh := hi.eh; have f_expired := hi.expired; have f_anon := hi.anon; have f_dialout := hi.dialout; have f_count := hi.count; have f_orph_virt := hi.orph_virt; have f_incall := hi.incall; clear hi; (intros; (try simp only [hubf] at *); grind [mem_removeL, nodup_removeL, removeL_nil]))
   case userL_iff =>
     by_cases hk : x.kind = .virtual <;> simp only [hk, if_true, if_false]
     all_goals first
       | (have f_userL_iff := hi.userL_iff; have f_fresh := hi.fresh; clear hi; (intros; (try simp only [hubf] at *); grind [mem_removeL, nodup_removeL, removeL_nil]))
-      | (have f_fresh := hi.fresh; have f_mem_room := hi.mem_room; have f_room_mem := hi.room_mem; have f_nonempty := hi.nonempty; have f_nodup := hi.nodup; have f_roomL_iff := hi.roomL_iff; have f_roomL_nodup := hi.roomL_nodup; have f_userL_iff := hi.userL_iff; have f_userL_nodup := hi.userL_nodup; have f_sessL_iff := hi.sessL_iff; have f_rs_fwd := hi.rs_fwd; have f_rs_room := hi.rs_room; have f_virt := hi.virt; have f_children := hi.children; have f_vtable := hi.vtable; have f_conn_iff := hi.conn_iff; have f_conn_open := hi.conn_open; have f_eh := hi.eh; have f_expired := hi.expired; have f_anon := hi.anon; have f_dialout := hi.dialout; have f_count := hi.count; have f_orph_virt := hi.orph_virt; clear hi; (intros; (try simp only [hubf] at *); grind [mem_removeL, nodup_removeL, removeL_nil]))
+      | (have f_fresh := hi.fresh; have f_mem_room := hi.mem_room; have f_room_mem := hi.room_mem; have f_nonempty := hi.nonempty; have f_nodup := hi.nodup; have f_roomL_iff := hi.roomL_iff; have f_roomL_nodup := hi.roomL_nodup; have f_userL_iff := hi.userL_iff; have f_userL_nodup := hi.userL_nodup; have f_sessL_iff := hi.sessL_iff; have f_rs_fwd := hi.rs_fwd; have f_rs_room := hi.rs_room; have f_virt := hi.virt; have f_children := hi.children; have f_vtable := hi.vtable; have f_conn_iff := hi.conn_iff; have f_conn_open := hi.conn_open; have f_eh := hi.eh; have f_expired := hi.expired; have f_anon := hi.anon; have f_dialout := hi.dialout; have f_count := hi.count; have f_orph_virt := hi.orph_virt; have f_incall := hi.incall; clear hi; (intros; (try simp only [hubf] at *); grind [mem_removeL, nodup_removeL, removeL_nil]))
   case userL_nodup =>
     by_cases hk : x.kind = .virtual <;> simp only [hk, if_true, if_false]
     all_goals first
       | (have f_userL_nodup := hi.userL_nodup; have f_userL_iff := hi.userL_iff; clear hi; (intros; (try simp only [hubf] at *); grind [mem_removeL, nodup_removeL, removeL_nil]))
-      | (have f_fresh := hi.fresh; have f_mem_room := hi.mem_room; have f_room_mem := hi.room_mem; have f_nonempty := hi.nonempty; have f_nodup := hi.nodup; have f_roomL_iff := hi.roomL_iff; have f_roomL_nodup := hi.roomL_nodup; have f_userL_iff := hi.userL_iff; have f_userL_nodup := hi.userL_nodup; have f_sessL_iff := hi.sessL_iff; have f_rs_fwd := hi.rs_fwd; have f_rs_room := hi.rs_room; have f_virt := hi.virt; have f_children := hi.children; have f_vtable := hi.vtable; have f_conn_iff := hi.conn_iff; have f_conn_open := hi.conn_open; have f_eh := hi.eh; have f_expired := hi.expired; have f_anon := hi.anon; have f_dialout := hi.dialout; have f_count := hi.count; have f_orph_virt := hi.orph_virt; clear hi; (intros; (try simp only [hubf] at *); grind [mem_removeL, nodup_removeL, removeL_nil]))
+      | (have f_fresh := hi.fresh; have f_mem_room := hi.mem_room; have f_room_mem := hi.room_mem; have f_nonempty := hi.nonempty; have f_nodup := hi.nodup; have f_roomL_iff := hi.roomL_iff; have f_roomL_nodup := hi.roomL_nodup; have f_userL_iff := hi.userL_iff; have f_userL_nodup := hi.userL_nodup; have f_sessL_iff := hi.sessL_iff; have f_rs_fwd := hi.rs_fwd; have f_rs_room := hi.rs_room; have f_virt := hi.virt; have f_children := hi.children; have f_vtable := hi.vtable; have f_conn_iff := hi.conn_iff; have f_conn_open := hi.conn_open; have f_eh := hi.eh; have f_expired := hi.expired; have f_anon := hi.anon; have f_dialout := hi.dialout; have f_count := hi.count; have f_orph_virt := hi.orph_virt; have f_incall := hi.incall; clear hi; (intros; (try simp only [hubf] at *); grind [mem_removeL, nodup_removeL, removeL_nil]))
   case sessL_iff =>
     by_cases hk : x.kind = .virtual <;> simp only [hk, if_true, if_false]
     all_goals first
       | (have f_sessL_iff := hi.sessL_iff; have f_fresh := hi.fresh; clear hi; (intros; (try simp only [hubf] at *); grind [mem_removeL, nodup_removeL, removeL_nil]))
-      | (have f_fresh := hi.fresh; have f_mem_room := hi.mem_room; have f_room_mem := hi.room_mem; have f_nonempty := hi.nonempty; have f_nodup := hi.nodup; have f_roomL_iff := hi.roomL_iff; have f_roomL_nodup := hi.roomL_nodup; have f_userL_iff := hi.userL_iff; have f_userL_nodup := hi.userL_nodup; have f_sessL_iff := hi.sessL_iff; have f_rs_fwd := hi.rs_fwd; have f_rs_room := hi.rs_room; have f_virt := hi.virt; have f_children := hi.children; have f_vtable := hi.vtable; have f_conn_iff := hi.conn_iff; have f_conn_open := hi.conn_open; have f_eh := hi.eh; have f_expired := hi.expired; have f_anon := hi.anon; have f_dialout := hi.dialout; have f_count := hi.count; have f_orph_virt := hi.orph_virt; clear hi; (intros; (try simp only [hubf] at *); grind [mem_removeL, nodup_removeL, removeL_nil]))
+      | (have f_fresh := hi.fresh; have f_mem_room := hi.mem_room; have f_room_mem := hi.room_mem; have f_nonempty := hi.nonempty; have f_nodup := hi.nodup; have f_roomL_iff := hi.roomL_iff; have f_roomL_nodup := hi.roomL_nodup; have f_userL_iff := hi.userL_iff; have f_userL_nodup := hi.userL_nodup; have f_sessL_iff := hi.sessL_iff; have f_rs_fwd := hi.rs_fwd; have f_rs_room := hi.rs_room; have f_virt := hi.virt; have f_children := hi.children; have f_vtable := hi.vtable; have f_conn_iff := hi.conn_iff; have f_conn_open := hi.conn_open; have f_eh := hi.eh; have f_expired := hi.expired; have f_anon := hi.anon; have f_dialout := hi.dialout; have f_count := hi.count; have f_orph_virt := hi.orph_virt; have f_incall := hi.incall; clear hi; (intros; (try simp only [hubf] at *); grind [mem_removeL, nodup_removeL, removeL_nil]))
   case rs_fwd =>
     by_cases hk : x.kind = .virtual <;> simp only [hk, if_true, if_false]
     all_goals first
       | (have f_rs_fwd := hi.rs_fwd; have f_rs_room := hi.rs_room; have f_fresh := hi.fresh; clear hi; (intros; (try simp only [hubf] at *); grind [mem_removeL, nodup_removeL, removeL_nil]))
-      | (have f_fresh := hi.fresh; have f_mem_room := hi.mem_room; have f_room_mem := hi.room_mem; have f_nonempty := hi.nonempty; have f_nodup := hi.nodup; have f_roomL_iff := hi.roomL_iff; have f_roomL_nodup := hi.roomL_nodup; have f_userL_iff := hi.userL_iff; have f_userL_nodup := hi.userL_nodup; have f_sessL_iff := hi.sessL_iff; have f_rs_fwd := hi.rs_fwd; have f_rs_room := hi.rs_room; have f_virt := hi.virt; have f_children := hi.children; have f_vtable := hi.vtable; have f_conn_iff := hi.conn_iff; have f_conn_open := hi.conn_open; have f_eh := hi.eh; have f_expired := hi.expired; have f_anon := hi.anon; have f_dialout := hi.dialout; have f_count := hi.count; have f_orph_virt := hi.orph_virt; clear hi; (intros; (try simp only [hubf] at *); grind [mem_removeL, nodup_removeL, removeL_nil]))
+      | (have f_fresh := hi.fresh; have f_mem_room := hi.mem_room; have f_room_mem := hi.room_mem; have f_nonempty := hi.nonempty; have f_nodup := hi.nodup; have f_roomL_iff := hi.roomL_iff; have f_roomL_nodup := hi.roomL_nodup; have f_userL_iff := hi.userL_iff; have f_userL_nodup := hi.userL_nodup; have f_sessL_iff := hi.sessL_iff; have f_rs_fwd := hi.rs_fwd; have f_rs_room := hi.rs_room; have f_virt := hi.virt; have f_children := hi.children; have f_vtable := hi.vtable; have f_conn_iff := hi.conn_iff; have f_conn_open := hi.conn_open; have f_eh := hi.eh; have f_expired := hi.expired; have f_anon := hi.anon; have f_dialout := hi.dialout; have f_count := hi.count; have f_orph_virt := hi.orph_virt; have f_incall := hi.incall; clear hi; (intros; (try simp only [hubf] at *); grind [mem_removeL, nodup_removeL, removeL_nil]))
   case rs_room =>
     by_cases hk : x.kind = .virtual <;> simp only [hk, if_true, if_false]
     all_goals first
       | (have f_rs_room := hi.rs_room; have f_rs_fwd := hi.rs_fwd; have f_fresh := hi.fresh; have f_room_mem := hi.room_mem; clear hi; (intros; (try simp only [hubf] at *); grind [mem_removeL, nodup_removeL, removeL_nil]))
-      | (have f_fresh := hi.fresh; have f_mem_room := hi.mem_room; have f_room_mem := hi.room_mem; have f_nonempty := hi.nonempty; have f_nodup := hi.nodup; have f_roomL_iff := hi.roomL_iff; have f_roomL_nodup := hi.roomL_nodup; have f_userL_iff := hi.userL_iff; have f_userL_nodup := hi.userL_nodup; have f_sessL_iff := hi.sessL_iff; have f_rs_fwd := hi.rs_fwd; have f_rs_room := hi.rs_room; have f_virt := hi.virt; have f_children := hi.children; have f_vtable := hi.vtable; have f_conn_iff := hi.conn_iff; have f_conn_open := hi.conn_open; have f_eh := hi.eh; have f_expired := hi.expired; have f_anon := hi.anon; have f_dialout := hi.dialout; have f_count := hi.count; have f_orph_virt := hi.orph_virt; clear hi; (intros; (try simp only [hubf] at *); grind [mem_removeL, nodup_removeL, removeL_nil]))
+      | (have f_fresh := hi.fresh; have f_mem_room := hi.mem_room; have f_room_mem := hi.room_mem; have f_nonempty := hi.nonempty; have f_nodup := hi.nodup; have f_roomL_iff := hi.roomL_iff; have f_roomL_nodup := hi.roomL_nodup; have f_userL_iff := hi.userL_iff; have f_userL_nodup := hi.userL_nodup; have f_sessL_iff := hi.sessL_iff; have f_rs_fwd := hi.rs_fwd; have f_rs_room := hi.rs_room; have f_virt := hi.virt; have f_children := hi.children; have f_vtable := hi.vtable; have f_conn_iff := hi.conn_iff; have f_conn_open := hi.conn_open; have f_eh := hi.eh; have f_expired := hi.expired; have f_anon := hi.anon; have f_dialout := hi.dialout; have f_count := hi.count; have f_orph_virt := hi.orph_virt; have f_incall := hi.incall; clear hi; (intros; (try simp only [hubf] at *); grind [mem_removeL, nodup_removeL, removeL_nil]))
   case virt =>
     by_cases hk : x.kind = .virtual <;> simp only [hk, if_true, if_false]
     all_goals first
       | (have f_virt := hi.virt; have f_children := hi.children; have f_fresh := hi.fresh; clear hi; (intros; (try simp only [hubf] at *); grind [mem_removeL, nodup_removeL, removeL_nil]))
-      | (have f_fresh := hi.fresh; have f_mem_room := hi.mem_room; have f_room_mem := hi.room_mem; have f_nonempty := hi.nonempty; have f_nodup := hi.nodup; have f_roomL_iff := hi.roomL_iff; have f_roomL_nodup := hi.roomL_nodup; have f_userL_iff := hi.userL_iff; have f_userL_nodup := hi.userL_nodup; have f_sessL_iff := hi.sessL_iff; have f_rs_fwd := hi.rs_fwd; have f_rs_room := hi.rs_room; have f_virt := hi.virt; have f_children := hi.children; have f_vtable := hi.vtable; have f_conn_iff := hi.conn_iff; have f_conn_open := hi.conn_open; have f_eh := hi.eh; have f_expired := hi.expired; have f_anon := hi.anon; have f_dialout := hi.dialout; have f_count := hi.count; have f_orph_virt := hi.orph_virt; clear hi; (intros; (try simp only [hubf] at *); grind [mem_removeL, nodup_removeL, removeL_nil]))
+      | (have f_fresh := hi.fresh; have f_mem_room := hi.mem_room; have f_room_mem := hi.room_mem; have f_nonempty := hi.nonempty; have f_nodup := hi.nodup; have f_roomL_iff := hi.roomL_iff; have f_roomL_nodup := hi.roomL_nodup; have f_userL_iff := hi.userL_iff; have f_userL_nodup := hi.userL_nodup; have f_sessL_iff := hi.sessL_iff; have f_rs_fwd := hi.rs_fwd; have f_rs_room := hi.rs_room; have f_virt := hi.virt; have f_children := hi.children; have f_vtable := hi.vtable; have f_conn_iff := hi.conn_iff; have f_conn_open := hi.conn_open; have f_eh := hi.eh; have f_expired := hi.expired; have f_anon := hi.anon; have f_dialout := hi.dialout; have f_count := hi.count; have f_orph_virt := hi.orph_virt; have f_incall := hi.incall; clear hi; (intros; (try simp only [hubf] at *); grind [mem_removeL, nodup_removeL, removeL_nil]))
   case children =>
     by_cases hk : x.kind = .virtual <;> simp only [hk, if_true, if_false]
     all_goals first
       | (have f_children := hi.children; have f_virt := hi.virt; have f_fresh := hi.fresh; clear hi; (intros; (try simp only [hubf] at *); grind [mem_removeL, nodup_removeL, removeL_nil]))
-      | (have f_fresh := hi.fresh; have f_mem_room := hi.mem_room; have f_room_mem := hi.room_mem; have f_nonempty := hi.nonempty; have f_nodup := hi.nodup; have f_roomL_iff := hi.roomL_iff; have f_roomL_nodup := hi.roomL_nodup; have f_userL_iff := hi.userL_iff; have f_userL_nodup := hi.userL_nodup; have f_sessL_iff := hi.sessL_iff; have f_rs_fwd := hi.rs_fwd; have f_rs_room := hi.rs_room; have f_virt := hi.virt; have f_children := hi.children; have f_vtable := hi.vtable; have f_conn_iff := hi.conn_iff; have f_conn_open := hi.conn_open; have f_eh := hi.eh; have f_expired := hi.expired; have f_anon := hi.anon; have f_dialout := hi.dialout; have f_count := hi.count; have f_orph_virt := hi.orph_virt; clear hi; (intros; (try simp only [hubf] at *); grind [mem_removeL, nodup_removeL, removeL_nil]))
+      | (have f_fresh := hi.fresh; have f_mem_room := hi.mem_room; have f_room_mem := hi.room_mem; have f_nonempty := hi.nonempty; have f_nodup := hi.nodup; have f_roomL_iff := hi.roomL_iff; have f_roomL_nodup := hi.roomL_nodup; have f_userL_iff := hi.userL_iff; have f_userL_nodup := hi.userL_nodup; have f_sessL_iff := hi.sessL_iff; have f_rs_fwd := hi.rs_fwd; have f_rs_room := hi.rs_room; have f_virt := hi.virt; have f_children := hi.children; have f_vtable := hi.vtable; have f_conn_iff := hi.conn_iff; have f_conn_open := hi.conn_open; have f_eh := hi.eh; have f_expired := hi.expired; have f_anon := hi.anon; have f_dialout := hi.dialout; have f_count := hi.count; have f_orph_virt := hi.orph_virt; have f_incall := hi.incall; clear hi; (intros; (try simp only [hubf] at *); grind [mem_removeL, nodup_removeL, removeL_nil]))
   case vtable =>
     by_cases hk : x.kind = .virtual <;> simp only [hk, if_true, if_false]
     all_goals first
       | (have f_vtable := hi.vtable; have f_virt := hi.virt; have f_fresh := hi.fresh; clear hi; (intros; (try simp only [hubf] at *); grind [mem_removeL, nodup_removeL, removeL_nil]))
-      | (have f_fresh := hi.fresh; have f_mem_room := hi.mem_room; have f_room_mem := hi.room_mem; have f_nonempty := hi.nonempty; have f_nodup := hi.nodup; have f_roomL_iff := hi.roomL_iff; have f_roomL_nodup := hi.roomL_nodup; have f_userL_iff := hi.userL_iff; have f_userL_nodup := hi.userL_nodup; have f_sessL_iff := hi.sessL_iff; have f_rs_fwd := hi.rs_fwd; have f_rs_room := hi.rs_room; have f_virt := hi.virt; have f_children := hi.children; have f_vtable := hi.vtable; have f_conn_iff := hi.conn_iff; have f_conn_open := hi.conn_open; have f_eh := hi.eh; have f_expired := hi.expired; have f_anon := hi.anon; have f_dialout := hi.dialout; have f_count := hi.count; have f_orph_virt := hi.orph_virt; clear hi; (intros; (try simp only [hubf] at *); grind [mem_removeL, nodup_removeL, removeL_nil]))
+      | (have f_fresh := hi.fresh; have f_mem_room := hi.mem_room; have f_room_mem := hi.room_mem; have f_nonempty := hi.nonempty; have f_nodup := hi.nodup; have f_roomL_iff := hi.roomL_iff; have f_roomL_nodup := hi.roomL_nodup; have f_userL_iff := hi.userL_iff; have f_userL_nodup := hi.userL_nodup; have f_sessL_iff := hi.sessL_iff; have f_rs_fwd := hi.rs_fwd; have f_rs_room := hi.rs_room; have f_virt := hi.virt; have f_children := hi.children; have f_vtable := hi.vtable; have f_conn_iff := hi.conn_iff; have f_conn_open := hi.conn_open; have f_eh := hi.eh; have f_expired := hi.expired; have f_anon := hi.anon; have f_dialout := hi.dialout; have f_count := hi.count; have f_orph_virt := hi.orph_virt; have f_incall := hi.incall; clear hi; (intros; (try simp only [hubf] at *); grind [mem_removeL, nodup_removeL, removeL_nil]))
   case conn_iff =>
     by_cases hk : x.kind = .virtual <;> simp only [hk, if_true, if_false]
     all_goals first
       | (have f_conn_iff := hi.conn_iff; have f_fresh := hi.fresh; have f_virt := hi.virt; clear hi; (intros; (try simp only [hubf] at *); grind [mem_removeL, nodup_removeL, removeL_nil]))
-      | (have f_fresh := hi.fresh; have f_mem_room := hi.mem_room; have f_room_mem := hi.room_mem; have f_nonempty := hi.nonempty; have f_nodup := hi.nodup; have f_roomL_iff := hi.roomL_iff; have f_roomL_nodup := hi.roomL_nodup; have f_userL_iff := hi.userL_iff; have f_userL_nodup := hi.userL_nodup; have f_sessL_iff := hi.sessL_iff; have f_rs_fwd := hi.rs_fwd; have f_rs_room := hi.rs_room; have f_virt := hi.virt; have f_children := hi.children; have f_vtable := hi.vtable; have f_conn_iff := hi.conn_iff; have f_conn_open := hi.conn_open; have f_eh := hi.eh; have f_expired := hi.expired; have f_anon := hi.anon; have f_dialout := hi.dialout; have f_count := hi.count; have f_orph_virt := hi.orph_virt; clear hi; (intros; (try simp only [hubf] at *); grind [mem_removeL, nodup_removeL, removeL_nil]))
+      | (have f_fresh := hi.fresh; have f_mem_room := hi.mem_room; have f_room_mem := hi.room_mem; have f_nonempty := hi.nonempty; have f_nodup := hi.nodup; have f_roomL_iff := hi.roomL_iff; have f_roomL_nodup := hi.roomL_nodup; have f_userL_iff := hi.userL_iff; have f_userL_nodup := hi.userL_nodup; have f_sessL_iff := hi.sessL_iff; have f_rs_fwd := hi.rs_fwd; have f_rs_room := hi.rs_room; have f_virt := hi.virt; have f_children := hi.children; have f_vtable := hi.vtable; have f_conn_iff := hi.conn_iff; have f_conn_open := hi.conn_open; have f_eh := hi.eh; have f_expired := hi.expired; have f_anon := hi.anon; have f_dialout := hi.dialout; have f_count := hi.count; have f_orph_virt := hi.orph_virt; have f_incall := hi.incall; clear hi; (intros; (try simp only [hubf] at *); grind [mem_removeL, nodup_removeL, removeL_nil]))
   case conn_open =>
     by_cases hk : x.kind = .virtual <;> simp only [hk, if_true, if_false]
     all_goals first
       | (have f_conn_open := hi.conn_open; have f_conn_iff := hi.conn_iff; clear hi; (intros; (try simp only [hubf] at *); grind [mem_removeL, nodup_removeL, removeL_nil]))
-      | (have f_fresh := hi.fresh; have f_mem_room := hi.mem_room; have f_room_mem := hi.room_mem; have f_nonempty := hi.nonempty; have f_nodup := hi.nodup; have f_roomL_iff := hi.roomL_iff; have f_roomL_nodup := hi.roomL_nodup; have f_userL_iff := hi.userL_iff; have f_userL_nodup := hi.userL_nodup; have f_sessL_iff := hi.sessL_iff; have f_rs_fwd := hi.rs_fwd; have f_rs_room := hi.rs_room; have f_virt := hi.virt; have f_children := hi.children; have f_vtable := hi.vtable; have f_conn_iff := hi.conn_iff; have f_conn_open := hi.conn_open; have f_eh := hi.eh; have f_expired := hi.expired; have f_anon := hi.anon; have f_dialout := hi.dialout; have f_count := hi.count; have f_orph_virt := hi.orph_virt; clear hi; (intros; (try simp only [hubf] at *); grind [mem_removeL, nodup_removeL, removeL_nil]))
+      | (have f_fresh := hi.fresh; have f_mem_room := hi.mem_room; have f_room_mem := hi.room_mem; have f_nonempty := hi.nonempty; have f_nodup := hi.nodup; have f_roomL_iff := hi.roomL_iff; have f_roomL_nodup := hi.roomL_nodup; have f_userL_iff := hi.userL_iff; have f_userL_nodup := hi.userL_nodup; have f_sessL_iff := hi.sessL_iff; have f_rs_fwd := hi.rs_fwd; have f_rs_room := hi.rs_room; have f_virt := hi.virt; have f_children := hi.children; have f_vtable := hi.vtable; have f_conn_iff := hi.conn_iff; have f_conn_open := hi.conn_open; have f_eh := hi.eh; have f_expired := hi.expired; have f_anon := hi.anon; have f_dialout := hi.dialout; have f_count := hi.count; have f_orph_virt := hi.orph_virt; have f_incall := hi.incall; clear hi; (intros; (try simp only [hubf] at *); grind [mem_removeL, nodup_removeL, removeL_nil]))
   case eh =>
     by_cases hk : x.kind = .virtual <;> simp only [hk, if_true, if_false]
     all_goals first
       | (have f_eh := hi.eh; have f_conn_iff := hi.conn_iff; have f_conn_open := hi.conn_open; clear hi; (intros; (try simp only [hubf] at *); grind [mem_removeL, nodup_removeL, removeL_nil]))
-      | (have f_fresh := hi.fresh; have f_mem_room := hi.mem_room; have f_room_mem := hi.room_mem; have f_nonempty := hi.nonempty; have f_nodup := hi.nodup; have f_roomL_iff := hi.roomL_iff; have f_roomL_nodup := hi.roomL_nodup; have f_userL_iff := hi.userL_iff; have f_userL_nodup := hi.userL_nodup; have f_sessL_iff := hi.sessL_iff; have f_rs_fwd := hi.rs_fwd; have f_rs_room := hi.rs_room; have f_virt := hi.virt; have f_children := hi.children; have f_vtable := hi.vtable; have f_conn_iff := hi.conn_iff; have f_conn_open := hi.conn_open; have f_eh := hi.eh; have f_expired := hi.expired; have f_anon := hi.anon; have f_dialout := hi.dialout; have f_count := hi.count; have f_orph_virt := hi.orph_virt; clear hi; (intros; (try simp only [hubf] at *); grind [mem_removeL, nodup_removeL, removeL_nil]))
+      | (have f_fresh := hi.fresh; have f_mem_room := hi.mem_room; have f_room_mem := hi.room_mem; have f_nonempty := hi.nonempty; have f_nodup := hi.nodup; have f_roomL_iff := hi.roomL_iff; have f_roomL_nodup := hi.roomL_nodup; have f_userL_iff := hi.userL_iff; have f_userL_nodup := hi.userL_nodup; have f_sessL_iff := hi.sessL_iff; have f_rs_fwd := hi.rs_fwd; have f_rs_room := hi.rs_room; have f_virt := hi.virt; have f_children := hi.children; have f_vtable := hi.vtable; have f_conn_iff := hi.conn_iff; have f_conn_open := hi.conn_open; have f_eh := hi.eh; have f_expired := hi.expired; have f_anon := hi.anon; have f_dialout := hi.dialout; have f_count := hi.count; have f_orph_virt := hi.orph_virt; have f_incall := hi.incall; clear hi; (intros; (try simp only [hubf] at *); grind [mem_removeL, nodup_removeL, removeL_nil]))
   case expired =>
     by_cases hk : x.kind = .virtual <;> simp only [hk, if_true, if_false]
     all_goals first
       | (have f_expired := hi.expired; have f_fresh := hi.fresh; clear hi; (intros; (try simp only [hubf] at *); grind [mem_removeL, nodup_removeL, removeL_nil]))
-      | (have f_fresh := hi.fresh; have f_mem_room := hi.mem_room; have f_room_mem := hi.room_mem; have f_nonempty := hi.nonempty; have f_nodup := hi.nodup; have f_roomL_iff := hi.roomL_iff; have f_roomL_nodup := hi.roomL_nodup; have f_userL_iff := hi.userL_iff; have f_userL_nodup := hi.userL_nodup; have f_sessL_iff := hi.sessL_iff; have f_rs_fwd := hi.rs_fwd; have f_rs_room := hi.rs_room; have f_virt := hi.virt; have f_children := hi.children; have f_vtable := hi.vtable; have f_conn_iff := hi.conn_iff; have f_conn_open := hi.conn_open; have f_eh := hi.eh; have f_expired := hi.expired; have f_anon := hi.anon; have f_dialout := hi.dialout; have f_count := hi.count; have f_orph_virt := hi.orph_virt; clear hi; (intros; (try simp only [hubf] at *); grind [mem_removeL, nodup_removeL, removeL_nil]))
+      | (have f_fresh := hi.fresh; have f_mem_room := hi.mem_room; have f_room_mem := hi.room_mem; have f_nonempty := hi.nonempty; have f_nodup := hi.nodup; have f_roomL_iff := hi.roomL_iff; have f_roomL_nodup := hi.roomL_nodup; have f_userL_iff := hi.userL_iff; have f_userL_nodup := hi.userL_nodup; have f_sessL_iff := hi.sessL_iff; have f_rs_fwd := hi.rs_fwd; have f_rs_room := hi.rs_room; have f_virt := hi.virt; have f_children := hi.children; have f_vtable := hi.vtable; have f_conn_iff := hi.conn_iff; have f_conn_open := hi.conn_open; have f_eh := hi.eh; have f_expired := hi.expired; have f_anon := hi.anon; have f_dialout := hi.dialout; have f_count := hi.count; have f_orph_virt := hi.orph_virt; have f_incall := hi.incall; clear hi; (intros; (try simp only [hubf] at *); grind [mem_removeL, nodup_removeL, removeL_nil]))
   case anon =>
     by_cases hk : x.kind = .virtual <;> simp only [hk, if_true, if_false]
     all_goals first
       | (have f_anon := hi.anon; have f_fresh := hi.fresh; clear hi; (intros; (try simp only [hubf] at *); grind [mem_removeL, nodup_removeL, removeL_nil]))
-      | (have f_fresh := hi.fresh; have f_mem_room := hi.mem_room; have f_room_mem := hi.room_mem; have f_nonempty := hi.nonempty; have f_nodup := hi.nodup; have f_roomL_iff := hi.roomL_iff; have f_roomL_nodup := hi.roomL_nodup; have f_userL_iff := hi.userL_iff; have f_userL_nodup := hi.userL_nodup; have f_sessL_iff := hi.sessL_iff; have f_rs_fwd := hi.rs_fwd; have f_rs_room := hi.rs_room; have f_virt := hi.virt; have f_children := hi.children; have f_vtable := hi.vtable; have f_conn_iff := hi.conn_iff; have f_conn_open := hi.conn_open; have f_eh := hi.eh; have f_expired := hi.expired; have f_anon := hi.anon; have f_dialout := hi.dialout; have f_count := hi.count; have f_orph_virt := hi.orph_virt; clear hi; (intros; (try simp only [hubf] at *); grind [mem_removeL, nodup_removeL, removeL_nil]))
+      | (have f_fresh := hi.fresh; have f_mem_room := hi.mem_room; have f_room_mem := hi.room_mem; have f_nonempty := hi.nonempty; have f_nodup := hi.nodup; have f_roomL_iff := hi.roomL_iff; have f_roomL_nodup := hi.roomL_nodup; have f_userL_iff := hi.userL_iff; have f_userL_nodup := hi.userL_nodup; have f_sessL_iff := hi.sessL_iff; have f_rs_fwd := hi.rs_fwd; have f_rs_room := hi.rs_room; have f_virt := hi.virt; have f_children := hi.children; have f_vtable := hi.vtable; have f_conn_iff := hi.conn_iff; have f_conn_open := hi.conn_open; have f_eh := hi.eh; have f_expired := hi.expired; have f_anon := hi.anon; have f_dialout := hi.dialout; have f_count := hi.count; have f_orph_virt := hi.orph_virt; have f_incall := hi.incall; clear hi; (intros; (try simp only [hubf] at *); grind [mem_removeL, nodup_removeL, removeL_nil]))
   case dialout =>
     by_cases hk : x.kind = .virtual <;> simp only [hk, if_true, if_false]
     all_goals first
       | (have f_dialout := hi.dialout; have f_fresh := hi.fresh; clear hi; (intros; (try simp only [hubf] at *); grind [mem_removeL, nodup_removeL, removeL_nil]))
-      | (have f_fresh := hi.fresh; have f_mem_room := hi.mem_room; have f_room_mem := hi.room_mem; have f_nonempty := hi.nonempty; have f_nodup := hi.nodup; have f_roomL_iff := hi.roomL_iff; have f_roomL_nodup := hi.roomL_nodup; have f_userL_iff := hi.userL_iff; have f_userL_nodup := hi.userL_nodup; have f_sessL_iff := hi.sessL_iff; have f_rs_fwd := hi.rs_fwd; have f_rs_room := hi.rs_room; have f_virt := hi.virt; have f_children := hi.children; have f_vtable := hi.vtable; have f_conn_iff := hi.conn_iff; have f_conn_open := hi.conn_open; have f_eh := hi.eh; have f_expired := hi.expired; have f_anon := hi.anon; have f_dialout := hi.dialout; have f_count := hi.count; have f_orph_virt := hi.orph_virt; clear hi; (intros; (try simp only [hubf] at *); grind [mem_removeL, nodup_removeL, removeL_nil]))
+      | (have f_fresh := hi.fresh; have f_mem_room := hi.mem_room; have f_room_mem := hi.room_mem; have f_nonempty := hi.nonempty; have f_nodup := hi.nodup; have f_roomL_iff := hi.roomL_iff; have f_roomL_nodup := hi.roomL_nodup; have f_userL_iff := hi.userL_iff; have f_userL_nodup := hi.userL_nodup; have f_sessL_iff := hi.sessL_iff; have f_rs_fwd := hi.rs_fwd; have f_rs_room := hi.rs_room; have f_virt := hi.virt; have f_children := hi.children; have f_vtable := hi.vtable; have f_conn_iff := hi.conn_iff; have f_conn_open := hi.conn_open; have f_eh := hi.eh; have f_expired := hi.expired; have f_anon := hi.anon; have f_dialout := hi.dialout; have f_count := hi.count; have f_orph_virt := hi.orph_virt; have f_incall := hi.incall; clear hi; (intros; (try simp only [hubf] at *); grind [mem_removeL, nodup_removeL, removeL_nil]))
   case count =>
     by_cases hk : x.kind = .virtual <;> simp only [hk, if_true, if_false]
     all_goals first
       | (have f_count := hi.count; have f_fresh := hi.fresh; clear hi; (intros; (try simp only [hubf] at *); grind [mem_removeL, nodup_removeL, removeL_nil]))
-      | (have f_fresh := hi.fresh; have f_mem_room := hi.mem_room; have f_room_mem := hi.room_mem; have f_nonempty := hi.nonempty; have f_nodup := hi.nodup; have f_roomL_iff := hi.roomL_iff; have f_roomL_nodup := hi.roomL_nodup; have f_userL_iff := hi.userL_iff; have f_userL_nodup := hi.userL_nodup; have f_sessL_iff := hi.sessL_iff; have f_rs_fwd := hi.rs_fwd; have f_rs_room := hi.rs_room; have f_virt := hi.virt; have f_children := hi.children; have f_vtable := hi.vtable; have f_conn_iff := hi.conn_iff; have f_conn_open := hi.conn_open; have f_eh := hi.eh; have f_expired := hi.expired; have f_anon := hi.anon; have f_dialout := hi.dialout; have f_count := hi.count; have f_orph_virt := hi.orph_virt; clear hi; (intros; (try simp only [hubf] at *); grind [mem_removeL, nodup_removeL, removeL_nil]))
+      | (have f_fresh := hi.fresh; have f_mem_room := hi.mem_room; have f_room_mem := hi.room_mem; have f_nonempty := hi.nonempty; have f_nodup := hi.nodup; have f_roomL_iff := hi.roomL_iff; have f_roomL_nodup := hi.roomL_nodup; have f_userL_iff := hi.userL_iff; have f_userL_nodup := hi.userL_nodup; have f_sessL_iff := hi.sessL_iff; have f_rs_fwd := hi.rs_fwd; have f_rs_room := hi.rs_room; have f_virt := hi.virt; have f_children := hi.children; have f_vtable := hi.vtable; have f_conn_iff := hi.conn_iff; have f_conn_open := hi.conn_open; have f_eh := hi.eh; have f_expired := hi.expired; have f_anon := hi.anon; have f_dialout := hi.dialout; have f_count := hi.count; have f_orph_virt := hi.orph_virt; have f_incall := hi.incall; clear hi; (intros; (try simp only [hubf] at *); grind [mem_removeL, nodup_removeL, removeL_nil]))
   case orph_virt =>
     by_cases hk : x.kind = .virtual <;> simp only [hk, if_true, if_false]
     all_goals first
       | (have f_orph_virt := hi.orph_virt; have f_fresh := hi.fresh; have f_children := hi.children; have f_virt := hi.virt; clear hi; (intros; (try simp only [hubf] at *); grind [mem_removeL, nodup_removeL, removeL_nil]))
-      | (have f_fresh := hi.fresh; have f_mem_room := hi.mem_room; have f_room_mem := hi.room_mem; have f_nonempty := hi.nonempty; have f_nodup := hi.nodup; have f_roomL_iff := hi.roomL_iff; have f_roomL_nodup := hi.roomL_nodup; have f_userL_iff := hi.userL_iff; have f_userL_nodup := hi.userL_nodup; have f_sessL_iff := hi.sessL_iff; have f_rs_fwd := hi.rs_fwd; have f_rs_room := hi.rs_room; have f_virt := hi.virt; have f_children := hi.children; have f_vtable := hi.vtable; have f_conn_iff := hi.conn_iff; have f_conn_open := hi.conn_open; have f_eh := hi.eh; have f_expired := hi.expired; have f_anon := hi.anon; have f_dialout := hi.dialout; have f_count := hi.count; have f_orph_virt := hi.orph_virt; clear hi; (intros; (try simp only [hubf] at *); grind [mem_removeL, nodup_removeL, removeL_nil]))
+      | (have f_fresh := hi.fresh; have f_mem_room := hi.mem_room; have f_room_mem := hi.room_mem; have f_nonempty := hi.nonempty; have f_nodup := hi.nodup; have f_roomL_iff := hi.roomL_iff; have f_roomL_nodup := hi.roomL_nodup; have f_userL_iff := hi.userL_iff; have f_userL_nodup := hi.userL_nodup; have f_sessL_iff := hi.sessL_iff; have f_rs_fwd := hi.rs_fwd; have f_rs_room := hi.rs_room; have f_virt := hi.virt; have f_children := hi.children; have f_vtable := hi.vtable; have f_conn_iff := hi.conn_iff; have f_conn_open := hi.conn_open; have f_eh := hi.eh; have f_expired := hi.expired; have f_anon := hi.anon; have f_dialout := hi.dialout; have f_count := hi.count; have f_orph_virt := hi.orph_virt; have f_incall := hi.incall; clear hi; (intros; (try simp only [hubf] at *); grind [mem_removeL, nodup_removeL, removeL_nil]))
+  case incall =>
+    by_cases hk : x.kind = .virtual <;> simp only [hk, if_true, if_false]
+    all_goals first
+      | (have f_incall := hi.incall; have f_mem_room := hi.mem_room; clear hi; (intros; (try simp only [hubf] at *); grind [mem_removeL, nodup_removeL, removeL_nil]))
+      | (have f_fresh := hi.fresh; have f_mem_room := hi.mem_room; have f_room_mem := hi.room_mem; have f_nonempty := hi.nonempty; have f_nodup := hi.nodup; have f_roomL_iff := hi.roomL_iff; have f_roomL_nodup := hi.roomL_nodup; have f_userL_iff := hi.userL_iff; have f_userL_nodup := hi.userL_nodup; have f_sessL_iff := hi.sessL_iff; have f_rs_fwd := hi.rs_fwd; have f_rs_room := hi.rs_room; have f_virt := hi.virt; have f_children := hi.children; have f_vtable := hi.vtable; have f_conn_iff := hi.conn_iff; have f_conn_open := hi.conn_open; have f_eh := hi.eh; have f_expired := hi.expired; have f_anon := hi.anon; have f_dialout := hi.dialout; have f_count := hi.count; have f_orph_virt := hi.orph_virt; have f_incall := hi.incall; clear hi; (intros; (try simp only [hubf] at *); grind [mem_removeL, nodup_removeL, removeL_nil]))
 
 theorem InvG.weaken_room {R R' : Nat → Sess → String → Prop} {orph : List Nat} {h : Hub}
     (hRR : ∀ s x r, h.sess s = some x → x.room = some r → R s x r → R' s x r) (hi : InvG R orph h) : InvG R' orph h := by
-  obtain ⟨f1, f2, f3, f4, f5, f6, f7, f8, f9, f10, f11, f12, f13, f14, f15, f16, f17, f18, f19, f20, f21, f22, f23⟩ := hi
+  obtain ⟨f1, f2, f3, f4, f5, f6, f7, f8, f9, f10, f11, f12, f13, f14, f15, f16, f17, f18, f19, f20, f21, f22, f23, f24⟩ := hi
   constructor
   all_goals first | assumption | skip
   · intro s x r hx hr
@@ -1460,7 +1552,7 @@ theorem stepAcc_inv (a : Acc) (op : Op) (hi : Inv a.h) : Inv (stepAcc a op).h :=
   | api b r req => exact processApi_inv a b r req hi
   | setLimit b l =>
     simp only [stepAcc]
-    obtain ⟨f1, f2, f3, f4, f5, f6, f7, f8, f9, f10, f11, f12, f13, f14, f15, f16, f17, f18, f19, f20, f21, f22, f23⟩ := hi
+    obtain ⟨f1, f2, f3, f4, f5, f6, f7, f8, f9, f10, f11, f12, f13, f14, f15, f16, f17, f18, f19, f20, f21, f22, f23, f24⟩ := hi
     constructor <;> assumption
 
 theorem step_inv (h : Hub) (op : Op) (hi : Inv h) : Inv (step h op).1 := by
